@@ -1570,10 +1570,10 @@ Definition gen_evals_by_head : list (bytes * list (list bytes * option (list (by
     ([tok_5; tok_2; tok_6; tok_4], Some [(fld_0, (B "csv")); (fld_2, v_na); (fld_10, v_true); (fld_30, (B "json")); (fld_31, v_na); (fld_32, (B ";")); (fld_33, (B ":")); (fld_37, v_true); (fld_38, v_true); (fld_65, v_false); (fld_66, v_true)]);
     ([tok_7; tok_2; tok_8; tok_2], Some [(fld_0, (B "csv")); (fld_2, v_na); (fld_3, (B ";")); (fld_10, v_true); (fld_30, (B "json")); (fld_31, (B ";")); (fld_32, v_na); (fld_33, v_na); (fld_39, v_true); (fld_65, v_false); (fld_66, v_true)])]);
   (tok_87, [
-    ([], Some [(fld_0, (B "csv")); (fld_2, v_na); (fld_10, v_true); (fld_30, (B "json")); (fld_31, v_na); (fld_32, v_na); (fld_33, v_na); (fld_47, v_false); (fld_48, v_false); (fld_65, v_false); (fld_66, v_true)]);
-    ([tok_1; tok_2; tok_3; tok_4], Some [(fld_0, (B "csv")); (fld_1, (B ";")); (fld_2, (B ":")); (fld_8, v_true); (fld_9, v_true); (fld_10, v_true); (fld_30, (B "json")); (fld_31, v_na); (fld_32, v_na); (fld_33, v_na); (fld_47, v_false); (fld_48, v_false); (fld_65, v_false); (fld_66, v_true)]);
-    ([tok_5; tok_2; tok_6; tok_4], Some [(fld_0, (B "csv")); (fld_2, v_na); (fld_10, v_true); (fld_30, (B "json")); (fld_31, v_na); (fld_32, (B ";")); (fld_33, (B ":")); (fld_37, v_true); (fld_38, v_true); (fld_47, v_false); (fld_48, v_false); (fld_65, v_false); (fld_66, v_true)]);
-    ([tok_7; tok_2; tok_8; tok_2], Some [(fld_0, (B "csv")); (fld_2, v_na); (fld_3, (B ";")); (fld_10, v_true); (fld_30, (B "json")); (fld_31, (B ";")); (fld_32, v_na); (fld_33, v_na); (fld_39, v_true); (fld_47, v_false); (fld_48, v_false); (fld_65, v_false); (fld_66, v_true)])]);
+    ([], Some [(fld_0, (B "csv")); (fld_2, v_na); (fld_10, v_true); (fld_30, (B "jsonl")); (fld_31, (B "")); (fld_32, (B "")); (fld_33, (B "")); (fld_65, v_false); (fld_66, v_true)]);
+    ([tok_1; tok_2; tok_3; tok_4], Some [(fld_0, (B "csv")); (fld_1, (B ";")); (fld_2, (B ":")); (fld_8, v_true); (fld_9, v_true); (fld_10, v_true); (fld_30, (B "jsonl")); (fld_31, (B "")); (fld_32, (B "")); (fld_33, (B "")); (fld_65, v_false); (fld_66, v_true)]);
+    ([tok_5; tok_2; tok_6; tok_4], Some [(fld_0, (B "csv")); (fld_2, v_na); (fld_10, v_true); (fld_30, (B "jsonl")); (fld_31, (B "")); (fld_32, (B ";")); (fld_33, (B ":")); (fld_37, v_true); (fld_38, v_true); (fld_65, v_false); (fld_66, v_true)]);
+    ([tok_7; tok_2; tok_8; tok_2], Some [(fld_0, (B "csv")); (fld_2, v_na); (fld_3, (B ";")); (fld_10, v_true); (fld_30, (B "jsonl")); (fld_31, (B ";")); (fld_32, (B "")); (fld_33, (B "")); (fld_39, v_true); (fld_65, v_false); (fld_66, v_true)])]);
   (tok_88, [
     ([], Some [(fld_0, (B "csv")); (fld_2, v_na); (fld_10, v_true); (fld_30, (B "markdown")); (fld_32, (B " ")); (fld_33, v_na)]);
     ([tok_1; tok_2; tok_3; tok_4], Some [(fld_0, (B "csv")); (fld_1, (B ";")); (fld_2, (B ":")); (fld_8, v_true); (fld_9, v_true); (fld_10, v_true); (fld_30, (B "markdown")); (fld_32, (B " ")); (fld_33, v_na)]);
@@ -1620,10 +1620,10 @@ Definition gen_evals_by_head : list (bytes * list (list bytes * option (list (by
     ([tok_5; tok_2; tok_6; tok_4], Some [(fld_30, (B "json")); (fld_31, v_na); (fld_32, (B ";")); (fld_33, (B ":")); (fld_37, v_true); (fld_38, v_true); (fld_65, v_false); (fld_66, v_true)]);
     ([tok_7; tok_2; tok_8; tok_2], Some [(fld_3, (B ";")); (fld_10, v_true); (fld_30, (B "json")); (fld_31, (B ";")); (fld_32, v_na); (fld_33, v_na); (fld_39, v_true); (fld_65, v_false); (fld_66, v_true)])]);
   (tok_97, [
-    ([], Some [(fld_30, (B "json")); (fld_31, v_na); (fld_32, v_na); (fld_33, v_na); (fld_47, v_false); (fld_48, v_false); (fld_65, v_false); (fld_66, v_true)]);
-    ([tok_1; tok_2; tok_3; tok_4], Some [(fld_1, (B ";")); (fld_2, (B ":")); (fld_8, v_true); (fld_9, v_true); (fld_30, (B "json")); (fld_31, v_na); (fld_32, v_na); (fld_33, v_na); (fld_47, v_false); (fld_48, v_false); (fld_65, v_false); (fld_66, v_true)]);
-    ([tok_5; tok_2; tok_6; tok_4], Some [(fld_30, (B "json")); (fld_31, v_na); (fld_32, (B ";")); (fld_33, (B ":")); (fld_37, v_true); (fld_38, v_true); (fld_47, v_false); (fld_48, v_false); (fld_65, v_false); (fld_66, v_true)]);
-    ([tok_7; tok_2; tok_8; tok_2], Some [(fld_3, (B ";")); (fld_10, v_true); (fld_30, (B "json")); (fld_31, (B ";")); (fld_32, v_na); (fld_33, v_na); (fld_39, v_true); (fld_47, v_false); (fld_48, v_false); (fld_65, v_false); (fld_66, v_true)])]);
+    ([], Some [(fld_30, (B "jsonl")); (fld_31, (B "")); (fld_32, (B "")); (fld_33, (B "")); (fld_65, v_false); (fld_66, v_true)]);
+    ([tok_1; tok_2; tok_3; tok_4], Some [(fld_1, (B ";")); (fld_2, (B ":")); (fld_8, v_true); (fld_9, v_true); (fld_30, (B "jsonl")); (fld_31, (B "")); (fld_32, (B "")); (fld_33, (B "")); (fld_65, v_false); (fld_66, v_true)]);
+    ([tok_5; tok_2; tok_6; tok_4], Some [(fld_30, (B "jsonl")); (fld_31, (B "")); (fld_32, (B ";")); (fld_33, (B ":")); (fld_37, v_true); (fld_38, v_true); (fld_65, v_false); (fld_66, v_true)]);
+    ([tok_7; tok_2; tok_8; tok_2], Some [(fld_3, (B ";")); (fld_10, v_true); (fld_30, (B "jsonl")); (fld_31, (B ";")); (fld_32, (B "")); (fld_33, (B "")); (fld_39, v_true); (fld_65, v_false); (fld_66, v_true)])]);
   (tok_98, [
     ([], Some [(fld_30, (B "markdown")); (fld_32, (B " ")); (fld_33, v_na)]);
     ([tok_1; tok_2; tok_3; tok_4], Some [(fld_1, (B ";")); (fld_2, (B ":")); (fld_8, v_true); (fld_9, v_true); (fld_30, (B "markdown")); (fld_32, (B " ")); (fld_33, v_na)]);
@@ -1670,10 +1670,10 @@ Definition gen_evals_by_head : list (bytes * list (list bytes * option (list (by
     ([tok_5; tok_2; tok_6; tok_4], Some [(fld_0, (B "json")); (fld_1, v_na); (fld_2, v_na); (fld_3, v_na); (fld_32, (B ";")); (fld_33, (B ":")); (fld_37, v_true); (fld_38, v_true)]);
     ([tok_7; tok_2; tok_8; tok_2], Some [(fld_0, (B "json")); (fld_1, v_na); (fld_2, v_na); (fld_3, (B ";")); (fld_10, v_true); (fld_31, (B ";")); (fld_39, v_true)])]);
   (tok_107, [
-    ([], Some [(fld_0, (B "json")); (fld_1, v_na); (fld_2, v_na); (fld_3, v_na); (fld_30, (B "json")); (fld_31, v_na); (fld_32, v_na); (fld_33, v_na); (fld_47, v_false); (fld_48, v_false); (fld_65, v_false)]);
-    ([tok_1; tok_2; tok_3; tok_4], Some [(fld_0, (B "json")); (fld_1, (B ";")); (fld_2, (B ":")); (fld_3, v_na); (fld_8, v_true); (fld_9, v_true); (fld_30, (B "json")); (fld_31, v_na); (fld_32, v_na); (fld_33, v_na); (fld_47, v_false); (fld_48, v_false); (fld_65, v_false)]);
-    ([tok_5; tok_2; tok_6; tok_4], Some [(fld_0, (B "json")); (fld_1, v_na); (fld_2, v_na); (fld_3, v_na); (fld_30, (B "json")); (fld_31, v_na); (fld_32, (B ";")); (fld_33, (B ":")); (fld_37, v_true); (fld_38, v_true); (fld_47, v_false); (fld_48, v_false); (fld_65, v_false)]);
-    ([tok_7; tok_2; tok_8; tok_2], Some [(fld_0, (B "json")); (fld_1, v_na); (fld_2, v_na); (fld_3, (B ";")); (fld_10, v_true); (fld_30, (B "json")); (fld_31, (B ";")); (fld_32, v_na); (fld_33, v_na); (fld_39, v_true); (fld_47, v_false); (fld_48, v_false); (fld_65, v_false)])]);
+    ([], Some [(fld_0, (B "json")); (fld_1, v_na); (fld_2, v_na); (fld_3, v_na); (fld_30, (B "jsonl")); (fld_31, (B "")); (fld_32, (B "")); (fld_33, (B "")); (fld_65, v_false)]);
+    ([tok_1; tok_2; tok_3; tok_4], Some [(fld_0, (B "json")); (fld_1, (B ";")); (fld_2, (B ":")); (fld_3, v_na); (fld_8, v_true); (fld_9, v_true); (fld_30, (B "jsonl")); (fld_31, (B "")); (fld_32, (B "")); (fld_33, (B "")); (fld_65, v_false)]);
+    ([tok_5; tok_2; tok_6; tok_4], Some [(fld_0, (B "json")); (fld_1, v_na); (fld_2, v_na); (fld_3, v_na); (fld_30, (B "jsonl")); (fld_31, (B "")); (fld_32, (B ";")); (fld_33, (B ":")); (fld_37, v_true); (fld_38, v_true); (fld_65, v_false)]);
+    ([tok_7; tok_2; tok_8; tok_2], Some [(fld_0, (B "json")); (fld_1, v_na); (fld_2, v_na); (fld_3, (B ";")); (fld_10, v_true); (fld_30, (B "jsonl")); (fld_31, (B ";")); (fld_32, (B "")); (fld_33, (B "")); (fld_39, v_true); (fld_65, v_false)])]);
   (tok_108, [
     ([], Some [(fld_0, (B "json")); (fld_1, v_na); (fld_2, v_na); (fld_3, v_na); (fld_30, (B "markdown")); (fld_32, (B " ")); (fld_33, v_na)]);
     ([tok_1; tok_2; tok_3; tok_4], Some [(fld_0, (B "json")); (fld_1, (B ";")); (fld_2, (B ":")); (fld_3, v_na); (fld_8, v_true); (fld_9, v_true); (fld_30, (B "markdown")); (fld_32, (B " ")); (fld_33, v_na)]);
@@ -1755,50 +1755,50 @@ Definition gen_evals_by_head : list (bytes * list (list bytes * option (list (by
     ([tok_5; tok_2; tok_6; tok_4], Some [(fld_0, (B "json")); (fld_1, v_na); (fld_2, v_na); (fld_3, v_na); (fld_30, (B "yaml")); (fld_31, v_na); (fld_32, (B ";")); (fld_33, (B ":")); (fld_37, v_true); (fld_38, v_true); (fld_65, v_false)]);
     ([tok_7; tok_2; tok_8; tok_2], Some [(fld_0, (B "json")); (fld_1, v_na); (fld_2, v_na); (fld_3, (B ";")); (fld_10, v_true); (fld_30, (B "yaml")); (fld_31, (B ";")); (fld_32, v_na); (fld_33, v_na); (fld_39, v_true); (fld_65, v_false)])]);
   (tok_124, [
-    ([], Some [(fld_0, (B "markdown")); (fld_2, v_na); (fld_8, v_true); (fld_30, (B "csv")); (fld_33, v_na); (fld_39, v_true)]);
+    ([], Some [(fld_0, (B "markdown")); (fld_1, (B " ")); (fld_2, v_na); (fld_30, (B "csv")); (fld_33, v_na); (fld_39, v_true)]);
     ([tok_1; tok_2; tok_3; tok_4], Some [(fld_0, (B "markdown")); (fld_1, (B ";")); (fld_2, (B ":")); (fld_8, v_true); (fld_9, v_true); (fld_30, (B "csv")); (fld_33, v_na); (fld_39, v_true)]);
-    ([tok_5; tok_2; tok_6; tok_4], Some [(fld_0, (B "markdown")); (fld_2, v_na); (fld_8, v_true); (fld_30, (B "csv")); (fld_32, (B ";")); (fld_33, (B ":")); (fld_37, v_true); (fld_38, v_true); (fld_39, v_true)]);
-    ([tok_7; tok_2; tok_8; tok_2], Some [(fld_0, (B "markdown")); (fld_2, v_na); (fld_3, (B ";")); (fld_8, v_true); (fld_10, v_true); (fld_30, (B "csv")); (fld_31, (B ";")); (fld_33, v_na); (fld_39, v_true)])]);
+    ([tok_5; tok_2; tok_6; tok_4], Some [(fld_0, (B "markdown")); (fld_1, (B " ")); (fld_2, v_na); (fld_30, (B "csv")); (fld_32, (B ";")); (fld_33, (B ":")); (fld_37, v_true); (fld_38, v_true); (fld_39, v_true)]);
+    ([tok_7; tok_2; tok_8; tok_2], Some [(fld_0, (B "markdown")); (fld_1, (B " ")); (fld_2, v_na); (fld_3, (B ";")); (fld_10, v_true); (fld_30, (B "csv")); (fld_31, (B ";")); (fld_33, v_na); (fld_39, v_true)])]);
   (tok_125, [
-    ([], Some [(fld_0, (B "markdown")); (fld_2, v_na); (fld_8, v_true)]);
+    ([], Some [(fld_0, (B "markdown")); (fld_1, (B " ")); (fld_2, v_na)]);
     ([tok_1; tok_2; tok_3; tok_4], Some [(fld_0, (B "markdown")); (fld_1, (B ";")); (fld_2, (B ":")); (fld_8, v_true); (fld_9, v_true)]);
-    ([tok_5; tok_2; tok_6; tok_4], Some [(fld_0, (B "markdown")); (fld_2, v_na); (fld_8, v_true); (fld_32, (B ";")); (fld_33, (B ":")); (fld_37, v_true); (fld_38, v_true)]);
-    ([tok_7; tok_2; tok_8; tok_2], Some [(fld_0, (B "markdown")); (fld_2, v_na); (fld_3, (B ";")); (fld_8, v_true); (fld_10, v_true); (fld_31, (B ";")); (fld_39, v_true)])]);
+    ([tok_5; tok_2; tok_6; tok_4], Some [(fld_0, (B "markdown")); (fld_1, (B " ")); (fld_2, v_na); (fld_32, (B ";")); (fld_33, (B ":")); (fld_37, v_true); (fld_38, v_true)]);
+    ([tok_7; tok_2; tok_8; tok_2], Some [(fld_0, (B "markdown")); (fld_1, (B " ")); (fld_2, v_na); (fld_3, (B ";")); (fld_10, v_true); (fld_31, (B ";")); (fld_39, v_true)])]);
   (tok_126, [
-    ([], Some [(fld_0, (B "markdown")); (fld_2, v_na); (fld_8, v_true); (fld_30, (B "json")); (fld_31, v_na); (fld_32, v_na); (fld_33, v_na); (fld_65, v_false); (fld_66, v_true)]);
+    ([], Some [(fld_0, (B "markdown")); (fld_1, (B " ")); (fld_2, v_na); (fld_30, (B "json")); (fld_31, v_na); (fld_32, v_na); (fld_33, v_na); (fld_65, v_false); (fld_66, v_true)]);
     ([tok_1; tok_2; tok_3; tok_4], Some [(fld_0, (B "markdown")); (fld_1, (B ";")); (fld_2, (B ":")); (fld_8, v_true); (fld_9, v_true); (fld_30, (B "json")); (fld_31, v_na); (fld_32, v_na); (fld_33, v_na); (fld_65, v_false); (fld_66, v_true)]);
-    ([tok_5; tok_2; tok_6; tok_4], Some [(fld_0, (B "markdown")); (fld_2, v_na); (fld_8, v_true); (fld_30, (B "json")); (fld_31, v_na); (fld_32, (B ";")); (fld_33, (B ":")); (fld_37, v_true); (fld_38, v_true); (fld_65, v_false); (fld_66, v_true)]);
-    ([tok_7; tok_2; tok_8; tok_2], Some [(fld_0, (B "markdown")); (fld_2, v_na); (fld_3, (B ";")); (fld_8, v_true); (fld_10, v_true); (fld_30, (B "json")); (fld_31, (B ";")); (fld_32, v_na); (fld_33, v_na); (fld_39, v_true); (fld_65, v_false); (fld_66, v_true)])]);
+    ([tok_5; tok_2; tok_6; tok_4], Some [(fld_0, (B "markdown")); (fld_1, (B " ")); (fld_2, v_na); (fld_30, (B "json")); (fld_31, v_na); (fld_32, (B ";")); (fld_33, (B ":")); (fld_37, v_true); (fld_38, v_true); (fld_65, v_false); (fld_66, v_true)]);
+    ([tok_7; tok_2; tok_8; tok_2], Some [(fld_0, (B "markdown")); (fld_1, (B " ")); (fld_2, v_na); (fld_3, (B ";")); (fld_10, v_true); (fld_30, (B "json")); (fld_31, (B ";")); (fld_32, v_na); (fld_33, v_na); (fld_39, v_true); (fld_65, v_false); (fld_66, v_true)])]);
   (tok_127, [
-    ([], Some [(fld_0, (B "markdown")); (fld_2, v_na); (fld_8, v_true); (fld_30, (B "json")); (fld_31, v_na); (fld_32, v_na); (fld_33, v_na); (fld_47, v_false); (fld_48, v_false); (fld_65, v_false); (fld_66, v_true)]);
-    ([tok_1; tok_2; tok_3; tok_4], Some [(fld_0, (B "markdown")); (fld_1, (B ";")); (fld_2, (B ":")); (fld_8, v_true); (fld_9, v_true); (fld_30, (B "json")); (fld_31, v_na); (fld_32, v_na); (fld_33, v_na); (fld_47, v_false); (fld_48, v_false); (fld_65, v_false); (fld_66, v_true)]);
-    ([tok_5; tok_2; tok_6; tok_4], Some [(fld_0, (B "markdown")); (fld_2, v_na); (fld_8, v_true); (fld_30, (B "json")); (fld_31, v_na); (fld_32, (B ";")); (fld_33, (B ":")); (fld_37, v_true); (fld_38, v_true); (fld_47, v_false); (fld_48, v_false); (fld_65, v_false); (fld_66, v_true)]);
-    ([tok_7; tok_2; tok_8; tok_2], Some [(fld_0, (B "markdown")); (fld_2, v_na); (fld_3, (B ";")); (fld_8, v_true); (fld_10, v_true); (fld_30, (B "json")); (fld_31, (B ";")); (fld_32, v_na); (fld_33, v_na); (fld_39, v_true); (fld_47, v_false); (fld_48, v_false); (fld_65, v_false); (fld_66, v_true)])]);
+    ([], Some [(fld_0, (B "markdown")); (fld_1, (B " ")); (fld_2, v_na); (fld_30, (B "jsonl")); (fld_31, (B "")); (fld_32, (B "")); (fld_33, (B "")); (fld_65, v_false); (fld_66, v_true)]);
+    ([tok_1; tok_2; tok_3; tok_4], Some [(fld_0, (B "markdown")); (fld_1, (B ";")); (fld_2, (B ":")); (fld_8, v_true); (fld_9, v_true); (fld_30, (B "jsonl")); (fld_31, (B "")); (fld_32, (B "")); (fld_33, (B "")); (fld_65, v_false); (fld_66, v_true)]);
+    ([tok_5; tok_2; tok_6; tok_4], Some [(fld_0, (B "markdown")); (fld_1, (B " ")); (fld_2, v_na); (fld_30, (B "jsonl")); (fld_31, (B "")); (fld_32, (B ";")); (fld_33, (B ":")); (fld_37, v_true); (fld_38, v_true); (fld_65, v_false); (fld_66, v_true)]);
+    ([tok_7; tok_2; tok_8; tok_2], Some [(fld_0, (B "markdown")); (fld_1, (B " ")); (fld_2, v_na); (fld_3, (B ";")); (fld_10, v_true); (fld_30, (B "jsonl")); (fld_31, (B ";")); (fld_32, (B "")); (fld_33, (B "")); (fld_39, v_true); (fld_65, v_false); (fld_66, v_true)])]);
   (tok_128, [
-    ([], Some [(fld_0, (B "markdown")); (fld_2, v_na); (fld_8, v_true); (fld_30, (B "nidx")); (fld_32, (B " ")); (fld_33, v_na)]);
+    ([], Some [(fld_0, (B "markdown")); (fld_1, (B " ")); (fld_2, v_na); (fld_30, (B "nidx")); (fld_32, (B " ")); (fld_33, v_na)]);
     ([tok_1; tok_2; tok_3; tok_4], Some [(fld_0, (B "markdown")); (fld_1, (B ";")); (fld_2, (B ":")); (fld_8, v_true); (fld_9, v_true); (fld_30, (B "nidx")); (fld_32, (B " ")); (fld_33, v_na)]);
-    ([tok_5; tok_2; tok_6; tok_4], Some [(fld_0, (B "markdown")); (fld_2, v_na); (fld_8, v_true); (fld_30, (B "nidx")); (fld_32, (B ";")); (fld_33, (B ":")); (fld_37, v_true); (fld_38, v_true)]);
-    ([tok_7; tok_2; tok_8; tok_2], Some [(fld_0, (B "markdown")); (fld_2, v_na); (fld_3, (B ";")); (fld_8, v_true); (fld_10, v_true); (fld_30, (B "nidx")); (fld_31, (B ";")); (fld_32, (B " ")); (fld_33, v_na); (fld_39, v_true)])]);
+    ([tok_5; tok_2; tok_6; tok_4], Some [(fld_0, (B "markdown")); (fld_1, (B " ")); (fld_2, v_na); (fld_30, (B "nidx")); (fld_32, (B ";")); (fld_33, (B ":")); (fld_37, v_true); (fld_38, v_true)]);
+    ([tok_7; tok_2; tok_8; tok_2], Some [(fld_0, (B "markdown")); (fld_1, (B " ")); (fld_2, v_na); (fld_3, (B ";")); (fld_10, v_true); (fld_30, (B "nidx")); (fld_31, (B ";")); (fld_32, (B " ")); (fld_33, v_na); (fld_39, v_true)])]);
   (tok_129, [
     ([], Some [(fld_0, (B "markdown")); (fld_1, (B " ")); (fld_2, v_na); (fld_30, (B "pprint")); (fld_32, (B " ")); (fld_33, v_na)]);
     ([tok_1; tok_2; tok_3; tok_4], Some [(fld_0, (B "markdown")); (fld_1, (B ";")); (fld_2, (B ":")); (fld_8, v_true); (fld_9, v_true); (fld_30, (B "pprint")); (fld_32, (B " ")); (fld_33, v_na)]);
     ([tok_5; tok_2; tok_6; tok_4], Some [(fld_0, (B "markdown")); (fld_1, (B " ")); (fld_2, v_na); (fld_30, (B "pprint")); (fld_32, (B ";")); (fld_33, (B ":")); (fld_37, v_true); (fld_38, v_true)]);
     ([tok_7; tok_2; tok_8; tok_2], Some [(fld_0, (B "markdown")); (fld_1, (B " ")); (fld_2, v_na); (fld_3, (B ";")); (fld_10, v_true); (fld_30, (B "pprint")); (fld_31, (B ";")); (fld_32, (B " ")); (fld_33, v_na); (fld_39, v_true)])]);
   (tok_130, [
-    ([], Some [(fld_0, (B "markdown")); (fld_2, v_na); (fld_8, v_true); (fld_30, (B "tsv")); (fld_32, (bs [9]%N)); (fld_33, v_na)]);
+    ([], Some [(fld_0, (B "markdown")); (fld_1, (B " ")); (fld_2, v_na); (fld_30, (B "tsv")); (fld_32, (bs [9]%N)); (fld_33, v_na)]);
     ([tok_1; tok_2; tok_3; tok_4], Some [(fld_0, (B "markdown")); (fld_1, (B ";")); (fld_2, (B ":")); (fld_8, v_true); (fld_9, v_true); (fld_30, (B "tsv")); (fld_32, (bs [9]%N)); (fld_33, v_na)]);
-    ([tok_5; tok_2; tok_6; tok_4], Some [(fld_0, (B "markdown")); (fld_2, v_na); (fld_8, v_true); (fld_30, (B "tsv")); (fld_32, (B ";")); (fld_33, (B ":")); (fld_37, v_true); (fld_38, v_true)]);
-    ([tok_7; tok_2; tok_8; tok_2], Some [(fld_0, (B "markdown")); (fld_2, v_na); (fld_3, (B ";")); (fld_8, v_true); (fld_10, v_true); (fld_30, (B "tsv")); (fld_31, (B ";")); (fld_32, (bs [9]%N)); (fld_33, v_na); (fld_39, v_true)])]);
+    ([tok_5; tok_2; tok_6; tok_4], Some [(fld_0, (B "markdown")); (fld_1, (B " ")); (fld_2, v_na); (fld_30, (B "tsv")); (fld_32, (B ";")); (fld_33, (B ":")); (fld_37, v_true); (fld_38, v_true)]);
+    ([tok_7; tok_2; tok_8; tok_2], Some [(fld_0, (B "markdown")); (fld_1, (B " ")); (fld_2, v_na); (fld_3, (B ";")); (fld_10, v_true); (fld_30, (B "tsv")); (fld_31, (B ";")); (fld_32, (bs [9]%N)); (fld_33, v_na); (fld_39, v_true)])]);
   (tok_131, [
-    ([], Some [(fld_0, (B "markdown")); (fld_2, v_na); (fld_8, v_true); (fld_30, (B "xtab")); (fld_31, (bs [10;10]%N)); (fld_32, (bs [10]%N)); (fld_33, (B " "))]);
+    ([], Some [(fld_0, (B "markdown")); (fld_1, (B " ")); (fld_2, v_na); (fld_30, (B "xtab")); (fld_31, (bs [10;10]%N)); (fld_32, (bs [10]%N)); (fld_33, (B " "))]);
     ([tok_1; tok_2; tok_3; tok_4], Some [(fld_0, (B "markdown")); (fld_1, (B ";")); (fld_2, (B ":")); (fld_8, v_true); (fld_9, v_true); (fld_30, (B "xtab")); (fld_31, (bs [10;10]%N)); (fld_32, (bs [10]%N)); (fld_33, (B " "))]);
-    ([tok_5; tok_2; tok_6; tok_4], Some [(fld_0, (B "markdown")); (fld_2, v_na); (fld_8, v_true); (fld_30, (B "xtab")); (fld_31, (bs [10;10]%N)); (fld_32, (B ";")); (fld_33, (B ":")); (fld_37, v_true); (fld_38, v_true)]);
-    ([tok_7; tok_2; tok_8; tok_2], Some [(fld_0, (B "markdown")); (fld_2, v_na); (fld_3, (B ";")); (fld_8, v_true); (fld_10, v_true); (fld_30, (B "xtab")); (fld_31, (B ";")); (fld_32, (bs [10]%N)); (fld_33, (B " ")); (fld_39, v_true)])]);
+    ([tok_5; tok_2; tok_6; tok_4], Some [(fld_0, (B "markdown")); (fld_1, (B " ")); (fld_2, v_na); (fld_30, (B "xtab")); (fld_31, (bs [10;10]%N)); (fld_32, (B ";")); (fld_33, (B ":")); (fld_37, v_true); (fld_38, v_true)]);
+    ([tok_7; tok_2; tok_8; tok_2], Some [(fld_0, (B "markdown")); (fld_1, (B " ")); (fld_2, v_na); (fld_3, (B ";")); (fld_10, v_true); (fld_30, (B "xtab")); (fld_31, (B ";")); (fld_32, (bs [10]%N)); (fld_33, (B " ")); (fld_39, v_true)])]);
   (tok_132, [
-    ([], Some [(fld_0, (B "markdown")); (fld_2, v_na); (fld_8, v_true); (fld_30, (B "yaml")); (fld_31, v_na); (fld_32, v_na); (fld_33, v_na); (fld_65, v_false); (fld_66, v_true)]);
+    ([], Some [(fld_0, (B "markdown")); (fld_1, (B " ")); (fld_2, v_na); (fld_30, (B "yaml")); (fld_31, v_na); (fld_32, v_na); (fld_33, v_na); (fld_65, v_false); (fld_66, v_true)]);
     ([tok_1; tok_2; tok_3; tok_4], Some [(fld_0, (B "markdown")); (fld_1, (B ";")); (fld_2, (B ":")); (fld_8, v_true); (fld_9, v_true); (fld_30, (B "yaml")); (fld_31, v_na); (fld_32, v_na); (fld_33, v_na); (fld_65, v_false); (fld_66, v_true)]);
-    ([tok_5; tok_2; tok_6; tok_4], Some [(fld_0, (B "markdown")); (fld_2, v_na); (fld_8, v_true); (fld_30, (B "yaml")); (fld_31, v_na); (fld_32, (B ";")); (fld_33, (B ":")); (fld_37, v_true); (fld_38, v_true); (fld_65, v_false); (fld_66, v_true)]);
-    ([tok_7; tok_2; tok_8; tok_2], Some [(fld_0, (B "markdown")); (fld_2, v_na); (fld_3, (B ";")); (fld_8, v_true); (fld_10, v_true); (fld_30, (B "yaml")); (fld_31, (B ";")); (fld_32, v_na); (fld_33, v_na); (fld_39, v_true); (fld_65, v_false); (fld_66, v_true)])]);
+    ([tok_5; tok_2; tok_6; tok_4], Some [(fld_0, (B "markdown")); (fld_1, (B " ")); (fld_2, v_na); (fld_30, (B "yaml")); (fld_31, v_na); (fld_32, (B ";")); (fld_33, (B ":")); (fld_37, v_true); (fld_38, v_true); (fld_65, v_false); (fld_66, v_true)]);
+    ([tok_7; tok_2; tok_8; tok_2], Some [(fld_0, (B "markdown")); (fld_1, (B " ")); (fld_2, v_na); (fld_3, (B ";")); (fld_10, v_true); (fld_30, (B "yaml")); (fld_31, (B ";")); (fld_32, v_na); (fld_33, v_na); (fld_39, v_true); (fld_65, v_false); (fld_66, v_true)])]);
   (tok_133, [
     ([], Some [(fld_0, (B "nidx")); (fld_1, (B " ")); (fld_2, v_na); (fld_5, (B "([ \t])+")); (fld_30, (B "pprint")); (fld_32, (B " ")); (fld_33, v_na); (fld_41, v_true)]);
     ([tok_1; tok_2; tok_3; tok_4], Some [(fld_0, (B "nidx")); (fld_1, (B ";")); (fld_2, (B ":")); (fld_8, v_true); (fld_9, v_true); (fld_30, (B "pprint")); (fld_32, (B " ")); (fld_33, v_na); (fld_41, v_true)]);
@@ -1820,10 +1820,10 @@ Definition gen_evals_by_head : list (bytes * list (list bytes * option (list (by
     ([tok_5; tok_2; tok_6; tok_4], Some [(fld_0, (B "nidx")); (fld_1, (B " ")); (fld_2, v_na); (fld_5, (B "([ \t])+")); (fld_30, (B "json")); (fld_31, v_na); (fld_32, (B ";")); (fld_33, (B ":")); (fld_37, v_true); (fld_38, v_true); (fld_65, v_false); (fld_66, v_true)]);
     ([tok_7; tok_2; tok_8; tok_2], Some [(fld_0, (B "nidx")); (fld_1, (B " ")); (fld_2, v_na); (fld_3, (B ";")); (fld_5, (B "([ \t])+")); (fld_10, v_true); (fld_30, (B "json")); (fld_31, (B ";")); (fld_32, v_na); (fld_33, v_na); (fld_39, v_true); (fld_65, v_false); (fld_66, v_true)])]);
   (tok_137, [
-    ([], Some [(fld_0, (B "nidx")); (fld_1, (B " ")); (fld_2, v_na); (fld_5, (B "([ \t])+")); (fld_30, (B "json")); (fld_31, v_na); (fld_32, v_na); (fld_33, v_na); (fld_47, v_false); (fld_48, v_false); (fld_65, v_false); (fld_66, v_true)]);
-    ([tok_1; tok_2; tok_3; tok_4], Some [(fld_0, (B "nidx")); (fld_1, (B ";")); (fld_2, (B ":")); (fld_8, v_true); (fld_9, v_true); (fld_30, (B "json")); (fld_31, v_na); (fld_32, v_na); (fld_33, v_na); (fld_47, v_false); (fld_48, v_false); (fld_65, v_false); (fld_66, v_true)]);
-    ([tok_5; tok_2; tok_6; tok_4], Some [(fld_0, (B "nidx")); (fld_1, (B " ")); (fld_2, v_na); (fld_5, (B "([ \t])+")); (fld_30, (B "json")); (fld_31, v_na); (fld_32, (B ";")); (fld_33, (B ":")); (fld_37, v_true); (fld_38, v_true); (fld_47, v_false); (fld_48, v_false); (fld_65, v_false); (fld_66, v_true)]);
-    ([tok_7; tok_2; tok_8; tok_2], Some [(fld_0, (B "nidx")); (fld_1, (B " ")); (fld_2, v_na); (fld_3, (B ";")); (fld_5, (B "([ \t])+")); (fld_10, v_true); (fld_30, (B "json")); (fld_31, (B ";")); (fld_32, v_na); (fld_33, v_na); (fld_39, v_true); (fld_47, v_false); (fld_48, v_false); (fld_65, v_false); (fld_66, v_true)])]);
+    ([], Some [(fld_0, (B "nidx")); (fld_1, (B " ")); (fld_2, v_na); (fld_5, (B "([ \t])+")); (fld_30, (B "jsonl")); (fld_31, (B "")); (fld_32, (B "")); (fld_33, (B "")); (fld_65, v_false); (fld_66, v_true)]);
+    ([tok_1; tok_2; tok_3; tok_4], Some [(fld_0, (B "nidx")); (fld_1, (B ";")); (fld_2, (B ":")); (fld_8, v_true); (fld_9, v_true); (fld_30, (B "jsonl")); (fld_31, (B "")); (fld_32, (B "")); (fld_33, (B "")); (fld_65, v_false); (fld_66, v_true)]);
+    ([tok_5; tok_2; tok_6; tok_4], Some [(fld_0, (B "nidx")); (fld_1, (B " ")); (fld_2, v_na); (fld_5, (B "([ \t])+")); (fld_30, (B "jsonl")); (fld_31, (B "")); (fld_32, (B ";")); (fld_33, (B ":")); (fld_37, v_true); (fld_38, v_true); (fld_65, v_false); (fld_66, v_true)]);
+    ([tok_7; tok_2; tok_8; tok_2], Some [(fld_0, (B "nidx")); (fld_1, (B " ")); (fld_2, v_na); (fld_3, (B ";")); (fld_5, (B "([ \t])+")); (fld_10, v_true); (fld_30, (B "jsonl")); (fld_31, (B ";")); (fld_32, (B "")); (fld_33, (B "")); (fld_39, v_true); (fld_65, v_false); (fld_66, v_true)])]);
   (tok_138, [
     ([], Some [(fld_0, (B "nidx")); (fld_1, (B " ")); (fld_2, v_na); (fld_5, (B "([ \t])+")); (fld_30, (B "markdown")); (fld_32, (B " ")); (fld_33, v_na)]);
     ([tok_1; tok_2; tok_3; tok_4], Some [(fld_0, (B "nidx")); (fld_1, (B ";")); (fld_2, (B ":")); (fld_8, v_true); (fld_9, v_true); (fld_30, (B "markdown")); (fld_32, (B " ")); (fld_33, v_na)]);
@@ -1865,10 +1865,10 @@ Definition gen_evals_by_head : list (bytes * list (list bytes * option (list (by
     ([tok_5; tok_2; tok_6; tok_4], Some [(fld_0, (B "pprint")); (fld_1, (B " ")); (fld_2, v_na); (fld_4, v_true); (fld_8, v_true); (fld_30, (B "json")); (fld_31, v_na); (fld_32, (B ";")); (fld_33, (B ":")); (fld_37, v_true); (fld_38, v_true); (fld_65, v_false); (fld_66, v_true)]);
     ([tok_7; tok_2; tok_8; tok_2], Some [(fld_0, (B "pprint")); (fld_1, (B " ")); (fld_2, v_na); (fld_3, (B ";")); (fld_4, v_true); (fld_8, v_true); (fld_10, v_true); (fld_30, (B "json")); (fld_31, (B ";")); (fld_32, v_na); (fld_33, v_na); (fld_39, v_true); (fld_65, v_false); (fld_66, v_true)])]);
   (tok_146, [
-    ([], Some [(fld_0, (B "pprint")); (fld_1, (B " ")); (fld_2, v_na); (fld_4, v_true); (fld_8, v_true); (fld_30, (B "json")); (fld_31, v_na); (fld_32, v_na); (fld_33, v_na); (fld_47, v_false); (fld_48, v_false); (fld_65, v_false); (fld_66, v_true)]);
-    ([tok_1; tok_2; tok_3; tok_4], Some [(fld_0, (B "pprint")); (fld_1, (B ";")); (fld_2, (B ":")); (fld_4, v_true); (fld_8, v_true); (fld_9, v_true); (fld_30, (B "json")); (fld_31, v_na); (fld_32, v_na); (fld_33, v_na); (fld_47, v_false); (fld_48, v_false); (fld_65, v_false); (fld_66, v_true)]);
-    ([tok_5; tok_2; tok_6; tok_4], Some [(fld_0, (B "pprint")); (fld_1, (B " ")); (fld_2, v_na); (fld_4, v_true); (fld_8, v_true); (fld_30, (B "json")); (fld_31, v_na); (fld_32, (B ";")); (fld_33, (B ":")); (fld_37, v_true); (fld_38, v_true); (fld_47, v_false); (fld_48, v_false); (fld_65, v_false); (fld_66, v_true)]);
-    ([tok_7; tok_2; tok_8; tok_2], Some [(fld_0, (B "pprint")); (fld_1, (B " ")); (fld_2, v_na); (fld_3, (B ";")); (fld_4, v_true); (fld_8, v_true); (fld_10, v_true); (fld_30, (B "json")); (fld_31, (B ";")); (fld_32, v_na); (fld_33, v_na); (fld_39, v_true); (fld_47, v_false); (fld_48, v_false); (fld_65, v_false); (fld_66, v_true)])]);
+    ([], Some [(fld_0, (B "pprint")); (fld_1, (B " ")); (fld_2, v_na); (fld_4, v_true); (fld_8, v_true); (fld_30, (B "jsonl")); (fld_31, (B "")); (fld_32, (B "")); (fld_33, (B "")); (fld_65, v_false); (fld_66, v_true)]);
+    ([tok_1; tok_2; tok_3; tok_4], Some [(fld_0, (B "pprint")); (fld_1, (B ";")); (fld_2, (B ":")); (fld_4, v_true); (fld_8, v_true); (fld_9, v_true); (fld_30, (B "jsonl")); (fld_31, (B "")); (fld_32, (B "")); (fld_33, (B "")); (fld_65, v_false); (fld_66, v_true)]);
+    ([tok_5; tok_2; tok_6; tok_4], Some [(fld_0, (B "pprint")); (fld_1, (B " ")); (fld_2, v_na); (fld_4, v_true); (fld_8, v_true); (fld_30, (B "jsonl")); (fld_31, (B "")); (fld_32, (B ";")); (fld_33, (B ":")); (fld_37, v_true); (fld_38, v_true); (fld_65, v_false); (fld_66, v_true)]);
+    ([tok_7; tok_2; tok_8; tok_2], Some [(fld_0, (B "pprint")); (fld_1, (B " ")); (fld_2, v_na); (fld_3, (B ";")); (fld_4, v_true); (fld_8, v_true); (fld_10, v_true); (fld_30, (B "jsonl")); (fld_31, (B ";")); (fld_32, (B "")); (fld_33, (B "")); (fld_39, v_true); (fld_65, v_false); (fld_66, v_true)])]);
   (tok_147, [
     ([], Some [(fld_0, (B "pprint")); (fld_1, (B " ")); (fld_2, v_na); (fld_4, v_true); (fld_8, v_true); (fld_30, (B "markdown")); (fld_32, (B " ")); (fld_33, v_na)]);
     ([tok_1; tok_2; tok_3; tok_4], Some [(fld_0, (B "pprint")); (fld_1, (B ";")); (fld_2, (B ":")); (fld_4, v_true); (fld_8, v_true); (fld_9, v_true); (fld_30, (B "markdown")); (fld_32, (B " ")); (fld_33, v_na)]);
@@ -1915,20 +1915,20 @@ Definition gen_evals_by_head : list (bytes * list (list bytes * option (list (by
     ([tok_5; tok_2; tok_6; tok_4], Some [(fld_0, (B "tsv")); (fld_1, (bs [9]%N)); (fld_2, v_na); (fld_30, (B "json")); (fld_31, v_na); (fld_32, (B ";")); (fld_33, (B ":")); (fld_37, v_true); (fld_38, v_true); (fld_65, v_false); (fld_66, v_true)]);
     ([tok_7; tok_2; tok_8; tok_2], Some [(fld_0, (B "tsv")); (fld_1, (bs [9]%N)); (fld_2, v_na); (fld_3, (B ";")); (fld_10, v_true); (fld_30, (B "json")); (fld_31, (B ";")); (fld_32, v_na); (fld_33, v_na); (fld_39, v_true); (fld_65, v_false); (fld_66, v_true)])]);
   (tok_156, [
-    ([], Some [(fld_0, (B "tsv")); (fld_1, (bs [9]%N)); (fld_2, v_na); (fld_30, (B "json")); (fld_31, v_na); (fld_32, v_na); (fld_33, v_na); (fld_47, v_false); (fld_48, v_false); (fld_65, v_false); (fld_66, v_true)]);
-    ([tok_1; tok_2; tok_3; tok_4], Some [(fld_0, (B "tsv")); (fld_1, (B ";")); (fld_2, (B ":")); (fld_8, v_true); (fld_9, v_true); (fld_30, (B "json")); (fld_31, v_na); (fld_32, v_na); (fld_33, v_na); (fld_47, v_false); (fld_48, v_false); (fld_65, v_false); (fld_66, v_true)]);
-    ([tok_5; tok_2; tok_6; tok_4], Some [(fld_0, (B "tsv")); (fld_1, (bs [9]%N)); (fld_2, v_na); (fld_30, (B "json")); (fld_31, v_na); (fld_32, (B ";")); (fld_33, (B ":")); (fld_37, v_true); (fld_38, v_true); (fld_47, v_false); (fld_48, v_false); (fld_65, v_false); (fld_66, v_true)]);
-    ([tok_7; tok_2; tok_8; tok_2], Some [(fld_0, (B "tsv")); (fld_1, (bs [9]%N)); (fld_2, v_na); (fld_3, (B ";")); (fld_10, v_true); (fld_30, (B "json")); (fld_31, (B ";")); (fld_32, v_na); (fld_33, v_na); (fld_39, v_true); (fld_47, v_false); (fld_48, v_false); (fld_65, v_false); (fld_66, v_true)])]);
+    ([], Some [(fld_0, (B "tsv")); (fld_1, (bs [9]%N)); (fld_2, v_na); (fld_30, (B "jsonl")); (fld_31, (B "")); (fld_32, (B "")); (fld_33, (B "")); (fld_65, v_false); (fld_66, v_true)]);
+    ([tok_1; tok_2; tok_3; tok_4], Some [(fld_0, (B "tsv")); (fld_1, (B ";")); (fld_2, (B ":")); (fld_8, v_true); (fld_9, v_true); (fld_30, (B "jsonl")); (fld_31, (B "")); (fld_32, (B "")); (fld_33, (B "")); (fld_65, v_false); (fld_66, v_true)]);
+    ([tok_5; tok_2; tok_6; tok_4], Some [(fld_0, (B "tsv")); (fld_1, (bs [9]%N)); (fld_2, v_na); (fld_30, (B "jsonl")); (fld_31, (B "")); (fld_32, (B ";")); (fld_33, (B ":")); (fld_37, v_true); (fld_38, v_true); (fld_65, v_false); (fld_66, v_true)]);
+    ([tok_7; tok_2; tok_8; tok_2], Some [(fld_0, (B "tsv")); (fld_1, (bs [9]%N)); (fld_2, v_na); (fld_3, (B ";")); (fld_10, v_true); (fld_30, (B "jsonl")); (fld_31, (B ";")); (fld_32, (B "")); (fld_33, (B "")); (fld_39, v_true); (fld_65, v_false); (fld_66, v_true)])]);
   (tok_157, [
     ([], Some [(fld_0, (B "tsv")); (fld_1, (bs [9]%N)); (fld_2, v_na); (fld_30, (B "markdown")); (fld_32, (B " ")); (fld_33, v_na)]);
     ([tok_1; tok_2; tok_3; tok_4], Some [(fld_0, (B "tsv")); (fld_1, (B ";")); (fld_2, (B ":")); (fld_8, v_true); (fld_9, v_true); (fld_30, (B "markdown")); (fld_32, (B " ")); (fld_33, v_na)]);
     ([tok_5; tok_2; tok_6; tok_4], Some [(fld_0, (B "tsv")); (fld_1, (bs [9]%N)); (fld_2, v_na); (fld_30, (B "markdown")); (fld_32, (B ";")); (fld_33, (B ":")); (fld_37, v_true); (fld_38, v_true)]);
     ([tok_7; tok_2; tok_8; tok_2], Some [(fld_0, (B "tsv")); (fld_1, (bs [9]%N)); (fld_2, v_na); (fld_3, (B ";")); (fld_10, v_true); (fld_30, (B "markdown")); (fld_31, (B ";")); (fld_32, (B " ")); (fld_33, v_na); (fld_39, v_true)])]);
   (tok_158, [
-    ([], Some [(fld_0, (B "tsv")); (fld_1, (bs [9]%N)); (fld_2, v_na); (fld_15, v_true); (fld_30, (B "nidx")); (fld_32, (B " ")); (fld_33, v_na); (fld_37, v_true)]);
-    ([tok_1; tok_2; tok_3; tok_4], Some [(fld_0, (B "tsv")); (fld_1, (B ";")); (fld_2, (B ":")); (fld_8, v_true); (fld_9, v_true); (fld_15, v_true); (fld_30, (B "nidx")); (fld_32, (B " ")); (fld_33, v_na); (fld_37, v_true)]);
-    ([tok_5; tok_2; tok_6; tok_4], Some [(fld_0, (B "tsv")); (fld_1, (bs [9]%N)); (fld_2, v_na); (fld_15, v_true); (fld_30, (B "nidx")); (fld_32, (B ";")); (fld_33, (B ":")); (fld_37, v_true); (fld_38, v_true)]);
-    ([tok_7; tok_2; tok_8; tok_2], Some [(fld_0, (B "tsv")); (fld_1, (bs [9]%N)); (fld_2, v_na); (fld_3, (B ";")); (fld_10, v_true); (fld_15, v_true); (fld_30, (B "nidx")); (fld_31, (B ";")); (fld_32, (B " ")); (fld_33, v_na); (fld_37, v_true); (fld_39, v_true)])]);
+    ([], Some [(fld_0, (B "tsv")); (fld_1, (bs [9]%N)); (fld_2, v_na); (fld_30, (B "nidx")); (fld_32, (B " ")); (fld_33, v_na); (fld_37, v_true)]);
+    ([tok_1; tok_2; tok_3; tok_4], Some [(fld_0, (B "tsv")); (fld_1, (B ";")); (fld_2, (B ":")); (fld_8, v_true); (fld_9, v_true); (fld_30, (B "nidx")); (fld_32, (B " ")); (fld_33, v_na); (fld_37, v_true)]);
+    ([tok_5; tok_2; tok_6; tok_4], Some [(fld_0, (B "tsv")); (fld_1, (bs [9]%N)); (fld_2, v_na); (fld_30, (B "nidx")); (fld_32, (B ";")); (fld_33, (B ":")); (fld_37, v_true); (fld_38, v_true)]);
+    ([tok_7; tok_2; tok_8; tok_2], Some [(fld_0, (B "tsv")); (fld_1, (bs [9]%N)); (fld_2, v_na); (fld_3, (B ";")); (fld_10, v_true); (fld_30, (B "nidx")); (fld_31, (B ";")); (fld_32, (B " ")); (fld_33, v_na); (fld_37, v_true); (fld_39, v_true)])]);
   (tok_159, [
     ([], Some [(fld_0, (B "tsv")); (fld_1, (bs [9]%N)); (fld_2, v_na); (fld_30, (B "pprint")); (fld_32, (B " ")); (fld_33, v_na)]);
     ([tok_1; tok_2; tok_3; tok_4], Some [(fld_0, (B "tsv")); (fld_1, (B ";")); (fld_2, (B ":")); (fld_8, v_true); (fld_9, v_true); (fld_30, (B "pprint")); (fld_32, (B " ")); (fld_33, v_na)]);
@@ -1965,10 +1965,10 @@ Definition gen_evals_by_head : list (bytes * list (list bytes * option (list (by
     ([tok_5; tok_2; tok_6; tok_4], Some [(fld_0, (B "xtab")); (fld_1, (bs [10]%N)); (fld_2, (B " ")); (fld_3, (bs [10;10]%N)); (fld_30, (B "json")); (fld_31, v_na); (fld_32, (B ";")); (fld_33, (B ":")); (fld_37, v_true); (fld_38, v_true); (fld_65, v_false); (fld_66, v_true)]);
     ([tok_7; tok_2; tok_8; tok_2], Some [(fld_0, (B "xtab")); (fld_1, (bs [10]%N)); (fld_2, (B " ")); (fld_3, (B ";")); (fld_10, v_true); (fld_30, (B "json")); (fld_31, (B ";")); (fld_32, v_na); (fld_33, v_na); (fld_39, v_true); (fld_65, v_false); (fld_66, v_true)])]);
   (tok_166, [
-    ([], Some [(fld_0, (B "xtab")); (fld_1, (bs [10]%N)); (fld_2, (B " ")); (fld_3, (bs [10;10]%N)); (fld_30, (B "json")); (fld_31, v_na); (fld_32, v_na); (fld_33, v_na); (fld_47, v_false); (fld_48, v_false); (fld_65, v_false); (fld_66, v_true)]);
-    ([tok_1; tok_2; tok_3; tok_4], Some [(fld_0, (B "xtab")); (fld_1, (B ";")); (fld_2, (B ":")); (fld_3, (bs [10;10]%N)); (fld_8, v_true); (fld_9, v_true); (fld_30, (B "json")); (fld_31, v_na); (fld_32, v_na); (fld_33, v_na); (fld_47, v_false); (fld_48, v_false); (fld_65, v_false); (fld_66, v_true)]);
-    ([tok_5; tok_2; tok_6; tok_4], Some [(fld_0, (B "xtab")); (fld_1, (bs [10]%N)); (fld_2, (B " ")); (fld_3, (bs [10;10]%N)); (fld_30, (B "json")); (fld_31, v_na); (fld_32, (B ";")); (fld_33, (B ":")); (fld_37, v_true); (fld_38, v_true); (fld_47, v_false); (fld_48, v_false); (fld_65, v_false); (fld_66, v_true)]);
-    ([tok_7; tok_2; tok_8; tok_2], Some [(fld_0, (B "xtab")); (fld_1, (bs [10]%N)); (fld_2, (B " ")); (fld_3, (B ";")); (fld_10, v_true); (fld_30, (B "json")); (fld_31, (B ";")); (fld_32, v_na); (fld_33, v_na); (fld_39, v_true); (fld_47, v_false); (fld_48, v_false); (fld_65, v_false); (fld_66, v_true)])]);
+    ([], Some [(fld_0, (B "xtab")); (fld_1, (bs [10]%N)); (fld_2, (B " ")); (fld_3, (bs [10;10]%N)); (fld_30, (B "jsonl")); (fld_31, (B "")); (fld_32, (B "")); (fld_33, (B "")); (fld_65, v_false); (fld_66, v_true)]);
+    ([tok_1; tok_2; tok_3; tok_4], Some [(fld_0, (B "xtab")); (fld_1, (B ";")); (fld_2, (B ":")); (fld_3, (bs [10;10]%N)); (fld_8, v_true); (fld_9, v_true); (fld_30, (B "jsonl")); (fld_31, (B "")); (fld_32, (B "")); (fld_33, (B "")); (fld_65, v_false); (fld_66, v_true)]);
+    ([tok_5; tok_2; tok_6; tok_4], Some [(fld_0, (B "xtab")); (fld_1, (bs [10]%N)); (fld_2, (B " ")); (fld_3, (bs [10;10]%N)); (fld_30, (B "jsonl")); (fld_31, (B "")); (fld_32, (B ";")); (fld_33, (B ":")); (fld_37, v_true); (fld_38, v_true); (fld_65, v_false); (fld_66, v_true)]);
+    ([tok_7; tok_2; tok_8; tok_2], Some [(fld_0, (B "xtab")); (fld_1, (bs [10]%N)); (fld_2, (B " ")); (fld_3, (B ";")); (fld_10, v_true); (fld_30, (B "jsonl")); (fld_31, (B ";")); (fld_32, (B "")); (fld_33, (B "")); (fld_39, v_true); (fld_65, v_false); (fld_66, v_true)])]);
   (tok_167, [
     ([], Some [(fld_0, (B "xtab")); (fld_1, (bs [10]%N)); (fld_2, (B " ")); (fld_3, (bs [10;10]%N)); (fld_30, (B "markdown")); (fld_32, (B " ")); (fld_33, v_na)]);
     ([tok_1; tok_2; tok_3; tok_4], Some [(fld_0, (B "xtab")); (fld_1, (B ";")); (fld_2, (B ":")); (fld_3, (bs [10;10]%N)); (fld_8, v_true); (fld_9, v_true); (fld_30, (B "markdown")); (fld_32, (B " ")); (fld_33, v_na)]);
@@ -2311,6 +2311,1656 @@ Definition gen_evals_by_head : list (bytes * list (list bytes * option (list (by
     ([], Some [(fld_41, v_true)])]);
   (tok_234, [
     ([], Some [(fld_41, v_true)])]);
+  (tok_1, [
+    ([tok_2; tok_84], Some [(fld_0, (B "csv")); (fld_1, (B ";")); (fld_2, v_na); (fld_8, v_true); (fld_10, v_true); (fld_30, (B "pprint")); (fld_32, (B " ")); (fld_33, v_na); (fld_41, v_true)]);
+    ([tok_2; tok_24; tok_62; tok_233], Some [(fld_0, (B "csv")); (fld_1, (B ";")); (fld_2, v_na); (fld_8, v_true); (fld_30, (B "pprint")); (fld_32, (B " ")); (fld_33, v_na); (fld_41, v_true)]);
+    ([tok_2; tok_12], Some [(fld_0, (B "csv")); (fld_1, (B ";")); (fld_2, v_na); (fld_8, v_true); (fld_30, (B "csv")); (fld_33, v_na)]);
+    ([tok_2; tok_24; tok_53], Some [(fld_0, (B "csv")); (fld_1, (B ";")); (fld_2, v_na); (fld_8, v_true); (fld_30, (B "csv")); (fld_33, v_na)]);
+    ([tok_2; tok_85], Some [(fld_0, (B "csv")); (fld_1, (B ";")); (fld_2, v_na); (fld_8, v_true); (fld_10, v_true)]);
+    ([tok_2; tok_24; tok_56], Some [(fld_0, (B "csv")); (fld_1, (B ";")); (fld_2, v_na); (fld_8, v_true)]);
+    ([tok_2; tok_86], Some [(fld_0, (B "csv")); (fld_1, (B ";")); (fld_2, v_na); (fld_8, v_true); (fld_10, v_true); (fld_30, (B "json")); (fld_31, v_na); (fld_32, v_na); (fld_33, v_na); (fld_65, v_false); (fld_66, v_true)]);
+    ([tok_2; tok_24; tok_57], Some [(fld_0, (B "csv")); (fld_1, (B ";")); (fld_2, v_na); (fld_8, v_true); (fld_30, (B "json")); (fld_31, v_na); (fld_32, v_na); (fld_33, v_na); (fld_65, v_false); (fld_66, v_true)]);
+    ([tok_2; tok_87], Some [(fld_0, (B "csv")); (fld_1, (B ";")); (fld_2, v_na); (fld_8, v_true); (fld_10, v_true); (fld_30, (B "jsonl")); (fld_31, (B "")); (fld_32, (B "")); (fld_33, (B "")); (fld_65, v_false); (fld_66, v_true)]);
+    ([tok_2; tok_24; tok_58], Some [(fld_0, (B "csv")); (fld_1, (B ";")); (fld_2, v_na); (fld_8, v_true); (fld_30, (B "jsonl")); (fld_31, (B "")); (fld_32, (B "")); (fld_33, (B "")); (fld_65, v_false); (fld_66, v_true)]);
+    ([tok_2; tok_88], Some [(fld_0, (B "csv")); (fld_1, (B ";")); (fld_2, v_na); (fld_8, v_true); (fld_10, v_true); (fld_30, (B "markdown")); (fld_32, (B " ")); (fld_33, v_na)]);
+    ([tok_2; tok_24; tok_59], Some [(fld_0, (B "csv")); (fld_1, (B ";")); (fld_2, v_na); (fld_8, v_true); (fld_30, (B "markdown")); (fld_32, (B " ")); (fld_33, v_na)]);
+    ([tok_2; tok_89], Some [(fld_0, (B "csv")); (fld_1, (B ";")); (fld_2, v_na); (fld_8, v_true); (fld_10, v_true); (fld_30, (B "nidx")); (fld_32, (B " ")); (fld_33, v_na); (fld_37, v_true)]);
+    ([tok_2; tok_24; tok_61], Some [(fld_0, (B "csv")); (fld_1, (B ";")); (fld_2, v_na); (fld_8, v_true); (fld_30, (B "nidx")); (fld_32, (B " ")); (fld_33, v_na); (fld_37, v_true)]);
+    ([tok_2; tok_90], Some [(fld_0, (B "csv")); (fld_1, (B ";")); (fld_2, v_na); (fld_8, v_true); (fld_10, v_true); (fld_30, (B "pprint")); (fld_32, (B " ")); (fld_33, v_na)]);
+    ([tok_2; tok_24; tok_62], Some [(fld_0, (B "csv")); (fld_1, (B ";")); (fld_2, v_na); (fld_8, v_true); (fld_30, (B "pprint")); (fld_32, (B " ")); (fld_33, v_na)]);
+    ([tok_2; tok_91], Some [(fld_0, (B "csv")); (fld_1, (B ";")); (fld_2, v_na); (fld_8, v_true); (fld_10, v_true); (fld_30, (B "tsv")); (fld_32, (bs [9]%N)); (fld_33, v_na)]);
+    ([tok_2; tok_24; tok_64], Some [(fld_0, (B "csv")); (fld_1, (B ";")); (fld_2, v_na); (fld_8, v_true); (fld_30, (B "tsv")); (fld_32, (bs [9]%N)); (fld_33, v_na); (fld_37, v_true)]);
+    ([tok_2; tok_92], Some [(fld_0, (B "csv")); (fld_1, (B ";")); (fld_2, v_na); (fld_8, v_true); (fld_10, v_true); (fld_30, (B "xtab")); (fld_31, (bs [10;10]%N)); (fld_32, (bs [10]%N)); (fld_33, (B " "))]);
+    ([tok_2; tok_24; tok_68], Some [(fld_0, (B "csv")); (fld_1, (B ";")); (fld_2, v_na); (fld_8, v_true); (fld_30, (B "xtab")); (fld_31, (bs [10;10]%N)); (fld_32, (bs [10]%N)); (fld_33, (B " "))]);
+    ([tok_2; tok_93], Some [(fld_0, (B "csv")); (fld_1, (B ";")); (fld_2, v_na); (fld_8, v_true); (fld_10, v_true); (fld_30, (B "yaml")); (fld_31, v_na); (fld_32, v_na); (fld_33, v_na); (fld_65, v_false); (fld_66, v_true)]);
+    ([tok_2; tok_24; tok_69], Some [(fld_0, (B "csv")); (fld_1, (B ";")); (fld_2, v_na); (fld_8, v_true); (fld_30, (B "yaml")); (fld_31, v_na); (fld_32, v_na); (fld_33, v_na); (fld_65, v_false); (fld_66, v_true)]);
+    ([tok_2; tok_94], Some [(fld_1, (B ";")); (fld_8, v_true); (fld_30, (B "pprint")); (fld_32, (B " ")); (fld_33, v_na); (fld_41, v_true)]);
+    ([tok_2; tok_27; tok_62; tok_233], Some [(fld_1, (B ";")); (fld_8, v_true); (fld_30, (B "pprint")); (fld_32, (B " ")); (fld_33, v_na); (fld_41, v_true)]);
+    ([tok_2; tok_95], Some [(fld_1, (B ";")); (fld_8, v_true); (fld_30, (B "csv")); (fld_33, v_na)]);
+    ([tok_2; tok_27; tok_53], Some [(fld_1, (B ";")); (fld_8, v_true); (fld_30, (B "csv")); (fld_33, v_na)]);
+    ([tok_2; tok_16], Some [(fld_1, (B ";")); (fld_8, v_true)]);
+    ([tok_2; tok_27; tok_56], Some [(fld_1, (B ";")); (fld_8, v_true)]);
+    ([tok_2; tok_96], Some [(fld_1, (B ";")); (fld_8, v_true); (fld_30, (B "json")); (fld_31, v_na); (fld_32, v_na); (fld_33, v_na); (fld_65, v_false); (fld_66, v_true)]);
+    ([tok_2; tok_27; tok_57], Some [(fld_1, (B ";")); (fld_8, v_true); (fld_30, (B "json")); (fld_31, v_na); (fld_32, v_na); (fld_33, v_na); (fld_65, v_false); (fld_66, v_true)]);
+    ([tok_2; tok_97], Some [(fld_1, (B ";")); (fld_8, v_true); (fld_30, (B "jsonl")); (fld_31, (B "")); (fld_32, (B "")); (fld_33, (B "")); (fld_65, v_false); (fld_66, v_true)]);
+    ([tok_2; tok_27; tok_58], Some [(fld_1, (B ";")); (fld_8, v_true); (fld_30, (B "jsonl")); (fld_31, (B "")); (fld_32, (B "")); (fld_33, (B "")); (fld_65, v_false); (fld_66, v_true)]);
+    ([tok_2; tok_98], Some [(fld_1, (B ";")); (fld_8, v_true); (fld_30, (B "markdown")); (fld_32, (B " ")); (fld_33, v_na)]);
+    ([tok_2; tok_27; tok_59], Some [(fld_1, (B ";")); (fld_8, v_true); (fld_30, (B "markdown")); (fld_32, (B " ")); (fld_33, v_na)]);
+    ([tok_2; tok_99], Some [(fld_1, (B ";")); (fld_8, v_true); (fld_30, (B "nidx")); (fld_32, (B " ")); (fld_33, v_na); (fld_37, v_true)]);
+    ([tok_2; tok_27; tok_61], Some [(fld_1, (B ";")); (fld_8, v_true); (fld_30, (B "nidx")); (fld_32, (B " ")); (fld_33, v_na); (fld_37, v_true)]);
+    ([tok_2; tok_100], Some [(fld_1, (B ";")); (fld_8, v_true); (fld_30, (B "pprint")); (fld_32, (B " ")); (fld_33, v_na)]);
+    ([tok_2; tok_27; tok_62], Some [(fld_1, (B ";")); (fld_8, v_true); (fld_30, (B "pprint")); (fld_32, (B " ")); (fld_33, v_na)]);
+    ([tok_2; tok_101], Some [(fld_1, (B ";")); (fld_8, v_true); (fld_30, (B "tsv")); (fld_32, (bs [9]%N)); (fld_33, v_na); (fld_37, v_true); (fld_39, v_true)]);
+    ([tok_2; tok_27; tok_64], Some [(fld_1, (B ";")); (fld_8, v_true); (fld_30, (B "tsv")); (fld_32, (bs [9]%N)); (fld_33, v_na); (fld_37, v_true)]);
+    ([tok_2; tok_102], Some [(fld_1, (B ";")); (fld_8, v_true); (fld_30, (B "xtab")); (fld_31, (bs [10;10]%N)); (fld_32, (bs [10]%N)); (fld_33, (B " "))]);
+    ([tok_2; tok_27; tok_68], Some [(fld_1, (B ";")); (fld_8, v_true); (fld_30, (B "xtab")); (fld_31, (bs [10;10]%N)); (fld_32, (bs [10]%N)); (fld_33, (B " "))]);
+    ([tok_2; tok_103], Some [(fld_1, (B ";")); (fld_8, v_true); (fld_30, (B "yaml")); (fld_31, v_na); (fld_32, v_na); (fld_33, v_na); (fld_65, v_false); (fld_66, v_true)]);
+    ([tok_2; tok_27; tok_69], Some [(fld_1, (B ";")); (fld_8, v_true); (fld_30, (B "yaml")); (fld_31, v_na); (fld_32, v_na); (fld_33, v_na); (fld_65, v_false); (fld_66, v_true)]);
+    ([tok_2; tok_104], Some [(fld_0, (B "json")); (fld_1, (B ";")); (fld_2, v_na); (fld_3, v_na); (fld_8, v_true); (fld_30, (B "pprint")); (fld_32, (B " ")); (fld_33, v_na); (fld_41, v_true)]);
+    ([tok_2; tok_29; tok_62; tok_233], Some [(fld_0, (B "json")); (fld_1, (B ";")); (fld_2, v_na); (fld_3, v_na); (fld_8, v_true); (fld_30, (B "pprint")); (fld_32, (B " ")); (fld_33, v_na); (fld_41, v_true)]);
+    ([tok_2; tok_105], Some [(fld_0, (B "json")); (fld_1, (B ";")); (fld_2, v_na); (fld_3, v_na); (fld_8, v_true); (fld_30, (B "csv")); (fld_33, v_na); (fld_39, v_true)]);
+    ([tok_2; tok_29; tok_53], Some [(fld_0, (B "json")); (fld_1, (B ";")); (fld_2, v_na); (fld_3, v_na); (fld_8, v_true); (fld_30, (B "csv")); (fld_33, v_na)]);
+    ([tok_2; tok_106], Some [(fld_0, (B "json")); (fld_1, (B ";")); (fld_2, v_na); (fld_3, v_na); (fld_8, v_true)]);
+    ([tok_2; tok_29; tok_56], Some [(fld_0, (B "json")); (fld_1, (B ";")); (fld_2, v_na); (fld_3, v_na); (fld_8, v_true)]);
+    ([tok_2; tok_44], Some [(fld_0, (B "json")); (fld_1, (B ";")); (fld_2, v_na); (fld_3, v_na); (fld_8, v_true); (fld_30, (B "json")); (fld_31, v_na); (fld_32, v_na); (fld_33, v_na); (fld_65, v_false)]);
+    ([tok_2; tok_29; tok_57], Some [(fld_0, (B "json")); (fld_1, (B ";")); (fld_2, v_na); (fld_3, v_na); (fld_8, v_true); (fld_30, (B "json")); (fld_31, v_na); (fld_32, v_na); (fld_33, v_na); (fld_65, v_false)]);
+    ([tok_2; tok_107], Some [(fld_0, (B "json")); (fld_1, (B ";")); (fld_2, v_na); (fld_3, v_na); (fld_8, v_true); (fld_30, (B "jsonl")); (fld_31, (B "")); (fld_32, (B "")); (fld_33, (B "")); (fld_65, v_false)]);
+    ([tok_2; tok_29; tok_58], Some [(fld_0, (B "json")); (fld_1, (B ";")); (fld_2, v_na); (fld_3, v_na); (fld_8, v_true); (fld_30, (B "jsonl")); (fld_31, (B "")); (fld_32, (B "")); (fld_33, (B "")); (fld_65, v_false)]);
+    ([tok_2; tok_108], Some [(fld_0, (B "json")); (fld_1, (B ";")); (fld_2, v_na); (fld_3, v_na); (fld_8, v_true); (fld_30, (B "markdown")); (fld_32, (B " ")); (fld_33, v_na)]);
+    ([tok_2; tok_29; tok_59], Some [(fld_0, (B "json")); (fld_1, (B ";")); (fld_2, v_na); (fld_3, v_na); (fld_8, v_true); (fld_30, (B "markdown")); (fld_32, (B " ")); (fld_33, v_na)]);
+    ([tok_2; tok_109], Some [(fld_0, (B "json")); (fld_1, (B ";")); (fld_2, v_na); (fld_3, v_na); (fld_8, v_true); (fld_30, (B "nidx")); (fld_32, (B " ")); (fld_33, v_na)]);
+    ([tok_2; tok_29; tok_61], Some [(fld_0, (B "json")); (fld_1, (B ";")); (fld_2, v_na); (fld_3, v_na); (fld_8, v_true); (fld_30, (B "nidx")); (fld_32, (B " ")); (fld_33, v_na); (fld_37, v_true)]);
+    ([tok_2; tok_110], Some [(fld_0, (B "json")); (fld_1, (B ";")); (fld_2, v_na); (fld_3, v_na); (fld_8, v_true); (fld_30, (B "pprint")); (fld_32, (B " ")); (fld_33, v_na)]);
+    ([tok_2; tok_29; tok_62], Some [(fld_0, (B "json")); (fld_1, (B ";")); (fld_2, v_na); (fld_3, v_na); (fld_8, v_true); (fld_30, (B "pprint")); (fld_32, (B " ")); (fld_33, v_na)]);
+    ([tok_2; tok_111], Some [(fld_0, (B "json")); (fld_1, (B ";")); (fld_2, v_na); (fld_3, v_na); (fld_8, v_true); (fld_30, (B "tsv")); (fld_32, (bs [9]%N)); (fld_33, v_na)]);
+    ([tok_2; tok_29; tok_64], Some [(fld_0, (B "json")); (fld_1, (B ";")); (fld_2, v_na); (fld_3, v_na); (fld_8, v_true); (fld_30, (B "tsv")); (fld_32, (bs [9]%N)); (fld_33, v_na); (fld_37, v_true)]);
+    ([tok_2; tok_112], Some [(fld_0, (B "json")); (fld_1, (B ";")); (fld_2, v_na); (fld_3, v_na); (fld_8, v_true); (fld_30, (B "xtab")); (fld_31, (bs [10;10]%N)); (fld_32, (bs [10]%N)); (fld_33, (B " "))]);
+    ([tok_2; tok_29; tok_68], Some [(fld_0, (B "json")); (fld_1, (B ";")); (fld_2, v_na); (fld_3, v_na); (fld_8, v_true); (fld_30, (B "xtab")); (fld_31, (bs [10;10]%N)); (fld_32, (bs [10]%N)); (fld_33, (B " "))]);
+    ([tok_2; tok_113], Some [(fld_0, (B "json")); (fld_1, (B ";")); (fld_2, v_na); (fld_3, v_na); (fld_8, v_true); (fld_30, (B "yaml")); (fld_31, v_na); (fld_32, v_na); (fld_33, v_na); (fld_65, v_false)]);
+    ([tok_2; tok_29; tok_69], Some [(fld_0, (B "json")); (fld_1, (B ";")); (fld_2, v_na); (fld_3, v_na); (fld_8, v_true); (fld_30, (B "yaml")); (fld_31, v_na); (fld_32, v_na); (fld_33, v_na); (fld_65, v_false)]);
+    ([tok_2; tok_114], Some [(fld_0, (B "json")); (fld_1, (B ";")); (fld_2, v_na); (fld_3, v_na); (fld_8, v_true); (fld_30, (B "pprint")); (fld_32, (B " ")); (fld_33, v_na); (fld_41, v_true)]);
+    ([tok_2; tok_30; tok_62; tok_233], Some [(fld_0, (B "json")); (fld_1, (B ";")); (fld_2, v_na); (fld_3, v_na); (fld_8, v_true); (fld_30, (B "pprint")); (fld_32, (B " ")); (fld_33, v_na); (fld_41, v_true)]);
+    ([tok_2; tok_115], Some [(fld_0, (B "json")); (fld_1, (B ";")); (fld_2, v_na); (fld_3, v_na); (fld_8, v_true); (fld_30, (B "csv")); (fld_33, v_na); (fld_39, v_true)]);
+    ([tok_2; tok_30; tok_53], Some [(fld_0, (B "json")); (fld_1, (B ";")); (fld_2, v_na); (fld_3, v_na); (fld_8, v_true); (fld_30, (B "csv")); (fld_33, v_na)]);
+    ([tok_2; tok_116], Some [(fld_0, (B "json")); (fld_1, (B ";")); (fld_2, v_na); (fld_3, v_na); (fld_8, v_true)]);
+    ([tok_2; tok_30; tok_56], Some [(fld_0, (B "json")); (fld_1, (B ";")); (fld_2, v_na); (fld_3, v_na); (fld_8, v_true)]);
+    ([tok_2; tok_117], Some [(fld_0, (B "json")); (fld_1, (B ";")); (fld_2, v_na); (fld_3, v_na); (fld_8, v_true); (fld_30, (B "json")); (fld_31, v_na); (fld_32, v_na); (fld_33, v_na); (fld_65, v_false)]);
+    ([tok_2; tok_30; tok_57], Some [(fld_0, (B "json")); (fld_1, (B ";")); (fld_2, v_na); (fld_3, v_na); (fld_8, v_true); (fld_30, (B "json")); (fld_31, v_na); (fld_32, v_na); (fld_33, v_na); (fld_65, v_false)]);
+    ([tok_2; tok_46], Some [(fld_0, (B "json")); (fld_1, (B ";")); (fld_2, v_na); (fld_3, v_na); (fld_8, v_true); (fld_30, (B "jsonl")); (fld_31, (B "")); (fld_32, (B "")); (fld_33, (B "")); (fld_65, v_false)]);
+    ([tok_2; tok_30; tok_58], Some [(fld_0, (B "json")); (fld_1, (B ";")); (fld_2, v_na); (fld_3, v_na); (fld_8, v_true); (fld_30, (B "jsonl")); (fld_31, (B "")); (fld_32, (B "")); (fld_33, (B "")); (fld_65, v_false)]);
+    ([tok_2; tok_118], Some [(fld_0, (B "json")); (fld_1, (B ";")); (fld_2, v_na); (fld_3, v_na); (fld_8, v_true); (fld_30, (B "markdown")); (fld_32, (B " ")); (fld_33, v_na)]);
+    ([tok_2; tok_30; tok_59], Some [(fld_0, (B "json")); (fld_1, (B ";")); (fld_2, v_na); (fld_3, v_na); (fld_8, v_true); (fld_30, (B "markdown")); (fld_32, (B " ")); (fld_33, v_na)]);
+    ([tok_2; tok_119], Some [(fld_0, (B "json")); (fld_1, (B ";")); (fld_2, v_na); (fld_3, v_na); (fld_8, v_true); (fld_30, (B "nidx")); (fld_32, (B " ")); (fld_33, v_na)]);
+    ([tok_2; tok_30; tok_61], Some [(fld_0, (B "json")); (fld_1, (B ";")); (fld_2, v_na); (fld_3, v_na); (fld_8, v_true); (fld_30, (B "nidx")); (fld_32, (B " ")); (fld_33, v_na); (fld_37, v_true)]);
+    ([tok_2; tok_120], Some [(fld_0, (B "json")); (fld_1, (B ";")); (fld_2, v_na); (fld_3, v_na); (fld_8, v_true); (fld_30, (B "pprint")); (fld_32, (B " ")); (fld_33, v_na)]);
+    ([tok_2; tok_30; tok_62], Some [(fld_0, (B "json")); (fld_1, (B ";")); (fld_2, v_na); (fld_3, v_na); (fld_8, v_true); (fld_30, (B "pprint")); (fld_32, (B " ")); (fld_33, v_na)]);
+    ([tok_2; tok_121], Some [(fld_0, (B "json")); (fld_1, (B ";")); (fld_2, v_na); (fld_3, v_na); (fld_8, v_true); (fld_30, (B "tsv")); (fld_32, (bs [9]%N)); (fld_33, v_na)]);
+    ([tok_2; tok_30; tok_64], Some [(fld_0, (B "json")); (fld_1, (B ";")); (fld_2, v_na); (fld_3, v_na); (fld_8, v_true); (fld_30, (B "tsv")); (fld_32, (bs [9]%N)); (fld_33, v_na); (fld_37, v_true)]);
+    ([tok_2; tok_122], Some [(fld_0, (B "json")); (fld_1, (B ";")); (fld_2, v_na); (fld_3, v_na); (fld_8, v_true); (fld_30, (B "xtab")); (fld_31, (bs [10;10]%N)); (fld_32, (bs [10]%N)); (fld_33, (B " "))]);
+    ([tok_2; tok_30; tok_68], Some [(fld_0, (B "json")); (fld_1, (B ";")); (fld_2, v_na); (fld_3, v_na); (fld_8, v_true); (fld_30, (B "xtab")); (fld_31, (bs [10;10]%N)); (fld_32, (bs [10]%N)); (fld_33, (B " "))]);
+    ([tok_2; tok_123], Some [(fld_0, (B "json")); (fld_1, (B ";")); (fld_2, v_na); (fld_3, v_na); (fld_8, v_true); (fld_30, (B "yaml")); (fld_31, v_na); (fld_32, v_na); (fld_33, v_na); (fld_65, v_false)]);
+    ([tok_2; tok_30; tok_69], Some [(fld_0, (B "json")); (fld_1, (B ";")); (fld_2, v_na); (fld_3, v_na); (fld_8, v_true); (fld_30, (B "yaml")); (fld_31, v_na); (fld_32, v_na); (fld_33, v_na); (fld_65, v_false)]);
+    ([tok_2; tok_124], Some [(fld_0, (B "markdown")); (fld_1, (B ";")); (fld_2, v_na); (fld_8, v_true); (fld_30, (B "csv")); (fld_33, v_na); (fld_39, v_true)]);
+    ([tok_2; tok_31; tok_53], Some [(fld_0, (B "markdown")); (fld_1, (B ";")); (fld_2, v_na); (fld_8, v_true); (fld_30, (B "csv")); (fld_33, v_na)]);
+    ([tok_2; tok_125], Some [(fld_0, (B "markdown")); (fld_1, (B ";")); (fld_2, v_na); (fld_8, v_true)]);
+    ([tok_2; tok_31; tok_56], Some [(fld_0, (B "markdown")); (fld_1, (B ";")); (fld_2, v_na); (fld_8, v_true)]);
+    ([tok_2; tok_126], Some [(fld_0, (B "markdown")); (fld_1, (B ";")); (fld_2, v_na); (fld_8, v_true); (fld_30, (B "json")); (fld_31, v_na); (fld_32, v_na); (fld_33, v_na); (fld_65, v_false); (fld_66, v_true)]);
+    ([tok_2; tok_31; tok_57], Some [(fld_0, (B "markdown")); (fld_1, (B ";")); (fld_2, v_na); (fld_8, v_true); (fld_30, (B "json")); (fld_31, v_na); (fld_32, v_na); (fld_33, v_na); (fld_65, v_false); (fld_66, v_true)]);
+    ([tok_2; tok_127], Some [(fld_0, (B "markdown")); (fld_1, (B ";")); (fld_2, v_na); (fld_8, v_true); (fld_30, (B "jsonl")); (fld_31, (B "")); (fld_32, (B "")); (fld_33, (B "")); (fld_65, v_false); (fld_66, v_true)]);
+    ([tok_2; tok_31; tok_58], Some [(fld_0, (B "markdown")); (fld_1, (B ";")); (fld_2, v_na); (fld_8, v_true); (fld_30, (B "jsonl")); (fld_31, (B "")); (fld_32, (B "")); (fld_33, (B "")); (fld_65, v_false); (fld_66, v_true)]);
+    ([tok_2; tok_128], Some [(fld_0, (B "markdown")); (fld_1, (B ";")); (fld_2, v_na); (fld_8, v_true); (fld_30, (B "nidx")); (fld_32, (B " ")); (fld_33, v_na)]);
+    ([tok_2; tok_31; tok_61], Some [(fld_0, (B "markdown")); (fld_1, (B ";")); (fld_2, v_na); (fld_8, v_true); (fld_30, (B "nidx")); (fld_32, (B " ")); (fld_33, v_na); (fld_37, v_true)]);
+    ([tok_2; tok_129], Some [(fld_0, (B "markdown")); (fld_1, (B ";")); (fld_2, v_na); (fld_8, v_true); (fld_30, (B "pprint")); (fld_32, (B " ")); (fld_33, v_na)]);
+    ([tok_2; tok_31; tok_62], Some [(fld_0, (B "markdown")); (fld_1, (B ";")); (fld_2, v_na); (fld_8, v_true); (fld_30, (B "pprint")); (fld_32, (B " ")); (fld_33, v_na)]);
+    ([tok_2; tok_130], Some [(fld_0, (B "markdown")); (fld_1, (B ";")); (fld_2, v_na); (fld_8, v_true); (fld_30, (B "tsv")); (fld_32, (bs [9]%N)); (fld_33, v_na)]);
+    ([tok_2; tok_31; tok_64], Some [(fld_0, (B "markdown")); (fld_1, (B ";")); (fld_2, v_na); (fld_8, v_true); (fld_30, (B "tsv")); (fld_32, (bs [9]%N)); (fld_33, v_na); (fld_37, v_true)]);
+    ([tok_2; tok_131], Some [(fld_0, (B "markdown")); (fld_1, (B ";")); (fld_2, v_na); (fld_8, v_true); (fld_30, (B "xtab")); (fld_31, (bs [10;10]%N)); (fld_32, (bs [10]%N)); (fld_33, (B " "))]);
+    ([tok_2; tok_31; tok_68], Some [(fld_0, (B "markdown")); (fld_1, (B ";")); (fld_2, v_na); (fld_8, v_true); (fld_30, (B "xtab")); (fld_31, (bs [10;10]%N)); (fld_32, (bs [10]%N)); (fld_33, (B " "))]);
+    ([tok_2; tok_132], Some [(fld_0, (B "markdown")); (fld_1, (B ";")); (fld_2, v_na); (fld_8, v_true); (fld_30, (B "yaml")); (fld_31, v_na); (fld_32, v_na); (fld_33, v_na); (fld_65, v_false); (fld_66, v_true)]);
+    ([tok_2; tok_31; tok_69], Some [(fld_0, (B "markdown")); (fld_1, (B ";")); (fld_2, v_na); (fld_8, v_true); (fld_30, (B "yaml")); (fld_31, v_na); (fld_32, v_na); (fld_33, v_na); (fld_65, v_false); (fld_66, v_true)]);
+    ([tok_2; tok_198], Some [(fld_0, (B "markdown")); (fld_1, (B ";")); (fld_2, v_na); (fld_8, v_true); (fld_30, (B "markdown")); (fld_32, (B " ")); (fld_33, v_na); (fld_45, v_true)]);
+    ([tok_2; tok_47; tok_199], Some [(fld_0, (B "markdown")); (fld_1, (B ";")); (fld_2, v_na); (fld_8, v_true); (fld_30, (B "markdown")); (fld_32, (B " ")); (fld_33, v_na); (fld_45, v_true)]);
+    ([tok_2; tok_197], Some [(fld_0, (B "markdown")); (fld_1, (B ";")); (fld_2, v_na); (fld_8, v_true); (fld_30, (B "markdown")); (fld_32, (B " ")); (fld_33, v_na); (fld_45, v_true)]);
+    ([tok_2; tok_133], Some [(fld_0, (B "nidx")); (fld_1, (B ";")); (fld_2, v_na); (fld_8, v_true); (fld_30, (B "pprint")); (fld_32, (B " ")); (fld_33, v_na); (fld_41, v_true)]);
+    ([tok_2; tok_33; tok_62; tok_233], Some [(fld_0, (B "nidx")); (fld_1, (B ";")); (fld_2, v_na); (fld_8, v_true); (fld_30, (B "pprint")); (fld_32, (B " ")); (fld_33, v_na); (fld_41, v_true)]);
+    ([tok_2; tok_134], Some [(fld_0, (B "nidx")); (fld_1, (B ";")); (fld_2, v_na); (fld_8, v_true); (fld_30, (B "csv")); (fld_33, v_na); (fld_39, v_true)]);
+    ([tok_2; tok_33; tok_53], Some [(fld_0, (B "nidx")); (fld_1, (B ";")); (fld_2, v_na); (fld_8, v_true); (fld_30, (B "csv")); (fld_33, v_na)]);
+    ([tok_2; tok_135], Some [(fld_0, (B "nidx")); (fld_1, (B ";")); (fld_2, v_na); (fld_8, v_true)]);
+    ([tok_2; tok_33; tok_56], Some [(fld_0, (B "nidx")); (fld_1, (B ";")); (fld_2, v_na); (fld_8, v_true)]);
+    ([tok_2; tok_136], Some [(fld_0, (B "nidx")); (fld_1, (B ";")); (fld_2, v_na); (fld_8, v_true); (fld_30, (B "json")); (fld_31, v_na); (fld_32, v_na); (fld_33, v_na); (fld_65, v_false); (fld_66, v_true)]);
+    ([tok_2; tok_33; tok_57], Some [(fld_0, (B "nidx")); (fld_1, (B ";")); (fld_2, v_na); (fld_8, v_true); (fld_30, (B "json")); (fld_31, v_na); (fld_32, v_na); (fld_33, v_na); (fld_65, v_false); (fld_66, v_true)]);
+    ([tok_2; tok_137], Some [(fld_0, (B "nidx")); (fld_1, (B ";")); (fld_2, v_na); (fld_8, v_true); (fld_30, (B "jsonl")); (fld_31, (B "")); (fld_32, (B "")); (fld_33, (B "")); (fld_65, v_false); (fld_66, v_true)]);
+    ([tok_2; tok_33; tok_58], Some [(fld_0, (B "nidx")); (fld_1, (B ";")); (fld_2, v_na); (fld_8, v_true); (fld_30, (B "jsonl")); (fld_31, (B "")); (fld_32, (B "")); (fld_33, (B "")); (fld_65, v_false); (fld_66, v_true)]);
+    ([tok_2; tok_138], Some [(fld_0, (B "nidx")); (fld_1, (B ";")); (fld_2, v_na); (fld_8, v_true); (fld_30, (B "markdown")); (fld_32, (B " ")); (fld_33, v_na)]);
+    ([tok_2; tok_33; tok_59], Some [(fld_0, (B "nidx")); (fld_1, (B ";")); (fld_2, v_na); (fld_8, v_true); (fld_30, (B "markdown")); (fld_32, (B " ")); (fld_33, v_na)]);
+    ([tok_2; tok_50], Some [(fld_0, (B "nidx")); (fld_1, (B ";")); (fld_2, v_na); (fld_8, v_true); (fld_30, (B "nidx")); (fld_32, (B " ")); (fld_33, v_na)]);
+    ([tok_2; tok_33; tok_61], Some [(fld_0, (B "nidx")); (fld_1, (B ";")); (fld_2, v_na); (fld_8, v_true); (fld_30, (B "nidx")); (fld_32, (B " ")); (fld_33, v_na); (fld_37, v_true)]);
+    ([tok_2; tok_139], Some [(fld_0, (B "nidx")); (fld_1, (B ";")); (fld_2, v_na); (fld_8, v_true); (fld_30, (B "pprint")); (fld_32, (B " ")); (fld_33, v_na)]);
+    ([tok_2; tok_33; tok_62], Some [(fld_0, (B "nidx")); (fld_1, (B ";")); (fld_2, v_na); (fld_8, v_true); (fld_30, (B "pprint")); (fld_32, (B " ")); (fld_33, v_na)]);
+    ([tok_2; tok_140], Some [(fld_0, (B "nidx")); (fld_1, (B ";")); (fld_2, v_na); (fld_8, v_true); (fld_30, (B "tsv")); (fld_32, (bs [9]%N)); (fld_33, v_na)]);
+    ([tok_2; tok_33; tok_64], Some [(fld_0, (B "nidx")); (fld_1, (B ";")); (fld_2, v_na); (fld_8, v_true); (fld_30, (B "tsv")); (fld_32, (bs [9]%N)); (fld_33, v_na); (fld_37, v_true)]);
+    ([tok_2; tok_141], Some [(fld_0, (B "nidx")); (fld_1, (B ";")); (fld_2, v_na); (fld_8, v_true); (fld_30, (B "xtab")); (fld_31, (bs [10;10]%N)); (fld_32, (bs [10]%N)); (fld_33, (B " "))]);
+    ([tok_2; tok_33; tok_68], Some [(fld_0, (B "nidx")); (fld_1, (B ";")); (fld_2, v_na); (fld_8, v_true); (fld_30, (B "xtab")); (fld_31, (bs [10;10]%N)); (fld_32, (bs [10]%N)); (fld_33, (B " "))]);
+    ([tok_2; tok_142], Some [(fld_0, (B "nidx")); (fld_1, (B ";")); (fld_2, v_na); (fld_8, v_true); (fld_30, (B "yaml")); (fld_31, v_na); (fld_32, v_na); (fld_33, v_na); (fld_65, v_false); (fld_66, v_true)]);
+    ([tok_2; tok_33; tok_69], Some [(fld_0, (B "nidx")); (fld_1, (B ";")); (fld_2, v_na); (fld_8, v_true); (fld_30, (B "yaml")); (fld_31, v_na); (fld_32, v_na); (fld_33, v_na); (fld_65, v_false); (fld_66, v_true)]);
+    ([tok_2; tok_143], Some [(fld_0, (B "pprint")); (fld_1, (B " ")); (fld_2, v_na); (fld_4, v_true); (fld_8, v_true); (fld_30, (B "csv")); (fld_33, v_na); (fld_39, v_true)]);
+    ([tok_2; tok_34; tok_53], Some [(fld_0, (B "pprint")); (fld_1, (B " ")); (fld_2, v_na); (fld_4, v_true); (fld_8, v_true); (fld_30, (B "csv")); (fld_33, v_na)]);
+    ([tok_2; tok_144], Some [(fld_0, (B "pprint")); (fld_1, (B " ")); (fld_2, v_na); (fld_4, v_true); (fld_8, v_true)]);
+    ([tok_2; tok_34; tok_56], Some [(fld_0, (B "pprint")); (fld_1, (B " ")); (fld_2, v_na); (fld_4, v_true); (fld_8, v_true)]);
+    ([tok_2; tok_145], Some [(fld_0, (B "pprint")); (fld_1, (B " ")); (fld_2, v_na); (fld_4, v_true); (fld_8, v_true); (fld_30, (B "json")); (fld_31, v_na); (fld_32, v_na); (fld_33, v_na); (fld_65, v_false); (fld_66, v_true)]);
+    ([tok_2; tok_34; tok_57], Some [(fld_0, (B "pprint")); (fld_1, (B " ")); (fld_2, v_na); (fld_4, v_true); (fld_8, v_true); (fld_30, (B "json")); (fld_31, v_na); (fld_32, v_na); (fld_33, v_na); (fld_65, v_false); (fld_66, v_true)]);
+    ([tok_2; tok_146], Some [(fld_0, (B "pprint")); (fld_1, (B " ")); (fld_2, v_na); (fld_4, v_true); (fld_8, v_true); (fld_30, (B "jsonl")); (fld_31, (B "")); (fld_32, (B "")); (fld_33, (B "")); (fld_65, v_false); (fld_66, v_true)]);
+    ([tok_2; tok_34; tok_58], Some [(fld_0, (B "pprint")); (fld_1, (B " ")); (fld_2, v_na); (fld_4, v_true); (fld_8, v_true); (fld_30, (B "jsonl")); (fld_31, (B "")); (fld_32, (B "")); (fld_33, (B "")); (fld_65, v_false); (fld_66, v_true)]);
+    ([tok_2; tok_147], Some [(fld_0, (B "pprint")); (fld_1, (B " ")); (fld_2, v_na); (fld_4, v_true); (fld_8, v_true); (fld_30, (B "markdown")); (fld_32, (B " ")); (fld_33, v_na)]);
+    ([tok_2; tok_34; tok_59], Some [(fld_0, (B "pprint")); (fld_1, (B " ")); (fld_2, v_na); (fld_4, v_true); (fld_8, v_true); (fld_30, (B "markdown")); (fld_32, (B " ")); (fld_33, v_na)]);
+    ([tok_2; tok_148], Some [(fld_0, (B "pprint")); (fld_1, (B " ")); (fld_2, v_na); (fld_4, v_true); (fld_8, v_true); (fld_30, (B "nidx")); (fld_32, (B " ")); (fld_33, v_na)]);
+    ([tok_2; tok_34; tok_61], Some [(fld_0, (B "pprint")); (fld_1, (B " ")); (fld_2, v_na); (fld_4, v_true); (fld_8, v_true); (fld_30, (B "nidx")); (fld_32, (B " ")); (fld_33, v_na); (fld_37, v_true)]);
+    ([tok_2; tok_71], Some [(fld_0, (B "pprint")); (fld_1, (B " ")); (fld_2, v_na); (fld_4, v_true); (fld_8, v_true); (fld_30, (B "pprint")); (fld_32, (B " ")); (fld_33, v_na)]);
+    ([tok_2; tok_34; tok_62], Some [(fld_0, (B "pprint")); (fld_1, (B " ")); (fld_2, v_na); (fld_4, v_true); (fld_8, v_true); (fld_30, (B "pprint")); (fld_32, (B " ")); (fld_33, v_na)]);
+    ([tok_2; tok_149], Some [(fld_0, (B "pprint")); (fld_1, (B " ")); (fld_2, v_na); (fld_4, v_true); (fld_8, v_true); (fld_30, (B "tsv")); (fld_32, (bs [9]%N)); (fld_33, v_na)]);
+    ([tok_2; tok_34; tok_64], Some [(fld_0, (B "pprint")); (fld_1, (B " ")); (fld_2, v_na); (fld_4, v_true); (fld_8, v_true); (fld_30, (B "tsv")); (fld_32, (bs [9]%N)); (fld_33, v_na); (fld_37, v_true)]);
+    ([tok_2; tok_150], Some [(fld_0, (B "pprint")); (fld_1, (B " ")); (fld_2, v_na); (fld_4, v_true); (fld_8, v_true); (fld_30, (B "xtab")); (fld_31, (bs [10;10]%N)); (fld_32, (bs [10]%N)); (fld_33, (B " "))]);
+    ([tok_2; tok_34; tok_68], Some [(fld_0, (B "pprint")); (fld_1, (B " ")); (fld_2, v_na); (fld_4, v_true); (fld_8, v_true); (fld_30, (B "xtab")); (fld_31, (bs [10;10]%N)); (fld_32, (bs [10]%N)); (fld_33, (B " "))]);
+    ([tok_2; tok_151], Some [(fld_0, (B "pprint")); (fld_1, (B " ")); (fld_2, v_na); (fld_4, v_true); (fld_8, v_true); (fld_30, (B "yaml")); (fld_31, v_na); (fld_32, v_na); (fld_33, v_na); (fld_65, v_false); (fld_66, v_true)]);
+    ([tok_2; tok_34; tok_69], Some [(fld_0, (B "pprint")); (fld_1, (B " ")); (fld_2, v_na); (fld_4, v_true); (fld_8, v_true); (fld_30, (B "yaml")); (fld_31, v_na); (fld_32, v_na); (fld_33, v_na); (fld_65, v_false); (fld_66, v_true)]);
+    ([tok_2; tok_152], Some [(fld_0, (B "tsv")); (fld_1, (B ";")); (fld_2, v_na); (fld_8, v_true); (fld_30, (B "pprint")); (fld_32, (B " ")); (fld_33, v_na); (fld_41, v_true)]);
+    ([tok_2; tok_36; tok_62; tok_233], Some [(fld_0, (B "tsv")); (fld_1, (B ";")); (fld_2, v_na); (fld_8, v_true); (fld_30, (B "pprint")); (fld_32, (B " ")); (fld_33, v_na); (fld_41, v_true)]);
+    ([tok_2; tok_153], Some [(fld_0, (B "tsv")); (fld_1, (B ";")); (fld_2, v_na); (fld_8, v_true); (fld_30, (B "csv")); (fld_33, v_na)]);
+    ([tok_2; tok_36; tok_53], Some [(fld_0, (B "tsv")); (fld_1, (B ";")); (fld_2, v_na); (fld_8, v_true); (fld_30, (B "csv")); (fld_33, v_na)]);
+    ([tok_2; tok_154], Some [(fld_0, (B "tsv")); (fld_1, (B ";")); (fld_2, v_na); (fld_8, v_true)]);
+    ([tok_2; tok_36; tok_56], Some [(fld_0, (B "tsv")); (fld_1, (B ";")); (fld_2, v_na); (fld_8, v_true)]);
+    ([tok_2; tok_155], Some [(fld_0, (B "tsv")); (fld_1, (B ";")); (fld_2, v_na); (fld_8, v_true); (fld_30, (B "json")); (fld_31, v_na); (fld_32, v_na); (fld_33, v_na); (fld_65, v_false); (fld_66, v_true)]);
+    ([tok_2; tok_36; tok_57], Some [(fld_0, (B "tsv")); (fld_1, (B ";")); (fld_2, v_na); (fld_8, v_true); (fld_30, (B "json")); (fld_31, v_na); (fld_32, v_na); (fld_33, v_na); (fld_65, v_false); (fld_66, v_true)]);
+    ([tok_2; tok_156], Some [(fld_0, (B "tsv")); (fld_1, (B ";")); (fld_2, v_na); (fld_8, v_true); (fld_30, (B "jsonl")); (fld_31, (B "")); (fld_32, (B "")); (fld_33, (B "")); (fld_65, v_false); (fld_66, v_true)]);
+    ([tok_2; tok_36; tok_58], Some [(fld_0, (B "tsv")); (fld_1, (B ";")); (fld_2, v_na); (fld_8, v_true); (fld_30, (B "jsonl")); (fld_31, (B "")); (fld_32, (B "")); (fld_33, (B "")); (fld_65, v_false); (fld_66, v_true)]);
+    ([tok_2; tok_157], Some [(fld_0, (B "tsv")); (fld_1, (B ";")); (fld_2, v_na); (fld_8, v_true); (fld_30, (B "markdown")); (fld_32, (B " ")); (fld_33, v_na)]);
+    ([tok_2; tok_36; tok_59], Some [(fld_0, (B "tsv")); (fld_1, (B ";")); (fld_2, v_na); (fld_8, v_true); (fld_30, (B "markdown")); (fld_32, (B " ")); (fld_33, v_na)]);
+    ([tok_2; tok_158], Some [(fld_0, (B "tsv")); (fld_1, (B ";")); (fld_2, v_na); (fld_8, v_true); (fld_30, (B "nidx")); (fld_32, (B " ")); (fld_33, v_na); (fld_37, v_true)]);
+    ([tok_2; tok_36; tok_61], Some [(fld_0, (B "tsv")); (fld_1, (B ";")); (fld_2, v_na); (fld_8, v_true); (fld_30, (B "nidx")); (fld_32, (B " ")); (fld_33, v_na); (fld_37, v_true)]);
+    ([tok_2; tok_159], Some [(fld_0, (B "tsv")); (fld_1, (B ";")); (fld_2, v_na); (fld_8, v_true); (fld_30, (B "pprint")); (fld_32, (B " ")); (fld_33, v_na)]);
+    ([tok_2; tok_36; tok_62], Some [(fld_0, (B "tsv")); (fld_1, (B ";")); (fld_2, v_na); (fld_8, v_true); (fld_30, (B "pprint")); (fld_32, (B " ")); (fld_33, v_na)]);
+    ([tok_2; tok_75], Some [(fld_0, (B "tsv")); (fld_1, (B ";")); (fld_2, v_na); (fld_8, v_true); (fld_30, (B "tsv")); (fld_32, (bs [9]%N)); (fld_33, v_na)]);
+    ([tok_2; tok_36; tok_64], Some [(fld_0, (B "tsv")); (fld_1, (B ";")); (fld_2, v_na); (fld_8, v_true); (fld_30, (B "tsv")); (fld_32, (bs [9]%N)); (fld_33, v_na); (fld_37, v_true)]);
+    ([tok_2; tok_160], Some [(fld_0, (B "tsv")); (fld_1, (B ";")); (fld_2, v_na); (fld_8, v_true); (fld_30, (B "xtab")); (fld_31, (bs [10;10]%N)); (fld_32, (bs [10]%N)); (fld_33, (B " "))]);
+    ([tok_2; tok_36; tok_68], Some [(fld_0, (B "tsv")); (fld_1, (B ";")); (fld_2, v_na); (fld_8, v_true); (fld_30, (B "xtab")); (fld_31, (bs [10;10]%N)); (fld_32, (bs [10]%N)); (fld_33, (B " "))]);
+    ([tok_2; tok_161], Some [(fld_0, (B "tsv")); (fld_1, (B ";")); (fld_2, v_na); (fld_8, v_true); (fld_30, (B "yaml")); (fld_31, v_na); (fld_32, v_na); (fld_33, v_na); (fld_65, v_false); (fld_66, v_true)]);
+    ([tok_2; tok_36; tok_69], Some [(fld_0, (B "tsv")); (fld_1, (B ";")); (fld_2, v_na); (fld_8, v_true); (fld_30, (B "yaml")); (fld_31, v_na); (fld_32, v_na); (fld_33, v_na); (fld_65, v_false); (fld_66, v_true)]);
+    ([tok_2; tok_162], Some [(fld_0, (B "xtab")); (fld_1, (B ";")); (fld_2, (B " ")); (fld_3, (bs [10;10]%N)); (fld_8, v_true); (fld_30, (B "pprint")); (fld_32, (B " ")); (fld_33, v_na); (fld_41, v_true)]);
+    ([tok_2; tok_40; tok_62; tok_233], Some [(fld_0, (B "xtab")); (fld_1, (B ";")); (fld_2, (B " ")); (fld_3, (bs [10;10]%N)); (fld_8, v_true); (fld_30, (B "pprint")); (fld_32, (B " ")); (fld_33, v_na); (fld_41, v_true)]);
+    ([tok_2; tok_163], Some [(fld_0, (B "xtab")); (fld_1, (B ";")); (fld_2, (B " ")); (fld_3, (bs [10;10]%N)); (fld_8, v_true); (fld_30, (B "csv")); (fld_33, v_na); (fld_39, v_true)]);
+    ([tok_2; tok_40; tok_53], Some [(fld_0, (B "xtab")); (fld_1, (B ";")); (fld_2, (B " ")); (fld_3, (bs [10;10]%N)); (fld_8, v_true); (fld_30, (B "csv")); (fld_33, v_na)]);
+    ([tok_2; tok_164], Some [(fld_0, (B "xtab")); (fld_1, (B ";")); (fld_2, (B " ")); (fld_3, (bs [10;10]%N)); (fld_8, v_true)]);
+    ([tok_2; tok_40; tok_56], Some [(fld_0, (B "xtab")); (fld_1, (B ";")); (fld_2, (B " ")); (fld_3, (bs [10;10]%N)); (fld_8, v_true)]);
+    ([tok_2; tok_165], Some [(fld_0, (B "xtab")); (fld_1, (B ";")); (fld_2, (B " ")); (fld_3, (bs [10;10]%N)); (fld_8, v_true); (fld_30, (B "json")); (fld_31, v_na); (fld_32, v_na); (fld_33, v_na); (fld_65, v_false); (fld_66, v_true)]);
+    ([tok_2; tok_40; tok_57], Some [(fld_0, (B "xtab")); (fld_1, (B ";")); (fld_2, (B " ")); (fld_3, (bs [10;10]%N)); (fld_8, v_true); (fld_30, (B "json")); (fld_31, v_na); (fld_32, v_na); (fld_33, v_na); (fld_65, v_false); (fld_66, v_true)]);
+    ([tok_2; tok_166], Some [(fld_0, (B "xtab")); (fld_1, (B ";")); (fld_2, (B " ")); (fld_3, (bs [10;10]%N)); (fld_8, v_true); (fld_30, (B "jsonl")); (fld_31, (B "")); (fld_32, (B "")); (fld_33, (B "")); (fld_65, v_false); (fld_66, v_true)]);
+    ([tok_2; tok_40; tok_58], Some [(fld_0, (B "xtab")); (fld_1, (B ";")); (fld_2, (B " ")); (fld_3, (bs [10;10]%N)); (fld_8, v_true); (fld_30, (B "jsonl")); (fld_31, (B "")); (fld_32, (B "")); (fld_33, (B "")); (fld_65, v_false); (fld_66, v_true)]);
+    ([tok_2; tok_167], Some [(fld_0, (B "xtab")); (fld_1, (B ";")); (fld_2, (B " ")); (fld_3, (bs [10;10]%N)); (fld_8, v_true); (fld_30, (B "markdown")); (fld_32, (B " ")); (fld_33, v_na)]);
+    ([tok_2; tok_40; tok_59], Some [(fld_0, (B "xtab")); (fld_1, (B ";")); (fld_2, (B " ")); (fld_3, (bs [10;10]%N)); (fld_8, v_true); (fld_30, (B "markdown")); (fld_32, (B " ")); (fld_33, v_na)]);
+    ([tok_2; tok_168], Some [(fld_0, (B "xtab")); (fld_1, (B ";")); (fld_2, (B " ")); (fld_3, (bs [10;10]%N)); (fld_8, v_true); (fld_30, (B "nidx")); (fld_32, (B " ")); (fld_33, v_na)]);
+    ([tok_2; tok_40; tok_61], Some [(fld_0, (B "xtab")); (fld_1, (B ";")); (fld_2, (B " ")); (fld_3, (bs [10;10]%N)); (fld_8, v_true); (fld_30, (B "nidx")); (fld_32, (B " ")); (fld_33, v_na); (fld_37, v_true)]);
+    ([tok_2; tok_169], Some [(fld_0, (B "xtab")); (fld_1, (B ";")); (fld_2, (B " ")); (fld_3, (bs [10;10]%N)); (fld_8, v_true); (fld_30, (B "pprint")); (fld_32, (B " ")); (fld_33, v_na)]);
+    ([tok_2; tok_40; tok_62], Some [(fld_0, (B "xtab")); (fld_1, (B ";")); (fld_2, (B " ")); (fld_3, (bs [10;10]%N)); (fld_8, v_true); (fld_30, (B "pprint")); (fld_32, (B " ")); (fld_33, v_na)]);
+    ([tok_2; tok_170], Some [(fld_0, (B "xtab")); (fld_1, (B ";")); (fld_2, (B " ")); (fld_3, (bs [10;10]%N)); (fld_8, v_true); (fld_30, (B "tsv")); (fld_32, (bs [9]%N)); (fld_33, v_na)]);
+    ([tok_2; tok_40; tok_64], Some [(fld_0, (B "xtab")); (fld_1, (B ";")); (fld_2, (B " ")); (fld_3, (bs [10;10]%N)); (fld_8, v_true); (fld_30, (B "tsv")); (fld_32, (bs [9]%N)); (fld_33, v_na); (fld_37, v_true)]);
+    ([tok_2; tok_80], Some [(fld_0, (B "xtab")); (fld_1, (B ";")); (fld_2, (B " ")); (fld_3, (bs [10;10]%N)); (fld_8, v_true); (fld_30, (B "xtab")); (fld_31, (bs [10;10]%N)); (fld_32, (bs [10]%N)); (fld_33, (B " "))]);
+    ([tok_2; tok_40; tok_68], Some [(fld_0, (B "xtab")); (fld_1, (B ";")); (fld_2, (B " ")); (fld_3, (bs [10;10]%N)); (fld_8, v_true); (fld_30, (B "xtab")); (fld_31, (bs [10;10]%N)); (fld_32, (bs [10]%N)); (fld_33, (B " "))]);
+    ([tok_2; tok_171], Some [(fld_0, (B "xtab")); (fld_1, (B ";")); (fld_2, (B " ")); (fld_3, (bs [10;10]%N)); (fld_8, v_true); (fld_30, (B "yaml")); (fld_31, v_na); (fld_32, v_na); (fld_33, v_na); (fld_65, v_false); (fld_66, v_true)]);
+    ([tok_2; tok_40; tok_69], Some [(fld_0, (B "xtab")); (fld_1, (B ";")); (fld_2, (B " ")); (fld_3, (bs [10;10]%N)); (fld_8, v_true); (fld_30, (B "yaml")); (fld_31, v_na); (fld_32, v_na); (fld_33, v_na); (fld_65, v_false); (fld_66, v_true)]);
+    ([tok_2; tok_172], Some [(fld_0, (B "yaml")); (fld_1, (B ";")); (fld_2, v_na); (fld_3, v_na); (fld_8, v_true); (fld_30, (B "csv")); (fld_33, v_na); (fld_39, v_true)]);
+    ([tok_2; tok_41; tok_53], Some [(fld_0, (B "yaml")); (fld_1, (B ";")); (fld_2, v_na); (fld_3, v_na); (fld_8, v_true); (fld_30, (B "csv")); (fld_33, v_na)]);
+    ([tok_2; tok_173], Some [(fld_0, (B "yaml")); (fld_1, (B ";")); (fld_2, v_na); (fld_3, v_na); (fld_8, v_true)]);
+    ([tok_2; tok_41; tok_56], Some [(fld_0, (B "yaml")); (fld_1, (B ";")); (fld_2, v_na); (fld_3, v_na); (fld_8, v_true)]);
+    ([tok_2; tok_174], Some [(fld_0, (B "yaml")); (fld_1, (B ";")); (fld_2, v_na); (fld_3, v_na); (fld_8, v_true); (fld_30, (B "json")); (fld_31, v_na); (fld_32, v_na); (fld_33, v_na); (fld_65, v_false)]);
+    ([tok_2; tok_41; tok_57], Some [(fld_0, (B "yaml")); (fld_1, (B ";")); (fld_2, v_na); (fld_3, v_na); (fld_8, v_true); (fld_30, (B "json")); (fld_31, v_na); (fld_32, v_na); (fld_33, v_na); (fld_65, v_false)]);
+    ([tok_2; tok_175], Some [(fld_0, (B "yaml")); (fld_1, (B ";")); (fld_2, v_na); (fld_3, v_na); (fld_8, v_true); (fld_30, (B "jsonl")); (fld_31, (B "")); (fld_32, (B "")); (fld_33, (B "")); (fld_65, v_false)]);
+    ([tok_2; tok_41; tok_58], Some [(fld_0, (B "yaml")); (fld_1, (B ";")); (fld_2, v_na); (fld_3, v_na); (fld_8, v_true); (fld_30, (B "jsonl")); (fld_31, (B "")); (fld_32, (B "")); (fld_33, (B "")); (fld_65, v_false)]);
+    ([tok_2; tok_176], Some [(fld_0, (B "yaml")); (fld_1, (B ";")); (fld_2, v_na); (fld_3, v_na); (fld_8, v_true); (fld_30, (B "markdown")); (fld_32, (B " ")); (fld_33, v_na)]);
+    ([tok_2; tok_41; tok_59], Some [(fld_0, (B "yaml")); (fld_1, (B ";")); (fld_2, v_na); (fld_3, v_na); (fld_8, v_true); (fld_30, (B "markdown")); (fld_32, (B " ")); (fld_33, v_na)]);
+    ([tok_2; tok_177], Some [(fld_0, (B "yaml")); (fld_1, (B ";")); (fld_2, v_na); (fld_3, v_na); (fld_8, v_true); (fld_30, (B "nidx")); (fld_32, (B " ")); (fld_33, v_na)]);
+    ([tok_2; tok_41; tok_61], Some [(fld_0, (B "yaml")); (fld_1, (B ";")); (fld_2, v_na); (fld_3, v_na); (fld_8, v_true); (fld_30, (B "nidx")); (fld_32, (B " ")); (fld_33, v_na); (fld_37, v_true)]);
+    ([tok_2; tok_178], Some [(fld_0, (B "yaml")); (fld_1, (B ";")); (fld_2, v_na); (fld_3, v_na); (fld_8, v_true); (fld_30, (B "pprint")); (fld_32, (B " ")); (fld_33, v_na)]);
+    ([tok_2; tok_41; tok_62], Some [(fld_0, (B "yaml")); (fld_1, (B ";")); (fld_2, v_na); (fld_3, v_na); (fld_8, v_true); (fld_30, (B "pprint")); (fld_32, (B " ")); (fld_33, v_na)]);
+    ([tok_2; tok_179], Some [(fld_0, (B "yaml")); (fld_1, (B ";")); (fld_2, v_na); (fld_3, v_na); (fld_8, v_true); (fld_30, (B "tsv")); (fld_32, (bs [9]%N)); (fld_33, v_na)]);
+    ([tok_2; tok_41; tok_64], Some [(fld_0, (B "yaml")); (fld_1, (B ";")); (fld_2, v_na); (fld_3, v_na); (fld_8, v_true); (fld_30, (B "tsv")); (fld_32, (bs [9]%N)); (fld_33, v_na); (fld_37, v_true)]);
+    ([tok_2; tok_180], Some [(fld_0, (B "yaml")); (fld_1, (B ";")); (fld_2, v_na); (fld_3, v_na); (fld_8, v_true); (fld_30, (B "xtab")); (fld_31, (bs [10;10]%N)); (fld_32, (bs [10]%N)); (fld_33, (B " "))]);
+    ([tok_2; tok_41; tok_68], Some [(fld_0, (B "yaml")); (fld_1, (B ";")); (fld_2, v_na); (fld_3, v_na); (fld_8, v_true); (fld_30, (B "xtab")); (fld_31, (bs [10;10]%N)); (fld_32, (bs [10]%N)); (fld_33, (B " "))]);
+    ([tok_2; tok_83], Some [(fld_0, (B "yaml")); (fld_1, (B ";")); (fld_2, v_na); (fld_3, v_na); (fld_8, v_true); (fld_30, (B "yaml")); (fld_31, v_na); (fld_32, v_na); (fld_33, v_na); (fld_65, v_false)]);
+    ([tok_2; tok_41; tok_69], Some [(fld_0, (B "yaml")); (fld_1, (B ";")); (fld_2, v_na); (fld_3, v_na); (fld_8, v_true); (fld_30, (B "yaml")); (fld_31, v_na); (fld_32, v_na); (fld_33, v_na); (fld_65, v_false)]);
+    ([tok_2; tok_235], Some [(fld_1, (B ";")); (fld_8, v_true); (fld_12, v_true); (fld_40, v_true)]);
+    ([tok_2; tok_207; tok_204], Some [(fld_1, (B ";")); (fld_8, v_true); (fld_12, v_true); (fld_40, v_true)]);
+    ([tok_2; tok_182], Some [(fld_0, (B "nidx")); (fld_1, (bs [9]%N)); (fld_2, v_na); (fld_8, v_true); (fld_30, (B "nidx")); (fld_32, (bs [9]%N)); (fld_33, v_na); (fld_37, v_true)]);
+    ([tok_2; tok_49; tok_236; tok_237], Some [(fld_0, (B "nidx")); (fld_1, (bs [9]%N)); (fld_2, v_na); (fld_8, v_true); (fld_30, (B "nidx")); (fld_32, (bs [9]%N)); (fld_33, v_na); (fld_37, v_true)]);
+    ([tok_2; tok_181], Some [(fld_0, (B "nidx")); (fld_1, (B " ")); (fld_2, v_na); (fld_4, v_true); (fld_8, v_true); (fld_11, v_true); (fld_30, (B "nidx")); (fld_32, (B " ")); (fld_33, v_na); (fld_37, v_true)]);
+    ([tok_2; tok_49; tok_236; tok_238; tok_239], Some [(fld_0, (B "nidx")); (fld_1, (B " ")); (fld_2, v_na); (fld_4, v_true); (fld_8, v_true); (fld_11, v_true); (fld_30, (B "nidx")); (fld_32, (B " ")); (fld_33, v_na); (fld_37, v_true)]);
+    ([tok_263], Some [(fld_1, (bs [27]%N)); (fld_8, v_true)]);
+    ([tok_264], Some [(fld_1, (bs [27]%N)); (fld_8, v_true)]);
+    ([tok_265], Some [(fld_1, (bs [3]%N)); (fld_8, v_true)]);
+    ([tok_266], Some [(fld_1, (bs [3]%N)); (fld_8, v_true)]);
+    ([tok_267], Some [(fld_1, (bs [28]%N)); (fld_8, v_true)]);
+    ([tok_268], Some [(fld_1, (bs [28]%N)); (fld_8, v_true)]);
+    ([tok_269], Some [(fld_1, (bs [29]%N)); (fld_8, v_true)]);
+    ([tok_270], Some [(fld_1, (bs [29]%N)); (fld_8, v_true)]);
+    ([tok_271], Some [(fld_1, (bs [0]%N)); (fld_8, v_true)]);
+    ([tok_272], Some [(fld_1, (bs [0]%N)); (fld_8, v_true)]);
+    ([tok_273], Some [(fld_1, (bs [30]%N)); (fld_8, v_true)]);
+    ([tok_274], Some [(fld_1, (bs [30]%N)); (fld_8, v_true)]);
+    ([tok_275], Some [(fld_1, (bs [1]%N)); (fld_8, v_true)]);
+    ([tok_276], Some [(fld_1, (bs [1]%N)); (fld_8, v_true)]);
+    ([tok_277], Some [(fld_1, (bs [2]%N)); (fld_8, v_true)]);
+    ([tok_278], Some [(fld_1, (bs [2]%N)); (fld_8, v_true)]);
+    ([tok_279], Some [(fld_1, (bs [31]%N)); (fld_8, v_true)]);
+    ([tok_280], Some [(fld_1, (bs [31]%N)); (fld_8, v_true)]);
+    ([tok_281], Some [(fld_1, (bs [31]%N)); (fld_8, v_true)]);
+    ([tok_282], Some [(fld_1, (bs [30]%N)); (fld_8, v_true)]);
+    ([tok_283], Some [(fld_1, (B ":")); (fld_8, v_true)]);
+    ([tok_4], Some [(fld_1, (B ":")); (fld_8, v_true)]);
+    ([tok_284], Some [(fld_8, v_true)]);
+    ([tok_285], Some [(fld_8, v_true)]);
+    ([tok_286], Some [(fld_1, (bs [13]%N)); (fld_8, v_true)]);
+    ([tok_287], Some [(fld_1, (bs [13]%N)); (fld_8, v_true)]);
+    ([tok_288], Some [(fld_1, (bs [13;13]%N)); (fld_8, v_true)]);
+    ([tok_289], Some [(fld_1, (bs [13;13]%N)); (fld_8, v_true)]);
+    ([tok_290], Some [(fld_1, (bs [13;10]%N)); (fld_8, v_true)]);
+    ([tok_291], Some [(fld_1, (bs [13;10]%N)); (fld_8, v_true)]);
+    ([tok_292], Some [(fld_1, (bs [13;10;13;10]%N)); (fld_8, v_true)]);
+    ([tok_293], Some [(fld_1, (bs [13;10;13;10]%N)); (fld_8, v_true)]);
+    ([tok_294], Some [(fld_1, (B "=")); (fld_8, v_true)]);
+    ([tok_295], Some [(fld_1, (B "=")); (fld_8, v_true)]);
+    ([tok_296], Some [(fld_1, (bs [10]%N)); (fld_8, v_true)]);
+    ([tok_297], Some [(fld_1, (bs [10]%N)); (fld_8, v_true)]);
+    ([tok_298], Some [(fld_1, (bs [10;10]%N)); (fld_8, v_true)]);
+    ([tok_299], Some [(fld_1, (bs [10;10]%N)); (fld_8, v_true)]);
+    ([tok_300], Some [(fld_1, (bs [10]%N)); (fld_8, v_true)]);
+    ([tok_301], Some [(fld_1, (B "|")); (fld_8, v_true)]);
+    ([tok_302], Some [(fld_1, (B "|")); (fld_8, v_true)]);
+    ([tok_214], Some [(fld_1, (B ";")); (fld_8, v_true)]);
+    ([tok_2], Some [(fld_1, (B ";")); (fld_8, v_true)]);
+    ([tok_303], Some [(fld_1, (B "/")); (fld_8, v_true)]);
+    ([tok_304], Some [(fld_1, (B "/")); (fld_8, v_true)]);
+    ([tok_238], Some [(fld_1, (B " ")); (fld_8, v_true)]);
+    ([tok_305], Some [(fld_1, (B " ")); (fld_8, v_true)]);
+    ([tok_237], Some [(fld_1, (bs [9]%N)); (fld_8, v_true)]);
+    ([tok_306], Some [(fld_1, (bs [9]%N)); (fld_8, v_true)]);
+    ([tok_307], Some [(fld_1, (bs [226;144;159]%N)); (fld_8, v_true)]);
+    ([tok_308], Some [(fld_1, (bs [226;144;159]%N)); (fld_8, v_true)]);
+    ([tok_309], Some [(fld_1, (bs [226;144;158]%N)); (fld_8, v_true)]);
+    ([tok_310], Some [(fld_1, (bs [226;144;158]%N)); (fld_8, v_true)])]);
+  (tok_5, [
+    ([tok_2; tok_84], Some [(fld_0, (B "csv")); (fld_2, v_na); (fld_10, v_true); (fld_30, (B "pprint")); (fld_32, (B ";")); (fld_33, v_na); (fld_37, v_true); (fld_41, v_true)]);
+    ([tok_2; tok_24; tok_62; tok_233], Some [(fld_0, (B "csv")); (fld_2, v_na); (fld_30, (B "pprint")); (fld_32, (B ";")); (fld_33, v_na); (fld_37, v_true); (fld_41, v_true)]);
+    ([tok_2; tok_12], Some [(fld_0, (B "csv")); (fld_2, v_na); (fld_30, (B "csv")); (fld_32, (B ";")); (fld_33, v_na); (fld_37, v_true)]);
+    ([tok_2; tok_24; tok_53], Some [(fld_0, (B "csv")); (fld_2, v_na); (fld_30, (B "csv")); (fld_32, (B ";")); (fld_33, v_na); (fld_37, v_true)]);
+    ([tok_2; tok_85], Some [(fld_0, (B "csv")); (fld_2, v_na); (fld_10, v_true); (fld_32, (B ";")); (fld_37, v_true)]);
+    ([tok_2; tok_24; tok_56], Some [(fld_0, (B "csv")); (fld_2, v_na); (fld_32, (B ";")); (fld_37, v_true)]);
+    ([tok_2; tok_86], Some [(fld_0, (B "csv")); (fld_2, v_na); (fld_10, v_true); (fld_30, (B "json")); (fld_31, v_na); (fld_32, (B ";")); (fld_33, v_na); (fld_37, v_true); (fld_65, v_false); (fld_66, v_true)]);
+    ([tok_2; tok_24; tok_57], Some [(fld_0, (B "csv")); (fld_2, v_na); (fld_30, (B "json")); (fld_31, v_na); (fld_32, (B ";")); (fld_33, v_na); (fld_37, v_true); (fld_65, v_false); (fld_66, v_true)]);
+    ([tok_2; tok_87], Some [(fld_0, (B "csv")); (fld_2, v_na); (fld_10, v_true); (fld_30, (B "jsonl")); (fld_31, (B "")); (fld_32, (B ";")); (fld_33, (B "")); (fld_37, v_true); (fld_65, v_false); (fld_66, v_true)]);
+    ([tok_2; tok_24; tok_58], Some [(fld_0, (B "csv")); (fld_2, v_na); (fld_30, (B "jsonl")); (fld_31, (B "")); (fld_32, (B ";")); (fld_33, (B "")); (fld_37, v_true); (fld_65, v_false); (fld_66, v_true)]);
+    ([tok_2; tok_88], Some [(fld_0, (B "csv")); (fld_2, v_na); (fld_10, v_true); (fld_30, (B "markdown")); (fld_32, (B ";")); (fld_33, v_na); (fld_37, v_true)]);
+    ([tok_2; tok_24; tok_59], Some [(fld_0, (B "csv")); (fld_2, v_na); (fld_30, (B "markdown")); (fld_32, (B ";")); (fld_33, v_na); (fld_37, v_true)]);
+    ([tok_2; tok_89], Some [(fld_0, (B "csv")); (fld_2, v_na); (fld_10, v_true); (fld_30, (B "nidx")); (fld_32, (B " ")); (fld_33, v_na); (fld_37, v_true)]);
+    ([tok_2; tok_24; tok_61], Some [(fld_0, (B "csv")); (fld_2, v_na); (fld_30, (B "nidx")); (fld_32, (B " ")); (fld_33, v_na); (fld_37, v_true)]);
+    ([tok_2; tok_90], Some [(fld_0, (B "csv")); (fld_2, v_na); (fld_10, v_true); (fld_30, (B "pprint")); (fld_32, (B ";")); (fld_33, v_na); (fld_37, v_true)]);
+    ([tok_2; tok_24; tok_62], Some [(fld_0, (B "csv")); (fld_2, v_na); (fld_30, (B "pprint")); (fld_32, (B ";")); (fld_33, v_na); (fld_37, v_true)]);
+    ([tok_2; tok_91], Some [(fld_0, (B "csv")); (fld_2, v_na); (fld_10, v_true); (fld_30, (B "tsv")); (fld_32, (B ";")); (fld_33, v_na); (fld_37, v_true)]);
+    ([tok_2; tok_24; tok_64], Some [(fld_0, (B "csv")); (fld_2, v_na); (fld_30, (B "tsv")); (fld_32, (bs [9]%N)); (fld_33, v_na); (fld_37, v_true)]);
+    ([tok_2; tok_92], Some [(fld_0, (B "csv")); (fld_2, v_na); (fld_10, v_true); (fld_30, (B "xtab")); (fld_31, (bs [10;10]%N)); (fld_32, (B ";")); (fld_33, (B " ")); (fld_37, v_true)]);
+    ([tok_2; tok_24; tok_68], Some [(fld_0, (B "csv")); (fld_2, v_na); (fld_30, (B "xtab")); (fld_31, (bs [10;10]%N)); (fld_32, (B ";")); (fld_33, (B " ")); (fld_37, v_true)]);
+    ([tok_2; tok_93], Some [(fld_0, (B "csv")); (fld_2, v_na); (fld_10, v_true); (fld_30, (B "yaml")); (fld_31, v_na); (fld_32, (B ";")); (fld_33, v_na); (fld_37, v_true); (fld_65, v_false); (fld_66, v_true)]);
+    ([tok_2; tok_24; tok_69], Some [(fld_0, (B "csv")); (fld_2, v_na); (fld_30, (B "yaml")); (fld_31, v_na); (fld_32, (B ";")); (fld_33, v_na); (fld_37, v_true); (fld_65, v_false); (fld_66, v_true)]);
+    ([tok_2; tok_94], Some [(fld_30, (B "pprint")); (fld_32, (B ";")); (fld_33, v_na); (fld_37, v_true); (fld_41, v_true)]);
+    ([tok_2; tok_27; tok_62; tok_233], Some [(fld_30, (B "pprint")); (fld_32, (B ";")); (fld_33, v_na); (fld_37, v_true); (fld_41, v_true)]);
+    ([tok_2; tok_95], Some [(fld_30, (B "csv")); (fld_32, (B ";")); (fld_33, v_na); (fld_37, v_true)]);
+    ([tok_2; tok_27; tok_53], Some [(fld_30, (B "csv")); (fld_32, (B ";")); (fld_33, v_na); (fld_37, v_true)]);
+    ([tok_2; tok_16], Some [(fld_32, (B ";")); (fld_37, v_true)]);
+    ([tok_2; tok_27; tok_56], Some [(fld_32, (B ";")); (fld_37, v_true)]);
+    ([tok_2; tok_96], Some [(fld_30, (B "json")); (fld_31, v_na); (fld_32, (B ";")); (fld_33, v_na); (fld_37, v_true); (fld_65, v_false); (fld_66, v_true)]);
+    ([tok_2; tok_27; tok_57], Some [(fld_30, (B "json")); (fld_31, v_na); (fld_32, (B ";")); (fld_33, v_na); (fld_37, v_true); (fld_65, v_false); (fld_66, v_true)]);
+    ([tok_2; tok_97], Some [(fld_30, (B "jsonl")); (fld_31, (B "")); (fld_32, (B ";")); (fld_33, (B "")); (fld_37, v_true); (fld_65, v_false); (fld_66, v_true)]);
+    ([tok_2; tok_27; tok_58], Some [(fld_30, (B "jsonl")); (fld_31, (B "")); (fld_32, (B ";")); (fld_33, (B "")); (fld_37, v_true); (fld_65, v_false); (fld_66, v_true)]);
+    ([tok_2; tok_98], Some [(fld_30, (B "markdown")); (fld_32, (B ";")); (fld_33, v_na); (fld_37, v_true)]);
+    ([tok_2; tok_27; tok_59], Some [(fld_30, (B "markdown")); (fld_32, (B ";")); (fld_33, v_na); (fld_37, v_true)]);
+    ([tok_2; tok_99], Some [(fld_30, (B "nidx")); (fld_32, (B " ")); (fld_33, v_na); (fld_37, v_true)]);
+    ([tok_2; tok_27; tok_61], Some [(fld_30, (B "nidx")); (fld_32, (B " ")); (fld_33, v_na); (fld_37, v_true)]);
+    ([tok_2; tok_100], Some [(fld_30, (B "pprint")); (fld_32, (B ";")); (fld_33, v_na); (fld_37, v_true)]);
+    ([tok_2; tok_27; tok_62], Some [(fld_30, (B "pprint")); (fld_32, (B ";")); (fld_33, v_na); (fld_37, v_true)]);
+    ([tok_2; tok_101], Some [(fld_30, (B "tsv")); (fld_32, (bs [9]%N)); (fld_33, v_na); (fld_37, v_true); (fld_39, v_true)]);
+    ([tok_2; tok_27; tok_64], Some [(fld_30, (B "tsv")); (fld_32, (bs [9]%N)); (fld_33, v_na); (fld_37, v_true)]);
+    ([tok_2; tok_102], Some [(fld_30, (B "xtab")); (fld_31, (bs [10;10]%N)); (fld_32, (B ";")); (fld_33, (B " ")); (fld_37, v_true)]);
+    ([tok_2; tok_27; tok_68], Some [(fld_30, (B "xtab")); (fld_31, (bs [10;10]%N)); (fld_32, (B ";")); (fld_33, (B " ")); (fld_37, v_true)]);
+    ([tok_2; tok_103], Some [(fld_30, (B "yaml")); (fld_31, v_na); (fld_32, (B ";")); (fld_33, v_na); (fld_37, v_true); (fld_65, v_false); (fld_66, v_true)]);
+    ([tok_2; tok_27; tok_69], Some [(fld_30, (B "yaml")); (fld_31, v_na); (fld_32, (B ";")); (fld_33, v_na); (fld_37, v_true); (fld_65, v_false); (fld_66, v_true)]);
+    ([tok_2; tok_104], Some [(fld_0, (B "json")); (fld_1, v_na); (fld_2, v_na); (fld_3, v_na); (fld_30, (B "pprint")); (fld_32, (B ";")); (fld_33, v_na); (fld_37, v_true); (fld_41, v_true)]);
+    ([tok_2; tok_29; tok_62; tok_233], Some [(fld_0, (B "json")); (fld_1, v_na); (fld_2, v_na); (fld_3, v_na); (fld_30, (B "pprint")); (fld_32, (B ";")); (fld_33, v_na); (fld_37, v_true); (fld_41, v_true)]);
+    ([tok_2; tok_105], Some [(fld_0, (B "json")); (fld_1, v_na); (fld_2, v_na); (fld_3, v_na); (fld_30, (B "csv")); (fld_32, (B ";")); (fld_33, v_na); (fld_37, v_true); (fld_39, v_true)]);
+    ([tok_2; tok_29; tok_53], Some [(fld_0, (B "json")); (fld_1, v_na); (fld_2, v_na); (fld_3, v_na); (fld_30, (B "csv")); (fld_32, (B ";")); (fld_33, v_na); (fld_37, v_true)]);
+    ([tok_2; tok_106], Some [(fld_0, (B "json")); (fld_1, v_na); (fld_2, v_na); (fld_3, v_na); (fld_32, (B ";")); (fld_37, v_true)]);
+    ([tok_2; tok_29; tok_56], Some [(fld_0, (B "json")); (fld_1, v_na); (fld_2, v_na); (fld_3, v_na); (fld_32, (B ";")); (fld_37, v_true)]);
+    ([tok_2; tok_44], Some [(fld_0, (B "json")); (fld_1, v_na); (fld_2, v_na); (fld_3, v_na); (fld_30, (B "json")); (fld_31, v_na); (fld_32, (B ";")); (fld_33, v_na); (fld_37, v_true); (fld_65, v_false)]);
+    ([tok_2; tok_29; tok_57], Some [(fld_0, (B "json")); (fld_1, v_na); (fld_2, v_na); (fld_3, v_na); (fld_30, (B "json")); (fld_31, v_na); (fld_32, (B ";")); (fld_33, v_na); (fld_37, v_true); (fld_65, v_false)]);
+    ([tok_2; tok_107], Some [(fld_0, (B "json")); (fld_1, v_na); (fld_2, v_na); (fld_3, v_na); (fld_30, (B "jsonl")); (fld_31, (B "")); (fld_32, (B ";")); (fld_33, (B "")); (fld_37, v_true); (fld_65, v_false)]);
+    ([tok_2; tok_29; tok_58], Some [(fld_0, (B "json")); (fld_1, v_na); (fld_2, v_na); (fld_3, v_na); (fld_30, (B "jsonl")); (fld_31, (B "")); (fld_32, (B ";")); (fld_33, (B "")); (fld_37, v_true); (fld_65, v_false)]);
+    ([tok_2; tok_108], Some [(fld_0, (B "json")); (fld_1, v_na); (fld_2, v_na); (fld_3, v_na); (fld_30, (B "markdown")); (fld_32, (B ";")); (fld_33, v_na); (fld_37, v_true)]);
+    ([tok_2; tok_29; tok_59], Some [(fld_0, (B "json")); (fld_1, v_na); (fld_2, v_na); (fld_3, v_na); (fld_30, (B "markdown")); (fld_32, (B ";")); (fld_33, v_na); (fld_37, v_true)]);
+    ([tok_2; tok_109], Some [(fld_0, (B "json")); (fld_1, v_na); (fld_2, v_na); (fld_3, v_na); (fld_30, (B "nidx")); (fld_32, (B ";")); (fld_33, v_na); (fld_37, v_true)]);
+    ([tok_2; tok_29; tok_61], Some [(fld_0, (B "json")); (fld_1, v_na); (fld_2, v_na); (fld_3, v_na); (fld_30, (B "nidx")); (fld_32, (B " ")); (fld_33, v_na); (fld_37, v_true)]);
+    ([tok_2; tok_110], Some [(fld_0, (B "json")); (fld_1, v_na); (fld_2, v_na); (fld_3, v_na); (fld_30, (B "pprint")); (fld_32, (B ";")); (fld_33, v_na); (fld_37, v_true)]);
+    ([tok_2; tok_29; tok_62], Some [(fld_0, (B "json")); (fld_1, v_na); (fld_2, v_na); (fld_3, v_na); (fld_30, (B "pprint")); (fld_32, (B ";")); (fld_33, v_na); (fld_37, v_true)]);
+    ([tok_2; tok_111], Some [(fld_0, (B "json")); (fld_1, v_na); (fld_2, v_na); (fld_3, v_na); (fld_30, (B "tsv")); (fld_32, (B ";")); (fld_33, v_na); (fld_37, v_true)]);
+    ([tok_2; tok_29; tok_64], Some [(fld_0, (B "json")); (fld_1, v_na); (fld_2, v_na); (fld_3, v_na); (fld_30, (B "tsv")); (fld_32, (bs [9]%N)); (fld_33, v_na); (fld_37, v_true)]);
+    ([tok_2; tok_112], Some [(fld_0, (B "json")); (fld_1, v_na); (fld_2, v_na); (fld_3, v_na); (fld_30, (B "xtab")); (fld_31, (bs [10;10]%N)); (fld_32, (B ";")); (fld_33, (B " ")); (fld_37, v_true)]);
+    ([tok_2; tok_29; tok_68], Some [(fld_0, (B "json")); (fld_1, v_na); (fld_2, v_na); (fld_3, v_na); (fld_30, (B "xtab")); (fld_31, (bs [10;10]%N)); (fld_32, (B ";")); (fld_33, (B " ")); (fld_37, v_true)]);
+    ([tok_2; tok_113], Some [(fld_0, (B "json")); (fld_1, v_na); (fld_2, v_na); (fld_3, v_na); (fld_30, (B "yaml")); (fld_31, v_na); (fld_32, (B ";")); (fld_33, v_na); (fld_37, v_true); (fld_65, v_false)]);
+    ([tok_2; tok_29; tok_69], Some [(fld_0, (B "json")); (fld_1, v_na); (fld_2, v_na); (fld_3, v_na); (fld_30, (B "yaml")); (fld_31, v_na); (fld_32, (B ";")); (fld_33, v_na); (fld_37, v_true); (fld_65, v_false)]);
+    ([tok_2; tok_114], Some [(fld_0, (B "json")); (fld_1, v_na); (fld_2, v_na); (fld_3, v_na); (fld_30, (B "pprint")); (fld_32, (B ";")); (fld_33, v_na); (fld_37, v_true); (fld_41, v_true)]);
+    ([tok_2; tok_30; tok_62; tok_233], Some [(fld_0, (B "json")); (fld_1, v_na); (fld_2, v_na); (fld_3, v_na); (fld_30, (B "pprint")); (fld_32, (B ";")); (fld_33, v_na); (fld_37, v_true); (fld_41, v_true)]);
+    ([tok_2; tok_115], Some [(fld_0, (B "json")); (fld_1, v_na); (fld_2, v_na); (fld_3, v_na); (fld_30, (B "csv")); (fld_32, (B ";")); (fld_33, v_na); (fld_37, v_true); (fld_39, v_true)]);
+    ([tok_2; tok_30; tok_53], Some [(fld_0, (B "json")); (fld_1, v_na); (fld_2, v_na); (fld_3, v_na); (fld_30, (B "csv")); (fld_32, (B ";")); (fld_33, v_na); (fld_37, v_true)]);
+    ([tok_2; tok_116], Some [(fld_0, (B "json")); (fld_1, v_na); (fld_2, v_na); (fld_3, v_na); (fld_32, (B ";")); (fld_37, v_true)]);
+    ([tok_2; tok_30; tok_56], Some [(fld_0, (B "json")); (fld_1, v_na); (fld_2, v_na); (fld_3, v_na); (fld_32, (B ";")); (fld_37, v_true)]);
+    ([tok_2; tok_117], Some [(fld_0, (B "json")); (fld_1, v_na); (fld_2, v_na); (fld_3, v_na); (fld_30, (B "json")); (fld_31, v_na); (fld_32, (B ";")); (fld_33, v_na); (fld_37, v_true); (fld_65, v_false)]);
+    ([tok_2; tok_30; tok_57], Some [(fld_0, (B "json")); (fld_1, v_na); (fld_2, v_na); (fld_3, v_na); (fld_30, (B "json")); (fld_31, v_na); (fld_32, (B ";")); (fld_33, v_na); (fld_37, v_true); (fld_65, v_false)]);
+    ([tok_2; tok_46], Some [(fld_0, (B "json")); (fld_1, v_na); (fld_2, v_na); (fld_3, v_na); (fld_30, (B "jsonl")); (fld_31, (B "")); (fld_32, (B ";")); (fld_33, (B "")); (fld_37, v_true); (fld_65, v_false)]);
+    ([tok_2; tok_30; tok_58], Some [(fld_0, (B "json")); (fld_1, v_na); (fld_2, v_na); (fld_3, v_na); (fld_30, (B "jsonl")); (fld_31, (B "")); (fld_32, (B ";")); (fld_33, (B "")); (fld_37, v_true); (fld_65, v_false)]);
+    ([tok_2; tok_118], Some [(fld_0, (B "json")); (fld_1, v_na); (fld_2, v_na); (fld_3, v_na); (fld_30, (B "markdown")); (fld_32, (B ";")); (fld_33, v_na); (fld_37, v_true)]);
+    ([tok_2; tok_30; tok_59], Some [(fld_0, (B "json")); (fld_1, v_na); (fld_2, v_na); (fld_3, v_na); (fld_30, (B "markdown")); (fld_32, (B ";")); (fld_33, v_na); (fld_37, v_true)]);
+    ([tok_2; tok_119], Some [(fld_0, (B "json")); (fld_1, v_na); (fld_2, v_na); (fld_3, v_na); (fld_30, (B "nidx")); (fld_32, (B ";")); (fld_33, v_na); (fld_37, v_true)]);
+    ([tok_2; tok_30; tok_61], Some [(fld_0, (B "json")); (fld_1, v_na); (fld_2, v_na); (fld_3, v_na); (fld_30, (B "nidx")); (fld_32, (B " ")); (fld_33, v_na); (fld_37, v_true)]);
+    ([tok_2; tok_120], Some [(fld_0, (B "json")); (fld_1, v_na); (fld_2, v_na); (fld_3, v_na); (fld_30, (B "pprint")); (fld_32, (B ";")); (fld_33, v_na); (fld_37, v_true)]);
+    ([tok_2; tok_30; tok_62], Some [(fld_0, (B "json")); (fld_1, v_na); (fld_2, v_na); (fld_3, v_na); (fld_30, (B "pprint")); (fld_32, (B ";")); (fld_33, v_na); (fld_37, v_true)]);
+    ([tok_2; tok_121], Some [(fld_0, (B "json")); (fld_1, v_na); (fld_2, v_na); (fld_3, v_na); (fld_30, (B "tsv")); (fld_32, (B ";")); (fld_33, v_na); (fld_37, v_true)]);
+    ([tok_2; tok_30; tok_64], Some [(fld_0, (B "json")); (fld_1, v_na); (fld_2, v_na); (fld_3, v_na); (fld_30, (B "tsv")); (fld_32, (bs [9]%N)); (fld_33, v_na); (fld_37, v_true)]);
+    ([tok_2; tok_122], Some [(fld_0, (B "json")); (fld_1, v_na); (fld_2, v_na); (fld_3, v_na); (fld_30, (B "xtab")); (fld_31, (bs [10;10]%N)); (fld_32, (B ";")); (fld_33, (B " ")); (fld_37, v_true)]);
+    ([tok_2; tok_30; tok_68], Some [(fld_0, (B "json")); (fld_1, v_na); (fld_2, v_na); (fld_3, v_na); (fld_30, (B "xtab")); (fld_31, (bs [10;10]%N)); (fld_32, (B ";")); (fld_33, (B " ")); (fld_37, v_true)]);
+    ([tok_2; tok_123], Some [(fld_0, (B "json")); (fld_1, v_na); (fld_2, v_na); (fld_3, v_na); (fld_30, (B "yaml")); (fld_31, v_na); (fld_32, (B ";")); (fld_33, v_na); (fld_37, v_true); (fld_65, v_false)]);
+    ([tok_2; tok_30; tok_69], Some [(fld_0, (B "json")); (fld_1, v_na); (fld_2, v_na); (fld_3, v_na); (fld_30, (B "yaml")); (fld_31, v_na); (fld_32, (B ";")); (fld_33, v_na); (fld_37, v_true); (fld_65, v_false)]);
+    ([tok_2; tok_124], Some [(fld_0, (B "markdown")); (fld_1, (B " ")); (fld_2, v_na); (fld_30, (B "csv")); (fld_32, (B ";")); (fld_33, v_na); (fld_37, v_true); (fld_39, v_true)]);
+    ([tok_2; tok_31; tok_53], Some [(fld_0, (B "markdown")); (fld_1, (B " ")); (fld_2, v_na); (fld_30, (B "csv")); (fld_32, (B ";")); (fld_33, v_na); (fld_37, v_true)]);
+    ([tok_2; tok_125], Some [(fld_0, (B "markdown")); (fld_1, (B " ")); (fld_2, v_na); (fld_32, (B ";")); (fld_37, v_true)]);
+    ([tok_2; tok_31; tok_56], Some [(fld_0, (B "markdown")); (fld_1, (B " ")); (fld_2, v_na); (fld_32, (B ";")); (fld_37, v_true)]);
+    ([tok_2; tok_126], Some [(fld_0, (B "markdown")); (fld_1, (B " ")); (fld_2, v_na); (fld_30, (B "json")); (fld_31, v_na); (fld_32, (B ";")); (fld_33, v_na); (fld_37, v_true); (fld_65, v_false); (fld_66, v_true)]);
+    ([tok_2; tok_31; tok_57], Some [(fld_0, (B "markdown")); (fld_1, (B " ")); (fld_2, v_na); (fld_30, (B "json")); (fld_31, v_na); (fld_32, (B ";")); (fld_33, v_na); (fld_37, v_true); (fld_65, v_false); (fld_66, v_true)]);
+    ([tok_2; tok_127], Some [(fld_0, (B "markdown")); (fld_1, (B " ")); (fld_2, v_na); (fld_30, (B "jsonl")); (fld_31, (B "")); (fld_32, (B ";")); (fld_33, (B "")); (fld_37, v_true); (fld_65, v_false); (fld_66, v_true)]);
+    ([tok_2; tok_31; tok_58], Some [(fld_0, (B "markdown")); (fld_1, (B " ")); (fld_2, v_na); (fld_30, (B "jsonl")); (fld_31, (B "")); (fld_32, (B ";")); (fld_33, (B "")); (fld_37, v_true); (fld_65, v_false); (fld_66, v_true)]);
+    ([tok_2; tok_128], Some [(fld_0, (B "markdown")); (fld_1, (B " ")); (fld_2, v_na); (fld_30, (B "nidx")); (fld_32, (B ";")); (fld_33, v_na); (fld_37, v_true)]);
+    ([tok_2; tok_31; tok_61], Some [(fld_0, (B "markdown")); (fld_1, (B " ")); (fld_2, v_na); (fld_30, (B "nidx")); (fld_32, (B " ")); (fld_33, v_na); (fld_37, v_true)]);
+    ([tok_2; tok_129], Some [(fld_0, (B "markdown")); (fld_1, (B " ")); (fld_2, v_na); (fld_30, (B "pprint")); (fld_32, (B ";")); (fld_33, v_na); (fld_37, v_true)]);
+    ([tok_2; tok_31; tok_62], Some [(fld_0, (B "markdown")); (fld_1, (B " ")); (fld_2, v_na); (fld_30, (B "pprint")); (fld_32, (B ";")); (fld_33, v_na); (fld_37, v_true)]);
+    ([tok_2; tok_130], Some [(fld_0, (B "markdown")); (fld_1, (B " ")); (fld_2, v_na); (fld_30, (B "tsv")); (fld_32, (B ";")); (fld_33, v_na); (fld_37, v_true)]);
+    ([tok_2; tok_31; tok_64], Some [(fld_0, (B "markdown")); (fld_1, (B " ")); (fld_2, v_na); (fld_30, (B "tsv")); (fld_32, (bs [9]%N)); (fld_33, v_na); (fld_37, v_true)]);
+    ([tok_2; tok_131], Some [(fld_0, (B "markdown")); (fld_1, (B " ")); (fld_2, v_na); (fld_30, (B "xtab")); (fld_31, (bs [10;10]%N)); (fld_32, (B ";")); (fld_33, (B " ")); (fld_37, v_true)]);
+    ([tok_2; tok_31; tok_68], Some [(fld_0, (B "markdown")); (fld_1, (B " ")); (fld_2, v_na); (fld_30, (B "xtab")); (fld_31, (bs [10;10]%N)); (fld_32, (B ";")); (fld_33, (B " ")); (fld_37, v_true)]);
+    ([tok_2; tok_132], Some [(fld_0, (B "markdown")); (fld_1, (B " ")); (fld_2, v_na); (fld_30, (B "yaml")); (fld_31, v_na); (fld_32, (B ";")); (fld_33, v_na); (fld_37, v_true); (fld_65, v_false); (fld_66, v_true)]);
+    ([tok_2; tok_31; tok_69], Some [(fld_0, (B "markdown")); (fld_1, (B " ")); (fld_2, v_na); (fld_30, (B "yaml")); (fld_31, v_na); (fld_32, (B ";")); (fld_33, v_na); (fld_37, v_true); (fld_65, v_false); (fld_66, v_true)]);
+    ([tok_2; tok_198], Some [(fld_0, (B "markdown")); (fld_1, (B " ")); (fld_2, v_na); (fld_30, (B "markdown")); (fld_32, (B ";")); (fld_33, v_na); (fld_37, v_true); (fld_45, v_true)]);
+    ([tok_2; tok_47; tok_199], Some [(fld_0, (B "markdown")); (fld_1, (B " ")); (fld_2, v_na); (fld_30, (B "markdown")); (fld_32, (B ";")); (fld_33, v_na); (fld_37, v_true); (fld_45, v_true)]);
+    ([tok_2; tok_197], Some [(fld_0, (B "markdown")); (fld_1, (B " ")); (fld_2, v_na); (fld_30, (B "markdown")); (fld_32, (B ";")); (fld_33, v_na); (fld_37, v_true); (fld_45, v_true)]);
+    ([tok_2; tok_133], Some [(fld_0, (B "nidx")); (fld_1, (B " ")); (fld_2, v_na); (fld_5, (B "([ \t])+")); (fld_30, (B "pprint")); (fld_32, (B ";")); (fld_33, v_na); (fld_37, v_true); (fld_41, v_true)]);
+    ([tok_2; tok_33; tok_62; tok_233], Some [(fld_0, (B "nidx")); (fld_1, (B " ")); (fld_2, v_na); (fld_5, (B "([ \t])+")); (fld_30, (B "pprint")); (fld_32, (B ";")); (fld_33, v_na); (fld_37, v_true); (fld_41, v_true)]);
+    ([tok_2; tok_134], Some [(fld_0, (B "nidx")); (fld_1, (B " ")); (fld_2, v_na); (fld_5, (B "([ \t])+")); (fld_30, (B "csv")); (fld_32, (B ";")); (fld_33, v_na); (fld_37, v_true); (fld_39, v_true)]);
+    ([tok_2; tok_33; tok_53], Some [(fld_0, (B "nidx")); (fld_1, (B " ")); (fld_2, v_na); (fld_5, (B "([ \t])+")); (fld_30, (B "csv")); (fld_32, (B ";")); (fld_33, v_na); (fld_37, v_true)]);
+    ([tok_2; tok_135], Some [(fld_0, (B "nidx")); (fld_1, (B " ")); (fld_2, v_na); (fld_5, (B "([ \t])+")); (fld_32, (B ";")); (fld_37, v_true)]);
+    ([tok_2; tok_33; tok_56], Some [(fld_0, (B "nidx")); (fld_1, (B " ")); (fld_2, v_na); (fld_5, (B "([ \t])+")); (fld_32, (B ";")); (fld_37, v_true)]);
+    ([tok_2; tok_136], Some [(fld_0, (B "nidx")); (fld_1, (B " ")); (fld_2, v_na); (fld_5, (B "([ \t])+")); (fld_30, (B "json")); (fld_31, v_na); (fld_32, (B ";")); (fld_33, v_na); (fld_37, v_true); (fld_65, v_false); (fld_66, v_true)]);
+    ([tok_2; tok_33; tok_57], Some [(fld_0, (B "nidx")); (fld_1, (B " ")); (fld_2, v_na); (fld_5, (B "([ \t])+")); (fld_30, (B "json")); (fld_31, v_na); (fld_32, (B ";")); (fld_33, v_na); (fld_37, v_true); (fld_65, v_false); (fld_66, v_true)]);
+    ([tok_2; tok_137], Some [(fld_0, (B "nidx")); (fld_1, (B " ")); (fld_2, v_na); (fld_5, (B "([ \t])+")); (fld_30, (B "jsonl")); (fld_31, (B "")); (fld_32, (B ";")); (fld_33, (B "")); (fld_37, v_true); (fld_65, v_false); (fld_66, v_true)]);
+    ([tok_2; tok_33; tok_58], Some [(fld_0, (B "nidx")); (fld_1, (B " ")); (fld_2, v_na); (fld_5, (B "([ \t])+")); (fld_30, (B "jsonl")); (fld_31, (B "")); (fld_32, (B ";")); (fld_33, (B "")); (fld_37, v_true); (fld_65, v_false); (fld_66, v_true)]);
+    ([tok_2; tok_138], Some [(fld_0, (B "nidx")); (fld_1, (B " ")); (fld_2, v_na); (fld_5, (B "([ \t])+")); (fld_30, (B "markdown")); (fld_32, (B ";")); (fld_33, v_na); (fld_37, v_true)]);
+    ([tok_2; tok_33; tok_59], Some [(fld_0, (B "nidx")); (fld_1, (B " ")); (fld_2, v_na); (fld_5, (B "([ \t])+")); (fld_30, (B "markdown")); (fld_32, (B ";")); (fld_33, v_na); (fld_37, v_true)]);
+    ([tok_2; tok_50], Some [(fld_0, (B "nidx")); (fld_1, (B " ")); (fld_2, v_na); (fld_5, (B "([ \t])+")); (fld_30, (B "nidx")); (fld_32, (B ";")); (fld_33, v_na); (fld_37, v_true)]);
+    ([tok_2; tok_33; tok_61], Some [(fld_0, (B "nidx")); (fld_1, (B " ")); (fld_2, v_na); (fld_5, (B "([ \t])+")); (fld_30, (B "nidx")); (fld_32, (B " ")); (fld_33, v_na); (fld_37, v_true)]);
+    ([tok_2; tok_139], Some [(fld_0, (B "nidx")); (fld_1, (B " ")); (fld_2, v_na); (fld_5, (B "([ \t])+")); (fld_30, (B "pprint")); (fld_32, (B ";")); (fld_33, v_na); (fld_37, v_true)]);
+    ([tok_2; tok_33; tok_62], Some [(fld_0, (B "nidx")); (fld_1, (B " ")); (fld_2, v_na); (fld_5, (B "([ \t])+")); (fld_30, (B "pprint")); (fld_32, (B ";")); (fld_33, v_na); (fld_37, v_true)]);
+    ([tok_2; tok_140], Some [(fld_0, (B "nidx")); (fld_1, (B " ")); (fld_2, v_na); (fld_5, (B "([ \t])+")); (fld_30, (B "tsv")); (fld_32, (B ";")); (fld_33, v_na); (fld_37, v_true)]);
+    ([tok_2; tok_33; tok_64], Some [(fld_0, (B "nidx")); (fld_1, (B " ")); (fld_2, v_na); (fld_5, (B "([ \t])+")); (fld_30, (B "tsv")); (fld_32, (bs [9]%N)); (fld_33, v_na); (fld_37, v_true)]);
+    ([tok_2; tok_141], Some [(fld_0, (B "nidx")); (fld_1, (B " ")); (fld_2, v_na); (fld_5, (B "([ \t])+")); (fld_30, (B "xtab")); (fld_31, (bs [10;10]%N)); (fld_32, (B ";")); (fld_33, (B " ")); (fld_37, v_true)]);
+    ([tok_2; tok_33; tok_68], Some [(fld_0, (B "nidx")); (fld_1, (B " ")); (fld_2, v_na); (fld_5, (B "([ \t])+")); (fld_30, (B "xtab")); (fld_31, (bs [10;10]%N)); (fld_32, (B ";")); (fld_33, (B " ")); (fld_37, v_true)]);
+    ([tok_2; tok_142], Some [(fld_0, (B "nidx")); (fld_1, (B " ")); (fld_2, v_na); (fld_5, (B "([ \t])+")); (fld_30, (B "yaml")); (fld_31, v_na); (fld_32, (B ";")); (fld_33, v_na); (fld_37, v_true); (fld_65, v_false); (fld_66, v_true)]);
+    ([tok_2; tok_33; tok_69], Some [(fld_0, (B "nidx")); (fld_1, (B " ")); (fld_2, v_na); (fld_5, (B "([ \t])+")); (fld_30, (B "yaml")); (fld_31, v_na); (fld_32, (B ";")); (fld_33, v_na); (fld_37, v_true); (fld_65, v_false); (fld_66, v_true)]);
+    ([tok_2; tok_143], Some [(fld_0, (B "pprint")); (fld_1, (B " ")); (fld_2, v_na); (fld_4, v_true); (fld_8, v_true); (fld_30, (B "csv")); (fld_32, (B ";")); (fld_33, v_na); (fld_37, v_true); (fld_39, v_true)]);
+    ([tok_2; tok_34; tok_53], Some [(fld_0, (B "pprint")); (fld_1, (B " ")); (fld_2, v_na); (fld_4, v_true); (fld_8, v_true); (fld_30, (B "csv")); (fld_32, (B ";")); (fld_33, v_na); (fld_37, v_true)]);
+    ([tok_2; tok_144], Some [(fld_0, (B "pprint")); (fld_1, (B " ")); (fld_2, v_na); (fld_4, v_true); (fld_8, v_true); (fld_32, (B ";")); (fld_37, v_true)]);
+    ([tok_2; tok_34; tok_56], Some [(fld_0, (B "pprint")); (fld_1, (B " ")); (fld_2, v_na); (fld_4, v_true); (fld_8, v_true); (fld_32, (B ";")); (fld_37, v_true)]);
+    ([tok_2; tok_145], Some [(fld_0, (B "pprint")); (fld_1, (B " ")); (fld_2, v_na); (fld_4, v_true); (fld_8, v_true); (fld_30, (B "json")); (fld_31, v_na); (fld_32, (B ";")); (fld_33, v_na); (fld_37, v_true); (fld_65, v_false); (fld_66, v_true)]);
+    ([tok_2; tok_34; tok_57], Some [(fld_0, (B "pprint")); (fld_1, (B " ")); (fld_2, v_na); (fld_4, v_true); (fld_8, v_true); (fld_30, (B "json")); (fld_31, v_na); (fld_32, (B ";")); (fld_33, v_na); (fld_37, v_true); (fld_65, v_false); (fld_66, v_true)]);
+    ([tok_2; tok_146], Some [(fld_0, (B "pprint")); (fld_1, (B " ")); (fld_2, v_na); (fld_4, v_true); (fld_8, v_true); (fld_30, (B "jsonl")); (fld_31, (B "")); (fld_32, (B ";")); (fld_33, (B "")); (fld_37, v_true); (fld_65, v_false); (fld_66, v_true)]);
+    ([tok_2; tok_34; tok_58], Some [(fld_0, (B "pprint")); (fld_1, (B " ")); (fld_2, v_na); (fld_4, v_true); (fld_8, v_true); (fld_30, (B "jsonl")); (fld_31, (B "")); (fld_32, (B ";")); (fld_33, (B "")); (fld_37, v_true); (fld_65, v_false); (fld_66, v_true)]);
+    ([tok_2; tok_147], Some [(fld_0, (B "pprint")); (fld_1, (B " ")); (fld_2, v_na); (fld_4, v_true); (fld_8, v_true); (fld_30, (B "markdown")); (fld_32, (B ";")); (fld_33, v_na); (fld_37, v_true)]);
+    ([tok_2; tok_34; tok_59], Some [(fld_0, (B "pprint")); (fld_1, (B " ")); (fld_2, v_na); (fld_4, v_true); (fld_8, v_true); (fld_30, (B "markdown")); (fld_32, (B ";")); (fld_33, v_na); (fld_37, v_true)]);
+    ([tok_2; tok_148], Some [(fld_0, (B "pprint")); (fld_1, (B " ")); (fld_2, v_na); (fld_4, v_true); (fld_8, v_true); (fld_30, (B "nidx")); (fld_32, (B ";")); (fld_33, v_na); (fld_37, v_true)]);
+    ([tok_2; tok_34; tok_61], Some [(fld_0, (B "pprint")); (fld_1, (B " ")); (fld_2, v_na); (fld_4, v_true); (fld_8, v_true); (fld_30, (B "nidx")); (fld_32, (B " ")); (fld_33, v_na); (fld_37, v_true)]);
+    ([tok_2; tok_71], Some [(fld_0, (B "pprint")); (fld_1, (B " ")); (fld_2, v_na); (fld_4, v_true); (fld_8, v_true); (fld_30, (B "pprint")); (fld_32, (B ";")); (fld_33, v_na); (fld_37, v_true)]);
+    ([tok_2; tok_34; tok_62], Some [(fld_0, (B "pprint")); (fld_1, (B " ")); (fld_2, v_na); (fld_4, v_true); (fld_8, v_true); (fld_30, (B "pprint")); (fld_32, (B ";")); (fld_33, v_na); (fld_37, v_true)]);
+    ([tok_2; tok_149], Some [(fld_0, (B "pprint")); (fld_1, (B " ")); (fld_2, v_na); (fld_4, v_true); (fld_8, v_true); (fld_30, (B "tsv")); (fld_32, (B ";")); (fld_33, v_na); (fld_37, v_true)]);
+    ([tok_2; tok_34; tok_64], Some [(fld_0, (B "pprint")); (fld_1, (B " ")); (fld_2, v_na); (fld_4, v_true); (fld_8, v_true); (fld_30, (B "tsv")); (fld_32, (bs [9]%N)); (fld_33, v_na); (fld_37, v_true)]);
+    ([tok_2; tok_150], Some [(fld_0, (B "pprint")); (fld_1, (B " ")); (fld_2, v_na); (fld_4, v_true); (fld_8, v_true); (fld_30, (B "xtab")); (fld_31, (bs [10;10]%N)); (fld_32, (B ";")); (fld_33, (B " ")); (fld_37, v_true)]);
+    ([tok_2; tok_34; tok_68], Some [(fld_0, (B "pprint")); (fld_1, (B " ")); (fld_2, v_na); (fld_4, v_true); (fld_8, v_true); (fld_30, (B "xtab")); (fld_31, (bs [10;10]%N)); (fld_32, (B ";")); (fld_33, (B " ")); (fld_37, v_true)]);
+    ([tok_2; tok_151], Some [(fld_0, (B "pprint")); (fld_1, (B " ")); (fld_2, v_na); (fld_4, v_true); (fld_8, v_true); (fld_30, (B "yaml")); (fld_31, v_na); (fld_32, (B ";")); (fld_33, v_na); (fld_37, v_true); (fld_65, v_false); (fld_66, v_true)]);
+    ([tok_2; tok_34; tok_69], Some [(fld_0, (B "pprint")); (fld_1, (B " ")); (fld_2, v_na); (fld_4, v_true); (fld_8, v_true); (fld_30, (B "yaml")); (fld_31, v_na); (fld_32, (B ";")); (fld_33, v_na); (fld_37, v_true); (fld_65, v_false); (fld_66, v_true)]);
+    ([tok_2; tok_152], Some [(fld_0, (B "tsv")); (fld_1, (bs [9]%N)); (fld_2, v_na); (fld_30, (B "pprint")); (fld_32, (B ";")); (fld_33, v_na); (fld_37, v_true); (fld_41, v_true)]);
+    ([tok_2; tok_36; tok_62; tok_233], Some [(fld_0, (B "tsv")); (fld_1, (bs [9]%N)); (fld_2, v_na); (fld_30, (B "pprint")); (fld_32, (B ";")); (fld_33, v_na); (fld_37, v_true); (fld_41, v_true)]);
+    ([tok_2; tok_153], Some [(fld_0, (B "tsv")); (fld_1, (bs [9]%N)); (fld_2, v_na); (fld_30, (B "csv")); (fld_32, (B ";")); (fld_33, v_na); (fld_37, v_true)]);
+    ([tok_2; tok_36; tok_53], Some [(fld_0, (B "tsv")); (fld_1, (bs [9]%N)); (fld_2, v_na); (fld_30, (B "csv")); (fld_32, (B ";")); (fld_33, v_na); (fld_37, v_true)]);
+    ([tok_2; tok_154], Some [(fld_0, (B "tsv")); (fld_1, (bs [9]%N)); (fld_2, v_na); (fld_32, (B ";")); (fld_37, v_true)]);
+    ([tok_2; tok_36; tok_56], Some [(fld_0, (B "tsv")); (fld_1, (bs [9]%N)); (fld_2, v_na); (fld_32, (B ";")); (fld_37, v_true)]);
+    ([tok_2; tok_155], Some [(fld_0, (B "tsv")); (fld_1, (bs [9]%N)); (fld_2, v_na); (fld_30, (B "json")); (fld_31, v_na); (fld_32, (B ";")); (fld_33, v_na); (fld_37, v_true); (fld_65, v_false); (fld_66, v_true)]);
+    ([tok_2; tok_36; tok_57], Some [(fld_0, (B "tsv")); (fld_1, (bs [9]%N)); (fld_2, v_na); (fld_30, (B "json")); (fld_31, v_na); (fld_32, (B ";")); (fld_33, v_na); (fld_37, v_true); (fld_65, v_false); (fld_66, v_true)]);
+    ([tok_2; tok_156], Some [(fld_0, (B "tsv")); (fld_1, (bs [9]%N)); (fld_2, v_na); (fld_30, (B "jsonl")); (fld_31, (B "")); (fld_32, (B ";")); (fld_33, (B "")); (fld_37, v_true); (fld_65, v_false); (fld_66, v_true)]);
+    ([tok_2; tok_36; tok_58], Some [(fld_0, (B "tsv")); (fld_1, (bs [9]%N)); (fld_2, v_na); (fld_30, (B "jsonl")); (fld_31, (B "")); (fld_32, (B ";")); (fld_33, (B "")); (fld_37, v_true); (fld_65, v_false); (fld_66, v_true)]);
+    ([tok_2; tok_157], Some [(fld_0, (B "tsv")); (fld_1, (bs [9]%N)); (fld_2, v_na); (fld_30, (B "markdown")); (fld_32, (B ";")); (fld_33, v_na); (fld_37, v_true)]);
+    ([tok_2; tok_36; tok_59], Some [(fld_0, (B "tsv")); (fld_1, (bs [9]%N)); (fld_2, v_na); (fld_30, (B "markdown")); (fld_32, (B ";")); (fld_33, v_na); (fld_37, v_true)]);
+    ([tok_2; tok_158], Some [(fld_0, (B "tsv")); (fld_1, (bs [9]%N)); (fld_2, v_na); (fld_30, (B "nidx")); (fld_32, (B " ")); (fld_33, v_na); (fld_37, v_true)]);
+    ([tok_2; tok_36; tok_61], Some [(fld_0, (B "tsv")); (fld_1, (bs [9]%N)); (fld_2, v_na); (fld_30, (B "nidx")); (fld_32, (B " ")); (fld_33, v_na); (fld_37, v_true)]);
+    ([tok_2; tok_159], Some [(fld_0, (B "tsv")); (fld_1, (bs [9]%N)); (fld_2, v_na); (fld_30, (B "pprint")); (fld_32, (B ";")); (fld_33, v_na); (fld_37, v_true)]);
+    ([tok_2; tok_36; tok_62], Some [(fld_0, (B "tsv")); (fld_1, (bs [9]%N)); (fld_2, v_na); (fld_30, (B "pprint")); (fld_32, (B ";")); (fld_33, v_na); (fld_37, v_true)]);
+    ([tok_2; tok_75], Some [(fld_0, (B "tsv")); (fld_1, (bs [9]%N)); (fld_2, v_na); (fld_30, (B "tsv")); (fld_32, (B ";")); (fld_33, v_na); (fld_37, v_true)]);
+    ([tok_2; tok_36; tok_64], Some [(fld_0, (B "tsv")); (fld_1, (bs [9]%N)); (fld_2, v_na); (fld_30, (B "tsv")); (fld_32, (bs [9]%N)); (fld_33, v_na); (fld_37, v_true)]);
+    ([tok_2; tok_160], Some [(fld_0, (B "tsv")); (fld_1, (bs [9]%N)); (fld_2, v_na); (fld_30, (B "xtab")); (fld_31, (bs [10;10]%N)); (fld_32, (B ";")); (fld_33, (B " ")); (fld_37, v_true)]);
+    ([tok_2; tok_36; tok_68], Some [(fld_0, (B "tsv")); (fld_1, (bs [9]%N)); (fld_2, v_na); (fld_30, (B "xtab")); (fld_31, (bs [10;10]%N)); (fld_32, (B ";")); (fld_33, (B " ")); (fld_37, v_true)]);
+    ([tok_2; tok_161], Some [(fld_0, (B "tsv")); (fld_1, (bs [9]%N)); (fld_2, v_na); (fld_30, (B "yaml")); (fld_31, v_na); (fld_32, (B ";")); (fld_33, v_na); (fld_37, v_true); (fld_65, v_false); (fld_66, v_true)]);
+    ([tok_2; tok_36; tok_69], Some [(fld_0, (B "tsv")); (fld_1, (bs [9]%N)); (fld_2, v_na); (fld_30, (B "yaml")); (fld_31, v_na); (fld_32, (B ";")); (fld_33, v_na); (fld_37, v_true); (fld_65, v_false); (fld_66, v_true)]);
+    ([tok_2; tok_162], Some [(fld_0, (B "xtab")); (fld_1, (bs [10]%N)); (fld_2, (B " ")); (fld_3, (bs [10;10]%N)); (fld_30, (B "pprint")); (fld_32, (B ";")); (fld_33, v_na); (fld_37, v_true); (fld_41, v_true)]);
+    ([tok_2; tok_40; tok_62; tok_233], Some [(fld_0, (B "xtab")); (fld_1, (bs [10]%N)); (fld_2, (B " ")); (fld_3, (bs [10;10]%N)); (fld_30, (B "pprint")); (fld_32, (B ";")); (fld_33, v_na); (fld_37, v_true); (fld_41, v_true)]);
+    ([tok_2; tok_163], Some [(fld_0, (B "xtab")); (fld_1, (bs [10]%N)); (fld_2, (B " ")); (fld_3, (bs [10;10]%N)); (fld_30, (B "csv")); (fld_32, (B ";")); (fld_33, v_na); (fld_37, v_true); (fld_39, v_true)]);
+    ([tok_2; tok_40; tok_53], Some [(fld_0, (B "xtab")); (fld_1, (bs [10]%N)); (fld_2, (B " ")); (fld_3, (bs [10;10]%N)); (fld_30, (B "csv")); (fld_32, (B ";")); (fld_33, v_na); (fld_37, v_true)]);
+    ([tok_2; tok_164], Some [(fld_0, (B "xtab")); (fld_1, (bs [10]%N)); (fld_2, (B " ")); (fld_3, (bs [10;10]%N)); (fld_32, (B ";")); (fld_37, v_true)]);
+    ([tok_2; tok_40; tok_56], Some [(fld_0, (B "xtab")); (fld_1, (bs [10]%N)); (fld_2, (B " ")); (fld_3, (bs [10;10]%N)); (fld_32, (B ";")); (fld_37, v_true)]);
+    ([tok_2; tok_165], Some [(fld_0, (B "xtab")); (fld_1, (bs [10]%N)); (fld_2, (B " ")); (fld_3, (bs [10;10]%N)); (fld_30, (B "json")); (fld_31, v_na); (fld_32, (B ";")); (fld_33, v_na); (fld_37, v_true); (fld_65, v_false); (fld_66, v_true)]);
+    ([tok_2; tok_40; tok_57], Some [(fld_0, (B "xtab")); (fld_1, (bs [10]%N)); (fld_2, (B " ")); (fld_3, (bs [10;10]%N)); (fld_30, (B "json")); (fld_31, v_na); (fld_32, (B ";")); (fld_33, v_na); (fld_37, v_true); (fld_65, v_false); (fld_66, v_true)]);
+    ([tok_2; tok_166], Some [(fld_0, (B "xtab")); (fld_1, (bs [10]%N)); (fld_2, (B " ")); (fld_3, (bs [10;10]%N)); (fld_30, (B "jsonl")); (fld_31, (B "")); (fld_32, (B ";")); (fld_33, (B "")); (fld_37, v_true); (fld_65, v_false); (fld_66, v_true)]);
+    ([tok_2; tok_40; tok_58], Some [(fld_0, (B "xtab")); (fld_1, (bs [10]%N)); (fld_2, (B " ")); (fld_3, (bs [10;10]%N)); (fld_30, (B "jsonl")); (fld_31, (B "")); (fld_32, (B ";")); (fld_33, (B "")); (fld_37, v_true); (fld_65, v_false); (fld_66, v_true)]);
+    ([tok_2; tok_167], Some [(fld_0, (B "xtab")); (fld_1, (bs [10]%N)); (fld_2, (B " ")); (fld_3, (bs [10;10]%N)); (fld_30, (B "markdown")); (fld_32, (B ";")); (fld_33, v_na); (fld_37, v_true)]);
+    ([tok_2; tok_40; tok_59], Some [(fld_0, (B "xtab")); (fld_1, (bs [10]%N)); (fld_2, (B " ")); (fld_3, (bs [10;10]%N)); (fld_30, (B "markdown")); (fld_32, (B ";")); (fld_33, v_na); (fld_37, v_true)]);
+    ([tok_2; tok_168], Some [(fld_0, (B "xtab")); (fld_1, (bs [10]%N)); (fld_2, (B " ")); (fld_3, (bs [10;10]%N)); (fld_30, (B "nidx")); (fld_32, (B ";")); (fld_33, v_na); (fld_37, v_true)]);
+    ([tok_2; tok_40; tok_61], Some [(fld_0, (B "xtab")); (fld_1, (bs [10]%N)); (fld_2, (B " ")); (fld_3, (bs [10;10]%N)); (fld_30, (B "nidx")); (fld_32, (B " ")); (fld_33, v_na); (fld_37, v_true)]);
+    ([tok_2; tok_169], Some [(fld_0, (B "xtab")); (fld_1, (bs [10]%N)); (fld_2, (B " ")); (fld_3, (bs [10;10]%N)); (fld_30, (B "pprint")); (fld_32, (B ";")); (fld_33, v_na); (fld_37, v_true)]);
+    ([tok_2; tok_40; tok_62], Some [(fld_0, (B "xtab")); (fld_1, (bs [10]%N)); (fld_2, (B " ")); (fld_3, (bs [10;10]%N)); (fld_30, (B "pprint")); (fld_32, (B ";")); (fld_33, v_na); (fld_37, v_true)]);
+    ([tok_2; tok_170], Some [(fld_0, (B "xtab")); (fld_1, (bs [10]%N)); (fld_2, (B " ")); (fld_3, (bs [10;10]%N)); (fld_30, (B "tsv")); (fld_32, (B ";")); (fld_33, v_na); (fld_37, v_true)]);
+    ([tok_2; tok_40; tok_64], Some [(fld_0, (B "xtab")); (fld_1, (bs [10]%N)); (fld_2, (B " ")); (fld_3, (bs [10;10]%N)); (fld_30, (B "tsv")); (fld_32, (bs [9]%N)); (fld_33, v_na); (fld_37, v_true)]);
+    ([tok_2; tok_80], Some [(fld_0, (B "xtab")); (fld_1, (bs [10]%N)); (fld_2, (B " ")); (fld_3, (bs [10;10]%N)); (fld_30, (B "xtab")); (fld_31, (bs [10;10]%N)); (fld_32, (B ";")); (fld_33, (B " ")); (fld_37, v_true)]);
+    ([tok_2; tok_40; tok_68], Some [(fld_0, (B "xtab")); (fld_1, (bs [10]%N)); (fld_2, (B " ")); (fld_3, (bs [10;10]%N)); (fld_30, (B "xtab")); (fld_31, (bs [10;10]%N)); (fld_32, (B ";")); (fld_33, (B " ")); (fld_37, v_true)]);
+    ([tok_2; tok_171], Some [(fld_0, (B "xtab")); (fld_1, (bs [10]%N)); (fld_2, (B " ")); (fld_3, (bs [10;10]%N)); (fld_30, (B "yaml")); (fld_31, v_na); (fld_32, (B ";")); (fld_33, v_na); (fld_37, v_true); (fld_65, v_false); (fld_66, v_true)]);
+    ([tok_2; tok_40; tok_69], Some [(fld_0, (B "xtab")); (fld_1, (bs [10]%N)); (fld_2, (B " ")); (fld_3, (bs [10;10]%N)); (fld_30, (B "yaml")); (fld_31, v_na); (fld_32, (B ";")); (fld_33, v_na); (fld_37, v_true); (fld_65, v_false); (fld_66, v_true)]);
+    ([tok_2; tok_172], Some [(fld_0, (B "yaml")); (fld_1, v_na); (fld_2, v_na); (fld_3, v_na); (fld_30, (B "csv")); (fld_32, (B ";")); (fld_33, v_na); (fld_37, v_true); (fld_39, v_true)]);
+    ([tok_2; tok_41; tok_53], Some [(fld_0, (B "yaml")); (fld_1, v_na); (fld_2, v_na); (fld_3, v_na); (fld_30, (B "csv")); (fld_32, (B ";")); (fld_33, v_na); (fld_37, v_true)]);
+    ([tok_2; tok_173], Some [(fld_0, (B "yaml")); (fld_1, v_na); (fld_2, v_na); (fld_3, v_na); (fld_32, (B ";")); (fld_37, v_true)]);
+    ([tok_2; tok_41; tok_56], Some [(fld_0, (B "yaml")); (fld_1, v_na); (fld_2, v_na); (fld_3, v_na); (fld_32, (B ";")); (fld_37, v_true)]);
+    ([tok_2; tok_174], Some [(fld_0, (B "yaml")); (fld_1, v_na); (fld_2, v_na); (fld_3, v_na); (fld_30, (B "json")); (fld_31, v_na); (fld_32, (B ";")); (fld_33, v_na); (fld_37, v_true); (fld_65, v_false)]);
+    ([tok_2; tok_41; tok_57], Some [(fld_0, (B "yaml")); (fld_1, v_na); (fld_2, v_na); (fld_3, v_na); (fld_30, (B "json")); (fld_31, v_na); (fld_32, (B ";")); (fld_33, v_na); (fld_37, v_true); (fld_65, v_false)]);
+    ([tok_2; tok_175], Some [(fld_0, (B "yaml")); (fld_1, v_na); (fld_2, v_na); (fld_3, v_na); (fld_30, (B "jsonl")); (fld_31, (B "")); (fld_32, (B ";")); (fld_33, (B "")); (fld_37, v_true); (fld_65, v_false)]);
+    ([tok_2; tok_41; tok_58], Some [(fld_0, (B "yaml")); (fld_1, v_na); (fld_2, v_na); (fld_3, v_na); (fld_30, (B "jsonl")); (fld_31, (B "")); (fld_32, (B ";")); (fld_33, (B "")); (fld_37, v_true); (fld_65, v_false)]);
+    ([tok_2; tok_176], Some [(fld_0, (B "yaml")); (fld_1, v_na); (fld_2, v_na); (fld_3, v_na); (fld_30, (B "markdown")); (fld_32, (B ";")); (fld_33, v_na); (fld_37, v_true)]);
+    ([tok_2; tok_41; tok_59], Some [(fld_0, (B "yaml")); (fld_1, v_na); (fld_2, v_na); (fld_3, v_na); (fld_30, (B "markdown")); (fld_32, (B ";")); (fld_33, v_na); (fld_37, v_true)]);
+    ([tok_2; tok_177], Some [(fld_0, (B "yaml")); (fld_1, v_na); (fld_2, v_na); (fld_3, v_na); (fld_30, (B "nidx")); (fld_32, (B ";")); (fld_33, v_na); (fld_37, v_true)]);
+    ([tok_2; tok_41; tok_61], Some [(fld_0, (B "yaml")); (fld_1, v_na); (fld_2, v_na); (fld_3, v_na); (fld_30, (B "nidx")); (fld_32, (B " ")); (fld_33, v_na); (fld_37, v_true)]);
+    ([tok_2; tok_178], Some [(fld_0, (B "yaml")); (fld_1, v_na); (fld_2, v_na); (fld_3, v_na); (fld_30, (B "pprint")); (fld_32, (B ";")); (fld_33, v_na); (fld_37, v_true)]);
+    ([tok_2; tok_41; tok_62], Some [(fld_0, (B "yaml")); (fld_1, v_na); (fld_2, v_na); (fld_3, v_na); (fld_30, (B "pprint")); (fld_32, (B ";")); (fld_33, v_na); (fld_37, v_true)]);
+    ([tok_2; tok_179], Some [(fld_0, (B "yaml")); (fld_1, v_na); (fld_2, v_na); (fld_3, v_na); (fld_30, (B "tsv")); (fld_32, (B ";")); (fld_33, v_na); (fld_37, v_true)]);
+    ([tok_2; tok_41; tok_64], Some [(fld_0, (B "yaml")); (fld_1, v_na); (fld_2, v_na); (fld_3, v_na); (fld_30, (B "tsv")); (fld_32, (bs [9]%N)); (fld_33, v_na); (fld_37, v_true)]);
+    ([tok_2; tok_180], Some [(fld_0, (B "yaml")); (fld_1, v_na); (fld_2, v_na); (fld_3, v_na); (fld_30, (B "xtab")); (fld_31, (bs [10;10]%N)); (fld_32, (B ";")); (fld_33, (B " ")); (fld_37, v_true)]);
+    ([tok_2; tok_41; tok_68], Some [(fld_0, (B "yaml")); (fld_1, v_na); (fld_2, v_na); (fld_3, v_na); (fld_30, (B "xtab")); (fld_31, (bs [10;10]%N)); (fld_32, (B ";")); (fld_33, (B " ")); (fld_37, v_true)]);
+    ([tok_2; tok_83], Some [(fld_0, (B "yaml")); (fld_1, v_na); (fld_2, v_na); (fld_3, v_na); (fld_30, (B "yaml")); (fld_31, v_na); (fld_32, (B ";")); (fld_33, v_na); (fld_37, v_true); (fld_65, v_false)]);
+    ([tok_2; tok_41; tok_69], Some [(fld_0, (B "yaml")); (fld_1, v_na); (fld_2, v_na); (fld_3, v_na); (fld_30, (B "yaml")); (fld_31, v_na); (fld_32, (B ";")); (fld_33, v_na); (fld_37, v_true); (fld_65, v_false)]);
+    ([tok_2; tok_235], Some [(fld_12, v_true); (fld_32, (B ";")); (fld_37, v_true); (fld_40, v_true)]);
+    ([tok_2; tok_207; tok_204], Some [(fld_12, v_true); (fld_32, (B ";")); (fld_37, v_true); (fld_40, v_true)]);
+    ([tok_2; tok_182], Some [(fld_0, (B "nidx")); (fld_1, (bs [9]%N)); (fld_2, v_na); (fld_8, v_true); (fld_30, (B "nidx")); (fld_32, (bs [9]%N)); (fld_33, v_na); (fld_37, v_true)]);
+    ([tok_2; tok_49; tok_236; tok_237], Some [(fld_0, (B "nidx")); (fld_1, (bs [9]%N)); (fld_2, v_na); (fld_8, v_true); (fld_30, (B "nidx")); (fld_32, (bs [9]%N)); (fld_33, v_na); (fld_37, v_true)]);
+    ([tok_2; tok_181], Some [(fld_0, (B "nidx")); (fld_1, (B " ")); (fld_2, v_na); (fld_4, v_true); (fld_8, v_true); (fld_11, v_true); (fld_30, (B "nidx")); (fld_32, (B " ")); (fld_33, v_na); (fld_37, v_true)]);
+    ([tok_2; tok_49; tok_236; tok_238; tok_239], Some [(fld_0, (B "nidx")); (fld_1, (B " ")); (fld_2, v_na); (fld_4, v_true); (fld_8, v_true); (fld_11, v_true); (fld_30, (B "nidx")); (fld_32, (B " ")); (fld_33, v_na); (fld_37, v_true)]);
+    ([tok_263], Some [(fld_32, (bs [27]%N)); (fld_37, v_true)]);
+    ([tok_264], Some [(fld_32, (bs [27]%N)); (fld_37, v_true)]);
+    ([tok_265], Some [(fld_32, (bs [3]%N)); (fld_37, v_true)]);
+    ([tok_266], Some [(fld_32, (bs [3]%N)); (fld_37, v_true)]);
+    ([tok_267], Some [(fld_32, (bs [28]%N)); (fld_37, v_true)]);
+    ([tok_268], Some [(fld_32, (bs [28]%N)); (fld_37, v_true)]);
+    ([tok_269], Some [(fld_32, (bs [29]%N)); (fld_37, v_true)]);
+    ([tok_270], Some [(fld_32, (bs [29]%N)); (fld_37, v_true)]);
+    ([tok_271], Some [(fld_32, (bs [0]%N)); (fld_37, v_true)]);
+    ([tok_272], Some [(fld_32, (bs [0]%N)); (fld_37, v_true)]);
+    ([tok_273], Some [(fld_32, (bs [30]%N)); (fld_37, v_true)]);
+    ([tok_274], Some [(fld_32, (bs [30]%N)); (fld_37, v_true)]);
+    ([tok_275], Some [(fld_32, (bs [1]%N)); (fld_37, v_true)]);
+    ([tok_276], Some [(fld_32, (bs [1]%N)); (fld_37, v_true)]);
+    ([tok_277], Some [(fld_32, (bs [2]%N)); (fld_37, v_true)]);
+    ([tok_278], Some [(fld_32, (bs [2]%N)); (fld_37, v_true)]);
+    ([tok_279], Some [(fld_32, (bs [31]%N)); (fld_37, v_true)]);
+    ([tok_280], Some [(fld_32, (bs [31]%N)); (fld_37, v_true)]);
+    ([tok_281], Some [(fld_32, (bs [31]%N)); (fld_37, v_true)]);
+    ([tok_282], Some [(fld_32, (bs [30]%N)); (fld_37, v_true)]);
+    ([tok_283], Some [(fld_32, (B ":")); (fld_37, v_true)]);
+    ([tok_4], Some [(fld_32, (B ":")); (fld_37, v_true)]);
+    ([tok_284], Some [(fld_37, v_true)]);
+    ([tok_285], Some [(fld_37, v_true)]);
+    ([tok_286], Some [(fld_32, (bs [13]%N)); (fld_37, v_true)]);
+    ([tok_287], Some [(fld_32, (bs [13]%N)); (fld_37, v_true)]);
+    ([tok_288], Some [(fld_32, (bs [13;13]%N)); (fld_37, v_true)]);
+    ([tok_289], Some [(fld_32, (bs [13;13]%N)); (fld_37, v_true)]);
+    ([tok_290], Some [(fld_32, (bs [13;10]%N)); (fld_37, v_true)]);
+    ([tok_291], Some [(fld_32, (bs [13;10]%N)); (fld_37, v_true)]);
+    ([tok_292], Some [(fld_32, (bs [13;10;13;10]%N)); (fld_37, v_true)]);
+    ([tok_293], Some [(fld_32, (bs [13;10;13;10]%N)); (fld_37, v_true)]);
+    ([tok_294], Some [(fld_32, (B "=")); (fld_37, v_true)]);
+    ([tok_295], Some [(fld_32, (B "=")); (fld_37, v_true)]);
+    ([tok_296], Some [(fld_32, (bs [10]%N)); (fld_37, v_true)]);
+    ([tok_297], Some [(fld_32, (bs [10]%N)); (fld_37, v_true)]);
+    ([tok_298], Some [(fld_32, (bs [10;10]%N)); (fld_37, v_true)]);
+    ([tok_299], Some [(fld_32, (bs [10;10]%N)); (fld_37, v_true)]);
+    ([tok_300], Some [(fld_32, (bs [10]%N)); (fld_37, v_true)]);
+    ([tok_301], Some [(fld_32, (B "|")); (fld_37, v_true)]);
+    ([tok_302], Some [(fld_32, (B "|")); (fld_37, v_true)]);
+    ([tok_214], Some [(fld_32, (B ";")); (fld_37, v_true)]);
+    ([tok_2], Some [(fld_32, (B ";")); (fld_37, v_true)]);
+    ([tok_303], Some [(fld_32, (B "/")); (fld_37, v_true)]);
+    ([tok_304], Some [(fld_32, (B "/")); (fld_37, v_true)]);
+    ([tok_238], Some [(fld_32, (B " ")); (fld_37, v_true)]);
+    ([tok_305], Some [(fld_32, (B " ")); (fld_37, v_true)]);
+    ([tok_237], Some [(fld_32, (bs [9]%N)); (fld_37, v_true)]);
+    ([tok_306], Some [(fld_32, (bs [9]%N)); (fld_37, v_true)]);
+    ([tok_307], Some [(fld_32, (bs [226;144;159]%N)); (fld_37, v_true)]);
+    ([tok_308], Some [(fld_32, (bs [226;144;159]%N)); (fld_37, v_true)]);
+    ([tok_309], Some [(fld_32, (bs [226;144;158]%N)); (fld_37, v_true)]);
+    ([tok_310], Some [(fld_32, (bs [226;144;158]%N)); (fld_37, v_true)])]);
+  (tok_3, [
+    ([tok_4; tok_84], Some [(fld_0, (B "csv")); (fld_2, (B ":")); (fld_9, v_true); (fld_10, v_true); (fld_30, (B "pprint")); (fld_32, (B " ")); (fld_33, v_na); (fld_41, v_true)]);
+    ([tok_4; tok_24; tok_62; tok_233], Some [(fld_0, (B "csv")); (fld_2, (B ":")); (fld_9, v_true); (fld_30, (B "pprint")); (fld_32, (B " ")); (fld_33, v_na); (fld_41, v_true)]);
+    ([tok_4; tok_12], Some [(fld_0, (B "csv")); (fld_2, (B ":")); (fld_9, v_true); (fld_30, (B "csv")); (fld_33, v_na)]);
+    ([tok_4; tok_24; tok_53], Some [(fld_0, (B "csv")); (fld_2, (B ":")); (fld_9, v_true); (fld_30, (B "csv")); (fld_33, v_na)]);
+    ([tok_4; tok_85], Some [(fld_0, (B "csv")); (fld_2, (B ":")); (fld_9, v_true); (fld_10, v_true)]);
+    ([tok_4; tok_24; tok_56], Some [(fld_0, (B "csv")); (fld_2, (B ":")); (fld_9, v_true)]);
+    ([tok_4; tok_86], Some [(fld_0, (B "csv")); (fld_2, (B ":")); (fld_9, v_true); (fld_10, v_true); (fld_30, (B "json")); (fld_31, v_na); (fld_32, v_na); (fld_33, v_na); (fld_65, v_false); (fld_66, v_true)]);
+    ([tok_4; tok_24; tok_57], Some [(fld_0, (B "csv")); (fld_2, (B ":")); (fld_9, v_true); (fld_30, (B "json")); (fld_31, v_na); (fld_32, v_na); (fld_33, v_na); (fld_65, v_false); (fld_66, v_true)]);
+    ([tok_4; tok_87], Some [(fld_0, (B "csv")); (fld_2, (B ":")); (fld_9, v_true); (fld_10, v_true); (fld_30, (B "jsonl")); (fld_31, (B "")); (fld_32, (B "")); (fld_33, (B "")); (fld_65, v_false); (fld_66, v_true)]);
+    ([tok_4; tok_24; tok_58], Some [(fld_0, (B "csv")); (fld_2, (B ":")); (fld_9, v_true); (fld_30, (B "jsonl")); (fld_31, (B "")); (fld_32, (B "")); (fld_33, (B "")); (fld_65, v_false); (fld_66, v_true)]);
+    ([tok_4; tok_88], Some [(fld_0, (B "csv")); (fld_2, (B ":")); (fld_9, v_true); (fld_10, v_true); (fld_30, (B "markdown")); (fld_32, (B " ")); (fld_33, v_na)]);
+    ([tok_4; tok_24; tok_59], Some [(fld_0, (B "csv")); (fld_2, (B ":")); (fld_9, v_true); (fld_30, (B "markdown")); (fld_32, (B " ")); (fld_33, v_na)]);
+    ([tok_4; tok_89], Some [(fld_0, (B "csv")); (fld_2, (B ":")); (fld_9, v_true); (fld_10, v_true); (fld_30, (B "nidx")); (fld_32, (B " ")); (fld_33, v_na); (fld_37, v_true)]);
+    ([tok_4; tok_24; tok_61], Some [(fld_0, (B "csv")); (fld_2, (B ":")); (fld_9, v_true); (fld_30, (B "nidx")); (fld_32, (B " ")); (fld_33, v_na); (fld_37, v_true)]);
+    ([tok_4; tok_90], Some [(fld_0, (B "csv")); (fld_2, (B ":")); (fld_9, v_true); (fld_10, v_true); (fld_30, (B "pprint")); (fld_32, (B " ")); (fld_33, v_na)]);
+    ([tok_4; tok_24; tok_62], Some [(fld_0, (B "csv")); (fld_2, (B ":")); (fld_9, v_true); (fld_30, (B "pprint")); (fld_32, (B " ")); (fld_33, v_na)]);
+    ([tok_4; tok_91], Some [(fld_0, (B "csv")); (fld_2, (B ":")); (fld_9, v_true); (fld_10, v_true); (fld_30, (B "tsv")); (fld_32, (bs [9]%N)); (fld_33, v_na)]);
+    ([tok_4; tok_24; tok_64], Some [(fld_0, (B "csv")); (fld_2, (B ":")); (fld_9, v_true); (fld_30, (B "tsv")); (fld_32, (bs [9]%N)); (fld_33, v_na); (fld_37, v_true)]);
+    ([tok_4; tok_92], Some [(fld_0, (B "csv")); (fld_2, (B ":")); (fld_9, v_true); (fld_10, v_true); (fld_30, (B "xtab")); (fld_31, (bs [10;10]%N)); (fld_32, (bs [10]%N)); (fld_33, (B " "))]);
+    ([tok_4; tok_24; tok_68], Some [(fld_0, (B "csv")); (fld_2, (B ":")); (fld_9, v_true); (fld_30, (B "xtab")); (fld_31, (bs [10;10]%N)); (fld_32, (bs [10]%N)); (fld_33, (B " "))]);
+    ([tok_4; tok_93], Some [(fld_0, (B "csv")); (fld_2, (B ":")); (fld_9, v_true); (fld_10, v_true); (fld_30, (B "yaml")); (fld_31, v_na); (fld_32, v_na); (fld_33, v_na); (fld_65, v_false); (fld_66, v_true)]);
+    ([tok_4; tok_24; tok_69], Some [(fld_0, (B "csv")); (fld_2, (B ":")); (fld_9, v_true); (fld_30, (B "yaml")); (fld_31, v_na); (fld_32, v_na); (fld_33, v_na); (fld_65, v_false); (fld_66, v_true)]);
+    ([tok_4; tok_94], Some [(fld_2, (B ":")); (fld_9, v_true); (fld_30, (B "pprint")); (fld_32, (B " ")); (fld_33, v_na); (fld_41, v_true)]);
+    ([tok_4; tok_27; tok_62; tok_233], Some [(fld_2, (B ":")); (fld_9, v_true); (fld_30, (B "pprint")); (fld_32, (B " ")); (fld_33, v_na); (fld_41, v_true)]);
+    ([tok_4; tok_95], Some [(fld_2, (B ":")); (fld_9, v_true); (fld_30, (B "csv")); (fld_33, v_na)]);
+    ([tok_4; tok_27; tok_53], Some [(fld_2, (B ":")); (fld_9, v_true); (fld_30, (B "csv")); (fld_33, v_na)]);
+    ([tok_4; tok_16], Some [(fld_2, (B ":")); (fld_9, v_true)]);
+    ([tok_4; tok_27; tok_56], Some [(fld_2, (B ":")); (fld_9, v_true)]);
+    ([tok_4; tok_96], Some [(fld_2, (B ":")); (fld_9, v_true); (fld_30, (B "json")); (fld_31, v_na); (fld_32, v_na); (fld_33, v_na); (fld_65, v_false); (fld_66, v_true)]);
+    ([tok_4; tok_27; tok_57], Some [(fld_2, (B ":")); (fld_9, v_true); (fld_30, (B "json")); (fld_31, v_na); (fld_32, v_na); (fld_33, v_na); (fld_65, v_false); (fld_66, v_true)]);
+    ([tok_4; tok_97], Some [(fld_2, (B ":")); (fld_9, v_true); (fld_30, (B "jsonl")); (fld_31, (B "")); (fld_32, (B "")); (fld_33, (B "")); (fld_65, v_false); (fld_66, v_true)]);
+    ([tok_4; tok_27; tok_58], Some [(fld_2, (B ":")); (fld_9, v_true); (fld_30, (B "jsonl")); (fld_31, (B "")); (fld_32, (B "")); (fld_33, (B "")); (fld_65, v_false); (fld_66, v_true)]);
+    ([tok_4; tok_98], Some [(fld_2, (B ":")); (fld_9, v_true); (fld_30, (B "markdown")); (fld_32, (B " ")); (fld_33, v_na)]);
+    ([tok_4; tok_27; tok_59], Some [(fld_2, (B ":")); (fld_9, v_true); (fld_30, (B "markdown")); (fld_32, (B " ")); (fld_33, v_na)]);
+    ([tok_4; tok_99], Some [(fld_2, (B ":")); (fld_9, v_true); (fld_30, (B "nidx")); (fld_32, (B " ")); (fld_33, v_na); (fld_37, v_true)]);
+    ([tok_4; tok_27; tok_61], Some [(fld_2, (B ":")); (fld_9, v_true); (fld_30, (B "nidx")); (fld_32, (B " ")); (fld_33, v_na); (fld_37, v_true)]);
+    ([tok_4; tok_100], Some [(fld_2, (B ":")); (fld_9, v_true); (fld_30, (B "pprint")); (fld_32, (B " ")); (fld_33, v_na)]);
+    ([tok_4; tok_27; tok_62], Some [(fld_2, (B ":")); (fld_9, v_true); (fld_30, (B "pprint")); (fld_32, (B " ")); (fld_33, v_na)]);
+    ([tok_4; tok_101], Some [(fld_2, (B ":")); (fld_9, v_true); (fld_30, (B "tsv")); (fld_32, (bs [9]%N)); (fld_33, v_na); (fld_37, v_true); (fld_39, v_true)]);
+    ([tok_4; tok_27; tok_64], Some [(fld_2, (B ":")); (fld_9, v_true); (fld_30, (B "tsv")); (fld_32, (bs [9]%N)); (fld_33, v_na); (fld_37, v_true)]);
+    ([tok_4; tok_102], Some [(fld_2, (B ":")); (fld_9, v_true); (fld_30, (B "xtab")); (fld_31, (bs [10;10]%N)); (fld_32, (bs [10]%N)); (fld_33, (B " "))]);
+    ([tok_4; tok_27; tok_68], Some [(fld_2, (B ":")); (fld_9, v_true); (fld_30, (B "xtab")); (fld_31, (bs [10;10]%N)); (fld_32, (bs [10]%N)); (fld_33, (B " "))]);
+    ([tok_4; tok_103], Some [(fld_2, (B ":")); (fld_9, v_true); (fld_30, (B "yaml")); (fld_31, v_na); (fld_32, v_na); (fld_33, v_na); (fld_65, v_false); (fld_66, v_true)]);
+    ([tok_4; tok_27; tok_69], Some [(fld_2, (B ":")); (fld_9, v_true); (fld_30, (B "yaml")); (fld_31, v_na); (fld_32, v_na); (fld_33, v_na); (fld_65, v_false); (fld_66, v_true)]);
+    ([tok_4; tok_104], Some [(fld_0, (B "json")); (fld_1, v_na); (fld_2, (B ":")); (fld_3, v_na); (fld_9, v_true); (fld_30, (B "pprint")); (fld_32, (B " ")); (fld_33, v_na); (fld_41, v_true)]);
+    ([tok_4; tok_29; tok_62; tok_233], Some [(fld_0, (B "json")); (fld_1, v_na); (fld_2, (B ":")); (fld_3, v_na); (fld_9, v_true); (fld_30, (B "pprint")); (fld_32, (B " ")); (fld_33, v_na); (fld_41, v_true)]);
+    ([tok_4; tok_105], Some [(fld_0, (B "json")); (fld_1, v_na); (fld_2, (B ":")); (fld_3, v_na); (fld_9, v_true); (fld_30, (B "csv")); (fld_33, v_na); (fld_39, v_true)]);
+    ([tok_4; tok_29; tok_53], Some [(fld_0, (B "json")); (fld_1, v_na); (fld_2, (B ":")); (fld_3, v_na); (fld_9, v_true); (fld_30, (B "csv")); (fld_33, v_na)]);
+    ([tok_4; tok_106], Some [(fld_0, (B "json")); (fld_1, v_na); (fld_2, (B ":")); (fld_3, v_na); (fld_9, v_true)]);
+    ([tok_4; tok_29; tok_56], Some [(fld_0, (B "json")); (fld_1, v_na); (fld_2, (B ":")); (fld_3, v_na); (fld_9, v_true)]);
+    ([tok_4; tok_44], Some [(fld_0, (B "json")); (fld_1, v_na); (fld_2, (B ":")); (fld_3, v_na); (fld_9, v_true); (fld_30, (B "json")); (fld_31, v_na); (fld_32, v_na); (fld_33, v_na); (fld_65, v_false)]);
+    ([tok_4; tok_29; tok_57], Some [(fld_0, (B "json")); (fld_1, v_na); (fld_2, (B ":")); (fld_3, v_na); (fld_9, v_true); (fld_30, (B "json")); (fld_31, v_na); (fld_32, v_na); (fld_33, v_na); (fld_65, v_false)]);
+    ([tok_4; tok_107], Some [(fld_0, (B "json")); (fld_1, v_na); (fld_2, (B ":")); (fld_3, v_na); (fld_9, v_true); (fld_30, (B "jsonl")); (fld_31, (B "")); (fld_32, (B "")); (fld_33, (B "")); (fld_65, v_false)]);
+    ([tok_4; tok_29; tok_58], Some [(fld_0, (B "json")); (fld_1, v_na); (fld_2, (B ":")); (fld_3, v_na); (fld_9, v_true); (fld_30, (B "jsonl")); (fld_31, (B "")); (fld_32, (B "")); (fld_33, (B "")); (fld_65, v_false)]);
+    ([tok_4; tok_108], Some [(fld_0, (B "json")); (fld_1, v_na); (fld_2, (B ":")); (fld_3, v_na); (fld_9, v_true); (fld_30, (B "markdown")); (fld_32, (B " ")); (fld_33, v_na)]);
+    ([tok_4; tok_29; tok_59], Some [(fld_0, (B "json")); (fld_1, v_na); (fld_2, (B ":")); (fld_3, v_na); (fld_9, v_true); (fld_30, (B "markdown")); (fld_32, (B " ")); (fld_33, v_na)]);
+    ([tok_4; tok_109], Some [(fld_0, (B "json")); (fld_1, v_na); (fld_2, (B ":")); (fld_3, v_na); (fld_9, v_true); (fld_30, (B "nidx")); (fld_32, (B " ")); (fld_33, v_na)]);
+    ([tok_4; tok_29; tok_61], Some [(fld_0, (B "json")); (fld_1, v_na); (fld_2, (B ":")); (fld_3, v_na); (fld_9, v_true); (fld_30, (B "nidx")); (fld_32, (B " ")); (fld_33, v_na); (fld_37, v_true)]);
+    ([tok_4; tok_110], Some [(fld_0, (B "json")); (fld_1, v_na); (fld_2, (B ":")); (fld_3, v_na); (fld_9, v_true); (fld_30, (B "pprint")); (fld_32, (B " ")); (fld_33, v_na)]);
+    ([tok_4; tok_29; tok_62], Some [(fld_0, (B "json")); (fld_1, v_na); (fld_2, (B ":")); (fld_3, v_na); (fld_9, v_true); (fld_30, (B "pprint")); (fld_32, (B " ")); (fld_33, v_na)]);
+    ([tok_4; tok_111], Some [(fld_0, (B "json")); (fld_1, v_na); (fld_2, (B ":")); (fld_3, v_na); (fld_9, v_true); (fld_30, (B "tsv")); (fld_32, (bs [9]%N)); (fld_33, v_na)]);
+    ([tok_4; tok_29; tok_64], Some [(fld_0, (B "json")); (fld_1, v_na); (fld_2, (B ":")); (fld_3, v_na); (fld_9, v_true); (fld_30, (B "tsv")); (fld_32, (bs [9]%N)); (fld_33, v_na); (fld_37, v_true)]);
+    ([tok_4; tok_112], Some [(fld_0, (B "json")); (fld_1, v_na); (fld_2, (B ":")); (fld_3, v_na); (fld_9, v_true); (fld_30, (B "xtab")); (fld_31, (bs [10;10]%N)); (fld_32, (bs [10]%N)); (fld_33, (B " "))]);
+    ([tok_4; tok_29; tok_68], Some [(fld_0, (B "json")); (fld_1, v_na); (fld_2, (B ":")); (fld_3, v_na); (fld_9, v_true); (fld_30, (B "xtab")); (fld_31, (bs [10;10]%N)); (fld_32, (bs [10]%N)); (fld_33, (B " "))]);
+    ([tok_4; tok_113], Some [(fld_0, (B "json")); (fld_1, v_na); (fld_2, (B ":")); (fld_3, v_na); (fld_9, v_true); (fld_30, (B "yaml")); (fld_31, v_na); (fld_32, v_na); (fld_33, v_na); (fld_65, v_false)]);
+    ([tok_4; tok_29; tok_69], Some [(fld_0, (B "json")); (fld_1, v_na); (fld_2, (B ":")); (fld_3, v_na); (fld_9, v_true); (fld_30, (B "yaml")); (fld_31, v_na); (fld_32, v_na); (fld_33, v_na); (fld_65, v_false)]);
+    ([tok_4; tok_114], Some [(fld_0, (B "json")); (fld_1, v_na); (fld_2, (B ":")); (fld_3, v_na); (fld_9, v_true); (fld_30, (B "pprint")); (fld_32, (B " ")); (fld_33, v_na); (fld_41, v_true)]);
+    ([tok_4; tok_30; tok_62; tok_233], Some [(fld_0, (B "json")); (fld_1, v_na); (fld_2, (B ":")); (fld_3, v_na); (fld_9, v_true); (fld_30, (B "pprint")); (fld_32, (B " ")); (fld_33, v_na); (fld_41, v_true)]);
+    ([tok_4; tok_115], Some [(fld_0, (B "json")); (fld_1, v_na); (fld_2, (B ":")); (fld_3, v_na); (fld_9, v_true); (fld_30, (B "csv")); (fld_33, v_na); (fld_39, v_true)]);
+    ([tok_4; tok_30; tok_53], Some [(fld_0, (B "json")); (fld_1, v_na); (fld_2, (B ":")); (fld_3, v_na); (fld_9, v_true); (fld_30, (B "csv")); (fld_33, v_na)]);
+    ([tok_4; tok_116], Some [(fld_0, (B "json")); (fld_1, v_na); (fld_2, (B ":")); (fld_3, v_na); (fld_9, v_true)]);
+    ([tok_4; tok_30; tok_56], Some [(fld_0, (B "json")); (fld_1, v_na); (fld_2, (B ":")); (fld_3, v_na); (fld_9, v_true)]);
+    ([tok_4; tok_117], Some [(fld_0, (B "json")); (fld_1, v_na); (fld_2, (B ":")); (fld_3, v_na); (fld_9, v_true); (fld_30, (B "json")); (fld_31, v_na); (fld_32, v_na); (fld_33, v_na); (fld_65, v_false)]);
+    ([tok_4; tok_30; tok_57], Some [(fld_0, (B "json")); (fld_1, v_na); (fld_2, (B ":")); (fld_3, v_na); (fld_9, v_true); (fld_30, (B "json")); (fld_31, v_na); (fld_32, v_na); (fld_33, v_na); (fld_65, v_false)]);
+    ([tok_4; tok_46], Some [(fld_0, (B "json")); (fld_1, v_na); (fld_2, (B ":")); (fld_3, v_na); (fld_9, v_true); (fld_30, (B "jsonl")); (fld_31, (B "")); (fld_32, (B "")); (fld_33, (B "")); (fld_65, v_false)]);
+    ([tok_4; tok_30; tok_58], Some [(fld_0, (B "json")); (fld_1, v_na); (fld_2, (B ":")); (fld_3, v_na); (fld_9, v_true); (fld_30, (B "jsonl")); (fld_31, (B "")); (fld_32, (B "")); (fld_33, (B "")); (fld_65, v_false)]);
+    ([tok_4; tok_118], Some [(fld_0, (B "json")); (fld_1, v_na); (fld_2, (B ":")); (fld_3, v_na); (fld_9, v_true); (fld_30, (B "markdown")); (fld_32, (B " ")); (fld_33, v_na)]);
+    ([tok_4; tok_30; tok_59], Some [(fld_0, (B "json")); (fld_1, v_na); (fld_2, (B ":")); (fld_3, v_na); (fld_9, v_true); (fld_30, (B "markdown")); (fld_32, (B " ")); (fld_33, v_na)]);
+    ([tok_4; tok_119], Some [(fld_0, (B "json")); (fld_1, v_na); (fld_2, (B ":")); (fld_3, v_na); (fld_9, v_true); (fld_30, (B "nidx")); (fld_32, (B " ")); (fld_33, v_na)]);
+    ([tok_4; tok_30; tok_61], Some [(fld_0, (B "json")); (fld_1, v_na); (fld_2, (B ":")); (fld_3, v_na); (fld_9, v_true); (fld_30, (B "nidx")); (fld_32, (B " ")); (fld_33, v_na); (fld_37, v_true)]);
+    ([tok_4; tok_120], Some [(fld_0, (B "json")); (fld_1, v_na); (fld_2, (B ":")); (fld_3, v_na); (fld_9, v_true); (fld_30, (B "pprint")); (fld_32, (B " ")); (fld_33, v_na)]);
+    ([tok_4; tok_30; tok_62], Some [(fld_0, (B "json")); (fld_1, v_na); (fld_2, (B ":")); (fld_3, v_na); (fld_9, v_true); (fld_30, (B "pprint")); (fld_32, (B " ")); (fld_33, v_na)]);
+    ([tok_4; tok_121], Some [(fld_0, (B "json")); (fld_1, v_na); (fld_2, (B ":")); (fld_3, v_na); (fld_9, v_true); (fld_30, (B "tsv")); (fld_32, (bs [9]%N)); (fld_33, v_na)]);
+    ([tok_4; tok_30; tok_64], Some [(fld_0, (B "json")); (fld_1, v_na); (fld_2, (B ":")); (fld_3, v_na); (fld_9, v_true); (fld_30, (B "tsv")); (fld_32, (bs [9]%N)); (fld_33, v_na); (fld_37, v_true)]);
+    ([tok_4; tok_122], Some [(fld_0, (B "json")); (fld_1, v_na); (fld_2, (B ":")); (fld_3, v_na); (fld_9, v_true); (fld_30, (B "xtab")); (fld_31, (bs [10;10]%N)); (fld_32, (bs [10]%N)); (fld_33, (B " "))]);
+    ([tok_4; tok_30; tok_68], Some [(fld_0, (B "json")); (fld_1, v_na); (fld_2, (B ":")); (fld_3, v_na); (fld_9, v_true); (fld_30, (B "xtab")); (fld_31, (bs [10;10]%N)); (fld_32, (bs [10]%N)); (fld_33, (B " "))]);
+    ([tok_4; tok_123], Some [(fld_0, (B "json")); (fld_1, v_na); (fld_2, (B ":")); (fld_3, v_na); (fld_9, v_true); (fld_30, (B "yaml")); (fld_31, v_na); (fld_32, v_na); (fld_33, v_na); (fld_65, v_false)]);
+    ([tok_4; tok_30; tok_69], Some [(fld_0, (B "json")); (fld_1, v_na); (fld_2, (B ":")); (fld_3, v_na); (fld_9, v_true); (fld_30, (B "yaml")); (fld_31, v_na); (fld_32, v_na); (fld_33, v_na); (fld_65, v_false)]);
+    ([tok_4; tok_124], Some [(fld_0, (B "markdown")); (fld_1, (B " ")); (fld_2, (B ":")); (fld_9, v_true); (fld_30, (B "csv")); (fld_33, v_na); (fld_39, v_true)]);
+    ([tok_4; tok_31; tok_53], Some [(fld_0, (B "markdown")); (fld_1, (B " ")); (fld_2, (B ":")); (fld_9, v_true); (fld_30, (B "csv")); (fld_33, v_na)]);
+    ([tok_4; tok_125], Some [(fld_0, (B "markdown")); (fld_1, (B " ")); (fld_2, (B ":")); (fld_9, v_true)]);
+    ([tok_4; tok_31; tok_56], Some [(fld_0, (B "markdown")); (fld_1, (B " ")); (fld_2, (B ":")); (fld_9, v_true)]);
+    ([tok_4; tok_126], Some [(fld_0, (B "markdown")); (fld_1, (B " ")); (fld_2, (B ":")); (fld_9, v_true); (fld_30, (B "json")); (fld_31, v_na); (fld_32, v_na); (fld_33, v_na); (fld_65, v_false); (fld_66, v_true)]);
+    ([tok_4; tok_31; tok_57], Some [(fld_0, (B "markdown")); (fld_1, (B " ")); (fld_2, (B ":")); (fld_9, v_true); (fld_30, (B "json")); (fld_31, v_na); (fld_32, v_na); (fld_33, v_na); (fld_65, v_false); (fld_66, v_true)]);
+    ([tok_4; tok_127], Some [(fld_0, (B "markdown")); (fld_1, (B " ")); (fld_2, (B ":")); (fld_9, v_true); (fld_30, (B "jsonl")); (fld_31, (B "")); (fld_32, (B "")); (fld_33, (B "")); (fld_65, v_false); (fld_66, v_true)]);
+    ([tok_4; tok_31; tok_58], Some [(fld_0, (B "markdown")); (fld_1, (B " ")); (fld_2, (B ":")); (fld_9, v_true); (fld_30, (B "jsonl")); (fld_31, (B "")); (fld_32, (B "")); (fld_33, (B "")); (fld_65, v_false); (fld_66, v_true)]);
+    ([tok_4; tok_128], Some [(fld_0, (B "markdown")); (fld_1, (B " ")); (fld_2, (B ":")); (fld_9, v_true); (fld_30, (B "nidx")); (fld_32, (B " ")); (fld_33, v_na)]);
+    ([tok_4; tok_31; tok_61], Some [(fld_0, (B "markdown")); (fld_1, (B " ")); (fld_2, (B ":")); (fld_9, v_true); (fld_30, (B "nidx")); (fld_32, (B " ")); (fld_33, v_na); (fld_37, v_true)]);
+    ([tok_4; tok_129], Some [(fld_0, (B "markdown")); (fld_1, (B " ")); (fld_2, (B ":")); (fld_9, v_true); (fld_30, (B "pprint")); (fld_32, (B " ")); (fld_33, v_na)]);
+    ([tok_4; tok_31; tok_62], Some [(fld_0, (B "markdown")); (fld_1, (B " ")); (fld_2, (B ":")); (fld_9, v_true); (fld_30, (B "pprint")); (fld_32, (B " ")); (fld_33, v_na)]);
+    ([tok_4; tok_130], Some [(fld_0, (B "markdown")); (fld_1, (B " ")); (fld_2, (B ":")); (fld_9, v_true); (fld_30, (B "tsv")); (fld_32, (bs [9]%N)); (fld_33, v_na)]);
+    ([tok_4; tok_31; tok_64], Some [(fld_0, (B "markdown")); (fld_1, (B " ")); (fld_2, (B ":")); (fld_9, v_true); (fld_30, (B "tsv")); (fld_32, (bs [9]%N)); (fld_33, v_na); (fld_37, v_true)]);
+    ([tok_4; tok_131], Some [(fld_0, (B "markdown")); (fld_1, (B " ")); (fld_2, (B ":")); (fld_9, v_true); (fld_30, (B "xtab")); (fld_31, (bs [10;10]%N)); (fld_32, (bs [10]%N)); (fld_33, (B " "))]);
+    ([tok_4; tok_31; tok_68], Some [(fld_0, (B "markdown")); (fld_1, (B " ")); (fld_2, (B ":")); (fld_9, v_true); (fld_30, (B "xtab")); (fld_31, (bs [10;10]%N)); (fld_32, (bs [10]%N)); (fld_33, (B " "))]);
+    ([tok_4; tok_132], Some [(fld_0, (B "markdown")); (fld_1, (B " ")); (fld_2, (B ":")); (fld_9, v_true); (fld_30, (B "yaml")); (fld_31, v_na); (fld_32, v_na); (fld_33, v_na); (fld_65, v_false); (fld_66, v_true)]);
+    ([tok_4; tok_31; tok_69], Some [(fld_0, (B "markdown")); (fld_1, (B " ")); (fld_2, (B ":")); (fld_9, v_true); (fld_30, (B "yaml")); (fld_31, v_na); (fld_32, v_na); (fld_33, v_na); (fld_65, v_false); (fld_66, v_true)]);
+    ([tok_4; tok_198], Some [(fld_0, (B "markdown")); (fld_1, (B " ")); (fld_2, (B ":")); (fld_9, v_true); (fld_30, (B "markdown")); (fld_32, (B " ")); (fld_33, v_na); (fld_45, v_true)]);
+    ([tok_4; tok_47; tok_199], Some [(fld_0, (B "markdown")); (fld_1, (B " ")); (fld_2, (B ":")); (fld_9, v_true); (fld_30, (B "markdown")); (fld_32, (B " ")); (fld_33, v_na); (fld_45, v_true)]);
+    ([tok_4; tok_197], Some [(fld_0, (B "markdown")); (fld_1, (B " ")); (fld_2, (B ":")); (fld_9, v_true); (fld_30, (B "markdown")); (fld_32, (B " ")); (fld_33, v_na); (fld_45, v_true)]);
+    ([tok_4; tok_133], Some [(fld_0, (B "nidx")); (fld_1, (B " ")); (fld_2, (B ":")); (fld_5, (B "([ \t])+")); (fld_9, v_true); (fld_30, (B "pprint")); (fld_32, (B " ")); (fld_33, v_na); (fld_41, v_true)]);
+    ([tok_4; tok_33; tok_62; tok_233], Some [(fld_0, (B "nidx")); (fld_1, (B " ")); (fld_2, (B ":")); (fld_5, (B "([ \t])+")); (fld_9, v_true); (fld_30, (B "pprint")); (fld_32, (B " ")); (fld_33, v_na); (fld_41, v_true)]);
+    ([tok_4; tok_134], Some [(fld_0, (B "nidx")); (fld_1, (B " ")); (fld_2, (B ":")); (fld_5, (B "([ \t])+")); (fld_9, v_true); (fld_30, (B "csv")); (fld_33, v_na); (fld_39, v_true)]);
+    ([tok_4; tok_33; tok_53], Some [(fld_0, (B "nidx")); (fld_1, (B " ")); (fld_2, (B ":")); (fld_5, (B "([ \t])+")); (fld_9, v_true); (fld_30, (B "csv")); (fld_33, v_na)]);
+    ([tok_4; tok_135], Some [(fld_0, (B "nidx")); (fld_1, (B " ")); (fld_2, (B ":")); (fld_5, (B "([ \t])+")); (fld_9, v_true)]);
+    ([tok_4; tok_33; tok_56], Some [(fld_0, (B "nidx")); (fld_1, (B " ")); (fld_2, (B ":")); (fld_5, (B "([ \t])+")); (fld_9, v_true)]);
+    ([tok_4; tok_136], Some [(fld_0, (B "nidx")); (fld_1, (B " ")); (fld_2, (B ":")); (fld_5, (B "([ \t])+")); (fld_9, v_true); (fld_30, (B "json")); (fld_31, v_na); (fld_32, v_na); (fld_33, v_na); (fld_65, v_false); (fld_66, v_true)]);
+    ([tok_4; tok_33; tok_57], Some [(fld_0, (B "nidx")); (fld_1, (B " ")); (fld_2, (B ":")); (fld_5, (B "([ \t])+")); (fld_9, v_true); (fld_30, (B "json")); (fld_31, v_na); (fld_32, v_na); (fld_33, v_na); (fld_65, v_false); (fld_66, v_true)]);
+    ([tok_4; tok_137], Some [(fld_0, (B "nidx")); (fld_1, (B " ")); (fld_2, (B ":")); (fld_5, (B "([ \t])+")); (fld_9, v_true); (fld_30, (B "jsonl")); (fld_31, (B "")); (fld_32, (B "")); (fld_33, (B "")); (fld_65, v_false); (fld_66, v_true)]);
+    ([tok_4; tok_33; tok_58], Some [(fld_0, (B "nidx")); (fld_1, (B " ")); (fld_2, (B ":")); (fld_5, (B "([ \t])+")); (fld_9, v_true); (fld_30, (B "jsonl")); (fld_31, (B "")); (fld_32, (B "")); (fld_33, (B "")); (fld_65, v_false); (fld_66, v_true)]);
+    ([tok_4; tok_138], Some [(fld_0, (B "nidx")); (fld_1, (B " ")); (fld_2, (B ":")); (fld_5, (B "([ \t])+")); (fld_9, v_true); (fld_30, (B "markdown")); (fld_32, (B " ")); (fld_33, v_na)]);
+    ([tok_4; tok_33; tok_59], Some [(fld_0, (B "nidx")); (fld_1, (B " ")); (fld_2, (B ":")); (fld_5, (B "([ \t])+")); (fld_9, v_true); (fld_30, (B "markdown")); (fld_32, (B " ")); (fld_33, v_na)]);
+    ([tok_4; tok_50], Some [(fld_0, (B "nidx")); (fld_1, (B " ")); (fld_2, (B ":")); (fld_5, (B "([ \t])+")); (fld_9, v_true); (fld_30, (B "nidx")); (fld_32, (B " ")); (fld_33, v_na)]);
+    ([tok_4; tok_33; tok_61], Some [(fld_0, (B "nidx")); (fld_1, (B " ")); (fld_2, (B ":")); (fld_5, (B "([ \t])+")); (fld_9, v_true); (fld_30, (B "nidx")); (fld_32, (B " ")); (fld_33, v_na); (fld_37, v_true)]);
+    ([tok_4; tok_139], Some [(fld_0, (B "nidx")); (fld_1, (B " ")); (fld_2, (B ":")); (fld_5, (B "([ \t])+")); (fld_9, v_true); (fld_30, (B "pprint")); (fld_32, (B " ")); (fld_33, v_na)]);
+    ([tok_4; tok_33; tok_62], Some [(fld_0, (B "nidx")); (fld_1, (B " ")); (fld_2, (B ":")); (fld_5, (B "([ \t])+")); (fld_9, v_true); (fld_30, (B "pprint")); (fld_32, (B " ")); (fld_33, v_na)]);
+    ([tok_4; tok_140], Some [(fld_0, (B "nidx")); (fld_1, (B " ")); (fld_2, (B ":")); (fld_5, (B "([ \t])+")); (fld_9, v_true); (fld_30, (B "tsv")); (fld_32, (bs [9]%N)); (fld_33, v_na)]);
+    ([tok_4; tok_33; tok_64], Some [(fld_0, (B "nidx")); (fld_1, (B " ")); (fld_2, (B ":")); (fld_5, (B "([ \t])+")); (fld_9, v_true); (fld_30, (B "tsv")); (fld_32, (bs [9]%N)); (fld_33, v_na); (fld_37, v_true)]);
+    ([tok_4; tok_141], Some [(fld_0, (B "nidx")); (fld_1, (B " ")); (fld_2, (B ":")); (fld_5, (B "([ \t])+")); (fld_9, v_true); (fld_30, (B "xtab")); (fld_31, (bs [10;10]%N)); (fld_32, (bs [10]%N)); (fld_33, (B " "))]);
+    ([tok_4; tok_33; tok_68], Some [(fld_0, (B "nidx")); (fld_1, (B " ")); (fld_2, (B ":")); (fld_5, (B "([ \t])+")); (fld_9, v_true); (fld_30, (B "xtab")); (fld_31, (bs [10;10]%N)); (fld_32, (bs [10]%N)); (fld_33, (B " "))]);
+    ([tok_4; tok_142], Some [(fld_0, (B "nidx")); (fld_1, (B " ")); (fld_2, (B ":")); (fld_5, (B "([ \t])+")); (fld_9, v_true); (fld_30, (B "yaml")); (fld_31, v_na); (fld_32, v_na); (fld_33, v_na); (fld_65, v_false); (fld_66, v_true)]);
+    ([tok_4; tok_33; tok_69], Some [(fld_0, (B "nidx")); (fld_1, (B " ")); (fld_2, (B ":")); (fld_5, (B "([ \t])+")); (fld_9, v_true); (fld_30, (B "yaml")); (fld_31, v_na); (fld_32, v_na); (fld_33, v_na); (fld_65, v_false); (fld_66, v_true)]);
+    ([tok_4; tok_143], Some [(fld_0, (B "pprint")); (fld_1, (B " ")); (fld_2, (B ":")); (fld_4, v_true); (fld_8, v_true); (fld_9, v_true); (fld_30, (B "csv")); (fld_33, v_na); (fld_39, v_true)]);
+    ([tok_4; tok_34; tok_53], Some [(fld_0, (B "pprint")); (fld_1, (B " ")); (fld_2, (B ":")); (fld_4, v_true); (fld_8, v_true); (fld_9, v_true); (fld_30, (B "csv")); (fld_33, v_na)]);
+    ([tok_4; tok_144], Some [(fld_0, (B "pprint")); (fld_1, (B " ")); (fld_2, (B ":")); (fld_4, v_true); (fld_8, v_true); (fld_9, v_true)]);
+    ([tok_4; tok_34; tok_56], Some [(fld_0, (B "pprint")); (fld_1, (B " ")); (fld_2, (B ":")); (fld_4, v_true); (fld_8, v_true); (fld_9, v_true)]);
+    ([tok_4; tok_145], Some [(fld_0, (B "pprint")); (fld_1, (B " ")); (fld_2, (B ":")); (fld_4, v_true); (fld_8, v_true); (fld_9, v_true); (fld_30, (B "json")); (fld_31, v_na); (fld_32, v_na); (fld_33, v_na); (fld_65, v_false); (fld_66, v_true)]);
+    ([tok_4; tok_34; tok_57], Some [(fld_0, (B "pprint")); (fld_1, (B " ")); (fld_2, (B ":")); (fld_4, v_true); (fld_8, v_true); (fld_9, v_true); (fld_30, (B "json")); (fld_31, v_na); (fld_32, v_na); (fld_33, v_na); (fld_65, v_false); (fld_66, v_true)]);
+    ([tok_4; tok_146], Some [(fld_0, (B "pprint")); (fld_1, (B " ")); (fld_2, (B ":")); (fld_4, v_true); (fld_8, v_true); (fld_9, v_true); (fld_30, (B "jsonl")); (fld_31, (B "")); (fld_32, (B "")); (fld_33, (B "")); (fld_65, v_false); (fld_66, v_true)]);
+    ([tok_4; tok_34; tok_58], Some [(fld_0, (B "pprint")); (fld_1, (B " ")); (fld_2, (B ":")); (fld_4, v_true); (fld_8, v_true); (fld_9, v_true); (fld_30, (B "jsonl")); (fld_31, (B "")); (fld_32, (B "")); (fld_33, (B "")); (fld_65, v_false); (fld_66, v_true)]);
+    ([tok_4; tok_147], Some [(fld_0, (B "pprint")); (fld_1, (B " ")); (fld_2, (B ":")); (fld_4, v_true); (fld_8, v_true); (fld_9, v_true); (fld_30, (B "markdown")); (fld_32, (B " ")); (fld_33, v_na)]);
+    ([tok_4; tok_34; tok_59], Some [(fld_0, (B "pprint")); (fld_1, (B " ")); (fld_2, (B ":")); (fld_4, v_true); (fld_8, v_true); (fld_9, v_true); (fld_30, (B "markdown")); (fld_32, (B " ")); (fld_33, v_na)]);
+    ([tok_4; tok_148], Some [(fld_0, (B "pprint")); (fld_1, (B " ")); (fld_2, (B ":")); (fld_4, v_true); (fld_8, v_true); (fld_9, v_true); (fld_30, (B "nidx")); (fld_32, (B " ")); (fld_33, v_na)]);
+    ([tok_4; tok_34; tok_61], Some [(fld_0, (B "pprint")); (fld_1, (B " ")); (fld_2, (B ":")); (fld_4, v_true); (fld_8, v_true); (fld_9, v_true); (fld_30, (B "nidx")); (fld_32, (B " ")); (fld_33, v_na); (fld_37, v_true)]);
+    ([tok_4; tok_71], Some [(fld_0, (B "pprint")); (fld_1, (B " ")); (fld_2, (B ":")); (fld_4, v_true); (fld_8, v_true); (fld_9, v_true); (fld_30, (B "pprint")); (fld_32, (B " ")); (fld_33, v_na)]);
+    ([tok_4; tok_34; tok_62], Some [(fld_0, (B "pprint")); (fld_1, (B " ")); (fld_2, (B ":")); (fld_4, v_true); (fld_8, v_true); (fld_9, v_true); (fld_30, (B "pprint")); (fld_32, (B " ")); (fld_33, v_na)]);
+    ([tok_4; tok_149], Some [(fld_0, (B "pprint")); (fld_1, (B " ")); (fld_2, (B ":")); (fld_4, v_true); (fld_8, v_true); (fld_9, v_true); (fld_30, (B "tsv")); (fld_32, (bs [9]%N)); (fld_33, v_na)]);
+    ([tok_4; tok_34; tok_64], Some [(fld_0, (B "pprint")); (fld_1, (B " ")); (fld_2, (B ":")); (fld_4, v_true); (fld_8, v_true); (fld_9, v_true); (fld_30, (B "tsv")); (fld_32, (bs [9]%N)); (fld_33, v_na); (fld_37, v_true)]);
+    ([tok_4; tok_150], Some [(fld_0, (B "pprint")); (fld_1, (B " ")); (fld_2, (B ":")); (fld_4, v_true); (fld_8, v_true); (fld_9, v_true); (fld_30, (B "xtab")); (fld_31, (bs [10;10]%N)); (fld_32, (bs [10]%N)); (fld_33, (B " "))]);
+    ([tok_4; tok_34; tok_68], Some [(fld_0, (B "pprint")); (fld_1, (B " ")); (fld_2, (B ":")); (fld_4, v_true); (fld_8, v_true); (fld_9, v_true); (fld_30, (B "xtab")); (fld_31, (bs [10;10]%N)); (fld_32, (bs [10]%N)); (fld_33, (B " "))]);
+    ([tok_4; tok_151], Some [(fld_0, (B "pprint")); (fld_1, (B " ")); (fld_2, (B ":")); (fld_4, v_true); (fld_8, v_true); (fld_9, v_true); (fld_30, (B "yaml")); (fld_31, v_na); (fld_32, v_na); (fld_33, v_na); (fld_65, v_false); (fld_66, v_true)]);
+    ([tok_4; tok_34; tok_69], Some [(fld_0, (B "pprint")); (fld_1, (B " ")); (fld_2, (B ":")); (fld_4, v_true); (fld_8, v_true); (fld_9, v_true); (fld_30, (B "yaml")); (fld_31, v_na); (fld_32, v_na); (fld_33, v_na); (fld_65, v_false); (fld_66, v_true)]);
+    ([tok_4; tok_152], Some [(fld_0, (B "tsv")); (fld_1, (bs [9]%N)); (fld_2, (B ":")); (fld_9, v_true); (fld_30, (B "pprint")); (fld_32, (B " ")); (fld_33, v_na); (fld_41, v_true)]);
+    ([tok_4; tok_36; tok_62; tok_233], Some [(fld_0, (B "tsv")); (fld_1, (bs [9]%N)); (fld_2, (B ":")); (fld_9, v_true); (fld_30, (B "pprint")); (fld_32, (B " ")); (fld_33, v_na); (fld_41, v_true)]);
+    ([tok_4; tok_153], Some [(fld_0, (B "tsv")); (fld_1, (bs [9]%N)); (fld_2, (B ":")); (fld_9, v_true); (fld_30, (B "csv")); (fld_33, v_na)]);
+    ([tok_4; tok_36; tok_53], Some [(fld_0, (B "tsv")); (fld_1, (bs [9]%N)); (fld_2, (B ":")); (fld_9, v_true); (fld_30, (B "csv")); (fld_33, v_na)]);
+    ([tok_4; tok_154], Some [(fld_0, (B "tsv")); (fld_1, (bs [9]%N)); (fld_2, (B ":")); (fld_9, v_true)]);
+    ([tok_4; tok_36; tok_56], Some [(fld_0, (B "tsv")); (fld_1, (bs [9]%N)); (fld_2, (B ":")); (fld_9, v_true)]);
+    ([tok_4; tok_155], Some [(fld_0, (B "tsv")); (fld_1, (bs [9]%N)); (fld_2, (B ":")); (fld_9, v_true); (fld_30, (B "json")); (fld_31, v_na); (fld_32, v_na); (fld_33, v_na); (fld_65, v_false); (fld_66, v_true)]);
+    ([tok_4; tok_36; tok_57], Some [(fld_0, (B "tsv")); (fld_1, (bs [9]%N)); (fld_2, (B ":")); (fld_9, v_true); (fld_30, (B "json")); (fld_31, v_na); (fld_32, v_na); (fld_33, v_na); (fld_65, v_false); (fld_66, v_true)]);
+    ([tok_4; tok_156], Some [(fld_0, (B "tsv")); (fld_1, (bs [9]%N)); (fld_2, (B ":")); (fld_9, v_true); (fld_30, (B "jsonl")); (fld_31, (B "")); (fld_32, (B "")); (fld_33, (B "")); (fld_65, v_false); (fld_66, v_true)]);
+    ([tok_4; tok_36; tok_58], Some [(fld_0, (B "tsv")); (fld_1, (bs [9]%N)); (fld_2, (B ":")); (fld_9, v_true); (fld_30, (B "jsonl")); (fld_31, (B "")); (fld_32, (B "")); (fld_33, (B "")); (fld_65, v_false); (fld_66, v_true)]);
+    ([tok_4; tok_157], Some [(fld_0, (B "tsv")); (fld_1, (bs [9]%N)); (fld_2, (B ":")); (fld_9, v_true); (fld_30, (B "markdown")); (fld_32, (B " ")); (fld_33, v_na)]);
+    ([tok_4; tok_36; tok_59], Some [(fld_0, (B "tsv")); (fld_1, (bs [9]%N)); (fld_2, (B ":")); (fld_9, v_true); (fld_30, (B "markdown")); (fld_32, (B " ")); (fld_33, v_na)]);
+    ([tok_4; tok_158], Some [(fld_0, (B "tsv")); (fld_1, (bs [9]%N)); (fld_2, (B ":")); (fld_9, v_true); (fld_30, (B "nidx")); (fld_32, (B " ")); (fld_33, v_na); (fld_37, v_true)]);
+    ([tok_4; tok_36; tok_61], Some [(fld_0, (B "tsv")); (fld_1, (bs [9]%N)); (fld_2, (B ":")); (fld_9, v_true); (fld_30, (B "nidx")); (fld_32, (B " ")); (fld_33, v_na); (fld_37, v_true)]);
+    ([tok_4; tok_159], Some [(fld_0, (B "tsv")); (fld_1, (bs [9]%N)); (fld_2, (B ":")); (fld_9, v_true); (fld_30, (B "pprint")); (fld_32, (B " ")); (fld_33, v_na)]);
+    ([tok_4; tok_36; tok_62], Some [(fld_0, (B "tsv")); (fld_1, (bs [9]%N)); (fld_2, (B ":")); (fld_9, v_true); (fld_30, (B "pprint")); (fld_32, (B " ")); (fld_33, v_na)]);
+    ([tok_4; tok_75], Some [(fld_0, (B "tsv")); (fld_1, (bs [9]%N)); (fld_2, (B ":")); (fld_9, v_true); (fld_30, (B "tsv")); (fld_32, (bs [9]%N)); (fld_33, v_na)]);
+    ([tok_4; tok_36; tok_64], Some [(fld_0, (B "tsv")); (fld_1, (bs [9]%N)); (fld_2, (B ":")); (fld_9, v_true); (fld_30, (B "tsv")); (fld_32, (bs [9]%N)); (fld_33, v_na); (fld_37, v_true)]);
+    ([tok_4; tok_160], Some [(fld_0, (B "tsv")); (fld_1, (bs [9]%N)); (fld_2, (B ":")); (fld_9, v_true); (fld_30, (B "xtab")); (fld_31, (bs [10;10]%N)); (fld_32, (bs [10]%N)); (fld_33, (B " "))]);
+    ([tok_4; tok_36; tok_68], Some [(fld_0, (B "tsv")); (fld_1, (bs [9]%N)); (fld_2, (B ":")); (fld_9, v_true); (fld_30, (B "xtab")); (fld_31, (bs [10;10]%N)); (fld_32, (bs [10]%N)); (fld_33, (B " "))]);
+    ([tok_4; tok_161], Some [(fld_0, (B "tsv")); (fld_1, (bs [9]%N)); (fld_2, (B ":")); (fld_9, v_true); (fld_30, (B "yaml")); (fld_31, v_na); (fld_32, v_na); (fld_33, v_na); (fld_65, v_false); (fld_66, v_true)]);
+    ([tok_4; tok_36; tok_69], Some [(fld_0, (B "tsv")); (fld_1, (bs [9]%N)); (fld_2, (B ":")); (fld_9, v_true); (fld_30, (B "yaml")); (fld_31, v_na); (fld_32, v_na); (fld_33, v_na); (fld_65, v_false); (fld_66, v_true)]);
+    ([tok_4; tok_162], Some [(fld_0, (B "xtab")); (fld_1, (bs [10]%N)); (fld_2, (B ":")); (fld_3, (bs [10;10]%N)); (fld_9, v_true); (fld_30, (B "pprint")); (fld_32, (B " ")); (fld_33, v_na); (fld_41, v_true)]);
+    ([tok_4; tok_40; tok_62; tok_233], Some [(fld_0, (B "xtab")); (fld_1, (bs [10]%N)); (fld_2, (B ":")); (fld_3, (bs [10;10]%N)); (fld_9, v_true); (fld_30, (B "pprint")); (fld_32, (B " ")); (fld_33, v_na); (fld_41, v_true)]);
+    ([tok_4; tok_163], Some [(fld_0, (B "xtab")); (fld_1, (bs [10]%N)); (fld_2, (B ":")); (fld_3, (bs [10;10]%N)); (fld_9, v_true); (fld_30, (B "csv")); (fld_33, v_na); (fld_39, v_true)]);
+    ([tok_4; tok_40; tok_53], Some [(fld_0, (B "xtab")); (fld_1, (bs [10]%N)); (fld_2, (B ":")); (fld_3, (bs [10;10]%N)); (fld_9, v_true); (fld_30, (B "csv")); (fld_33, v_na)]);
+    ([tok_4; tok_164], Some [(fld_0, (B "xtab")); (fld_1, (bs [10]%N)); (fld_2, (B ":")); (fld_3, (bs [10;10]%N)); (fld_9, v_true)]);
+    ([tok_4; tok_40; tok_56], Some [(fld_0, (B "xtab")); (fld_1, (bs [10]%N)); (fld_2, (B ":")); (fld_3, (bs [10;10]%N)); (fld_9, v_true)]);
+    ([tok_4; tok_165], Some [(fld_0, (B "xtab")); (fld_1, (bs [10]%N)); (fld_2, (B ":")); (fld_3, (bs [10;10]%N)); (fld_9, v_true); (fld_30, (B "json")); (fld_31, v_na); (fld_32, v_na); (fld_33, v_na); (fld_65, v_false); (fld_66, v_true)]);
+    ([tok_4; tok_40; tok_57], Some [(fld_0, (B "xtab")); (fld_1, (bs [10]%N)); (fld_2, (B ":")); (fld_3, (bs [10;10]%N)); (fld_9, v_true); (fld_30, (B "json")); (fld_31, v_na); (fld_32, v_na); (fld_33, v_na); (fld_65, v_false); (fld_66, v_true)]);
+    ([tok_4; tok_166], Some [(fld_0, (B "xtab")); (fld_1, (bs [10]%N)); (fld_2, (B ":")); (fld_3, (bs [10;10]%N)); (fld_9, v_true); (fld_30, (B "jsonl")); (fld_31, (B "")); (fld_32, (B "")); (fld_33, (B "")); (fld_65, v_false); (fld_66, v_true)]);
+    ([tok_4; tok_40; tok_58], Some [(fld_0, (B "xtab")); (fld_1, (bs [10]%N)); (fld_2, (B ":")); (fld_3, (bs [10;10]%N)); (fld_9, v_true); (fld_30, (B "jsonl")); (fld_31, (B "")); (fld_32, (B "")); (fld_33, (B "")); (fld_65, v_false); (fld_66, v_true)]);
+    ([tok_4; tok_167], Some [(fld_0, (B "xtab")); (fld_1, (bs [10]%N)); (fld_2, (B ":")); (fld_3, (bs [10;10]%N)); (fld_9, v_true); (fld_30, (B "markdown")); (fld_32, (B " ")); (fld_33, v_na)]);
+    ([tok_4; tok_40; tok_59], Some [(fld_0, (B "xtab")); (fld_1, (bs [10]%N)); (fld_2, (B ":")); (fld_3, (bs [10;10]%N)); (fld_9, v_true); (fld_30, (B "markdown")); (fld_32, (B " ")); (fld_33, v_na)]);
+    ([tok_4; tok_168], Some [(fld_0, (B "xtab")); (fld_1, (bs [10]%N)); (fld_2, (B ":")); (fld_3, (bs [10;10]%N)); (fld_9, v_true); (fld_30, (B "nidx")); (fld_32, (B " ")); (fld_33, v_na)]);
+    ([tok_4; tok_40; tok_61], Some [(fld_0, (B "xtab")); (fld_1, (bs [10]%N)); (fld_2, (B ":")); (fld_3, (bs [10;10]%N)); (fld_9, v_true); (fld_30, (B "nidx")); (fld_32, (B " ")); (fld_33, v_na); (fld_37, v_true)]);
+    ([tok_4; tok_169], Some [(fld_0, (B "xtab")); (fld_1, (bs [10]%N)); (fld_2, (B ":")); (fld_3, (bs [10;10]%N)); (fld_9, v_true); (fld_30, (B "pprint")); (fld_32, (B " ")); (fld_33, v_na)]);
+    ([tok_4; tok_40; tok_62], Some [(fld_0, (B "xtab")); (fld_1, (bs [10]%N)); (fld_2, (B ":")); (fld_3, (bs [10;10]%N)); (fld_9, v_true); (fld_30, (B "pprint")); (fld_32, (B " ")); (fld_33, v_na)]);
+    ([tok_4; tok_170], Some [(fld_0, (B "xtab")); (fld_1, (bs [10]%N)); (fld_2, (B ":")); (fld_3, (bs [10;10]%N)); (fld_9, v_true); (fld_30, (B "tsv")); (fld_32, (bs [9]%N)); (fld_33, v_na)]);
+    ([tok_4; tok_40; tok_64], Some [(fld_0, (B "xtab")); (fld_1, (bs [10]%N)); (fld_2, (B ":")); (fld_3, (bs [10;10]%N)); (fld_9, v_true); (fld_30, (B "tsv")); (fld_32, (bs [9]%N)); (fld_33, v_na); (fld_37, v_true)]);
+    ([tok_4; tok_80], Some [(fld_0, (B "xtab")); (fld_1, (bs [10]%N)); (fld_2, (B ":")); (fld_3, (bs [10;10]%N)); (fld_9, v_true); (fld_30, (B "xtab")); (fld_31, (bs [10;10]%N)); (fld_32, (bs [10]%N)); (fld_33, (B " "))]);
+    ([tok_4; tok_40; tok_68], Some [(fld_0, (B "xtab")); (fld_1, (bs [10]%N)); (fld_2, (B ":")); (fld_3, (bs [10;10]%N)); (fld_9, v_true); (fld_30, (B "xtab")); (fld_31, (bs [10;10]%N)); (fld_32, (bs [10]%N)); (fld_33, (B " "))]);
+    ([tok_4; tok_171], Some [(fld_0, (B "xtab")); (fld_1, (bs [10]%N)); (fld_2, (B ":")); (fld_3, (bs [10;10]%N)); (fld_9, v_true); (fld_30, (B "yaml")); (fld_31, v_na); (fld_32, v_na); (fld_33, v_na); (fld_65, v_false); (fld_66, v_true)]);
+    ([tok_4; tok_40; tok_69], Some [(fld_0, (B "xtab")); (fld_1, (bs [10]%N)); (fld_2, (B ":")); (fld_3, (bs [10;10]%N)); (fld_9, v_true); (fld_30, (B "yaml")); (fld_31, v_na); (fld_32, v_na); (fld_33, v_na); (fld_65, v_false); (fld_66, v_true)]);
+    ([tok_4; tok_172], Some [(fld_0, (B "yaml")); (fld_1, v_na); (fld_2, (B ":")); (fld_3, v_na); (fld_9, v_true); (fld_30, (B "csv")); (fld_33, v_na); (fld_39, v_true)]);
+    ([tok_4; tok_41; tok_53], Some [(fld_0, (B "yaml")); (fld_1, v_na); (fld_2, (B ":")); (fld_3, v_na); (fld_9, v_true); (fld_30, (B "csv")); (fld_33, v_na)]);
+    ([tok_4; tok_173], Some [(fld_0, (B "yaml")); (fld_1, v_na); (fld_2, (B ":")); (fld_3, v_na); (fld_9, v_true)]);
+    ([tok_4; tok_41; tok_56], Some [(fld_0, (B "yaml")); (fld_1, v_na); (fld_2, (B ":")); (fld_3, v_na); (fld_9, v_true)]);
+    ([tok_4; tok_174], Some [(fld_0, (B "yaml")); (fld_1, v_na); (fld_2, (B ":")); (fld_3, v_na); (fld_9, v_true); (fld_30, (B "json")); (fld_31, v_na); (fld_32, v_na); (fld_33, v_na); (fld_65, v_false)]);
+    ([tok_4; tok_41; tok_57], Some [(fld_0, (B "yaml")); (fld_1, v_na); (fld_2, (B ":")); (fld_3, v_na); (fld_9, v_true); (fld_30, (B "json")); (fld_31, v_na); (fld_32, v_na); (fld_33, v_na); (fld_65, v_false)]);
+    ([tok_4; tok_175], Some [(fld_0, (B "yaml")); (fld_1, v_na); (fld_2, (B ":")); (fld_3, v_na); (fld_9, v_true); (fld_30, (B "jsonl")); (fld_31, (B "")); (fld_32, (B "")); (fld_33, (B "")); (fld_65, v_false)]);
+    ([tok_4; tok_41; tok_58], Some [(fld_0, (B "yaml")); (fld_1, v_na); (fld_2, (B ":")); (fld_3, v_na); (fld_9, v_true); (fld_30, (B "jsonl")); (fld_31, (B "")); (fld_32, (B "")); (fld_33, (B "")); (fld_65, v_false)]);
+    ([tok_4; tok_176], Some [(fld_0, (B "yaml")); (fld_1, v_na); (fld_2, (B ":")); (fld_3, v_na); (fld_9, v_true); (fld_30, (B "markdown")); (fld_32, (B " ")); (fld_33, v_na)]);
+    ([tok_4; tok_41; tok_59], Some [(fld_0, (B "yaml")); (fld_1, v_na); (fld_2, (B ":")); (fld_3, v_na); (fld_9, v_true); (fld_30, (B "markdown")); (fld_32, (B " ")); (fld_33, v_na)]);
+    ([tok_4; tok_177], Some [(fld_0, (B "yaml")); (fld_1, v_na); (fld_2, (B ":")); (fld_3, v_na); (fld_9, v_true); (fld_30, (B "nidx")); (fld_32, (B " ")); (fld_33, v_na)]);
+    ([tok_4; tok_41; tok_61], Some [(fld_0, (B "yaml")); (fld_1, v_na); (fld_2, (B ":")); (fld_3, v_na); (fld_9, v_true); (fld_30, (B "nidx")); (fld_32, (B " ")); (fld_33, v_na); (fld_37, v_true)]);
+    ([tok_4; tok_178], Some [(fld_0, (B "yaml")); (fld_1, v_na); (fld_2, (B ":")); (fld_3, v_na); (fld_9, v_true); (fld_30, (B "pprint")); (fld_32, (B " ")); (fld_33, v_na)]);
+    ([tok_4; tok_41; tok_62], Some [(fld_0, (B "yaml")); (fld_1, v_na); (fld_2, (B ":")); (fld_3, v_na); (fld_9, v_true); (fld_30, (B "pprint")); (fld_32, (B " ")); (fld_33, v_na)]);
+    ([tok_4; tok_179], Some [(fld_0, (B "yaml")); (fld_1, v_na); (fld_2, (B ":")); (fld_3, v_na); (fld_9, v_true); (fld_30, (B "tsv")); (fld_32, (bs [9]%N)); (fld_33, v_na)]);
+    ([tok_4; tok_41; tok_64], Some [(fld_0, (B "yaml")); (fld_1, v_na); (fld_2, (B ":")); (fld_3, v_na); (fld_9, v_true); (fld_30, (B "tsv")); (fld_32, (bs [9]%N)); (fld_33, v_na); (fld_37, v_true)]);
+    ([tok_4; tok_180], Some [(fld_0, (B "yaml")); (fld_1, v_na); (fld_2, (B ":")); (fld_3, v_na); (fld_9, v_true); (fld_30, (B "xtab")); (fld_31, (bs [10;10]%N)); (fld_32, (bs [10]%N)); (fld_33, (B " "))]);
+    ([tok_4; tok_41; tok_68], Some [(fld_0, (B "yaml")); (fld_1, v_na); (fld_2, (B ":")); (fld_3, v_na); (fld_9, v_true); (fld_30, (B "xtab")); (fld_31, (bs [10;10]%N)); (fld_32, (bs [10]%N)); (fld_33, (B " "))]);
+    ([tok_4; tok_83], Some [(fld_0, (B "yaml")); (fld_1, v_na); (fld_2, (B ":")); (fld_3, v_na); (fld_9, v_true); (fld_30, (B "yaml")); (fld_31, v_na); (fld_32, v_na); (fld_33, v_na); (fld_65, v_false)]);
+    ([tok_4; tok_41; tok_69], Some [(fld_0, (B "yaml")); (fld_1, v_na); (fld_2, (B ":")); (fld_3, v_na); (fld_9, v_true); (fld_30, (B "yaml")); (fld_31, v_na); (fld_32, v_na); (fld_33, v_na); (fld_65, v_false)]);
+    ([tok_4; tok_235], Some [(fld_2, (B ":")); (fld_9, v_true); (fld_12, v_true); (fld_40, v_true)]);
+    ([tok_4; tok_207; tok_204], Some [(fld_2, (B ":")); (fld_9, v_true); (fld_12, v_true); (fld_40, v_true)]);
+    ([tok_4; tok_182], Some [(fld_0, (B "nidx")); (fld_1, (bs [9]%N)); (fld_2, (B ":")); (fld_8, v_true); (fld_9, v_true); (fld_30, (B "nidx")); (fld_32, (bs [9]%N)); (fld_33, v_na); (fld_37, v_true)]);
+    ([tok_4; tok_49; tok_236; tok_237], Some [(fld_0, (B "nidx")); (fld_1, (bs [9]%N)); (fld_2, (B ":")); (fld_8, v_true); (fld_9, v_true); (fld_30, (B "nidx")); (fld_32, (bs [9]%N)); (fld_33, v_na); (fld_37, v_true)]);
+    ([tok_4; tok_181], Some [(fld_0, (B "nidx")); (fld_1, (B " ")); (fld_2, (B ":")); (fld_4, v_true); (fld_8, v_true); (fld_9, v_true); (fld_11, v_true); (fld_30, (B "nidx")); (fld_32, (B " ")); (fld_33, v_na); (fld_37, v_true)]);
+    ([tok_4; tok_49; tok_236; tok_238; tok_239], Some [(fld_0, (B "nidx")); (fld_1, (B " ")); (fld_2, (B ":")); (fld_4, v_true); (fld_8, v_true); (fld_9, v_true); (fld_11, v_true); (fld_30, (B "nidx")); (fld_32, (B " ")); (fld_33, v_na); (fld_37, v_true)]);
+    ([tok_263], Some [(fld_2, (bs [27]%N)); (fld_9, v_true)]);
+    ([tok_264], Some [(fld_2, (bs [27]%N)); (fld_9, v_true)]);
+    ([tok_265], Some [(fld_2, (bs [3]%N)); (fld_9, v_true)]);
+    ([tok_266], Some [(fld_2, (bs [3]%N)); (fld_9, v_true)]);
+    ([tok_267], Some [(fld_2, (bs [28]%N)); (fld_9, v_true)]);
+    ([tok_268], Some [(fld_2, (bs [28]%N)); (fld_9, v_true)]);
+    ([tok_269], Some [(fld_2, (bs [29]%N)); (fld_9, v_true)]);
+    ([tok_270], Some [(fld_2, (bs [29]%N)); (fld_9, v_true)]);
+    ([tok_271], Some [(fld_2, (bs [0]%N)); (fld_9, v_true)]);
+    ([tok_272], Some [(fld_2, (bs [0]%N)); (fld_9, v_true)]);
+    ([tok_273], Some [(fld_2, (bs [30]%N)); (fld_9, v_true)]);
+    ([tok_274], Some [(fld_2, (bs [30]%N)); (fld_9, v_true)]);
+    ([tok_275], Some [(fld_2, (bs [1]%N)); (fld_9, v_true)]);
+    ([tok_276], Some [(fld_2, (bs [1]%N)); (fld_9, v_true)]);
+    ([tok_277], Some [(fld_2, (bs [2]%N)); (fld_9, v_true)]);
+    ([tok_278], Some [(fld_2, (bs [2]%N)); (fld_9, v_true)]);
+    ([tok_279], Some [(fld_2, (bs [31]%N)); (fld_9, v_true)]);
+    ([tok_280], Some [(fld_2, (bs [31]%N)); (fld_9, v_true)]);
+    ([tok_281], Some [(fld_2, (bs [31]%N)); (fld_9, v_true)]);
+    ([tok_282], Some [(fld_2, (bs [30]%N)); (fld_9, v_true)]);
+    ([tok_283], Some [(fld_2, (B ":")); (fld_9, v_true)]);
+    ([tok_4], Some [(fld_2, (B ":")); (fld_9, v_true)]);
+    ([tok_284], Some [(fld_2, (B ",")); (fld_9, v_true)]);
+    ([tok_285], Some [(fld_2, (B ",")); (fld_9, v_true)]);
+    ([tok_286], Some [(fld_2, (bs [13]%N)); (fld_9, v_true)]);
+    ([tok_287], Some [(fld_2, (bs [13]%N)); (fld_9, v_true)]);
+    ([tok_288], Some [(fld_2, (bs [13;13]%N)); (fld_9, v_true)]);
+    ([tok_289], Some [(fld_2, (bs [13;13]%N)); (fld_9, v_true)]);
+    ([tok_290], Some [(fld_2, (bs [13;10]%N)); (fld_9, v_true)]);
+    ([tok_291], Some [(fld_2, (bs [13;10]%N)); (fld_9, v_true)]);
+    ([tok_292], Some [(fld_2, (bs [13;10;13;10]%N)); (fld_9, v_true)]);
+    ([tok_293], Some [(fld_2, (bs [13;10;13;10]%N)); (fld_9, v_true)]);
+    ([tok_294], Some [(fld_9, v_true)]);
+    ([tok_295], Some [(fld_9, v_true)]);
+    ([tok_296], Some [(fld_2, (bs [10]%N)); (fld_9, v_true)]);
+    ([tok_297], Some [(fld_2, (bs [10]%N)); (fld_9, v_true)]);
+    ([tok_298], Some [(fld_2, (bs [10;10]%N)); (fld_9, v_true)]);
+    ([tok_299], Some [(fld_2, (bs [10;10]%N)); (fld_9, v_true)]);
+    ([tok_300], Some [(fld_2, (bs [10]%N)); (fld_9, v_true)]);
+    ([tok_301], Some [(fld_2, (B "|")); (fld_9, v_true)]);
+    ([tok_302], Some [(fld_2, (B "|")); (fld_9, v_true)]);
+    ([tok_214], Some [(fld_2, (B ";")); (fld_9, v_true)]);
+    ([tok_2], Some [(fld_2, (B ";")); (fld_9, v_true)]);
+    ([tok_303], Some [(fld_2, (B "/")); (fld_9, v_true)]);
+    ([tok_304], Some [(fld_2, (B "/")); (fld_9, v_true)]);
+    ([tok_238], Some [(fld_2, (B " ")); (fld_9, v_true)]);
+    ([tok_305], Some [(fld_2, (B " ")); (fld_9, v_true)]);
+    ([tok_237], Some [(fld_2, (bs [9]%N)); (fld_9, v_true)]);
+    ([tok_306], Some [(fld_2, (bs [9]%N)); (fld_9, v_true)]);
+    ([tok_307], Some [(fld_2, (bs [226;144;159]%N)); (fld_9, v_true)]);
+    ([tok_308], Some [(fld_2, (bs [226;144;159]%N)); (fld_9, v_true)]);
+    ([tok_309], Some [(fld_2, (bs [226;144;158]%N)); (fld_9, v_true)]);
+    ([tok_310], Some [(fld_2, (bs [226;144;158]%N)); (fld_9, v_true)])]);
+  (tok_6, [
+    ([tok_4; tok_84], Some [(fld_0, (B "csv")); (fld_2, v_na); (fld_10, v_true); (fld_30, (B "pprint")); (fld_32, (B " ")); (fld_33, (B ":")); (fld_38, v_true); (fld_41, v_true)]);
+    ([tok_4; tok_24; tok_62; tok_233], Some [(fld_0, (B "csv")); (fld_2, v_na); (fld_30, (B "pprint")); (fld_32, (B " ")); (fld_33, (B ":")); (fld_38, v_true); (fld_41, v_true)]);
+    ([tok_4; tok_12], Some [(fld_0, (B "csv")); (fld_2, v_na); (fld_30, (B "csv")); (fld_33, (B ":")); (fld_38, v_true)]);
+    ([tok_4; tok_24; tok_53], Some [(fld_0, (B "csv")); (fld_2, v_na); (fld_30, (B "csv")); (fld_33, (B ":")); (fld_38, v_true)]);
+    ([tok_4; tok_85], Some [(fld_0, (B "csv")); (fld_2, v_na); (fld_10, v_true); (fld_33, (B ":")); (fld_38, v_true)]);
+    ([tok_4; tok_24; tok_56], Some [(fld_0, (B "csv")); (fld_2, v_na); (fld_33, (B ":")); (fld_38, v_true)]);
+    ([tok_4; tok_86], Some [(fld_0, (B "csv")); (fld_2, v_na); (fld_10, v_true); (fld_30, (B "json")); (fld_31, v_na); (fld_32, v_na); (fld_33, (B ":")); (fld_38, v_true); (fld_65, v_false); (fld_66, v_true)]);
+    ([tok_4; tok_24; tok_57], Some [(fld_0, (B "csv")); (fld_2, v_na); (fld_30, (B "json")); (fld_31, v_na); (fld_32, v_na); (fld_33, (B ":")); (fld_38, v_true); (fld_65, v_false); (fld_66, v_true)]);
+    ([tok_4; tok_87], Some [(fld_0, (B "csv")); (fld_2, v_na); (fld_10, v_true); (fld_30, (B "jsonl")); (fld_31, (B "")); (fld_32, (B "")); (fld_33, (B ":")); (fld_38, v_true); (fld_65, v_false); (fld_66, v_true)]);
+    ([tok_4; tok_24; tok_58], Some [(fld_0, (B "csv")); (fld_2, v_na); (fld_30, (B "jsonl")); (fld_31, (B "")); (fld_32, (B "")); (fld_33, (B ":")); (fld_38, v_true); (fld_65, v_false); (fld_66, v_true)]);
+    ([tok_4; tok_88], Some [(fld_0, (B "csv")); (fld_2, v_na); (fld_10, v_true); (fld_30, (B "markdown")); (fld_32, (B " ")); (fld_33, (B ":")); (fld_38, v_true)]);
+    ([tok_4; tok_24; tok_59], Some [(fld_0, (B "csv")); (fld_2, v_na); (fld_30, (B "markdown")); (fld_32, (B " ")); (fld_33, (B ":")); (fld_38, v_true)]);
+    ([tok_4; tok_89], Some [(fld_0, (B "csv")); (fld_2, v_na); (fld_10, v_true); (fld_30, (B "nidx")); (fld_32, (B " ")); (fld_33, (B ":")); (fld_37, v_true); (fld_38, v_true)]);
+    ([tok_4; tok_24; tok_61], Some [(fld_0, (B "csv")); (fld_2, v_na); (fld_30, (B "nidx")); (fld_32, (B " ")); (fld_33, (B ":")); (fld_37, v_true); (fld_38, v_true)]);
+    ([tok_4; tok_90], Some [(fld_0, (B "csv")); (fld_2, v_na); (fld_10, v_true); (fld_30, (B "pprint")); (fld_32, (B " ")); (fld_33, (B ":")); (fld_38, v_true)]);
+    ([tok_4; tok_24; tok_62], Some [(fld_0, (B "csv")); (fld_2, v_na); (fld_30, (B "pprint")); (fld_32, (B " ")); (fld_33, (B ":")); (fld_38, v_true)]);
+    ([tok_4; tok_91], Some [(fld_0, (B "csv")); (fld_2, v_na); (fld_10, v_true); (fld_30, (B "tsv")); (fld_32, (bs [9]%N)); (fld_33, (B ":")); (fld_38, v_true)]);
+    ([tok_4; tok_24; tok_64], Some [(fld_0, (B "csv")); (fld_2, v_na); (fld_30, (B "tsv")); (fld_32, (bs [9]%N)); (fld_33, (B ":")); (fld_37, v_true); (fld_38, v_true)]);
+    ([tok_4; tok_92], Some [(fld_0, (B "csv")); (fld_2, v_na); (fld_10, v_true); (fld_30, (B "xtab")); (fld_31, (bs [10;10]%N)); (fld_32, (bs [10]%N)); (fld_33, (B ":")); (fld_38, v_true)]);
+    ([tok_4; tok_24; tok_68], Some [(fld_0, (B "csv")); (fld_2, v_na); (fld_30, (B "xtab")); (fld_31, (bs [10;10]%N)); (fld_32, (bs [10]%N)); (fld_33, (B ":")); (fld_38, v_true)]);
+    ([tok_4; tok_93], Some [(fld_0, (B "csv")); (fld_2, v_na); (fld_10, v_true); (fld_30, (B "yaml")); (fld_31, v_na); (fld_32, v_na); (fld_33, (B ":")); (fld_38, v_true); (fld_65, v_false); (fld_66, v_true)]);
+    ([tok_4; tok_24; tok_69], Some [(fld_0, (B "csv")); (fld_2, v_na); (fld_30, (B "yaml")); (fld_31, v_na); (fld_32, v_na); (fld_33, (B ":")); (fld_38, v_true); (fld_65, v_false); (fld_66, v_true)]);
+    ([tok_4; tok_94], Some [(fld_30, (B "pprint")); (fld_32, (B " ")); (fld_33, (B ":")); (fld_38, v_true); (fld_41, v_true)]);
+    ([tok_4; tok_27; tok_62; tok_233], Some [(fld_30, (B "pprint")); (fld_32, (B " ")); (fld_33, (B ":")); (fld_38, v_true); (fld_41, v_true)]);
+    ([tok_4; tok_95], Some [(fld_30, (B "csv")); (fld_33, (B ":")); (fld_38, v_true)]);
+    ([tok_4; tok_27; tok_53], Some [(fld_30, (B "csv")); (fld_33, (B ":")); (fld_38, v_true)]);
+    ([tok_4; tok_16], Some [(fld_33, (B ":")); (fld_38, v_true)]);
+    ([tok_4; tok_27; tok_56], Some [(fld_33, (B ":")); (fld_38, v_true)]);
+    ([tok_4; tok_96], Some [(fld_30, (B "json")); (fld_31, v_na); (fld_32, v_na); (fld_33, (B ":")); (fld_38, v_true); (fld_65, v_false); (fld_66, v_true)]);
+    ([tok_4; tok_27; tok_57], Some [(fld_30, (B "json")); (fld_31, v_na); (fld_32, v_na); (fld_33, (B ":")); (fld_38, v_true); (fld_65, v_false); (fld_66, v_true)]);
+    ([tok_4; tok_97], Some [(fld_30, (B "jsonl")); (fld_31, (B "")); (fld_32, (B "")); (fld_33, (B ":")); (fld_38, v_true); (fld_65, v_false); (fld_66, v_true)]);
+    ([tok_4; tok_27; tok_58], Some [(fld_30, (B "jsonl")); (fld_31, (B "")); (fld_32, (B "")); (fld_33, (B ":")); (fld_38, v_true); (fld_65, v_false); (fld_66, v_true)]);
+    ([tok_4; tok_98], Some [(fld_30, (B "markdown")); (fld_32, (B " ")); (fld_33, (B ":")); (fld_38, v_true)]);
+    ([tok_4; tok_27; tok_59], Some [(fld_30, (B "markdown")); (fld_32, (B " ")); (fld_33, (B ":")); (fld_38, v_true)]);
+    ([tok_4; tok_99], Some [(fld_30, (B "nidx")); (fld_32, (B " ")); (fld_33, (B ":")); (fld_37, v_true); (fld_38, v_true)]);
+    ([tok_4; tok_27; tok_61], Some [(fld_30, (B "nidx")); (fld_32, (B " ")); (fld_33, (B ":")); (fld_37, v_true); (fld_38, v_true)]);
+    ([tok_4; tok_100], Some [(fld_30, (B "pprint")); (fld_32, (B " ")); (fld_33, (B ":")); (fld_38, v_true)]);
+    ([tok_4; tok_27; tok_62], Some [(fld_30, (B "pprint")); (fld_32, (B " ")); (fld_33, (B ":")); (fld_38, v_true)]);
+    ([tok_4; tok_101], Some [(fld_30, (B "tsv")); (fld_32, (bs [9]%N)); (fld_33, (B ":")); (fld_37, v_true); (fld_38, v_true); (fld_39, v_true)]);
+    ([tok_4; tok_27; tok_64], Some [(fld_30, (B "tsv")); (fld_32, (bs [9]%N)); (fld_33, (B ":")); (fld_37, v_true); (fld_38, v_true)]);
+    ([tok_4; tok_102], Some [(fld_30, (B "xtab")); (fld_31, (bs [10;10]%N)); (fld_32, (bs [10]%N)); (fld_33, (B ":")); (fld_38, v_true)]);
+    ([tok_4; tok_27; tok_68], Some [(fld_30, (B "xtab")); (fld_31, (bs [10;10]%N)); (fld_32, (bs [10]%N)); (fld_33, (B ":")); (fld_38, v_true)]);
+    ([tok_4; tok_103], Some [(fld_30, (B "yaml")); (fld_31, v_na); (fld_32, v_na); (fld_33, (B ":")); (fld_38, v_true); (fld_65, v_false); (fld_66, v_true)]);
+    ([tok_4; tok_27; tok_69], Some [(fld_30, (B "yaml")); (fld_31, v_na); (fld_32, v_na); (fld_33, (B ":")); (fld_38, v_true); (fld_65, v_false); (fld_66, v_true)]);
+    ([tok_4; tok_104], Some [(fld_0, (B "json")); (fld_1, v_na); (fld_2, v_na); (fld_3, v_na); (fld_30, (B "pprint")); (fld_32, (B " ")); (fld_33, (B ":")); (fld_38, v_true); (fld_41, v_true)]);
+    ([tok_4; tok_29; tok_62; tok_233], Some [(fld_0, (B "json")); (fld_1, v_na); (fld_2, v_na); (fld_3, v_na); (fld_30, (B "pprint")); (fld_32, (B " ")); (fld_33, (B ":")); (fld_38, v_true); (fld_41, v_true)]);
+    ([tok_4; tok_105], Some [(fld_0, (B "json")); (fld_1, v_na); (fld_2, v_na); (fld_3, v_na); (fld_30, (B "csv")); (fld_33, (B ":")); (fld_38, v_true); (fld_39, v_true)]);
+    ([tok_4; tok_29; tok_53], Some [(fld_0, (B "json")); (fld_1, v_na); (fld_2, v_na); (fld_3, v_na); (fld_30, (B "csv")); (fld_33, (B ":")); (fld_38, v_true)]);
+    ([tok_4; tok_106], Some [(fld_0, (B "json")); (fld_1, v_na); (fld_2, v_na); (fld_3, v_na); (fld_33, (B ":")); (fld_38, v_true)]);
+    ([tok_4; tok_29; tok_56], Some [(fld_0, (B "json")); (fld_1, v_na); (fld_2, v_na); (fld_3, v_na); (fld_33, (B ":")); (fld_38, v_true)]);
+    ([tok_4; tok_44], Some [(fld_0, (B "json")); (fld_1, v_na); (fld_2, v_na); (fld_3, v_na); (fld_30, (B "json")); (fld_31, v_na); (fld_32, v_na); (fld_33, (B ":")); (fld_38, v_true); (fld_65, v_false)]);
+    ([tok_4; tok_29; tok_57], Some [(fld_0, (B "json")); (fld_1, v_na); (fld_2, v_na); (fld_3, v_na); (fld_30, (B "json")); (fld_31, v_na); (fld_32, v_na); (fld_33, (B ":")); (fld_38, v_true); (fld_65, v_false)]);
+    ([tok_4; tok_107], Some [(fld_0, (B "json")); (fld_1, v_na); (fld_2, v_na); (fld_3, v_na); (fld_30, (B "jsonl")); (fld_31, (B "")); (fld_32, (B "")); (fld_33, (B ":")); (fld_38, v_true); (fld_65, v_false)]);
+    ([tok_4; tok_29; tok_58], Some [(fld_0, (B "json")); (fld_1, v_na); (fld_2, v_na); (fld_3, v_na); (fld_30, (B "jsonl")); (fld_31, (B "")); (fld_32, (B "")); (fld_33, (B ":")); (fld_38, v_true); (fld_65, v_false)]);
+    ([tok_4; tok_108], Some [(fld_0, (B "json")); (fld_1, v_na); (fld_2, v_na); (fld_3, v_na); (fld_30, (B "markdown")); (fld_32, (B " ")); (fld_33, (B ":")); (fld_38, v_true)]);
+    ([tok_4; tok_29; tok_59], Some [(fld_0, (B "json")); (fld_1, v_na); (fld_2, v_na); (fld_3, v_na); (fld_30, (B "markdown")); (fld_32, (B " ")); (fld_33, (B ":")); (fld_38, v_true)]);
+    ([tok_4; tok_109], Some [(fld_0, (B "json")); (fld_1, v_na); (fld_2, v_na); (fld_3, v_na); (fld_30, (B "nidx")); (fld_32, (B " ")); (fld_33, (B ":")); (fld_38, v_true)]);
+    ([tok_4; tok_29; tok_61], Some [(fld_0, (B "json")); (fld_1, v_na); (fld_2, v_na); (fld_3, v_na); (fld_30, (B "nidx")); (fld_32, (B " ")); (fld_33, (B ":")); (fld_37, v_true); (fld_38, v_true)]);
+    ([tok_4; tok_110], Some [(fld_0, (B "json")); (fld_1, v_na); (fld_2, v_na); (fld_3, v_na); (fld_30, (B "pprint")); (fld_32, (B " ")); (fld_33, (B ":")); (fld_38, v_true)]);
+    ([tok_4; tok_29; tok_62], Some [(fld_0, (B "json")); (fld_1, v_na); (fld_2, v_na); (fld_3, v_na); (fld_30, (B "pprint")); (fld_32, (B " ")); (fld_33, (B ":")); (fld_38, v_true)]);
+    ([tok_4; tok_111], Some [(fld_0, (B "json")); (fld_1, v_na); (fld_2, v_na); (fld_3, v_na); (fld_30, (B "tsv")); (fld_32, (bs [9]%N)); (fld_33, (B ":")); (fld_38, v_true)]);
+    ([tok_4; tok_29; tok_64], Some [(fld_0, (B "json")); (fld_1, v_na); (fld_2, v_na); (fld_3, v_na); (fld_30, (B "tsv")); (fld_32, (bs [9]%N)); (fld_33, (B ":")); (fld_37, v_true); (fld_38, v_true)]);
+    ([tok_4; tok_112], Some [(fld_0, (B "json")); (fld_1, v_na); (fld_2, v_na); (fld_3, v_na); (fld_30, (B "xtab")); (fld_31, (bs [10;10]%N)); (fld_32, (bs [10]%N)); (fld_33, (B ":")); (fld_38, v_true)]);
+    ([tok_4; tok_29; tok_68], Some [(fld_0, (B "json")); (fld_1, v_na); (fld_2, v_na); (fld_3, v_na); (fld_30, (B "xtab")); (fld_31, (bs [10;10]%N)); (fld_32, (bs [10]%N)); (fld_33, (B ":")); (fld_38, v_true)]);
+    ([tok_4; tok_113], Some [(fld_0, (B "json")); (fld_1, v_na); (fld_2, v_na); (fld_3, v_na); (fld_30, (B "yaml")); (fld_31, v_na); (fld_32, v_na); (fld_33, (B ":")); (fld_38, v_true); (fld_65, v_false)]);
+    ([tok_4; tok_29; tok_69], Some [(fld_0, (B "json")); (fld_1, v_na); (fld_2, v_na); (fld_3, v_na); (fld_30, (B "yaml")); (fld_31, v_na); (fld_32, v_na); (fld_33, (B ":")); (fld_38, v_true); (fld_65, v_false)]);
+    ([tok_4; tok_114], Some [(fld_0, (B "json")); (fld_1, v_na); (fld_2, v_na); (fld_3, v_na); (fld_30, (B "pprint")); (fld_32, (B " ")); (fld_33, (B ":")); (fld_38, v_true); (fld_41, v_true)]);
+    ([tok_4; tok_30; tok_62; tok_233], Some [(fld_0, (B "json")); (fld_1, v_na); (fld_2, v_na); (fld_3, v_na); (fld_30, (B "pprint")); (fld_32, (B " ")); (fld_33, (B ":")); (fld_38, v_true); (fld_41, v_true)]);
+    ([tok_4; tok_115], Some [(fld_0, (B "json")); (fld_1, v_na); (fld_2, v_na); (fld_3, v_na); (fld_30, (B "csv")); (fld_33, (B ":")); (fld_38, v_true); (fld_39, v_true)]);
+    ([tok_4; tok_30; tok_53], Some [(fld_0, (B "json")); (fld_1, v_na); (fld_2, v_na); (fld_3, v_na); (fld_30, (B "csv")); (fld_33, (B ":")); (fld_38, v_true)]);
+    ([tok_4; tok_116], Some [(fld_0, (B "json")); (fld_1, v_na); (fld_2, v_na); (fld_3, v_na); (fld_33, (B ":")); (fld_38, v_true)]);
+    ([tok_4; tok_30; tok_56], Some [(fld_0, (B "json")); (fld_1, v_na); (fld_2, v_na); (fld_3, v_na); (fld_33, (B ":")); (fld_38, v_true)]);
+    ([tok_4; tok_117], Some [(fld_0, (B "json")); (fld_1, v_na); (fld_2, v_na); (fld_3, v_na); (fld_30, (B "json")); (fld_31, v_na); (fld_32, v_na); (fld_33, (B ":")); (fld_38, v_true); (fld_65, v_false)]);
+    ([tok_4; tok_30; tok_57], Some [(fld_0, (B "json")); (fld_1, v_na); (fld_2, v_na); (fld_3, v_na); (fld_30, (B "json")); (fld_31, v_na); (fld_32, v_na); (fld_33, (B ":")); (fld_38, v_true); (fld_65, v_false)]);
+    ([tok_4; tok_46], Some [(fld_0, (B "json")); (fld_1, v_na); (fld_2, v_na); (fld_3, v_na); (fld_30, (B "jsonl")); (fld_31, (B "")); (fld_32, (B "")); (fld_33, (B ":")); (fld_38, v_true); (fld_65, v_false)]);
+    ([tok_4; tok_30; tok_58], Some [(fld_0, (B "json")); (fld_1, v_na); (fld_2, v_na); (fld_3, v_na); (fld_30, (B "jsonl")); (fld_31, (B "")); (fld_32, (B "")); (fld_33, (B ":")); (fld_38, v_true); (fld_65, v_false)]);
+    ([tok_4; tok_118], Some [(fld_0, (B "json")); (fld_1, v_na); (fld_2, v_na); (fld_3, v_na); (fld_30, (B "markdown")); (fld_32, (B " ")); (fld_33, (B ":")); (fld_38, v_true)]);
+    ([tok_4; tok_30; tok_59], Some [(fld_0, (B "json")); (fld_1, v_na); (fld_2, v_na); (fld_3, v_na); (fld_30, (B "markdown")); (fld_32, (B " ")); (fld_33, (B ":")); (fld_38, v_true)]);
+    ([tok_4; tok_119], Some [(fld_0, (B "json")); (fld_1, v_na); (fld_2, v_na); (fld_3, v_na); (fld_30, (B "nidx")); (fld_32, (B " ")); (fld_33, (B ":")); (fld_38, v_true)]);
+    ([tok_4; tok_30; tok_61], Some [(fld_0, (B "json")); (fld_1, v_na); (fld_2, v_na); (fld_3, v_na); (fld_30, (B "nidx")); (fld_32, (B " ")); (fld_33, (B ":")); (fld_37, v_true); (fld_38, v_true)]);
+    ([tok_4; tok_120], Some [(fld_0, (B "json")); (fld_1, v_na); (fld_2, v_na); (fld_3, v_na); (fld_30, (B "pprint")); (fld_32, (B " ")); (fld_33, (B ":")); (fld_38, v_true)]);
+    ([tok_4; tok_30; tok_62], Some [(fld_0, (B "json")); (fld_1, v_na); (fld_2, v_na); (fld_3, v_na); (fld_30, (B "pprint")); (fld_32, (B " ")); (fld_33, (B ":")); (fld_38, v_true)]);
+    ([tok_4; tok_121], Some [(fld_0, (B "json")); (fld_1, v_na); (fld_2, v_na); (fld_3, v_na); (fld_30, (B "tsv")); (fld_32, (bs [9]%N)); (fld_33, (B ":")); (fld_38, v_true)]);
+    ([tok_4; tok_30; tok_64], Some [(fld_0, (B "json")); (fld_1, v_na); (fld_2, v_na); (fld_3, v_na); (fld_30, (B "tsv")); (fld_32, (bs [9]%N)); (fld_33, (B ":")); (fld_37, v_true); (fld_38, v_true)]);
+    ([tok_4; tok_122], Some [(fld_0, (B "json")); (fld_1, v_na); (fld_2, v_na); (fld_3, v_na); (fld_30, (B "xtab")); (fld_31, (bs [10;10]%N)); (fld_32, (bs [10]%N)); (fld_33, (B ":")); (fld_38, v_true)]);
+    ([tok_4; tok_30; tok_68], Some [(fld_0, (B "json")); (fld_1, v_na); (fld_2, v_na); (fld_3, v_na); (fld_30, (B "xtab")); (fld_31, (bs [10;10]%N)); (fld_32, (bs [10]%N)); (fld_33, (B ":")); (fld_38, v_true)]);
+    ([tok_4; tok_123], Some [(fld_0, (B "json")); (fld_1, v_na); (fld_2, v_na); (fld_3, v_na); (fld_30, (B "yaml")); (fld_31, v_na); (fld_32, v_na); (fld_33, (B ":")); (fld_38, v_true); (fld_65, v_false)]);
+    ([tok_4; tok_30; tok_69], Some [(fld_0, (B "json")); (fld_1, v_na); (fld_2, v_na); (fld_3, v_na); (fld_30, (B "yaml")); (fld_31, v_na); (fld_32, v_na); (fld_33, (B ":")); (fld_38, v_true); (fld_65, v_false)]);
+    ([tok_4; tok_124], Some [(fld_0, (B "markdown")); (fld_1, (B " ")); (fld_2, v_na); (fld_30, (B "csv")); (fld_33, (B ":")); (fld_38, v_true); (fld_39, v_true)]);
+    ([tok_4; tok_31; tok_53], Some [(fld_0, (B "markdown")); (fld_1, (B " ")); (fld_2, v_na); (fld_30, (B "csv")); (fld_33, (B ":")); (fld_38, v_true)]);
+    ([tok_4; tok_125], Some [(fld_0, (B "markdown")); (fld_1, (B " ")); (fld_2, v_na); (fld_33, (B ":")); (fld_38, v_true)]);
+    ([tok_4; tok_31; tok_56], Some [(fld_0, (B "markdown")); (fld_1, (B " ")); (fld_2, v_na); (fld_33, (B ":")); (fld_38, v_true)]);
+    ([tok_4; tok_126], Some [(fld_0, (B "markdown")); (fld_1, (B " ")); (fld_2, v_na); (fld_30, (B "json")); (fld_31, v_na); (fld_32, v_na); (fld_33, (B ":")); (fld_38, v_true); (fld_65, v_false); (fld_66, v_true)]);
+    ([tok_4; tok_31; tok_57], Some [(fld_0, (B "markdown")); (fld_1, (B " ")); (fld_2, v_na); (fld_30, (B "json")); (fld_31, v_na); (fld_32, v_na); (fld_33, (B ":")); (fld_38, v_true); (fld_65, v_false); (fld_66, v_true)]);
+    ([tok_4; tok_127], Some [(fld_0, (B "markdown")); (fld_1, (B " ")); (fld_2, v_na); (fld_30, (B "jsonl")); (fld_31, (B "")); (fld_32, (B "")); (fld_33, (B ":")); (fld_38, v_true); (fld_65, v_false); (fld_66, v_true)]);
+    ([tok_4; tok_31; tok_58], Some [(fld_0, (B "markdown")); (fld_1, (B " ")); (fld_2, v_na); (fld_30, (B "jsonl")); (fld_31, (B "")); (fld_32, (B "")); (fld_33, (B ":")); (fld_38, v_true); (fld_65, v_false); (fld_66, v_true)]);
+    ([tok_4; tok_128], Some [(fld_0, (B "markdown")); (fld_1, (B " ")); (fld_2, v_na); (fld_30, (B "nidx")); (fld_32, (B " ")); (fld_33, (B ":")); (fld_38, v_true)]);
+    ([tok_4; tok_31; tok_61], Some [(fld_0, (B "markdown")); (fld_1, (B " ")); (fld_2, v_na); (fld_30, (B "nidx")); (fld_32, (B " ")); (fld_33, (B ":")); (fld_37, v_true); (fld_38, v_true)]);
+    ([tok_4; tok_129], Some [(fld_0, (B "markdown")); (fld_1, (B " ")); (fld_2, v_na); (fld_30, (B "pprint")); (fld_32, (B " ")); (fld_33, (B ":")); (fld_38, v_true)]);
+    ([tok_4; tok_31; tok_62], Some [(fld_0, (B "markdown")); (fld_1, (B " ")); (fld_2, v_na); (fld_30, (B "pprint")); (fld_32, (B " ")); (fld_33, (B ":")); (fld_38, v_true)]);
+    ([tok_4; tok_130], Some [(fld_0, (B "markdown")); (fld_1, (B " ")); (fld_2, v_na); (fld_30, (B "tsv")); (fld_32, (bs [9]%N)); (fld_33, (B ":")); (fld_38, v_true)]);
+    ([tok_4; tok_31; tok_64], Some [(fld_0, (B "markdown")); (fld_1, (B " ")); (fld_2, v_na); (fld_30, (B "tsv")); (fld_32, (bs [9]%N)); (fld_33, (B ":")); (fld_37, v_true); (fld_38, v_true)]);
+    ([tok_4; tok_131], Some [(fld_0, (B "markdown")); (fld_1, (B " ")); (fld_2, v_na); (fld_30, (B "xtab")); (fld_31, (bs [10;10]%N)); (fld_32, (bs [10]%N)); (fld_33, (B ":")); (fld_38, v_true)]);
+    ([tok_4; tok_31; tok_68], Some [(fld_0, (B "markdown")); (fld_1, (B " ")); (fld_2, v_na); (fld_30, (B "xtab")); (fld_31, (bs [10;10]%N)); (fld_32, (bs [10]%N)); (fld_33, (B ":")); (fld_38, v_true)]);
+    ([tok_4; tok_132], Some [(fld_0, (B "markdown")); (fld_1, (B " ")); (fld_2, v_na); (fld_30, (B "yaml")); (fld_31, v_na); (fld_32, v_na); (fld_33, (B ":")); (fld_38, v_true); (fld_65, v_false); (fld_66, v_true)]);
+    ([tok_4; tok_31; tok_69], Some [(fld_0, (B "markdown")); (fld_1, (B " ")); (fld_2, v_na); (fld_30, (B "yaml")); (fld_31, v_na); (fld_32, v_na); (fld_33, (B ":")); (fld_38, v_true); (fld_65, v_false); (fld_66, v_true)]);
+    ([tok_4; tok_198], Some [(fld_0, (B "markdown")); (fld_1, (B " ")); (fld_2, v_na); (fld_30, (B "markdown")); (fld_32, (B " ")); (fld_33, (B ":")); (fld_38, v_true); (fld_45, v_true)]);
+    ([tok_4; tok_47; tok_199], Some [(fld_0, (B "markdown")); (fld_1, (B " ")); (fld_2, v_na); (fld_30, (B "markdown")); (fld_32, (B " ")); (fld_33, (B ":")); (fld_38, v_true); (fld_45, v_true)]);
+    ([tok_4; tok_197], Some [(fld_0, (B "markdown")); (fld_1, (B " ")); (fld_2, v_na); (fld_30, (B "markdown")); (fld_32, (B " ")); (fld_33, (B ":")); (fld_38, v_true); (fld_45, v_true)]);
+    ([tok_4; tok_133], Some [(fld_0, (B "nidx")); (fld_1, (B " ")); (fld_2, v_na); (fld_5, (B "([ \t])+")); (fld_30, (B "pprint")); (fld_32, (B " ")); (fld_33, (B ":")); (fld_38, v_true); (fld_41, v_true)]);
+    ([tok_4; tok_33; tok_62; tok_233], Some [(fld_0, (B "nidx")); (fld_1, (B " ")); (fld_2, v_na); (fld_5, (B "([ \t])+")); (fld_30, (B "pprint")); (fld_32, (B " ")); (fld_33, (B ":")); (fld_38, v_true); (fld_41, v_true)]);
+    ([tok_4; tok_134], Some [(fld_0, (B "nidx")); (fld_1, (B " ")); (fld_2, v_na); (fld_5, (B "([ \t])+")); (fld_30, (B "csv")); (fld_33, (B ":")); (fld_38, v_true); (fld_39, v_true)]);
+    ([tok_4; tok_33; tok_53], Some [(fld_0, (B "nidx")); (fld_1, (B " ")); (fld_2, v_na); (fld_5, (B "([ \t])+")); (fld_30, (B "csv")); (fld_33, (B ":")); (fld_38, v_true)]);
+    ([tok_4; tok_135], Some [(fld_0, (B "nidx")); (fld_1, (B " ")); (fld_2, v_na); (fld_5, (B "([ \t])+")); (fld_33, (B ":")); (fld_38, v_true)]);
+    ([tok_4; tok_33; tok_56], Some [(fld_0, (B "nidx")); (fld_1, (B " ")); (fld_2, v_na); (fld_5, (B "([ \t])+")); (fld_33, (B ":")); (fld_38, v_true)]);
+    ([tok_4; tok_136], Some [(fld_0, (B "nidx")); (fld_1, (B " ")); (fld_2, v_na); (fld_5, (B "([ \t])+")); (fld_30, (B "json")); (fld_31, v_na); (fld_32, v_na); (fld_33, (B ":")); (fld_38, v_true); (fld_65, v_false); (fld_66, v_true)]);
+    ([tok_4; tok_33; tok_57], Some [(fld_0, (B "nidx")); (fld_1, (B " ")); (fld_2, v_na); (fld_5, (B "([ \t])+")); (fld_30, (B "json")); (fld_31, v_na); (fld_32, v_na); (fld_33, (B ":")); (fld_38, v_true); (fld_65, v_false); (fld_66, v_true)]);
+    ([tok_4; tok_137], Some [(fld_0, (B "nidx")); (fld_1, (B " ")); (fld_2, v_na); (fld_5, (B "([ \t])+")); (fld_30, (B "jsonl")); (fld_31, (B "")); (fld_32, (B "")); (fld_33, (B ":")); (fld_38, v_true); (fld_65, v_false); (fld_66, v_true)]);
+    ([tok_4; tok_33; tok_58], Some [(fld_0, (B "nidx")); (fld_1, (B " ")); (fld_2, v_na); (fld_5, (B "([ \t])+")); (fld_30, (B "jsonl")); (fld_31, (B "")); (fld_32, (B "")); (fld_33, (B ":")); (fld_38, v_true); (fld_65, v_false); (fld_66, v_true)]);
+    ([tok_4; tok_138], Some [(fld_0, (B "nidx")); (fld_1, (B " ")); (fld_2, v_na); (fld_5, (B "([ \t])+")); (fld_30, (B "markdown")); (fld_32, (B " ")); (fld_33, (B ":")); (fld_38, v_true)]);
+    ([tok_4; tok_33; tok_59], Some [(fld_0, (B "nidx")); (fld_1, (B " ")); (fld_2, v_na); (fld_5, (B "([ \t])+")); (fld_30, (B "markdown")); (fld_32, (B " ")); (fld_33, (B ":")); (fld_38, v_true)]);
+    ([tok_4; tok_50], Some [(fld_0, (B "nidx")); (fld_1, (B " ")); (fld_2, v_na); (fld_5, (B "([ \t])+")); (fld_30, (B "nidx")); (fld_32, (B " ")); (fld_33, (B ":")); (fld_38, v_true)]);
+    ([tok_4; tok_33; tok_61], Some [(fld_0, (B "nidx")); (fld_1, (B " ")); (fld_2, v_na); (fld_5, (B "([ \t])+")); (fld_30, (B "nidx")); (fld_32, (B " ")); (fld_33, (B ":")); (fld_37, v_true); (fld_38, v_true)]);
+    ([tok_4; tok_139], Some [(fld_0, (B "nidx")); (fld_1, (B " ")); (fld_2, v_na); (fld_5, (B "([ \t])+")); (fld_30, (B "pprint")); (fld_32, (B " ")); (fld_33, (B ":")); (fld_38, v_true)]);
+    ([tok_4; tok_33; tok_62], Some [(fld_0, (B "nidx")); (fld_1, (B " ")); (fld_2, v_na); (fld_5, (B "([ \t])+")); (fld_30, (B "pprint")); (fld_32, (B " ")); (fld_33, (B ":")); (fld_38, v_true)]);
+    ([tok_4; tok_140], Some [(fld_0, (B "nidx")); (fld_1, (B " ")); (fld_2, v_na); (fld_5, (B "([ \t])+")); (fld_30, (B "tsv")); (fld_32, (bs [9]%N)); (fld_33, (B ":")); (fld_38, v_true)]);
+    ([tok_4; tok_33; tok_64], Some [(fld_0, (B "nidx")); (fld_1, (B " ")); (fld_2, v_na); (fld_5, (B "([ \t])+")); (fld_30, (B "tsv")); (fld_32, (bs [9]%N)); (fld_33, (B ":")); (fld_37, v_true); (fld_38, v_true)]);
+    ([tok_4; tok_141], Some [(fld_0, (B "nidx")); (fld_1, (B " ")); (fld_2, v_na); (fld_5, (B "([ \t])+")); (fld_30, (B "xtab")); (fld_31, (bs [10;10]%N)); (fld_32, (bs [10]%N)); (fld_33, (B ":")); (fld_38, v_true)]);
+    ([tok_4; tok_33; tok_68], Some [(fld_0, (B "nidx")); (fld_1, (B " ")); (fld_2, v_na); (fld_5, (B "([ \t])+")); (fld_30, (B "xtab")); (fld_31, (bs [10;10]%N)); (fld_32, (bs [10]%N)); (fld_33, (B ":")); (fld_38, v_true)]);
+    ([tok_4; tok_142], Some [(fld_0, (B "nidx")); (fld_1, (B " ")); (fld_2, v_na); (fld_5, (B "([ \t])+")); (fld_30, (B "yaml")); (fld_31, v_na); (fld_32, v_na); (fld_33, (B ":")); (fld_38, v_true); (fld_65, v_false); (fld_66, v_true)]);
+    ([tok_4; tok_33; tok_69], Some [(fld_0, (B "nidx")); (fld_1, (B " ")); (fld_2, v_na); (fld_5, (B "([ \t])+")); (fld_30, (B "yaml")); (fld_31, v_na); (fld_32, v_na); (fld_33, (B ":")); (fld_38, v_true); (fld_65, v_false); (fld_66, v_true)]);
+    ([tok_4; tok_143], Some [(fld_0, (B "pprint")); (fld_1, (B " ")); (fld_2, v_na); (fld_4, v_true); (fld_8, v_true); (fld_30, (B "csv")); (fld_33, (B ":")); (fld_38, v_true); (fld_39, v_true)]);
+    ([tok_4; tok_34; tok_53], Some [(fld_0, (B "pprint")); (fld_1, (B " ")); (fld_2, v_na); (fld_4, v_true); (fld_8, v_true); (fld_30, (B "csv")); (fld_33, (B ":")); (fld_38, v_true)]);
+    ([tok_4; tok_144], Some [(fld_0, (B "pprint")); (fld_1, (B " ")); (fld_2, v_na); (fld_4, v_true); (fld_8, v_true); (fld_33, (B ":")); (fld_38, v_true)]);
+    ([tok_4; tok_34; tok_56], Some [(fld_0, (B "pprint")); (fld_1, (B " ")); (fld_2, v_na); (fld_4, v_true); (fld_8, v_true); (fld_33, (B ":")); (fld_38, v_true)]);
+    ([tok_4; tok_145], Some [(fld_0, (B "pprint")); (fld_1, (B " ")); (fld_2, v_na); (fld_4, v_true); (fld_8, v_true); (fld_30, (B "json")); (fld_31, v_na); (fld_32, v_na); (fld_33, (B ":")); (fld_38, v_true); (fld_65, v_false); (fld_66, v_true)]);
+    ([tok_4; tok_34; tok_57], Some [(fld_0, (B "pprint")); (fld_1, (B " ")); (fld_2, v_na); (fld_4, v_true); (fld_8, v_true); (fld_30, (B "json")); (fld_31, v_na); (fld_32, v_na); (fld_33, (B ":")); (fld_38, v_true); (fld_65, v_false); (fld_66, v_true)]);
+    ([tok_4; tok_146], Some [(fld_0, (B "pprint")); (fld_1, (B " ")); (fld_2, v_na); (fld_4, v_true); (fld_8, v_true); (fld_30, (B "jsonl")); (fld_31, (B "")); (fld_32, (B "")); (fld_33, (B ":")); (fld_38, v_true); (fld_65, v_false); (fld_66, v_true)]);
+    ([tok_4; tok_34; tok_58], Some [(fld_0, (B "pprint")); (fld_1, (B " ")); (fld_2, v_na); (fld_4, v_true); (fld_8, v_true); (fld_30, (B "jsonl")); (fld_31, (B "")); (fld_32, (B "")); (fld_33, (B ":")); (fld_38, v_true); (fld_65, v_false); (fld_66, v_true)]);
+    ([tok_4; tok_147], Some [(fld_0, (B "pprint")); (fld_1, (B " ")); (fld_2, v_na); (fld_4, v_true); (fld_8, v_true); (fld_30, (B "markdown")); (fld_32, (B " ")); (fld_33, (B ":")); (fld_38, v_true)]);
+    ([tok_4; tok_34; tok_59], Some [(fld_0, (B "pprint")); (fld_1, (B " ")); (fld_2, v_na); (fld_4, v_true); (fld_8, v_true); (fld_30, (B "markdown")); (fld_32, (B " ")); (fld_33, (B ":")); (fld_38, v_true)]);
+    ([tok_4; tok_148], Some [(fld_0, (B "pprint")); (fld_1, (B " ")); (fld_2, v_na); (fld_4, v_true); (fld_8, v_true); (fld_30, (B "nidx")); (fld_32, (B " ")); (fld_33, (B ":")); (fld_38, v_true)]);
+    ([tok_4; tok_34; tok_61], Some [(fld_0, (B "pprint")); (fld_1, (B " ")); (fld_2, v_na); (fld_4, v_true); (fld_8, v_true); (fld_30, (B "nidx")); (fld_32, (B " ")); (fld_33, (B ":")); (fld_37, v_true); (fld_38, v_true)]);
+    ([tok_4; tok_71], Some [(fld_0, (B "pprint")); (fld_1, (B " ")); (fld_2, v_na); (fld_4, v_true); (fld_8, v_true); (fld_30, (B "pprint")); (fld_32, (B " ")); (fld_33, (B ":")); (fld_38, v_true)]);
+    ([tok_4; tok_34; tok_62], Some [(fld_0, (B "pprint")); (fld_1, (B " ")); (fld_2, v_na); (fld_4, v_true); (fld_8, v_true); (fld_30, (B "pprint")); (fld_32, (B " ")); (fld_33, (B ":")); (fld_38, v_true)]);
+    ([tok_4; tok_149], Some [(fld_0, (B "pprint")); (fld_1, (B " ")); (fld_2, v_na); (fld_4, v_true); (fld_8, v_true); (fld_30, (B "tsv")); (fld_32, (bs [9]%N)); (fld_33, (B ":")); (fld_38, v_true)]);
+    ([tok_4; tok_34; tok_64], Some [(fld_0, (B "pprint")); (fld_1, (B " ")); (fld_2, v_na); (fld_4, v_true); (fld_8, v_true); (fld_30, (B "tsv")); (fld_32, (bs [9]%N)); (fld_33, (B ":")); (fld_37, v_true); (fld_38, v_true)]);
+    ([tok_4; tok_150], Some [(fld_0, (B "pprint")); (fld_1, (B " ")); (fld_2, v_na); (fld_4, v_true); (fld_8, v_true); (fld_30, (B "xtab")); (fld_31, (bs [10;10]%N)); (fld_32, (bs [10]%N)); (fld_33, (B ":")); (fld_38, v_true)]);
+    ([tok_4; tok_34; tok_68], Some [(fld_0, (B "pprint")); (fld_1, (B " ")); (fld_2, v_na); (fld_4, v_true); (fld_8, v_true); (fld_30, (B "xtab")); (fld_31, (bs [10;10]%N)); (fld_32, (bs [10]%N)); (fld_33, (B ":")); (fld_38, v_true)]);
+    ([tok_4; tok_151], Some [(fld_0, (B "pprint")); (fld_1, (B " ")); (fld_2, v_na); (fld_4, v_true); (fld_8, v_true); (fld_30, (B "yaml")); (fld_31, v_na); (fld_32, v_na); (fld_33, (B ":")); (fld_38, v_true); (fld_65, v_false); (fld_66, v_true)]);
+    ([tok_4; tok_34; tok_69], Some [(fld_0, (B "pprint")); (fld_1, (B " ")); (fld_2, v_na); (fld_4, v_true); (fld_8, v_true); (fld_30, (B "yaml")); (fld_31, v_na); (fld_32, v_na); (fld_33, (B ":")); (fld_38, v_true); (fld_65, v_false); (fld_66, v_true)]);
+    ([tok_4; tok_152], Some [(fld_0, (B "tsv")); (fld_1, (bs [9]%N)); (fld_2, v_na); (fld_30, (B "pprint")); (fld_32, (B " ")); (fld_33, (B ":")); (fld_38, v_true); (fld_41, v_true)]);
+    ([tok_4; tok_36; tok_62; tok_233], Some [(fld_0, (B "tsv")); (fld_1, (bs [9]%N)); (fld_2, v_na); (fld_30, (B "pprint")); (fld_32, (B " ")); (fld_33, (B ":")); (fld_38, v_true); (fld_41, v_true)]);
+    ([tok_4; tok_153], Some [(fld_0, (B "tsv")); (fld_1, (bs [9]%N)); (fld_2, v_na); (fld_30, (B "csv")); (fld_33, (B ":")); (fld_38, v_true)]);
+    ([tok_4; tok_36; tok_53], Some [(fld_0, (B "tsv")); (fld_1, (bs [9]%N)); (fld_2, v_na); (fld_30, (B "csv")); (fld_33, (B ":")); (fld_38, v_true)]);
+    ([tok_4; tok_154], Some [(fld_0, (B "tsv")); (fld_1, (bs [9]%N)); (fld_2, v_na); (fld_33, (B ":")); (fld_38, v_true)]);
+    ([tok_4; tok_36; tok_56], Some [(fld_0, (B "tsv")); (fld_1, (bs [9]%N)); (fld_2, v_na); (fld_33, (B ":")); (fld_38, v_true)]);
+    ([tok_4; tok_155], Some [(fld_0, (B "tsv")); (fld_1, (bs [9]%N)); (fld_2, v_na); (fld_30, (B "json")); (fld_31, v_na); (fld_32, v_na); (fld_33, (B ":")); (fld_38, v_true); (fld_65, v_false); (fld_66, v_true)]);
+    ([tok_4; tok_36; tok_57], Some [(fld_0, (B "tsv")); (fld_1, (bs [9]%N)); (fld_2, v_na); (fld_30, (B "json")); (fld_31, v_na); (fld_32, v_na); (fld_33, (B ":")); (fld_38, v_true); (fld_65, v_false); (fld_66, v_true)]);
+    ([tok_4; tok_156], Some [(fld_0, (B "tsv")); (fld_1, (bs [9]%N)); (fld_2, v_na); (fld_30, (B "jsonl")); (fld_31, (B "")); (fld_32, (B "")); (fld_33, (B ":")); (fld_38, v_true); (fld_65, v_false); (fld_66, v_true)]);
+    ([tok_4; tok_36; tok_58], Some [(fld_0, (B "tsv")); (fld_1, (bs [9]%N)); (fld_2, v_na); (fld_30, (B "jsonl")); (fld_31, (B "")); (fld_32, (B "")); (fld_33, (B ":")); (fld_38, v_true); (fld_65, v_false); (fld_66, v_true)]);
+    ([tok_4; tok_157], Some [(fld_0, (B "tsv")); (fld_1, (bs [9]%N)); (fld_2, v_na); (fld_30, (B "markdown")); (fld_32, (B " ")); (fld_33, (B ":")); (fld_38, v_true)]);
+    ([tok_4; tok_36; tok_59], Some [(fld_0, (B "tsv")); (fld_1, (bs [9]%N)); (fld_2, v_na); (fld_30, (B "markdown")); (fld_32, (B " ")); (fld_33, (B ":")); (fld_38, v_true)]);
+    ([tok_4; tok_158], Some [(fld_0, (B "tsv")); (fld_1, (bs [9]%N)); (fld_2, v_na); (fld_30, (B "nidx")); (fld_32, (B " ")); (fld_33, (B ":")); (fld_37, v_true); (fld_38, v_true)]);
+    ([tok_4; tok_36; tok_61], Some [(fld_0, (B "tsv")); (fld_1, (bs [9]%N)); (fld_2, v_na); (fld_30, (B "nidx")); (fld_32, (B " ")); (fld_33, (B ":")); (fld_37, v_true); (fld_38, v_true)]);
+    ([tok_4; tok_159], Some [(fld_0, (B "tsv")); (fld_1, (bs [9]%N)); (fld_2, v_na); (fld_30, (B "pprint")); (fld_32, (B " ")); (fld_33, (B ":")); (fld_38, v_true)]);
+    ([tok_4; tok_36; tok_62], Some [(fld_0, (B "tsv")); (fld_1, (bs [9]%N)); (fld_2, v_na); (fld_30, (B "pprint")); (fld_32, (B " ")); (fld_33, (B ":")); (fld_38, v_true)]);
+    ([tok_4; tok_75], Some [(fld_0, (B "tsv")); (fld_1, (bs [9]%N)); (fld_2, v_na); (fld_30, (B "tsv")); (fld_32, (bs [9]%N)); (fld_33, (B ":")); (fld_38, v_true)]);
+    ([tok_4; tok_36; tok_64], Some [(fld_0, (B "tsv")); (fld_1, (bs [9]%N)); (fld_2, v_na); (fld_30, (B "tsv")); (fld_32, (bs [9]%N)); (fld_33, (B ":")); (fld_37, v_true); (fld_38, v_true)]);
+    ([tok_4; tok_160], Some [(fld_0, (B "tsv")); (fld_1, (bs [9]%N)); (fld_2, v_na); (fld_30, (B "xtab")); (fld_31, (bs [10;10]%N)); (fld_32, (bs [10]%N)); (fld_33, (B ":")); (fld_38, v_true)]);
+    ([tok_4; tok_36; tok_68], Some [(fld_0, (B "tsv")); (fld_1, (bs [9]%N)); (fld_2, v_na); (fld_30, (B "xtab")); (fld_31, (bs [10;10]%N)); (fld_32, (bs [10]%N)); (fld_33, (B ":")); (fld_38, v_true)]);
+    ([tok_4; tok_161], Some [(fld_0, (B "tsv")); (fld_1, (bs [9]%N)); (fld_2, v_na); (fld_30, (B "yaml")); (fld_31, v_na); (fld_32, v_na); (fld_33, (B ":")); (fld_38, v_true); (fld_65, v_false); (fld_66, v_true)]);
+    ([tok_4; tok_36; tok_69], Some [(fld_0, (B "tsv")); (fld_1, (bs [9]%N)); (fld_2, v_na); (fld_30, (B "yaml")); (fld_31, v_na); (fld_32, v_na); (fld_33, (B ":")); (fld_38, v_true); (fld_65, v_false); (fld_66, v_true)]);
+    ([tok_4; tok_162], Some [(fld_0, (B "xtab")); (fld_1, (bs [10]%N)); (fld_2, (B " ")); (fld_3, (bs [10;10]%N)); (fld_30, (B "pprint")); (fld_32, (B " ")); (fld_33, (B ":")); (fld_38, v_true); (fld_41, v_true)]);
+    ([tok_4; tok_40; tok_62; tok_233], Some [(fld_0, (B "xtab")); (fld_1, (bs [10]%N)); (fld_2, (B " ")); (fld_3, (bs [10;10]%N)); (fld_30, (B "pprint")); (fld_32, (B " ")); (fld_33, (B ":")); (fld_38, v_true); (fld_41, v_true)]);
+    ([tok_4; tok_163], Some [(fld_0, (B "xtab")); (fld_1, (bs [10]%N)); (fld_2, (B " ")); (fld_3, (bs [10;10]%N)); (fld_30, (B "csv")); (fld_33, (B ":")); (fld_38, v_true); (fld_39, v_true)]);
+    ([tok_4; tok_40; tok_53], Some [(fld_0, (B "xtab")); (fld_1, (bs [10]%N)); (fld_2, (B " ")); (fld_3, (bs [10;10]%N)); (fld_30, (B "csv")); (fld_33, (B ":")); (fld_38, v_true)]);
+    ([tok_4; tok_164], Some [(fld_0, (B "xtab")); (fld_1, (bs [10]%N)); (fld_2, (B " ")); (fld_3, (bs [10;10]%N)); (fld_33, (B ":")); (fld_38, v_true)]);
+    ([tok_4; tok_40; tok_56], Some [(fld_0, (B "xtab")); (fld_1, (bs [10]%N)); (fld_2, (B " ")); (fld_3, (bs [10;10]%N)); (fld_33, (B ":")); (fld_38, v_true)]);
+    ([tok_4; tok_165], Some [(fld_0, (B "xtab")); (fld_1, (bs [10]%N)); (fld_2, (B " ")); (fld_3, (bs [10;10]%N)); (fld_30, (B "json")); (fld_31, v_na); (fld_32, v_na); (fld_33, (B ":")); (fld_38, v_true); (fld_65, v_false); (fld_66, v_true)]);
+    ([tok_4; tok_40; tok_57], Some [(fld_0, (B "xtab")); (fld_1, (bs [10]%N)); (fld_2, (B " ")); (fld_3, (bs [10;10]%N)); (fld_30, (B "json")); (fld_31, v_na); (fld_32, v_na); (fld_33, (B ":")); (fld_38, v_true); (fld_65, v_false); (fld_66, v_true)]);
+    ([tok_4; tok_166], Some [(fld_0, (B "xtab")); (fld_1, (bs [10]%N)); (fld_2, (B " ")); (fld_3, (bs [10;10]%N)); (fld_30, (B "jsonl")); (fld_31, (B "")); (fld_32, (B "")); (fld_33, (B ":")); (fld_38, v_true); (fld_65, v_false); (fld_66, v_true)]);
+    ([tok_4; tok_40; tok_58], Some [(fld_0, (B "xtab")); (fld_1, (bs [10]%N)); (fld_2, (B " ")); (fld_3, (bs [10;10]%N)); (fld_30, (B "jsonl")); (fld_31, (B "")); (fld_32, (B "")); (fld_33, (B ":")); (fld_38, v_true); (fld_65, v_false); (fld_66, v_true)]);
+    ([tok_4; tok_167], Some [(fld_0, (B "xtab")); (fld_1, (bs [10]%N)); (fld_2, (B " ")); (fld_3, (bs [10;10]%N)); (fld_30, (B "markdown")); (fld_32, (B " ")); (fld_33, (B ":")); (fld_38, v_true)]);
+    ([tok_4; tok_40; tok_59], Some [(fld_0, (B "xtab")); (fld_1, (bs [10]%N)); (fld_2, (B " ")); (fld_3, (bs [10;10]%N)); (fld_30, (B "markdown")); (fld_32, (B " ")); (fld_33, (B ":")); (fld_38, v_true)]);
+    ([tok_4; tok_168], Some [(fld_0, (B "xtab")); (fld_1, (bs [10]%N)); (fld_2, (B " ")); (fld_3, (bs [10;10]%N)); (fld_30, (B "nidx")); (fld_32, (B " ")); (fld_33, (B ":")); (fld_38, v_true)]);
+    ([tok_4; tok_40; tok_61], Some [(fld_0, (B "xtab")); (fld_1, (bs [10]%N)); (fld_2, (B " ")); (fld_3, (bs [10;10]%N)); (fld_30, (B "nidx")); (fld_32, (B " ")); (fld_33, (B ":")); (fld_37, v_true); (fld_38, v_true)]);
+    ([tok_4; tok_169], Some [(fld_0, (B "xtab")); (fld_1, (bs [10]%N)); (fld_2, (B " ")); (fld_3, (bs [10;10]%N)); (fld_30, (B "pprint")); (fld_32, (B " ")); (fld_33, (B ":")); (fld_38, v_true)]);
+    ([tok_4; tok_40; tok_62], Some [(fld_0, (B "xtab")); (fld_1, (bs [10]%N)); (fld_2, (B " ")); (fld_3, (bs [10;10]%N)); (fld_30, (B "pprint")); (fld_32, (B " ")); (fld_33, (B ":")); (fld_38, v_true)]);
+    ([tok_4; tok_170], Some [(fld_0, (B "xtab")); (fld_1, (bs [10]%N)); (fld_2, (B " ")); (fld_3, (bs [10;10]%N)); (fld_30, (B "tsv")); (fld_32, (bs [9]%N)); (fld_33, (B ":")); (fld_38, v_true)]);
+    ([tok_4; tok_40; tok_64], Some [(fld_0, (B "xtab")); (fld_1, (bs [10]%N)); (fld_2, (B " ")); (fld_3, (bs [10;10]%N)); (fld_30, (B "tsv")); (fld_32, (bs [9]%N)); (fld_33, (B ":")); (fld_37, v_true); (fld_38, v_true)]);
+    ([tok_4; tok_80], Some [(fld_0, (B "xtab")); (fld_1, (bs [10]%N)); (fld_2, (B " ")); (fld_3, (bs [10;10]%N)); (fld_30, (B "xtab")); (fld_31, (bs [10;10]%N)); (fld_32, (bs [10]%N)); (fld_33, (B ":")); (fld_38, v_true)]);
+    ([tok_4; tok_40; tok_68], Some [(fld_0, (B "xtab")); (fld_1, (bs [10]%N)); (fld_2, (B " ")); (fld_3, (bs [10;10]%N)); (fld_30, (B "xtab")); (fld_31, (bs [10;10]%N)); (fld_32, (bs [10]%N)); (fld_33, (B ":")); (fld_38, v_true)]);
+    ([tok_4; tok_171], Some [(fld_0, (B "xtab")); (fld_1, (bs [10]%N)); (fld_2, (B " ")); (fld_3, (bs [10;10]%N)); (fld_30, (B "yaml")); (fld_31, v_na); (fld_32, v_na); (fld_33, (B ":")); (fld_38, v_true); (fld_65, v_false); (fld_66, v_true)]);
+    ([tok_4; tok_40; tok_69], Some [(fld_0, (B "xtab")); (fld_1, (bs [10]%N)); (fld_2, (B " ")); (fld_3, (bs [10;10]%N)); (fld_30, (B "yaml")); (fld_31, v_na); (fld_32, v_na); (fld_33, (B ":")); (fld_38, v_true); (fld_65, v_false); (fld_66, v_true)]);
+    ([tok_4; tok_172], Some [(fld_0, (B "yaml")); (fld_1, v_na); (fld_2, v_na); (fld_3, v_na); (fld_30, (B "csv")); (fld_33, (B ":")); (fld_38, v_true); (fld_39, v_true)]);
+    ([tok_4; tok_41; tok_53], Some [(fld_0, (B "yaml")); (fld_1, v_na); (fld_2, v_na); (fld_3, v_na); (fld_30, (B "csv")); (fld_33, (B ":")); (fld_38, v_true)]);
+    ([tok_4; tok_173], Some [(fld_0, (B "yaml")); (fld_1, v_na); (fld_2, v_na); (fld_3, v_na); (fld_33, (B ":")); (fld_38, v_true)]);
+    ([tok_4; tok_41; tok_56], Some [(fld_0, (B "yaml")); (fld_1, v_na); (fld_2, v_na); (fld_3, v_na); (fld_33, (B ":")); (fld_38, v_true)]);
+    ([tok_4; tok_174], Some [(fld_0, (B "yaml")); (fld_1, v_na); (fld_2, v_na); (fld_3, v_na); (fld_30, (B "json")); (fld_31, v_na); (fld_32, v_na); (fld_33, (B ":")); (fld_38, v_true); (fld_65, v_false)]);
+    ([tok_4; tok_41; tok_57], Some [(fld_0, (B "yaml")); (fld_1, v_na); (fld_2, v_na); (fld_3, v_na); (fld_30, (B "json")); (fld_31, v_na); (fld_32, v_na); (fld_33, (B ":")); (fld_38, v_true); (fld_65, v_false)]);
+    ([tok_4; tok_175], Some [(fld_0, (B "yaml")); (fld_1, v_na); (fld_2, v_na); (fld_3, v_na); (fld_30, (B "jsonl")); (fld_31, (B "")); (fld_32, (B "")); (fld_33, (B ":")); (fld_38, v_true); (fld_65, v_false)]);
+    ([tok_4; tok_41; tok_58], Some [(fld_0, (B "yaml")); (fld_1, v_na); (fld_2, v_na); (fld_3, v_na); (fld_30, (B "jsonl")); (fld_31, (B "")); (fld_32, (B "")); (fld_33, (B ":")); (fld_38, v_true); (fld_65, v_false)]);
+    ([tok_4; tok_176], Some [(fld_0, (B "yaml")); (fld_1, v_na); (fld_2, v_na); (fld_3, v_na); (fld_30, (B "markdown")); (fld_32, (B " ")); (fld_33, (B ":")); (fld_38, v_true)]);
+    ([tok_4; tok_41; tok_59], Some [(fld_0, (B "yaml")); (fld_1, v_na); (fld_2, v_na); (fld_3, v_na); (fld_30, (B "markdown")); (fld_32, (B " ")); (fld_33, (B ":")); (fld_38, v_true)]);
+    ([tok_4; tok_177], Some [(fld_0, (B "yaml")); (fld_1, v_na); (fld_2, v_na); (fld_3, v_na); (fld_30, (B "nidx")); (fld_32, (B " ")); (fld_33, (B ":")); (fld_38, v_true)]);
+    ([tok_4; tok_41; tok_61], Some [(fld_0, (B "yaml")); (fld_1, v_na); (fld_2, v_na); (fld_3, v_na); (fld_30, (B "nidx")); (fld_32, (B " ")); (fld_33, (B ":")); (fld_37, v_true); (fld_38, v_true)]);
+    ([tok_4; tok_178], Some [(fld_0, (B "yaml")); (fld_1, v_na); (fld_2, v_na); (fld_3, v_na); (fld_30, (B "pprint")); (fld_32, (B " ")); (fld_33, (B ":")); (fld_38, v_true)]);
+    ([tok_4; tok_41; tok_62], Some [(fld_0, (B "yaml")); (fld_1, v_na); (fld_2, v_na); (fld_3, v_na); (fld_30, (B "pprint")); (fld_32, (B " ")); (fld_33, (B ":")); (fld_38, v_true)]);
+    ([tok_4; tok_179], Some [(fld_0, (B "yaml")); (fld_1, v_na); (fld_2, v_na); (fld_3, v_na); (fld_30, (B "tsv")); (fld_32, (bs [9]%N)); (fld_33, (B ":")); (fld_38, v_true)]);
+    ([tok_4; tok_41; tok_64], Some [(fld_0, (B "yaml")); (fld_1, v_na); (fld_2, v_na); (fld_3, v_na); (fld_30, (B "tsv")); (fld_32, (bs [9]%N)); (fld_33, (B ":")); (fld_37, v_true); (fld_38, v_true)]);
+    ([tok_4; tok_180], Some [(fld_0, (B "yaml")); (fld_1, v_na); (fld_2, v_na); (fld_3, v_na); (fld_30, (B "xtab")); (fld_31, (bs [10;10]%N)); (fld_32, (bs [10]%N)); (fld_33, (B ":")); (fld_38, v_true)]);
+    ([tok_4; tok_41; tok_68], Some [(fld_0, (B "yaml")); (fld_1, v_na); (fld_2, v_na); (fld_3, v_na); (fld_30, (B "xtab")); (fld_31, (bs [10;10]%N)); (fld_32, (bs [10]%N)); (fld_33, (B ":")); (fld_38, v_true)]);
+    ([tok_4; tok_83], Some [(fld_0, (B "yaml")); (fld_1, v_na); (fld_2, v_na); (fld_3, v_na); (fld_30, (B "yaml")); (fld_31, v_na); (fld_32, v_na); (fld_33, (B ":")); (fld_38, v_true); (fld_65, v_false)]);
+    ([tok_4; tok_41; tok_69], Some [(fld_0, (B "yaml")); (fld_1, v_na); (fld_2, v_na); (fld_3, v_na); (fld_30, (B "yaml")); (fld_31, v_na); (fld_32, v_na); (fld_33, (B ":")); (fld_38, v_true); (fld_65, v_false)]);
+    ([tok_4; tok_235], Some [(fld_12, v_true); (fld_33, (B ":")); (fld_38, v_true); (fld_40, v_true)]);
+    ([tok_4; tok_207; tok_204], Some [(fld_12, v_true); (fld_33, (B ":")); (fld_38, v_true); (fld_40, v_true)]);
+    ([tok_4; tok_182], Some [(fld_0, (B "nidx")); (fld_1, (bs [9]%N)); (fld_2, v_na); (fld_8, v_true); (fld_30, (B "nidx")); (fld_32, (bs [9]%N)); (fld_33, (B ":")); (fld_37, v_true); (fld_38, v_true)]);
+    ([tok_4; tok_49; tok_236; tok_237], Some [(fld_0, (B "nidx")); (fld_1, (bs [9]%N)); (fld_2, v_na); (fld_8, v_true); (fld_30, (B "nidx")); (fld_32, (bs [9]%N)); (fld_33, (B ":")); (fld_37, v_true); (fld_38, v_true)]);
+    ([tok_4; tok_181], Some [(fld_0, (B "nidx")); (fld_1, (B " ")); (fld_2, v_na); (fld_4, v_true); (fld_8, v_true); (fld_11, v_true); (fld_30, (B "nidx")); (fld_32, (B " ")); (fld_33, (B ":")); (fld_37, v_true); (fld_38, v_true)]);
+    ([tok_4; tok_49; tok_236; tok_238; tok_239], Some [(fld_0, (B "nidx")); (fld_1, (B " ")); (fld_2, v_na); (fld_4, v_true); (fld_8, v_true); (fld_11, v_true); (fld_30, (B "nidx")); (fld_32, (B " ")); (fld_33, (B ":")); (fld_37, v_true); (fld_38, v_true)]);
+    ([tok_263], Some [(fld_33, (bs [27]%N)); (fld_38, v_true)]);
+    ([tok_264], Some [(fld_33, (bs [27]%N)); (fld_38, v_true)]);
+    ([tok_265], Some [(fld_33, (bs [3]%N)); (fld_38, v_true)]);
+    ([tok_266], Some [(fld_33, (bs [3]%N)); (fld_38, v_true)]);
+    ([tok_267], Some [(fld_33, (bs [28]%N)); (fld_38, v_true)]);
+    ([tok_268], Some [(fld_33, (bs [28]%N)); (fld_38, v_true)]);
+    ([tok_269], Some [(fld_33, (bs [29]%N)); (fld_38, v_true)]);
+    ([tok_270], Some [(fld_33, (bs [29]%N)); (fld_38, v_true)]);
+    ([tok_271], Some [(fld_33, (bs [0]%N)); (fld_38, v_true)]);
+    ([tok_272], Some [(fld_33, (bs [0]%N)); (fld_38, v_true)]);
+    ([tok_273], Some [(fld_33, (bs [30]%N)); (fld_38, v_true)]);
+    ([tok_274], Some [(fld_33, (bs [30]%N)); (fld_38, v_true)]);
+    ([tok_275], Some [(fld_33, (bs [1]%N)); (fld_38, v_true)]);
+    ([tok_276], Some [(fld_33, (bs [1]%N)); (fld_38, v_true)]);
+    ([tok_277], Some [(fld_33, (bs [2]%N)); (fld_38, v_true)]);
+    ([tok_278], Some [(fld_33, (bs [2]%N)); (fld_38, v_true)]);
+    ([tok_279], Some [(fld_33, (bs [31]%N)); (fld_38, v_true)]);
+    ([tok_280], Some [(fld_33, (bs [31]%N)); (fld_38, v_true)]);
+    ([tok_281], Some [(fld_33, (bs [31]%N)); (fld_38, v_true)]);
+    ([tok_282], Some [(fld_33, (bs [30]%N)); (fld_38, v_true)]);
+    ([tok_283], Some [(fld_33, (B ":")); (fld_38, v_true)]);
+    ([tok_4], Some [(fld_33, (B ":")); (fld_38, v_true)]);
+    ([tok_284], Some [(fld_33, (B ",")); (fld_38, v_true)]);
+    ([tok_285], Some [(fld_33, (B ",")); (fld_38, v_true)]);
+    ([tok_286], Some [(fld_33, (bs [13]%N)); (fld_38, v_true)]);
+    ([tok_287], Some [(fld_33, (bs [13]%N)); (fld_38, v_true)]);
+    ([tok_288], Some [(fld_33, (bs [13;13]%N)); (fld_38, v_true)]);
+    ([tok_289], Some [(fld_33, (bs [13;13]%N)); (fld_38, v_true)]);
+    ([tok_290], Some [(fld_33, (bs [13;10]%N)); (fld_38, v_true)]);
+    ([tok_291], Some [(fld_33, (bs [13;10]%N)); (fld_38, v_true)]);
+    ([tok_292], Some [(fld_33, (bs [13;10;13;10]%N)); (fld_38, v_true)]);
+    ([tok_293], Some [(fld_33, (bs [13;10;13;10]%N)); (fld_38, v_true)]);
+    ([tok_294], Some [(fld_38, v_true)]);
+    ([tok_295], Some [(fld_38, v_true)]);
+    ([tok_296], Some [(fld_33, (bs [10]%N)); (fld_38, v_true)]);
+    ([tok_297], Some [(fld_33, (bs [10]%N)); (fld_38, v_true)]);
+    ([tok_298], Some [(fld_33, (bs [10;10]%N)); (fld_38, v_true)]);
+    ([tok_299], Some [(fld_33, (bs [10;10]%N)); (fld_38, v_true)]);
+    ([tok_300], Some [(fld_33, (bs [10]%N)); (fld_38, v_true)]);
+    ([tok_301], Some [(fld_33, (B "|")); (fld_38, v_true)]);
+    ([tok_302], Some [(fld_33, (B "|")); (fld_38, v_true)]);
+    ([tok_214], Some [(fld_33, (B ";")); (fld_38, v_true)]);
+    ([tok_2], Some [(fld_33, (B ";")); (fld_38, v_true)]);
+    ([tok_303], Some [(fld_33, (B "/")); (fld_38, v_true)]);
+    ([tok_304], Some [(fld_33, (B "/")); (fld_38, v_true)]);
+    ([tok_238], Some [(fld_33, (B " ")); (fld_38, v_true)]);
+    ([tok_305], Some [(fld_33, (B " ")); (fld_38, v_true)]);
+    ([tok_237], Some [(fld_33, (bs [9]%N)); (fld_38, v_true)]);
+    ([tok_306], Some [(fld_33, (bs [9]%N)); (fld_38, v_true)]);
+    ([tok_307], Some [(fld_33, (bs [226;144;159]%N)); (fld_38, v_true)]);
+    ([tok_308], Some [(fld_33, (bs [226;144;159]%N)); (fld_38, v_true)]);
+    ([tok_309], Some [(fld_33, (bs [226;144;158]%N)); (fld_38, v_true)]);
+    ([tok_310], Some [(fld_33, (bs [226;144;158]%N)); (fld_38, v_true)])]);
+  (tok_7, [
+    ([tok_2; tok_84], Some [(fld_0, (B "csv")); (fld_2, v_na); (fld_3, (B ";")); (fld_10, v_true); (fld_30, (B "pprint")); (fld_32, (B " ")); (fld_33, v_na); (fld_41, v_true)]);
+    ([tok_2; tok_24; tok_62; tok_233], Some [(fld_0, (B "csv")); (fld_2, v_na); (fld_3, (B ";")); (fld_10, v_true); (fld_30, (B "pprint")); (fld_32, (B " ")); (fld_33, v_na); (fld_41, v_true)]);
+    ([tok_2; tok_12], Some [(fld_0, (B "csv")); (fld_2, v_na); (fld_3, (B ";")); (fld_10, v_true); (fld_30, (B "csv")); (fld_33, v_na)]);
+    ([tok_2; tok_24; tok_53], Some [(fld_0, (B "csv")); (fld_2, v_na); (fld_3, (B ";")); (fld_10, v_true); (fld_30, (B "csv")); (fld_33, v_na)]);
+    ([tok_2; tok_85], Some [(fld_0, (B "csv")); (fld_2, v_na); (fld_3, (B ";")); (fld_10, v_true)]);
+    ([tok_2; tok_24; tok_56], Some [(fld_0, (B "csv")); (fld_2, v_na); (fld_3, (B ";")); (fld_10, v_true)]);
+    ([tok_2; tok_86], Some [(fld_0, (B "csv")); (fld_2, v_na); (fld_3, (B ";")); (fld_10, v_true); (fld_30, (B "json")); (fld_31, v_na); (fld_32, v_na); (fld_33, v_na); (fld_65, v_false); (fld_66, v_true)]);
+    ([tok_2; tok_24; tok_57], Some [(fld_0, (B "csv")); (fld_2, v_na); (fld_3, (B ";")); (fld_10, v_true); (fld_30, (B "json")); (fld_31, v_na); (fld_32, v_na); (fld_33, v_na); (fld_65, v_false); (fld_66, v_true)]);
+    ([tok_2; tok_87], Some [(fld_0, (B "csv")); (fld_2, v_na); (fld_3, (B ";")); (fld_10, v_true); (fld_30, (B "jsonl")); (fld_31, (B "")); (fld_32, (B "")); (fld_33, (B "")); (fld_65, v_false); (fld_66, v_true)]);
+    ([tok_2; tok_24; tok_58], Some [(fld_0, (B "csv")); (fld_2, v_na); (fld_3, (B ";")); (fld_10, v_true); (fld_30, (B "jsonl")); (fld_31, (B "")); (fld_32, (B "")); (fld_33, (B "")); (fld_65, v_false); (fld_66, v_true)]);
+    ([tok_2; tok_88], Some [(fld_0, (B "csv")); (fld_2, v_na); (fld_3, (B ";")); (fld_10, v_true); (fld_30, (B "markdown")); (fld_32, (B " ")); (fld_33, v_na)]);
+    ([tok_2; tok_24; tok_59], Some [(fld_0, (B "csv")); (fld_2, v_na); (fld_3, (B ";")); (fld_10, v_true); (fld_30, (B "markdown")); (fld_32, (B " ")); (fld_33, v_na)]);
+    ([tok_2; tok_89], Some [(fld_0, (B "csv")); (fld_2, v_na); (fld_3, (B ";")); (fld_10, v_true); (fld_30, (B "nidx")); (fld_32, (B " ")); (fld_33, v_na); (fld_37, v_true)]);
+    ([tok_2; tok_24; tok_61], Some [(fld_0, (B "csv")); (fld_2, v_na); (fld_3, (B ";")); (fld_10, v_true); (fld_30, (B "nidx")); (fld_32, (B " ")); (fld_33, v_na); (fld_37, v_true)]);
+    ([tok_2; tok_90], Some [(fld_0, (B "csv")); (fld_2, v_na); (fld_3, (B ";")); (fld_10, v_true); (fld_30, (B "pprint")); (fld_32, (B " ")); (fld_33, v_na)]);
+    ([tok_2; tok_24; tok_62], Some [(fld_0, (B "csv")); (fld_2, v_na); (fld_3, (B ";")); (fld_10, v_true); (fld_30, (B "pprint")); (fld_32, (B " ")); (fld_33, v_na)]);
+    ([tok_2; tok_91], Some [(fld_0, (B "csv")); (fld_2, v_na); (fld_3, (B ";")); (fld_10, v_true); (fld_30, (B "tsv")); (fld_32, (bs [9]%N)); (fld_33, v_na)]);
+    ([tok_2; tok_24; tok_64], Some [(fld_0, (B "csv")); (fld_2, v_na); (fld_3, (B ";")); (fld_10, v_true); (fld_30, (B "tsv")); (fld_32, (bs [9]%N)); (fld_33, v_na); (fld_37, v_true)]);
+    ([tok_2; tok_92], Some [(fld_0, (B "csv")); (fld_2, v_na); (fld_3, (B ";")); (fld_10, v_true); (fld_30, (B "xtab")); (fld_31, (bs [10;10]%N)); (fld_32, (bs [10]%N)); (fld_33, (B " "))]);
+    ([tok_2; tok_24; tok_68], Some [(fld_0, (B "csv")); (fld_2, v_na); (fld_3, (B ";")); (fld_10, v_true); (fld_30, (B "xtab")); (fld_31, (bs [10;10]%N)); (fld_32, (bs [10]%N)); (fld_33, (B " "))]);
+    ([tok_2; tok_93], Some [(fld_0, (B "csv")); (fld_2, v_na); (fld_3, (B ";")); (fld_10, v_true); (fld_30, (B "yaml")); (fld_31, v_na); (fld_32, v_na); (fld_33, v_na); (fld_65, v_false); (fld_66, v_true)]);
+    ([tok_2; tok_24; tok_69], Some [(fld_0, (B "csv")); (fld_2, v_na); (fld_3, (B ";")); (fld_10, v_true); (fld_30, (B "yaml")); (fld_31, v_na); (fld_32, v_na); (fld_33, v_na); (fld_65, v_false); (fld_66, v_true)]);
+    ([tok_2; tok_94], Some [(fld_3, (B ";")); (fld_10, v_true); (fld_30, (B "pprint")); (fld_32, (B " ")); (fld_33, v_na); (fld_41, v_true)]);
+    ([tok_2; tok_27; tok_62; tok_233], Some [(fld_3, (B ";")); (fld_10, v_true); (fld_30, (B "pprint")); (fld_32, (B " ")); (fld_33, v_na); (fld_41, v_true)]);
+    ([tok_2; tok_95], Some [(fld_3, (B ";")); (fld_10, v_true); (fld_30, (B "csv")); (fld_33, v_na)]);
+    ([tok_2; tok_27; tok_53], Some [(fld_3, (B ";")); (fld_10, v_true); (fld_30, (B "csv")); (fld_33, v_na)]);
+    ([tok_2; tok_16], Some [(fld_3, (B ";")); (fld_10, v_true)]);
+    ([tok_2; tok_27; tok_56], Some [(fld_3, (B ";")); (fld_10, v_true)]);
+    ([tok_2; tok_96], Some [(fld_3, (B ";")); (fld_10, v_true); (fld_30, (B "json")); (fld_31, v_na); (fld_32, v_na); (fld_33, v_na); (fld_65, v_false); (fld_66, v_true)]);
+    ([tok_2; tok_27; tok_57], Some [(fld_3, (B ";")); (fld_10, v_true); (fld_30, (B "json")); (fld_31, v_na); (fld_32, v_na); (fld_33, v_na); (fld_65, v_false); (fld_66, v_true)]);
+    ([tok_2; tok_97], Some [(fld_3, (B ";")); (fld_10, v_true); (fld_30, (B "jsonl")); (fld_31, (B "")); (fld_32, (B "")); (fld_33, (B "")); (fld_65, v_false); (fld_66, v_true)]);
+    ([tok_2; tok_27; tok_58], Some [(fld_3, (B ";")); (fld_10, v_true); (fld_30, (B "jsonl")); (fld_31, (B "")); (fld_32, (B "")); (fld_33, (B "")); (fld_65, v_false); (fld_66, v_true)]);
+    ([tok_2; tok_98], Some [(fld_3, (B ";")); (fld_10, v_true); (fld_30, (B "markdown")); (fld_32, (B " ")); (fld_33, v_na)]);
+    ([tok_2; tok_27; tok_59], Some [(fld_3, (B ";")); (fld_10, v_true); (fld_30, (B "markdown")); (fld_32, (B " ")); (fld_33, v_na)]);
+    ([tok_2; tok_99], Some [(fld_3, (B ";")); (fld_10, v_true); (fld_30, (B "nidx")); (fld_32, (B " ")); (fld_33, v_na); (fld_37, v_true)]);
+    ([tok_2; tok_27; tok_61], Some [(fld_3, (B ";")); (fld_10, v_true); (fld_30, (B "nidx")); (fld_32, (B " ")); (fld_33, v_na); (fld_37, v_true)]);
+    ([tok_2; tok_100], Some [(fld_3, (B ";")); (fld_10, v_true); (fld_30, (B "pprint")); (fld_32, (B " ")); (fld_33, v_na)]);
+    ([tok_2; tok_27; tok_62], Some [(fld_3, (B ";")); (fld_10, v_true); (fld_30, (B "pprint")); (fld_32, (B " ")); (fld_33, v_na)]);
+    ([tok_2; tok_101], Some [(fld_3, (B ";")); (fld_10, v_true); (fld_30, (B "tsv")); (fld_32, (bs [9]%N)); (fld_33, v_na); (fld_37, v_true); (fld_39, v_true)]);
+    ([tok_2; tok_27; tok_64], Some [(fld_3, (B ";")); (fld_10, v_true); (fld_30, (B "tsv")); (fld_32, (bs [9]%N)); (fld_33, v_na); (fld_37, v_true)]);
+    ([tok_2; tok_102], Some [(fld_3, (B ";")); (fld_10, v_true); (fld_30, (B "xtab")); (fld_31, (bs [10;10]%N)); (fld_32, (bs [10]%N)); (fld_33, (B " "))]);
+    ([tok_2; tok_27; tok_68], Some [(fld_3, (B ";")); (fld_10, v_true); (fld_30, (B "xtab")); (fld_31, (bs [10;10]%N)); (fld_32, (bs [10]%N)); (fld_33, (B " "))]);
+    ([tok_2; tok_103], Some [(fld_3, (B ";")); (fld_10, v_true); (fld_30, (B "yaml")); (fld_31, v_na); (fld_32, v_na); (fld_33, v_na); (fld_65, v_false); (fld_66, v_true)]);
+    ([tok_2; tok_27; tok_69], Some [(fld_3, (B ";")); (fld_10, v_true); (fld_30, (B "yaml")); (fld_31, v_na); (fld_32, v_na); (fld_33, v_na); (fld_65, v_false); (fld_66, v_true)]);
+    ([tok_2; tok_104], Some [(fld_0, (B "json")); (fld_1, v_na); (fld_2, v_na); (fld_3, (B ";")); (fld_10, v_true); (fld_30, (B "pprint")); (fld_32, (B " ")); (fld_33, v_na); (fld_41, v_true)]);
+    ([tok_2; tok_29; tok_62; tok_233], Some [(fld_0, (B "json")); (fld_1, v_na); (fld_2, v_na); (fld_3, (B ";")); (fld_10, v_true); (fld_30, (B "pprint")); (fld_32, (B " ")); (fld_33, v_na); (fld_41, v_true)]);
+    ([tok_2; tok_105], Some [(fld_0, (B "json")); (fld_1, v_na); (fld_2, v_na); (fld_3, (B ";")); (fld_10, v_true); (fld_30, (B "csv")); (fld_33, v_na); (fld_39, v_true)]);
+    ([tok_2; tok_29; tok_53], Some [(fld_0, (B "json")); (fld_1, v_na); (fld_2, v_na); (fld_3, (B ";")); (fld_10, v_true); (fld_30, (B "csv")); (fld_33, v_na)]);
+    ([tok_2; tok_106], Some [(fld_0, (B "json")); (fld_1, v_na); (fld_2, v_na); (fld_3, (B ";")); (fld_10, v_true)]);
+    ([tok_2; tok_29; tok_56], Some [(fld_0, (B "json")); (fld_1, v_na); (fld_2, v_na); (fld_3, (B ";")); (fld_10, v_true)]);
+    ([tok_2; tok_44], Some [(fld_0, (B "json")); (fld_1, v_na); (fld_2, v_na); (fld_3, (B ";")); (fld_10, v_true); (fld_30, (B "json")); (fld_31, v_na); (fld_32, v_na); (fld_33, v_na); (fld_65, v_false)]);
+    ([tok_2; tok_29; tok_57], Some [(fld_0, (B "json")); (fld_1, v_na); (fld_2, v_na); (fld_3, (B ";")); (fld_10, v_true); (fld_30, (B "json")); (fld_31, v_na); (fld_32, v_na); (fld_33, v_na); (fld_65, v_false)]);
+    ([tok_2; tok_107], Some [(fld_0, (B "json")); (fld_1, v_na); (fld_2, v_na); (fld_3, (B ";")); (fld_10, v_true); (fld_30, (B "jsonl")); (fld_31, (B "")); (fld_32, (B "")); (fld_33, (B "")); (fld_65, v_false)]);
+    ([tok_2; tok_29; tok_58], Some [(fld_0, (B "json")); (fld_1, v_na); (fld_2, v_na); (fld_3, (B ";")); (fld_10, v_true); (fld_30, (B "jsonl")); (fld_31, (B "")); (fld_32, (B "")); (fld_33, (B "")); (fld_65, v_false)]);
+    ([tok_2; tok_108], Some [(fld_0, (B "json")); (fld_1, v_na); (fld_2, v_na); (fld_3, (B ";")); (fld_10, v_true); (fld_30, (B "markdown")); (fld_32, (B " ")); (fld_33, v_na)]);
+    ([tok_2; tok_29; tok_59], Some [(fld_0, (B "json")); (fld_1, v_na); (fld_2, v_na); (fld_3, (B ";")); (fld_10, v_true); (fld_30, (B "markdown")); (fld_32, (B " ")); (fld_33, v_na)]);
+    ([tok_2; tok_109], Some [(fld_0, (B "json")); (fld_1, v_na); (fld_2, v_na); (fld_3, (B ";")); (fld_10, v_true); (fld_30, (B "nidx")); (fld_32, (B " ")); (fld_33, v_na)]);
+    ([tok_2; tok_29; tok_61], Some [(fld_0, (B "json")); (fld_1, v_na); (fld_2, v_na); (fld_3, (B ";")); (fld_10, v_true); (fld_30, (B "nidx")); (fld_32, (B " ")); (fld_33, v_na); (fld_37, v_true)]);
+    ([tok_2; tok_110], Some [(fld_0, (B "json")); (fld_1, v_na); (fld_2, v_na); (fld_3, (B ";")); (fld_10, v_true); (fld_30, (B "pprint")); (fld_32, (B " ")); (fld_33, v_na)]);
+    ([tok_2; tok_29; tok_62], Some [(fld_0, (B "json")); (fld_1, v_na); (fld_2, v_na); (fld_3, (B ";")); (fld_10, v_true); (fld_30, (B "pprint")); (fld_32, (B " ")); (fld_33, v_na)]);
+    ([tok_2; tok_111], Some [(fld_0, (B "json")); (fld_1, v_na); (fld_2, v_na); (fld_3, (B ";")); (fld_10, v_true); (fld_30, (B "tsv")); (fld_32, (bs [9]%N)); (fld_33, v_na)]);
+    ([tok_2; tok_29; tok_64], Some [(fld_0, (B "json")); (fld_1, v_na); (fld_2, v_na); (fld_3, (B ";")); (fld_10, v_true); (fld_30, (B "tsv")); (fld_32, (bs [9]%N)); (fld_33, v_na); (fld_37, v_true)]);
+    ([tok_2; tok_112], Some [(fld_0, (B "json")); (fld_1, v_na); (fld_2, v_na); (fld_3, (B ";")); (fld_10, v_true); (fld_30, (B "xtab")); (fld_31, (bs [10;10]%N)); (fld_32, (bs [10]%N)); (fld_33, (B " "))]);
+    ([tok_2; tok_29; tok_68], Some [(fld_0, (B "json")); (fld_1, v_na); (fld_2, v_na); (fld_3, (B ";")); (fld_10, v_true); (fld_30, (B "xtab")); (fld_31, (bs [10;10]%N)); (fld_32, (bs [10]%N)); (fld_33, (B " "))]);
+    ([tok_2; tok_113], Some [(fld_0, (B "json")); (fld_1, v_na); (fld_2, v_na); (fld_3, (B ";")); (fld_10, v_true); (fld_30, (B "yaml")); (fld_31, v_na); (fld_32, v_na); (fld_33, v_na); (fld_65, v_false)]);
+    ([tok_2; tok_29; tok_69], Some [(fld_0, (B "json")); (fld_1, v_na); (fld_2, v_na); (fld_3, (B ";")); (fld_10, v_true); (fld_30, (B "yaml")); (fld_31, v_na); (fld_32, v_na); (fld_33, v_na); (fld_65, v_false)]);
+    ([tok_2; tok_114], Some [(fld_0, (B "json")); (fld_1, v_na); (fld_2, v_na); (fld_3, (B ";")); (fld_10, v_true); (fld_30, (B "pprint")); (fld_32, (B " ")); (fld_33, v_na); (fld_41, v_true)]);
+    ([tok_2; tok_30; tok_62; tok_233], Some [(fld_0, (B "json")); (fld_1, v_na); (fld_2, v_na); (fld_3, (B ";")); (fld_10, v_true); (fld_30, (B "pprint")); (fld_32, (B " ")); (fld_33, v_na); (fld_41, v_true)]);
+    ([tok_2; tok_115], Some [(fld_0, (B "json")); (fld_1, v_na); (fld_2, v_na); (fld_3, (B ";")); (fld_10, v_true); (fld_30, (B "csv")); (fld_33, v_na); (fld_39, v_true)]);
+    ([tok_2; tok_30; tok_53], Some [(fld_0, (B "json")); (fld_1, v_na); (fld_2, v_na); (fld_3, (B ";")); (fld_10, v_true); (fld_30, (B "csv")); (fld_33, v_na)]);
+    ([tok_2; tok_116], Some [(fld_0, (B "json")); (fld_1, v_na); (fld_2, v_na); (fld_3, (B ";")); (fld_10, v_true)]);
+    ([tok_2; tok_30; tok_56], Some [(fld_0, (B "json")); (fld_1, v_na); (fld_2, v_na); (fld_3, (B ";")); (fld_10, v_true)]);
+    ([tok_2; tok_117], Some [(fld_0, (B "json")); (fld_1, v_na); (fld_2, v_na); (fld_3, (B ";")); (fld_10, v_true); (fld_30, (B "json")); (fld_31, v_na); (fld_32, v_na); (fld_33, v_na); (fld_65, v_false)]);
+    ([tok_2; tok_30; tok_57], Some [(fld_0, (B "json")); (fld_1, v_na); (fld_2, v_na); (fld_3, (B ";")); (fld_10, v_true); (fld_30, (B "json")); (fld_31, v_na); (fld_32, v_na); (fld_33, v_na); (fld_65, v_false)]);
+    ([tok_2; tok_46], Some [(fld_0, (B "json")); (fld_1, v_na); (fld_2, v_na); (fld_3, (B ";")); (fld_10, v_true); (fld_30, (B "jsonl")); (fld_31, (B "")); (fld_32, (B "")); (fld_33, (B "")); (fld_65, v_false)]);
+    ([tok_2; tok_30; tok_58], Some [(fld_0, (B "json")); (fld_1, v_na); (fld_2, v_na); (fld_3, (B ";")); (fld_10, v_true); (fld_30, (B "jsonl")); (fld_31, (B "")); (fld_32, (B "")); (fld_33, (B "")); (fld_65, v_false)]);
+    ([tok_2; tok_118], Some [(fld_0, (B "json")); (fld_1, v_na); (fld_2, v_na); (fld_3, (B ";")); (fld_10, v_true); (fld_30, (B "markdown")); (fld_32, (B " ")); (fld_33, v_na)]);
+    ([tok_2; tok_30; tok_59], Some [(fld_0, (B "json")); (fld_1, v_na); (fld_2, v_na); (fld_3, (B ";")); (fld_10, v_true); (fld_30, (B "markdown")); (fld_32, (B " ")); (fld_33, v_na)]);
+    ([tok_2; tok_119], Some [(fld_0, (B "json")); (fld_1, v_na); (fld_2, v_na); (fld_3, (B ";")); (fld_10, v_true); (fld_30, (B "nidx")); (fld_32, (B " ")); (fld_33, v_na)]);
+    ([tok_2; tok_30; tok_61], Some [(fld_0, (B "json")); (fld_1, v_na); (fld_2, v_na); (fld_3, (B ";")); (fld_10, v_true); (fld_30, (B "nidx")); (fld_32, (B " ")); (fld_33, v_na); (fld_37, v_true)]);
+    ([tok_2; tok_120], Some [(fld_0, (B "json")); (fld_1, v_na); (fld_2, v_na); (fld_3, (B ";")); (fld_10, v_true); (fld_30, (B "pprint")); (fld_32, (B " ")); (fld_33, v_na)]);
+    ([tok_2; tok_30; tok_62], Some [(fld_0, (B "json")); (fld_1, v_na); (fld_2, v_na); (fld_3, (B ";")); (fld_10, v_true); (fld_30, (B "pprint")); (fld_32, (B " ")); (fld_33, v_na)]);
+    ([tok_2; tok_121], Some [(fld_0, (B "json")); (fld_1, v_na); (fld_2, v_na); (fld_3, (B ";")); (fld_10, v_true); (fld_30, (B "tsv")); (fld_32, (bs [9]%N)); (fld_33, v_na)]);
+    ([tok_2; tok_30; tok_64], Some [(fld_0, (B "json")); (fld_1, v_na); (fld_2, v_na); (fld_3, (B ";")); (fld_10, v_true); (fld_30, (B "tsv")); (fld_32, (bs [9]%N)); (fld_33, v_na); (fld_37, v_true)]);
+    ([tok_2; tok_122], Some [(fld_0, (B "json")); (fld_1, v_na); (fld_2, v_na); (fld_3, (B ";")); (fld_10, v_true); (fld_30, (B "xtab")); (fld_31, (bs [10;10]%N)); (fld_32, (bs [10]%N)); (fld_33, (B " "))]);
+    ([tok_2; tok_30; tok_68], Some [(fld_0, (B "json")); (fld_1, v_na); (fld_2, v_na); (fld_3, (B ";")); (fld_10, v_true); (fld_30, (B "xtab")); (fld_31, (bs [10;10]%N)); (fld_32, (bs [10]%N)); (fld_33, (B " "))]);
+    ([tok_2; tok_123], Some [(fld_0, (B "json")); (fld_1, v_na); (fld_2, v_na); (fld_3, (B ";")); (fld_10, v_true); (fld_30, (B "yaml")); (fld_31, v_na); (fld_32, v_na); (fld_33, v_na); (fld_65, v_false)]);
+    ([tok_2; tok_30; tok_69], Some [(fld_0, (B "json")); (fld_1, v_na); (fld_2, v_na); (fld_3, (B ";")); (fld_10, v_true); (fld_30, (B "yaml")); (fld_31, v_na); (fld_32, v_na); (fld_33, v_na); (fld_65, v_false)]);
+    ([tok_2; tok_124], Some [(fld_0, (B "markdown")); (fld_1, (B " ")); (fld_2, v_na); (fld_3, (B ";")); (fld_10, v_true); (fld_30, (B "csv")); (fld_33, v_na); (fld_39, v_true)]);
+    ([tok_2; tok_31; tok_53], Some [(fld_0, (B "markdown")); (fld_1, (B " ")); (fld_2, v_na); (fld_3, (B ";")); (fld_10, v_true); (fld_30, (B "csv")); (fld_33, v_na)]);
+    ([tok_2; tok_125], Some [(fld_0, (B "markdown")); (fld_1, (B " ")); (fld_2, v_na); (fld_3, (B ";")); (fld_10, v_true)]);
+    ([tok_2; tok_31; tok_56], Some [(fld_0, (B "markdown")); (fld_1, (B " ")); (fld_2, v_na); (fld_3, (B ";")); (fld_10, v_true)]);
+    ([tok_2; tok_126], Some [(fld_0, (B "markdown")); (fld_1, (B " ")); (fld_2, v_na); (fld_3, (B ";")); (fld_10, v_true); (fld_30, (B "json")); (fld_31, v_na); (fld_32, v_na); (fld_33, v_na); (fld_65, v_false); (fld_66, v_true)]);
+    ([tok_2; tok_31; tok_57], Some [(fld_0, (B "markdown")); (fld_1, (B " ")); (fld_2, v_na); (fld_3, (B ";")); (fld_10, v_true); (fld_30, (B "json")); (fld_31, v_na); (fld_32, v_na); (fld_33, v_na); (fld_65, v_false); (fld_66, v_true)]);
+    ([tok_2; tok_127], Some [(fld_0, (B "markdown")); (fld_1, (B " ")); (fld_2, v_na); (fld_3, (B ";")); (fld_10, v_true); (fld_30, (B "jsonl")); (fld_31, (B "")); (fld_32, (B "")); (fld_33, (B "")); (fld_65, v_false); (fld_66, v_true)]);
+    ([tok_2; tok_31; tok_58], Some [(fld_0, (B "markdown")); (fld_1, (B " ")); (fld_2, v_na); (fld_3, (B ";")); (fld_10, v_true); (fld_30, (B "jsonl")); (fld_31, (B "")); (fld_32, (B "")); (fld_33, (B "")); (fld_65, v_false); (fld_66, v_true)]);
+    ([tok_2; tok_128], Some [(fld_0, (B "markdown")); (fld_1, (B " ")); (fld_2, v_na); (fld_3, (B ";")); (fld_10, v_true); (fld_30, (B "nidx")); (fld_32, (B " ")); (fld_33, v_na)]);
+    ([tok_2; tok_31; tok_61], Some [(fld_0, (B "markdown")); (fld_1, (B " ")); (fld_2, v_na); (fld_3, (B ";")); (fld_10, v_true); (fld_30, (B "nidx")); (fld_32, (B " ")); (fld_33, v_na); (fld_37, v_true)]);
+    ([tok_2; tok_129], Some [(fld_0, (B "markdown")); (fld_1, (B " ")); (fld_2, v_na); (fld_3, (B ";")); (fld_10, v_true); (fld_30, (B "pprint")); (fld_32, (B " ")); (fld_33, v_na)]);
+    ([tok_2; tok_31; tok_62], Some [(fld_0, (B "markdown")); (fld_1, (B " ")); (fld_2, v_na); (fld_3, (B ";")); (fld_10, v_true); (fld_30, (B "pprint")); (fld_32, (B " ")); (fld_33, v_na)]);
+    ([tok_2; tok_130], Some [(fld_0, (B "markdown")); (fld_1, (B " ")); (fld_2, v_na); (fld_3, (B ";")); (fld_10, v_true); (fld_30, (B "tsv")); (fld_32, (bs [9]%N)); (fld_33, v_na)]);
+    ([tok_2; tok_31; tok_64], Some [(fld_0, (B "markdown")); (fld_1, (B " ")); (fld_2, v_na); (fld_3, (B ";")); (fld_10, v_true); (fld_30, (B "tsv")); (fld_32, (bs [9]%N)); (fld_33, v_na); (fld_37, v_true)]);
+    ([tok_2; tok_131], Some [(fld_0, (B "markdown")); (fld_1, (B " ")); (fld_2, v_na); (fld_3, (B ";")); (fld_10, v_true); (fld_30, (B "xtab")); (fld_31, (bs [10;10]%N)); (fld_32, (bs [10]%N)); (fld_33, (B " "))]);
+    ([tok_2; tok_31; tok_68], Some [(fld_0, (B "markdown")); (fld_1, (B " ")); (fld_2, v_na); (fld_3, (B ";")); (fld_10, v_true); (fld_30, (B "xtab")); (fld_31, (bs [10;10]%N)); (fld_32, (bs [10]%N)); (fld_33, (B " "))]);
+    ([tok_2; tok_132], Some [(fld_0, (B "markdown")); (fld_1, (B " ")); (fld_2, v_na); (fld_3, (B ";")); (fld_10, v_true); (fld_30, (B "yaml")); (fld_31, v_na); (fld_32, v_na); (fld_33, v_na); (fld_65, v_false); (fld_66, v_true)]);
+    ([tok_2; tok_31; tok_69], Some [(fld_0, (B "markdown")); (fld_1, (B " ")); (fld_2, v_na); (fld_3, (B ";")); (fld_10, v_true); (fld_30, (B "yaml")); (fld_31, v_na); (fld_32, v_na); (fld_33, v_na); (fld_65, v_false); (fld_66, v_true)]);
+    ([tok_2; tok_198], Some [(fld_0, (B "markdown")); (fld_1, (B " ")); (fld_2, v_na); (fld_3, (B ";")); (fld_10, v_true); (fld_30, (B "markdown")); (fld_32, (B " ")); (fld_33, v_na); (fld_45, v_true)]);
+    ([tok_2; tok_47; tok_199], Some [(fld_0, (B "markdown")); (fld_1, (B " ")); (fld_2, v_na); (fld_3, (B ";")); (fld_10, v_true); (fld_30, (B "markdown")); (fld_32, (B " ")); (fld_33, v_na); (fld_45, v_true)]);
+    ([tok_2; tok_197], Some [(fld_0, (B "markdown")); (fld_1, (B " ")); (fld_2, v_na); (fld_3, (B ";")); (fld_10, v_true); (fld_30, (B "markdown")); (fld_32, (B " ")); (fld_33, v_na); (fld_45, v_true)]);
+    ([tok_2; tok_133], Some [(fld_0, (B "nidx")); (fld_1, (B " ")); (fld_2, v_na); (fld_3, (B ";")); (fld_5, (B "([ \t])+")); (fld_10, v_true); (fld_30, (B "pprint")); (fld_32, (B " ")); (fld_33, v_na); (fld_41, v_true)]);
+    ([tok_2; tok_33; tok_62; tok_233], Some [(fld_0, (B "nidx")); (fld_1, (B " ")); (fld_2, v_na); (fld_3, (B ";")); (fld_5, (B "([ \t])+")); (fld_10, v_true); (fld_30, (B "pprint")); (fld_32, (B " ")); (fld_33, v_na); (fld_41, v_true)]);
+    ([tok_2; tok_134], Some [(fld_0, (B "nidx")); (fld_1, (B " ")); (fld_2, v_na); (fld_3, (B ";")); (fld_5, (B "([ \t])+")); (fld_10, v_true); (fld_30, (B "csv")); (fld_33, v_na); (fld_39, v_true)]);
+    ([tok_2; tok_33; tok_53], Some [(fld_0, (B "nidx")); (fld_1, (B " ")); (fld_2, v_na); (fld_3, (B ";")); (fld_5, (B "([ \t])+")); (fld_10, v_true); (fld_30, (B "csv")); (fld_33, v_na)]);
+    ([tok_2; tok_135], Some [(fld_0, (B "nidx")); (fld_1, (B " ")); (fld_2, v_na); (fld_3, (B ";")); (fld_5, (B "([ \t])+")); (fld_10, v_true)]);
+    ([tok_2; tok_33; tok_56], Some [(fld_0, (B "nidx")); (fld_1, (B " ")); (fld_2, v_na); (fld_3, (B ";")); (fld_5, (B "([ \t])+")); (fld_10, v_true)]);
+    ([tok_2; tok_136], Some [(fld_0, (B "nidx")); (fld_1, (B " ")); (fld_2, v_na); (fld_3, (B ";")); (fld_5, (B "([ \t])+")); (fld_10, v_true); (fld_30, (B "json")); (fld_31, v_na); (fld_32, v_na); (fld_33, v_na); (fld_65, v_false); (fld_66, v_true)]);
+    ([tok_2; tok_33; tok_57], Some [(fld_0, (B "nidx")); (fld_1, (B " ")); (fld_2, v_na); (fld_3, (B ";")); (fld_5, (B "([ \t])+")); (fld_10, v_true); (fld_30, (B "json")); (fld_31, v_na); (fld_32, v_na); (fld_33, v_na); (fld_65, v_false); (fld_66, v_true)]);
+    ([tok_2; tok_137], Some [(fld_0, (B "nidx")); (fld_1, (B " ")); (fld_2, v_na); (fld_3, (B ";")); (fld_5, (B "([ \t])+")); (fld_10, v_true); (fld_30, (B "jsonl")); (fld_31, (B "")); (fld_32, (B "")); (fld_33, (B "")); (fld_65, v_false); (fld_66, v_true)]);
+    ([tok_2; tok_33; tok_58], Some [(fld_0, (B "nidx")); (fld_1, (B " ")); (fld_2, v_na); (fld_3, (B ";")); (fld_5, (B "([ \t])+")); (fld_10, v_true); (fld_30, (B "jsonl")); (fld_31, (B "")); (fld_32, (B "")); (fld_33, (B "")); (fld_65, v_false); (fld_66, v_true)]);
+    ([tok_2; tok_138], Some [(fld_0, (B "nidx")); (fld_1, (B " ")); (fld_2, v_na); (fld_3, (B ";")); (fld_5, (B "([ \t])+")); (fld_10, v_true); (fld_30, (B "markdown")); (fld_32, (B " ")); (fld_33, v_na)]);
+    ([tok_2; tok_33; tok_59], Some [(fld_0, (B "nidx")); (fld_1, (B " ")); (fld_2, v_na); (fld_3, (B ";")); (fld_5, (B "([ \t])+")); (fld_10, v_true); (fld_30, (B "markdown")); (fld_32, (B " ")); (fld_33, v_na)]);
+    ([tok_2; tok_50], Some [(fld_0, (B "nidx")); (fld_1, (B " ")); (fld_2, v_na); (fld_3, (B ";")); (fld_5, (B "([ \t])+")); (fld_10, v_true); (fld_30, (B "nidx")); (fld_32, (B " ")); (fld_33, v_na)]);
+    ([tok_2; tok_33; tok_61], Some [(fld_0, (B "nidx")); (fld_1, (B " ")); (fld_2, v_na); (fld_3, (B ";")); (fld_5, (B "([ \t])+")); (fld_10, v_true); (fld_30, (B "nidx")); (fld_32, (B " ")); (fld_33, v_na); (fld_37, v_true)]);
+    ([tok_2; tok_139], Some [(fld_0, (B "nidx")); (fld_1, (B " ")); (fld_2, v_na); (fld_3, (B ";")); (fld_5, (B "([ \t])+")); (fld_10, v_true); (fld_30, (B "pprint")); (fld_32, (B " ")); (fld_33, v_na)]);
+    ([tok_2; tok_33; tok_62], Some [(fld_0, (B "nidx")); (fld_1, (B " ")); (fld_2, v_na); (fld_3, (B ";")); (fld_5, (B "([ \t])+")); (fld_10, v_true); (fld_30, (B "pprint")); (fld_32, (B " ")); (fld_33, v_na)]);
+    ([tok_2; tok_140], Some [(fld_0, (B "nidx")); (fld_1, (B " ")); (fld_2, v_na); (fld_3, (B ";")); (fld_5, (B "([ \t])+")); (fld_10, v_true); (fld_30, (B "tsv")); (fld_32, (bs [9]%N)); (fld_33, v_na)]);
+    ([tok_2; tok_33; tok_64], Some [(fld_0, (B "nidx")); (fld_1, (B " ")); (fld_2, v_na); (fld_3, (B ";")); (fld_5, (B "([ \t])+")); (fld_10, v_true); (fld_30, (B "tsv")); (fld_32, (bs [9]%N)); (fld_33, v_na); (fld_37, v_true)]);
+    ([tok_2; tok_141], Some [(fld_0, (B "nidx")); (fld_1, (B " ")); (fld_2, v_na); (fld_3, (B ";")); (fld_5, (B "([ \t])+")); (fld_10, v_true); (fld_30, (B "xtab")); (fld_31, (bs [10;10]%N)); (fld_32, (bs [10]%N)); (fld_33, (B " "))]);
+    ([tok_2; tok_33; tok_68], Some [(fld_0, (B "nidx")); (fld_1, (B " ")); (fld_2, v_na); (fld_3, (B ";")); (fld_5, (B "([ \t])+")); (fld_10, v_true); (fld_30, (B "xtab")); (fld_31, (bs [10;10]%N)); (fld_32, (bs [10]%N)); (fld_33, (B " "))]);
+    ([tok_2; tok_142], Some [(fld_0, (B "nidx")); (fld_1, (B " ")); (fld_2, v_na); (fld_3, (B ";")); (fld_5, (B "([ \t])+")); (fld_10, v_true); (fld_30, (B "yaml")); (fld_31, v_na); (fld_32, v_na); (fld_33, v_na); (fld_65, v_false); (fld_66, v_true)]);
+    ([tok_2; tok_33; tok_69], Some [(fld_0, (B "nidx")); (fld_1, (B " ")); (fld_2, v_na); (fld_3, (B ";")); (fld_5, (B "([ \t])+")); (fld_10, v_true); (fld_30, (B "yaml")); (fld_31, v_na); (fld_32, v_na); (fld_33, v_na); (fld_65, v_false); (fld_66, v_true)]);
+    ([tok_2; tok_143], Some [(fld_0, (B "pprint")); (fld_1, (B " ")); (fld_2, v_na); (fld_3, (B ";")); (fld_4, v_true); (fld_8, v_true); (fld_10, v_true); (fld_30, (B "csv")); (fld_33, v_na); (fld_39, v_true)]);
+    ([tok_2; tok_34; tok_53], Some [(fld_0, (B "pprint")); (fld_1, (B " ")); (fld_2, v_na); (fld_3, (B ";")); (fld_4, v_true); (fld_8, v_true); (fld_10, v_true); (fld_30, (B "csv")); (fld_33, v_na)]);
+    ([tok_2; tok_144], Some [(fld_0, (B "pprint")); (fld_1, (B " ")); (fld_2, v_na); (fld_3, (B ";")); (fld_4, v_true); (fld_8, v_true); (fld_10, v_true)]);
+    ([tok_2; tok_34; tok_56], Some [(fld_0, (B "pprint")); (fld_1, (B " ")); (fld_2, v_na); (fld_3, (B ";")); (fld_4, v_true); (fld_8, v_true); (fld_10, v_true)]);
+    ([tok_2; tok_145], Some [(fld_0, (B "pprint")); (fld_1, (B " ")); (fld_2, v_na); (fld_3, (B ";")); (fld_4, v_true); (fld_8, v_true); (fld_10, v_true); (fld_30, (B "json")); (fld_31, v_na); (fld_32, v_na); (fld_33, v_na); (fld_65, v_false); (fld_66, v_true)]);
+    ([tok_2; tok_34; tok_57], Some [(fld_0, (B "pprint")); (fld_1, (B " ")); (fld_2, v_na); (fld_3, (B ";")); (fld_4, v_true); (fld_8, v_true); (fld_10, v_true); (fld_30, (B "json")); (fld_31, v_na); (fld_32, v_na); (fld_33, v_na); (fld_65, v_false); (fld_66, v_true)]);
+    ([tok_2; tok_146], Some [(fld_0, (B "pprint")); (fld_1, (B " ")); (fld_2, v_na); (fld_3, (B ";")); (fld_4, v_true); (fld_8, v_true); (fld_10, v_true); (fld_30, (B "jsonl")); (fld_31, (B "")); (fld_32, (B "")); (fld_33, (B "")); (fld_65, v_false); (fld_66, v_true)]);
+    ([tok_2; tok_34; tok_58], Some [(fld_0, (B "pprint")); (fld_1, (B " ")); (fld_2, v_na); (fld_3, (B ";")); (fld_4, v_true); (fld_8, v_true); (fld_10, v_true); (fld_30, (B "jsonl")); (fld_31, (B "")); (fld_32, (B "")); (fld_33, (B "")); (fld_65, v_false); (fld_66, v_true)]);
+    ([tok_2; tok_147], Some [(fld_0, (B "pprint")); (fld_1, (B " ")); (fld_2, v_na); (fld_3, (B ";")); (fld_4, v_true); (fld_8, v_true); (fld_10, v_true); (fld_30, (B "markdown")); (fld_32, (B " ")); (fld_33, v_na)]);
+    ([tok_2; tok_34; tok_59], Some [(fld_0, (B "pprint")); (fld_1, (B " ")); (fld_2, v_na); (fld_3, (B ";")); (fld_4, v_true); (fld_8, v_true); (fld_10, v_true); (fld_30, (B "markdown")); (fld_32, (B " ")); (fld_33, v_na)]);
+    ([tok_2; tok_148], Some [(fld_0, (B "pprint")); (fld_1, (B " ")); (fld_2, v_na); (fld_3, (B ";")); (fld_4, v_true); (fld_8, v_true); (fld_10, v_true); (fld_30, (B "nidx")); (fld_32, (B " ")); (fld_33, v_na)]);
+    ([tok_2; tok_34; tok_61], Some [(fld_0, (B "pprint")); (fld_1, (B " ")); (fld_2, v_na); (fld_3, (B ";")); (fld_4, v_true); (fld_8, v_true); (fld_10, v_true); (fld_30, (B "nidx")); (fld_32, (B " ")); (fld_33, v_na); (fld_37, v_true)]);
+    ([tok_2; tok_71], Some [(fld_0, (B "pprint")); (fld_1, (B " ")); (fld_2, v_na); (fld_3, (B ";")); (fld_4, v_true); (fld_8, v_true); (fld_10, v_true); (fld_30, (B "pprint")); (fld_32, (B " ")); (fld_33, v_na)]);
+    ([tok_2; tok_34; tok_62], Some [(fld_0, (B "pprint")); (fld_1, (B " ")); (fld_2, v_na); (fld_3, (B ";")); (fld_4, v_true); (fld_8, v_true); (fld_10, v_true); (fld_30, (B "pprint")); (fld_32, (B " ")); (fld_33, v_na)]);
+    ([tok_2; tok_149], Some [(fld_0, (B "pprint")); (fld_1, (B " ")); (fld_2, v_na); (fld_3, (B ";")); (fld_4, v_true); (fld_8, v_true); (fld_10, v_true); (fld_30, (B "tsv")); (fld_32, (bs [9]%N)); (fld_33, v_na)]);
+    ([tok_2; tok_34; tok_64], Some [(fld_0, (B "pprint")); (fld_1, (B " ")); (fld_2, v_na); (fld_3, (B ";")); (fld_4, v_true); (fld_8, v_true); (fld_10, v_true); (fld_30, (B "tsv")); (fld_32, (bs [9]%N)); (fld_33, v_na); (fld_37, v_true)]);
+    ([tok_2; tok_150], Some [(fld_0, (B "pprint")); (fld_1, (B " ")); (fld_2, v_na); (fld_3, (B ";")); (fld_4, v_true); (fld_8, v_true); (fld_10, v_true); (fld_30, (B "xtab")); (fld_31, (bs [10;10]%N)); (fld_32, (bs [10]%N)); (fld_33, (B " "))]);
+    ([tok_2; tok_34; tok_68], Some [(fld_0, (B "pprint")); (fld_1, (B " ")); (fld_2, v_na); (fld_3, (B ";")); (fld_4, v_true); (fld_8, v_true); (fld_10, v_true); (fld_30, (B "xtab")); (fld_31, (bs [10;10]%N)); (fld_32, (bs [10]%N)); (fld_33, (B " "))]);
+    ([tok_2; tok_151], Some [(fld_0, (B "pprint")); (fld_1, (B " ")); (fld_2, v_na); (fld_3, (B ";")); (fld_4, v_true); (fld_8, v_true); (fld_10, v_true); (fld_30, (B "yaml")); (fld_31, v_na); (fld_32, v_na); (fld_33, v_na); (fld_65, v_false); (fld_66, v_true)]);
+    ([tok_2; tok_34; tok_69], Some [(fld_0, (B "pprint")); (fld_1, (B " ")); (fld_2, v_na); (fld_3, (B ";")); (fld_4, v_true); (fld_8, v_true); (fld_10, v_true); (fld_30, (B "yaml")); (fld_31, v_na); (fld_32, v_na); (fld_33, v_na); (fld_65, v_false); (fld_66, v_true)]);
+    ([tok_2; tok_152], Some [(fld_0, (B "tsv")); (fld_1, (bs [9]%N)); (fld_2, v_na); (fld_3, (B ";")); (fld_10, v_true); (fld_30, (B "pprint")); (fld_32, (B " ")); (fld_33, v_na); (fld_41, v_true)]);
+    ([tok_2; tok_36; tok_62; tok_233], Some [(fld_0, (B "tsv")); (fld_1, (bs [9]%N)); (fld_2, v_na); (fld_3, (B ";")); (fld_10, v_true); (fld_30, (B "pprint")); (fld_32, (B " ")); (fld_33, v_na); (fld_41, v_true)]);
+    ([tok_2; tok_153], Some [(fld_0, (B "tsv")); (fld_1, (bs [9]%N)); (fld_2, v_na); (fld_3, (B ";")); (fld_10, v_true); (fld_30, (B "csv")); (fld_33, v_na)]);
+    ([tok_2; tok_36; tok_53], Some [(fld_0, (B "tsv")); (fld_1, (bs [9]%N)); (fld_2, v_na); (fld_3, (B ";")); (fld_10, v_true); (fld_30, (B "csv")); (fld_33, v_na)]);
+    ([tok_2; tok_154], Some [(fld_0, (B "tsv")); (fld_1, (bs [9]%N)); (fld_2, v_na); (fld_3, (B ";")); (fld_10, v_true)]);
+    ([tok_2; tok_36; tok_56], Some [(fld_0, (B "tsv")); (fld_1, (bs [9]%N)); (fld_2, v_na); (fld_3, (B ";")); (fld_10, v_true)]);
+    ([tok_2; tok_155], Some [(fld_0, (B "tsv")); (fld_1, (bs [9]%N)); (fld_2, v_na); (fld_3, (B ";")); (fld_10, v_true); (fld_30, (B "json")); (fld_31, v_na); (fld_32, v_na); (fld_33, v_na); (fld_65, v_false); (fld_66, v_true)]);
+    ([tok_2; tok_36; tok_57], Some [(fld_0, (B "tsv")); (fld_1, (bs [9]%N)); (fld_2, v_na); (fld_3, (B ";")); (fld_10, v_true); (fld_30, (B "json")); (fld_31, v_na); (fld_32, v_na); (fld_33, v_na); (fld_65, v_false); (fld_66, v_true)]);
+    ([tok_2; tok_156], Some [(fld_0, (B "tsv")); (fld_1, (bs [9]%N)); (fld_2, v_na); (fld_3, (B ";")); (fld_10, v_true); (fld_30, (B "jsonl")); (fld_31, (B "")); (fld_32, (B "")); (fld_33, (B "")); (fld_65, v_false); (fld_66, v_true)]);
+    ([tok_2; tok_36; tok_58], Some [(fld_0, (B "tsv")); (fld_1, (bs [9]%N)); (fld_2, v_na); (fld_3, (B ";")); (fld_10, v_true); (fld_30, (B "jsonl")); (fld_31, (B "")); (fld_32, (B "")); (fld_33, (B "")); (fld_65, v_false); (fld_66, v_true)]);
+    ([tok_2; tok_157], Some [(fld_0, (B "tsv")); (fld_1, (bs [9]%N)); (fld_2, v_na); (fld_3, (B ";")); (fld_10, v_true); (fld_30, (B "markdown")); (fld_32, (B " ")); (fld_33, v_na)]);
+    ([tok_2; tok_36; tok_59], Some [(fld_0, (B "tsv")); (fld_1, (bs [9]%N)); (fld_2, v_na); (fld_3, (B ";")); (fld_10, v_true); (fld_30, (B "markdown")); (fld_32, (B " ")); (fld_33, v_na)]);
+    ([tok_2; tok_158], Some [(fld_0, (B "tsv")); (fld_1, (bs [9]%N)); (fld_2, v_na); (fld_3, (B ";")); (fld_10, v_true); (fld_30, (B "nidx")); (fld_32, (B " ")); (fld_33, v_na); (fld_37, v_true)]);
+    ([tok_2; tok_36; tok_61], Some [(fld_0, (B "tsv")); (fld_1, (bs [9]%N)); (fld_2, v_na); (fld_3, (B ";")); (fld_10, v_true); (fld_30, (B "nidx")); (fld_32, (B " ")); (fld_33, v_na); (fld_37, v_true)]);
+    ([tok_2; tok_159], Some [(fld_0, (B "tsv")); (fld_1, (bs [9]%N)); (fld_2, v_na); (fld_3, (B ";")); (fld_10, v_true); (fld_30, (B "pprint")); (fld_32, (B " ")); (fld_33, v_na)]);
+    ([tok_2; tok_36; tok_62], Some [(fld_0, (B "tsv")); (fld_1, (bs [9]%N)); (fld_2, v_na); (fld_3, (B ";")); (fld_10, v_true); (fld_30, (B "pprint")); (fld_32, (B " ")); (fld_33, v_na)]);
+    ([tok_2; tok_75], Some [(fld_0, (B "tsv")); (fld_1, (bs [9]%N)); (fld_2, v_na); (fld_3, (B ";")); (fld_10, v_true); (fld_30, (B "tsv")); (fld_32, (bs [9]%N)); (fld_33, v_na)]);
+    ([tok_2; tok_36; tok_64], Some [(fld_0, (B "tsv")); (fld_1, (bs [9]%N)); (fld_2, v_na); (fld_3, (B ";")); (fld_10, v_true); (fld_30, (B "tsv")); (fld_32, (bs [9]%N)); (fld_33, v_na); (fld_37, v_true)]);
+    ([tok_2; tok_160], Some [(fld_0, (B "tsv")); (fld_1, (bs [9]%N)); (fld_2, v_na); (fld_3, (B ";")); (fld_10, v_true); (fld_30, (B "xtab")); (fld_31, (bs [10;10]%N)); (fld_32, (bs [10]%N)); (fld_33, (B " "))]);
+    ([tok_2; tok_36; tok_68], Some [(fld_0, (B "tsv")); (fld_1, (bs [9]%N)); (fld_2, v_na); (fld_3, (B ";")); (fld_10, v_true); (fld_30, (B "xtab")); (fld_31, (bs [10;10]%N)); (fld_32, (bs [10]%N)); (fld_33, (B " "))]);
+    ([tok_2; tok_161], Some [(fld_0, (B "tsv")); (fld_1, (bs [9]%N)); (fld_2, v_na); (fld_3, (B ";")); (fld_10, v_true); (fld_30, (B "yaml")); (fld_31, v_na); (fld_32, v_na); (fld_33, v_na); (fld_65, v_false); (fld_66, v_true)]);
+    ([tok_2; tok_36; tok_69], Some [(fld_0, (B "tsv")); (fld_1, (bs [9]%N)); (fld_2, v_na); (fld_3, (B ";")); (fld_10, v_true); (fld_30, (B "yaml")); (fld_31, v_na); (fld_32, v_na); (fld_33, v_na); (fld_65, v_false); (fld_66, v_true)]);
+    ([tok_2; tok_162], Some [(fld_0, (B "xtab")); (fld_1, (bs [10]%N)); (fld_2, (B " ")); (fld_3, (B ";")); (fld_10, v_true); (fld_30, (B "pprint")); (fld_32, (B " ")); (fld_33, v_na); (fld_41, v_true)]);
+    ([tok_2; tok_40; tok_62; tok_233], Some [(fld_0, (B "xtab")); (fld_1, (bs [10]%N)); (fld_2, (B " ")); (fld_3, (B ";")); (fld_10, v_true); (fld_30, (B "pprint")); (fld_32, (B " ")); (fld_33, v_na); (fld_41, v_true)]);
+    ([tok_2; tok_163], Some [(fld_0, (B "xtab")); (fld_1, (bs [10]%N)); (fld_2, (B " ")); (fld_3, (B ";")); (fld_10, v_true); (fld_30, (B "csv")); (fld_33, v_na); (fld_39, v_true)]);
+    ([tok_2; tok_40; tok_53], Some [(fld_0, (B "xtab")); (fld_1, (bs [10]%N)); (fld_2, (B " ")); (fld_3, (B ";")); (fld_10, v_true); (fld_30, (B "csv")); (fld_33, v_na)]);
+    ([tok_2; tok_164], Some [(fld_0, (B "xtab")); (fld_1, (bs [10]%N)); (fld_2, (B " ")); (fld_3, (B ";")); (fld_10, v_true)]);
+    ([tok_2; tok_40; tok_56], Some [(fld_0, (B "xtab")); (fld_1, (bs [10]%N)); (fld_2, (B " ")); (fld_3, (B ";")); (fld_10, v_true)]);
+    ([tok_2; tok_165], Some [(fld_0, (B "xtab")); (fld_1, (bs [10]%N)); (fld_2, (B " ")); (fld_3, (B ";")); (fld_10, v_true); (fld_30, (B "json")); (fld_31, v_na); (fld_32, v_na); (fld_33, v_na); (fld_65, v_false); (fld_66, v_true)]);
+    ([tok_2; tok_40; tok_57], Some [(fld_0, (B "xtab")); (fld_1, (bs [10]%N)); (fld_2, (B " ")); (fld_3, (B ";")); (fld_10, v_true); (fld_30, (B "json")); (fld_31, v_na); (fld_32, v_na); (fld_33, v_na); (fld_65, v_false); (fld_66, v_true)]);
+    ([tok_2; tok_166], Some [(fld_0, (B "xtab")); (fld_1, (bs [10]%N)); (fld_2, (B " ")); (fld_3, (B ";")); (fld_10, v_true); (fld_30, (B "jsonl")); (fld_31, (B "")); (fld_32, (B "")); (fld_33, (B "")); (fld_65, v_false); (fld_66, v_true)]);
+    ([tok_2; tok_40; tok_58], Some [(fld_0, (B "xtab")); (fld_1, (bs [10]%N)); (fld_2, (B " ")); (fld_3, (B ";")); (fld_10, v_true); (fld_30, (B "jsonl")); (fld_31, (B "")); (fld_32, (B "")); (fld_33, (B "")); (fld_65, v_false); (fld_66, v_true)]);
+    ([tok_2; tok_167], Some [(fld_0, (B "xtab")); (fld_1, (bs [10]%N)); (fld_2, (B " ")); (fld_3, (B ";")); (fld_10, v_true); (fld_30, (B "markdown")); (fld_32, (B " ")); (fld_33, v_na)]);
+    ([tok_2; tok_40; tok_59], Some [(fld_0, (B "xtab")); (fld_1, (bs [10]%N)); (fld_2, (B " ")); (fld_3, (B ";")); (fld_10, v_true); (fld_30, (B "markdown")); (fld_32, (B " ")); (fld_33, v_na)]);
+    ([tok_2; tok_168], Some [(fld_0, (B "xtab")); (fld_1, (bs [10]%N)); (fld_2, (B " ")); (fld_3, (B ";")); (fld_10, v_true); (fld_30, (B "nidx")); (fld_32, (B " ")); (fld_33, v_na)]);
+    ([tok_2; tok_40; tok_61], Some [(fld_0, (B "xtab")); (fld_1, (bs [10]%N)); (fld_2, (B " ")); (fld_3, (B ";")); (fld_10, v_true); (fld_30, (B "nidx")); (fld_32, (B " ")); (fld_33, v_na); (fld_37, v_true)]);
+    ([tok_2; tok_169], Some [(fld_0, (B "xtab")); (fld_1, (bs [10]%N)); (fld_2, (B " ")); (fld_3, (B ";")); (fld_10, v_true); (fld_30, (B "pprint")); (fld_32, (B " ")); (fld_33, v_na)]);
+    ([tok_2; tok_40; tok_62], Some [(fld_0, (B "xtab")); (fld_1, (bs [10]%N)); (fld_2, (B " ")); (fld_3, (B ";")); (fld_10, v_true); (fld_30, (B "pprint")); (fld_32, (B " ")); (fld_33, v_na)]);
+    ([tok_2; tok_170], Some [(fld_0, (B "xtab")); (fld_1, (bs [10]%N)); (fld_2, (B " ")); (fld_3, (B ";")); (fld_10, v_true); (fld_30, (B "tsv")); (fld_32, (bs [9]%N)); (fld_33, v_na)]);
+    ([tok_2; tok_40; tok_64], Some [(fld_0, (B "xtab")); (fld_1, (bs [10]%N)); (fld_2, (B " ")); (fld_3, (B ";")); (fld_10, v_true); (fld_30, (B "tsv")); (fld_32, (bs [9]%N)); (fld_33, v_na); (fld_37, v_true)]);
+    ([tok_2; tok_80], Some [(fld_0, (B "xtab")); (fld_1, (bs [10]%N)); (fld_2, (B " ")); (fld_3, (B ";")); (fld_10, v_true); (fld_30, (B "xtab")); (fld_31, (bs [10;10]%N)); (fld_32, (bs [10]%N)); (fld_33, (B " "))]);
+    ([tok_2; tok_40; tok_68], Some [(fld_0, (B "xtab")); (fld_1, (bs [10]%N)); (fld_2, (B " ")); (fld_3, (B ";")); (fld_10, v_true); (fld_30, (B "xtab")); (fld_31, (bs [10;10]%N)); (fld_32, (bs [10]%N)); (fld_33, (B " "))]);
+    ([tok_2; tok_171], Some [(fld_0, (B "xtab")); (fld_1, (bs [10]%N)); (fld_2, (B " ")); (fld_3, (B ";")); (fld_10, v_true); (fld_30, (B "yaml")); (fld_31, v_na); (fld_32, v_na); (fld_33, v_na); (fld_65, v_false); (fld_66, v_true)]);
+    ([tok_2; tok_40; tok_69], Some [(fld_0, (B "xtab")); (fld_1, (bs [10]%N)); (fld_2, (B " ")); (fld_3, (B ";")); (fld_10, v_true); (fld_30, (B "yaml")); (fld_31, v_na); (fld_32, v_na); (fld_33, v_na); (fld_65, v_false); (fld_66, v_true)]);
+    ([tok_2; tok_172], Some [(fld_0, (B "yaml")); (fld_1, v_na); (fld_2, v_na); (fld_3, (B ";")); (fld_10, v_true); (fld_30, (B "csv")); (fld_33, v_na); (fld_39, v_true)]);
+    ([tok_2; tok_41; tok_53], Some [(fld_0, (B "yaml")); (fld_1, v_na); (fld_2, v_na); (fld_3, (B ";")); (fld_10, v_true); (fld_30, (B "csv")); (fld_33, v_na)]);
+    ([tok_2; tok_173], Some [(fld_0, (B "yaml")); (fld_1, v_na); (fld_2, v_na); (fld_3, (B ";")); (fld_10, v_true)]);
+    ([tok_2; tok_41; tok_56], Some [(fld_0, (B "yaml")); (fld_1, v_na); (fld_2, v_na); (fld_3, (B ";")); (fld_10, v_true)]);
+    ([tok_2; tok_174], Some [(fld_0, (B "yaml")); (fld_1, v_na); (fld_2, v_na); (fld_3, (B ";")); (fld_10, v_true); (fld_30, (B "json")); (fld_31, v_na); (fld_32, v_na); (fld_33, v_na); (fld_65, v_false)]);
+    ([tok_2; tok_41; tok_57], Some [(fld_0, (B "yaml")); (fld_1, v_na); (fld_2, v_na); (fld_3, (B ";")); (fld_10, v_true); (fld_30, (B "json")); (fld_31, v_na); (fld_32, v_na); (fld_33, v_na); (fld_65, v_false)]);
+    ([tok_2; tok_175], Some [(fld_0, (B "yaml")); (fld_1, v_na); (fld_2, v_na); (fld_3, (B ";")); (fld_10, v_true); (fld_30, (B "jsonl")); (fld_31, (B "")); (fld_32, (B "")); (fld_33, (B "")); (fld_65, v_false)]);
+    ([tok_2; tok_41; tok_58], Some [(fld_0, (B "yaml")); (fld_1, v_na); (fld_2, v_na); (fld_3, (B ";")); (fld_10, v_true); (fld_30, (B "jsonl")); (fld_31, (B "")); (fld_32, (B "")); (fld_33, (B "")); (fld_65, v_false)]);
+    ([tok_2; tok_176], Some [(fld_0, (B "yaml")); (fld_1, v_na); (fld_2, v_na); (fld_3, (B ";")); (fld_10, v_true); (fld_30, (B "markdown")); (fld_32, (B " ")); (fld_33, v_na)]);
+    ([tok_2; tok_41; tok_59], Some [(fld_0, (B "yaml")); (fld_1, v_na); (fld_2, v_na); (fld_3, (B ";")); (fld_10, v_true); (fld_30, (B "markdown")); (fld_32, (B " ")); (fld_33, v_na)]);
+    ([tok_2; tok_177], Some [(fld_0, (B "yaml")); (fld_1, v_na); (fld_2, v_na); (fld_3, (B ";")); (fld_10, v_true); (fld_30, (B "nidx")); (fld_32, (B " ")); (fld_33, v_na)]);
+    ([tok_2; tok_41; tok_61], Some [(fld_0, (B "yaml")); (fld_1, v_na); (fld_2, v_na); (fld_3, (B ";")); (fld_10, v_true); (fld_30, (B "nidx")); (fld_32, (B " ")); (fld_33, v_na); (fld_37, v_true)]);
+    ([tok_2; tok_178], Some [(fld_0, (B "yaml")); (fld_1, v_na); (fld_2, v_na); (fld_3, (B ";")); (fld_10, v_true); (fld_30, (B "pprint")); (fld_32, (B " ")); (fld_33, v_na)]);
+    ([tok_2; tok_41; tok_62], Some [(fld_0, (B "yaml")); (fld_1, v_na); (fld_2, v_na); (fld_3, (B ";")); (fld_10, v_true); (fld_30, (B "pprint")); (fld_32, (B " ")); (fld_33, v_na)]);
+    ([tok_2; tok_179], Some [(fld_0, (B "yaml")); (fld_1, v_na); (fld_2, v_na); (fld_3, (B ";")); (fld_10, v_true); (fld_30, (B "tsv")); (fld_32, (bs [9]%N)); (fld_33, v_na)]);
+    ([tok_2; tok_41; tok_64], Some [(fld_0, (B "yaml")); (fld_1, v_na); (fld_2, v_na); (fld_3, (B ";")); (fld_10, v_true); (fld_30, (B "tsv")); (fld_32, (bs [9]%N)); (fld_33, v_na); (fld_37, v_true)]);
+    ([tok_2; tok_180], Some [(fld_0, (B "yaml")); (fld_1, v_na); (fld_2, v_na); (fld_3, (B ";")); (fld_10, v_true); (fld_30, (B "xtab")); (fld_31, (bs [10;10]%N)); (fld_32, (bs [10]%N)); (fld_33, (B " "))]);
+    ([tok_2; tok_41; tok_68], Some [(fld_0, (B "yaml")); (fld_1, v_na); (fld_2, v_na); (fld_3, (B ";")); (fld_10, v_true); (fld_30, (B "xtab")); (fld_31, (bs [10;10]%N)); (fld_32, (bs [10]%N)); (fld_33, (B " "))]);
+    ([tok_2; tok_83], Some [(fld_0, (B "yaml")); (fld_1, v_na); (fld_2, v_na); (fld_3, (B ";")); (fld_10, v_true); (fld_30, (B "yaml")); (fld_31, v_na); (fld_32, v_na); (fld_33, v_na); (fld_65, v_false)]);
+    ([tok_2; tok_41; tok_69], Some [(fld_0, (B "yaml")); (fld_1, v_na); (fld_2, v_na); (fld_3, (B ";")); (fld_10, v_true); (fld_30, (B "yaml")); (fld_31, v_na); (fld_32, v_na); (fld_33, v_na); (fld_65, v_false)]);
+    ([tok_2; tok_235], Some [(fld_3, (B ";")); (fld_10, v_true); (fld_12, v_true); (fld_40, v_true)]);
+    ([tok_2; tok_207; tok_204], Some [(fld_3, (B ";")); (fld_10, v_true); (fld_12, v_true); (fld_40, v_true)]);
+    ([tok_2; tok_182], Some [(fld_0, (B "nidx")); (fld_1, (bs [9]%N)); (fld_2, v_na); (fld_3, (B ";")); (fld_8, v_true); (fld_10, v_true); (fld_30, (B "nidx")); (fld_32, (bs [9]%N)); (fld_33, v_na); (fld_37, v_true)]);
+    ([tok_2; tok_49; tok_236; tok_237], Some [(fld_0, (B "nidx")); (fld_1, (bs [9]%N)); (fld_2, v_na); (fld_3, (B ";")); (fld_8, v_true); (fld_10, v_true); (fld_30, (B "nidx")); (fld_32, (bs [9]%N)); (fld_33, v_na); (fld_37, v_true)]);
+    ([tok_2; tok_181], Some [(fld_0, (B "nidx")); (fld_1, (B " ")); (fld_2, v_na); (fld_3, (B ";")); (fld_4, v_true); (fld_8, v_true); (fld_10, v_true); (fld_11, v_true); (fld_30, (B "nidx")); (fld_32, (B " ")); (fld_33, v_na); (fld_37, v_true)]);
+    ([tok_2; tok_49; tok_236; tok_238; tok_239], Some [(fld_0, (B "nidx")); (fld_1, (B " ")); (fld_2, v_na); (fld_3, (B ";")); (fld_4, v_true); (fld_8, v_true); (fld_10, v_true); (fld_11, v_true); (fld_30, (B "nidx")); (fld_32, (B " ")); (fld_33, v_na); (fld_37, v_true)]);
+    ([tok_263], Some [(fld_3, (bs [27]%N)); (fld_10, v_true)]);
+    ([tok_264], Some [(fld_3, (bs [27]%N)); (fld_10, v_true)]);
+    ([tok_265], Some [(fld_3, (bs [3]%N)); (fld_10, v_true)]);
+    ([tok_266], Some [(fld_3, (bs [3]%N)); (fld_10, v_true)]);
+    ([tok_267], Some [(fld_3, (bs [28]%N)); (fld_10, v_true)]);
+    ([tok_268], Some [(fld_3, (bs [28]%N)); (fld_10, v_true)]);
+    ([tok_269], Some [(fld_3, (bs [29]%N)); (fld_10, v_true)]);
+    ([tok_270], Some [(fld_3, (bs [29]%N)); (fld_10, v_true)]);
+    ([tok_271], Some [(fld_3, (bs [0]%N)); (fld_10, v_true)]);
+    ([tok_272], Some [(fld_3, (bs [0]%N)); (fld_10, v_true)]);
+    ([tok_273], Some [(fld_3, (bs [30]%N)); (fld_10, v_true)]);
+    ([tok_274], Some [(fld_3, (bs [30]%N)); (fld_10, v_true)]);
+    ([tok_275], Some [(fld_3, (bs [1]%N)); (fld_10, v_true)]);
+    ([tok_276], Some [(fld_3, (bs [1]%N)); (fld_10, v_true)]);
+    ([tok_277], Some [(fld_3, (bs [2]%N)); (fld_10, v_true)]);
+    ([tok_278], Some [(fld_3, (bs [2]%N)); (fld_10, v_true)]);
+    ([tok_279], Some [(fld_3, (bs [31]%N)); (fld_10, v_true)]);
+    ([tok_280], Some [(fld_3, (bs [31]%N)); (fld_10, v_true)]);
+    ([tok_281], Some [(fld_3, (bs [31]%N)); (fld_10, v_true)]);
+    ([tok_282], Some [(fld_3, (bs [30]%N)); (fld_10, v_true)]);
+    ([tok_283], Some [(fld_3, (B ":")); (fld_10, v_true)]);
+    ([tok_4], Some [(fld_3, (B ":")); (fld_10, v_true)]);
+    ([tok_284], Some [(fld_3, (B ",")); (fld_10, v_true)]);
+    ([tok_285], Some [(fld_3, (B ",")); (fld_10, v_true)]);
+    ([tok_286], Some [(fld_3, (bs [13]%N)); (fld_10, v_true)]);
+    ([tok_287], Some [(fld_3, (bs [13]%N)); (fld_10, v_true)]);
+    ([tok_288], Some [(fld_3, (bs [13;13]%N)); (fld_10, v_true)]);
+    ([tok_289], Some [(fld_3, (bs [13;13]%N)); (fld_10, v_true)]);
+    ([tok_290], Some [(fld_3, (bs [13;10]%N)); (fld_10, v_true)]);
+    ([tok_291], Some [(fld_3, (bs [13;10]%N)); (fld_10, v_true)]);
+    ([tok_292], Some [(fld_3, (bs [13;10;13;10]%N)); (fld_10, v_true)]);
+    ([tok_293], Some [(fld_3, (bs [13;10;13;10]%N)); (fld_10, v_true)]);
+    ([tok_294], Some [(fld_3, (B "=")); (fld_10, v_true)]);
+    ([tok_295], Some [(fld_3, (B "=")); (fld_10, v_true)]);
+    ([tok_296], Some [(fld_10, v_true)]);
+    ([tok_297], Some [(fld_10, v_true)]);
+    ([tok_298], Some [(fld_3, (bs [10;10]%N)); (fld_10, v_true)]);
+    ([tok_299], Some [(fld_3, (bs [10;10]%N)); (fld_10, v_true)]);
+    ([tok_300], Some [(fld_10, v_true)]);
+    ([tok_301], Some [(fld_3, (B "|")); (fld_10, v_true)]);
+    ([tok_302], Some [(fld_3, (B "|")); (fld_10, v_true)]);
+    ([tok_214], Some [(fld_3, (B ";")); (fld_10, v_true)]);
+    ([tok_2], Some [(fld_3, (B ";")); (fld_10, v_true)]);
+    ([tok_303], Some [(fld_3, (B "/")); (fld_10, v_true)]);
+    ([tok_304], Some [(fld_3, (B "/")); (fld_10, v_true)]);
+    ([tok_238], Some [(fld_3, (B " ")); (fld_10, v_true)]);
+    ([tok_305], Some [(fld_3, (B " ")); (fld_10, v_true)]);
+    ([tok_237], Some [(fld_3, (bs [9]%N)); (fld_10, v_true)]);
+    ([tok_306], Some [(fld_3, (bs [9]%N)); (fld_10, v_true)]);
+    ([tok_307], Some [(fld_3, (bs [226;144;159]%N)); (fld_10, v_true)]);
+    ([tok_308], Some [(fld_3, (bs [226;144;159]%N)); (fld_10, v_true)]);
+    ([tok_309], Some [(fld_3, (bs [226;144;158]%N)); (fld_10, v_true)]);
+    ([tok_310], Some [(fld_3, (bs [226;144;158]%N)); (fld_10, v_true)])]);
+  (tok_8, [
+    ([tok_2; tok_84], Some [(fld_0, (B "csv")); (fld_2, v_na); (fld_10, v_true); (fld_30, (B "pprint")); (fld_31, (B ";")); (fld_32, (B " ")); (fld_33, v_na); (fld_39, v_true); (fld_41, v_true)]);
+    ([tok_2; tok_24; tok_62; tok_233], Some [(fld_0, (B "csv")); (fld_2, v_na); (fld_30, (B "pprint")); (fld_31, (B ";")); (fld_32, (B " ")); (fld_33, v_na); (fld_39, v_true); (fld_41, v_true)]);
+    ([tok_2; tok_12], Some [(fld_0, (B "csv")); (fld_2, v_na); (fld_30, (B "csv")); (fld_31, (B ";")); (fld_33, v_na); (fld_39, v_true)]);
+    ([tok_2; tok_24; tok_53], Some [(fld_0, (B "csv")); (fld_2, v_na); (fld_30, (B "csv")); (fld_31, (B ";")); (fld_33, v_na); (fld_39, v_true)]);
+    ([tok_2; tok_85], Some [(fld_0, (B "csv")); (fld_2, v_na); (fld_10, v_true); (fld_31, (B ";")); (fld_39, v_true)]);
+    ([tok_2; tok_24; tok_56], Some [(fld_0, (B "csv")); (fld_2, v_na); (fld_31, (B ";")); (fld_39, v_true)]);
+    ([tok_2; tok_86], Some [(fld_0, (B "csv")); (fld_2, v_na); (fld_10, v_true); (fld_30, (B "json")); (fld_31, (B ";")); (fld_32, v_na); (fld_33, v_na); (fld_39, v_true); (fld_65, v_false); (fld_66, v_true)]);
+    ([tok_2; tok_24; tok_57], Some [(fld_0, (B "csv")); (fld_2, v_na); (fld_30, (B "json")); (fld_31, (B ";")); (fld_32, v_na); (fld_33, v_na); (fld_39, v_true); (fld_65, v_false); (fld_66, v_true)]);
+    ([tok_2; tok_87], Some [(fld_0, (B "csv")); (fld_2, v_na); (fld_10, v_true); (fld_30, (B "jsonl")); (fld_31, (B ";")); (fld_32, (B "")); (fld_33, (B "")); (fld_39, v_true); (fld_65, v_false); (fld_66, v_true)]);
+    ([tok_2; tok_24; tok_58], Some [(fld_0, (B "csv")); (fld_2, v_na); (fld_30, (B "jsonl")); (fld_31, (B ";")); (fld_32, (B "")); (fld_33, (B "")); (fld_39, v_true); (fld_65, v_false); (fld_66, v_true)]);
+    ([tok_2; tok_88], Some [(fld_0, (B "csv")); (fld_2, v_na); (fld_10, v_true); (fld_30, (B "markdown")); (fld_31, (B ";")); (fld_32, (B " ")); (fld_33, v_na); (fld_39, v_true)]);
+    ([tok_2; tok_24; tok_59], Some [(fld_0, (B "csv")); (fld_2, v_na); (fld_30, (B "markdown")); (fld_31, (B ";")); (fld_32, (B " ")); (fld_33, v_na); (fld_39, v_true)]);
+    ([tok_2; tok_89], Some [(fld_0, (B "csv")); (fld_2, v_na); (fld_10, v_true); (fld_30, (B "nidx")); (fld_31, (B ";")); (fld_32, (B " ")); (fld_33, v_na); (fld_37, v_true); (fld_39, v_true)]);
+    ([tok_2; tok_24; tok_61], Some [(fld_0, (B "csv")); (fld_2, v_na); (fld_30, (B "nidx")); (fld_31, (B ";")); (fld_32, (B " ")); (fld_33, v_na); (fld_37, v_true); (fld_39, v_true)]);
+    ([tok_2; tok_90], Some [(fld_0, (B "csv")); (fld_2, v_na); (fld_10, v_true); (fld_30, (B "pprint")); (fld_31, (B ";")); (fld_32, (B " ")); (fld_33, v_na); (fld_39, v_true)]);
+    ([tok_2; tok_24; tok_62], Some [(fld_0, (B "csv")); (fld_2, v_na); (fld_30, (B "pprint")); (fld_31, (B ";")); (fld_32, (B " ")); (fld_33, v_na); (fld_39, v_true)]);
+    ([tok_2; tok_91], Some [(fld_0, (B "csv")); (fld_2, v_na); (fld_10, v_true); (fld_30, (B "tsv")); (fld_31, (B ";")); (fld_32, (bs [9]%N)); (fld_33, v_na); (fld_39, v_true)]);
+    ([tok_2; tok_24; tok_64], Some [(fld_0, (B "csv")); (fld_2, v_na); (fld_30, (B "tsv")); (fld_31, (B ";")); (fld_32, (bs [9]%N)); (fld_33, v_na); (fld_37, v_true); (fld_39, v_true)]);
+    ([tok_2; tok_92], Some [(fld_0, (B "csv")); (fld_2, v_na); (fld_10, v_true); (fld_30, (B "xtab")); (fld_31, (B ";")); (fld_32, (bs [10]%N)); (fld_33, (B " ")); (fld_39, v_true)]);
+    ([tok_2; tok_24; tok_68], Some [(fld_0, (B "csv")); (fld_2, v_na); (fld_30, (B "xtab")); (fld_31, (B ";")); (fld_32, (bs [10]%N)); (fld_33, (B " ")); (fld_39, v_true)]);
+    ([tok_2; tok_93], Some [(fld_0, (B "csv")); (fld_2, v_na); (fld_10, v_true); (fld_30, (B "yaml")); (fld_31, (B ";")); (fld_32, v_na); (fld_33, v_na); (fld_39, v_true); (fld_65, v_false); (fld_66, v_true)]);
+    ([tok_2; tok_24; tok_69], Some [(fld_0, (B "csv")); (fld_2, v_na); (fld_30, (B "yaml")); (fld_31, (B ";")); (fld_32, v_na); (fld_33, v_na); (fld_39, v_true); (fld_65, v_false); (fld_66, v_true)]);
+    ([tok_2; tok_94], Some [(fld_30, (B "pprint")); (fld_31, (B ";")); (fld_32, (B " ")); (fld_33, v_na); (fld_39, v_true); (fld_41, v_true)]);
+    ([tok_2; tok_27; tok_62; tok_233], Some [(fld_30, (B "pprint")); (fld_31, (B ";")); (fld_32, (B " ")); (fld_33, v_na); (fld_39, v_true); (fld_41, v_true)]);
+    ([tok_2; tok_95], Some [(fld_30, (B "csv")); (fld_31, (B ";")); (fld_33, v_na); (fld_39, v_true)]);
+    ([tok_2; tok_27; tok_53], Some [(fld_30, (B "csv")); (fld_31, (B ";")); (fld_33, v_na); (fld_39, v_true)]);
+    ([tok_2; tok_16], Some [(fld_31, (B ";")); (fld_39, v_true)]);
+    ([tok_2; tok_27; tok_56], Some [(fld_31, (B ";")); (fld_39, v_true)]);
+    ([tok_2; tok_96], Some [(fld_30, (B "json")); (fld_31, (B ";")); (fld_32, v_na); (fld_33, v_na); (fld_39, v_true); (fld_65, v_false); (fld_66, v_true)]);
+    ([tok_2; tok_27; tok_57], Some [(fld_30, (B "json")); (fld_31, (B ";")); (fld_32, v_na); (fld_33, v_na); (fld_39, v_true); (fld_65, v_false); (fld_66, v_true)]);
+    ([tok_2; tok_97], Some [(fld_30, (B "jsonl")); (fld_31, (B ";")); (fld_32, (B "")); (fld_33, (B "")); (fld_39, v_true); (fld_65, v_false); (fld_66, v_true)]);
+    ([tok_2; tok_27; tok_58], Some [(fld_30, (B "jsonl")); (fld_31, (B ";")); (fld_32, (B "")); (fld_33, (B "")); (fld_39, v_true); (fld_65, v_false); (fld_66, v_true)]);
+    ([tok_2; tok_98], Some [(fld_30, (B "markdown")); (fld_31, (B ";")); (fld_32, (B " ")); (fld_33, v_na); (fld_39, v_true)]);
+    ([tok_2; tok_27; tok_59], Some [(fld_30, (B "markdown")); (fld_31, (B ";")); (fld_32, (B " ")); (fld_33, v_na); (fld_39, v_true)]);
+    ([tok_2; tok_99], Some [(fld_30, (B "nidx")); (fld_31, (B ";")); (fld_32, (B " ")); (fld_33, v_na); (fld_37, v_true); (fld_39, v_true)]);
+    ([tok_2; tok_27; tok_61], Some [(fld_30, (B "nidx")); (fld_31, (B ";")); (fld_32, (B " ")); (fld_33, v_na); (fld_37, v_true); (fld_39, v_true)]);
+    ([tok_2; tok_100], Some [(fld_30, (B "pprint")); (fld_31, (B ";")); (fld_32, (B " ")); (fld_33, v_na); (fld_39, v_true)]);
+    ([tok_2; tok_27; tok_62], Some [(fld_30, (B "pprint")); (fld_31, (B ";")); (fld_32, (B " ")); (fld_33, v_na); (fld_39, v_true)]);
+    ([tok_2; tok_101], Some [(fld_30, (B "tsv")); (fld_31, (B ";")); (fld_32, (bs [9]%N)); (fld_33, v_na); (fld_37, v_true); (fld_39, v_true)]);
+    ([tok_2; tok_27; tok_64], Some [(fld_30, (B "tsv")); (fld_31, (B ";")); (fld_32, (bs [9]%N)); (fld_33, v_na); (fld_37, v_true); (fld_39, v_true)]);
+    ([tok_2; tok_102], Some [(fld_30, (B "xtab")); (fld_31, (B ";")); (fld_32, (bs [10]%N)); (fld_33, (B " ")); (fld_39, v_true)]);
+    ([tok_2; tok_27; tok_68], Some [(fld_30, (B "xtab")); (fld_31, (B ";")); (fld_32, (bs [10]%N)); (fld_33, (B " ")); (fld_39, v_true)]);
+    ([tok_2; tok_103], Some [(fld_30, (B "yaml")); (fld_31, (B ";")); (fld_32, v_na); (fld_33, v_na); (fld_39, v_true); (fld_65, v_false); (fld_66, v_true)]);
+    ([tok_2; tok_27; tok_69], Some [(fld_30, (B "yaml")); (fld_31, (B ";")); (fld_32, v_na); (fld_33, v_na); (fld_39, v_true); (fld_65, v_false); (fld_66, v_true)]);
+    ([tok_2; tok_104], Some [(fld_0, (B "json")); (fld_1, v_na); (fld_2, v_na); (fld_3, v_na); (fld_30, (B "pprint")); (fld_31, (B ";")); (fld_32, (B " ")); (fld_33, v_na); (fld_39, v_true); (fld_41, v_true)]);
+    ([tok_2; tok_29; tok_62; tok_233], Some [(fld_0, (B "json")); (fld_1, v_na); (fld_2, v_na); (fld_3, v_na); (fld_30, (B "pprint")); (fld_31, (B ";")); (fld_32, (B " ")); (fld_33, v_na); (fld_39, v_true); (fld_41, v_true)]);
+    ([tok_2; tok_105], Some [(fld_0, (B "json")); (fld_1, v_na); (fld_2, v_na); (fld_3, v_na); (fld_30, (B "csv")); (fld_31, (B ";")); (fld_33, v_na); (fld_39, v_true)]);
+    ([tok_2; tok_29; tok_53], Some [(fld_0, (B "json")); (fld_1, v_na); (fld_2, v_na); (fld_3, v_na); (fld_30, (B "csv")); (fld_31, (B ";")); (fld_33, v_na); (fld_39, v_true)]);
+    ([tok_2; tok_106], Some [(fld_0, (B "json")); (fld_1, v_na); (fld_2, v_na); (fld_3, v_na); (fld_31, (B ";")); (fld_39, v_true)]);
+    ([tok_2; tok_29; tok_56], Some [(fld_0, (B "json")); (fld_1, v_na); (fld_2, v_na); (fld_3, v_na); (fld_31, (B ";")); (fld_39, v_true)]);
+    ([tok_2; tok_44], Some [(fld_0, (B "json")); (fld_1, v_na); (fld_2, v_na); (fld_3, v_na); (fld_30, (B "json")); (fld_31, (B ";")); (fld_32, v_na); (fld_33, v_na); (fld_39, v_true); (fld_65, v_false)]);
+    ([tok_2; tok_29; tok_57], Some [(fld_0, (B "json")); (fld_1, v_na); (fld_2, v_na); (fld_3, v_na); (fld_30, (B "json")); (fld_31, (B ";")); (fld_32, v_na); (fld_33, v_na); (fld_39, v_true); (fld_65, v_false)]);
+    ([tok_2; tok_107], Some [(fld_0, (B "json")); (fld_1, v_na); (fld_2, v_na); (fld_3, v_na); (fld_30, (B "jsonl")); (fld_31, (B ";")); (fld_32, (B "")); (fld_33, (B "")); (fld_39, v_true); (fld_65, v_false)]);
+    ([tok_2; tok_29; tok_58], Some [(fld_0, (B "json")); (fld_1, v_na); (fld_2, v_na); (fld_3, v_na); (fld_30, (B "jsonl")); (fld_31, (B ";")); (fld_32, (B "")); (fld_33, (B "")); (fld_39, v_true); (fld_65, v_false)]);
+    ([tok_2; tok_108], Some [(fld_0, (B "json")); (fld_1, v_na); (fld_2, v_na); (fld_3, v_na); (fld_30, (B "markdown")); (fld_31, (B ";")); (fld_32, (B " ")); (fld_33, v_na); (fld_39, v_true)]);
+    ([tok_2; tok_29; tok_59], Some [(fld_0, (B "json")); (fld_1, v_na); (fld_2, v_na); (fld_3, v_na); (fld_30, (B "markdown")); (fld_31, (B ";")); (fld_32, (B " ")); (fld_33, v_na); (fld_39, v_true)]);
+    ([tok_2; tok_109], Some [(fld_0, (B "json")); (fld_1, v_na); (fld_2, v_na); (fld_3, v_na); (fld_30, (B "nidx")); (fld_31, (B ";")); (fld_32, (B " ")); (fld_33, v_na); (fld_39, v_true)]);
+    ([tok_2; tok_29; tok_61], Some [(fld_0, (B "json")); (fld_1, v_na); (fld_2, v_na); (fld_3, v_na); (fld_30, (B "nidx")); (fld_31, (B ";")); (fld_32, (B " ")); (fld_33, v_na); (fld_37, v_true); (fld_39, v_true)]);
+    ([tok_2; tok_110], Some [(fld_0, (B "json")); (fld_1, v_na); (fld_2, v_na); (fld_3, v_na); (fld_30, (B "pprint")); (fld_31, (B ";")); (fld_32, (B " ")); (fld_33, v_na); (fld_39, v_true)]);
+    ([tok_2; tok_29; tok_62], Some [(fld_0, (B "json")); (fld_1, v_na); (fld_2, v_na); (fld_3, v_na); (fld_30, (B "pprint")); (fld_31, (B ";")); (fld_32, (B " ")); (fld_33, v_na); (fld_39, v_true)]);
+    ([tok_2; tok_111], Some [(fld_0, (B "json")); (fld_1, v_na); (fld_2, v_na); (fld_3, v_na); (fld_30, (B "tsv")); (fld_31, (B ";")); (fld_32, (bs [9]%N)); (fld_33, v_na); (fld_39, v_true)]);
+    ([tok_2; tok_29; tok_64], Some [(fld_0, (B "json")); (fld_1, v_na); (fld_2, v_na); (fld_3, v_na); (fld_30, (B "tsv")); (fld_31, (B ";")); (fld_32, (bs [9]%N)); (fld_33, v_na); (fld_37, v_true); (fld_39, v_true)]);
+    ([tok_2; tok_112], Some [(fld_0, (B "json")); (fld_1, v_na); (fld_2, v_na); (fld_3, v_na); (fld_30, (B "xtab")); (fld_31, (B ";")); (fld_32, (bs [10]%N)); (fld_33, (B " ")); (fld_39, v_true)]);
+    ([tok_2; tok_29; tok_68], Some [(fld_0, (B "json")); (fld_1, v_na); (fld_2, v_na); (fld_3, v_na); (fld_30, (B "xtab")); (fld_31, (B ";")); (fld_32, (bs [10]%N)); (fld_33, (B " ")); (fld_39, v_true)]);
+    ([tok_2; tok_113], Some [(fld_0, (B "json")); (fld_1, v_na); (fld_2, v_na); (fld_3, v_na); (fld_30, (B "yaml")); (fld_31, (B ";")); (fld_32, v_na); (fld_33, v_na); (fld_39, v_true); (fld_65, v_false)]);
+    ([tok_2; tok_29; tok_69], Some [(fld_0, (B "json")); (fld_1, v_na); (fld_2, v_na); (fld_3, v_na); (fld_30, (B "yaml")); (fld_31, (B ";")); (fld_32, v_na); (fld_33, v_na); (fld_39, v_true); (fld_65, v_false)]);
+    ([tok_2; tok_114], Some [(fld_0, (B "json")); (fld_1, v_na); (fld_2, v_na); (fld_3, v_na); (fld_30, (B "pprint")); (fld_31, (B ";")); (fld_32, (B " ")); (fld_33, v_na); (fld_39, v_true); (fld_41, v_true)]);
+    ([tok_2; tok_30; tok_62; tok_233], Some [(fld_0, (B "json")); (fld_1, v_na); (fld_2, v_na); (fld_3, v_na); (fld_30, (B "pprint")); (fld_31, (B ";")); (fld_32, (B " ")); (fld_33, v_na); (fld_39, v_true); (fld_41, v_true)]);
+    ([tok_2; tok_115], Some [(fld_0, (B "json")); (fld_1, v_na); (fld_2, v_na); (fld_3, v_na); (fld_30, (B "csv")); (fld_31, (B ";")); (fld_33, v_na); (fld_39, v_true)]);
+    ([tok_2; tok_30; tok_53], Some [(fld_0, (B "json")); (fld_1, v_na); (fld_2, v_na); (fld_3, v_na); (fld_30, (B "csv")); (fld_31, (B ";")); (fld_33, v_na); (fld_39, v_true)]);
+    ([tok_2; tok_116], Some [(fld_0, (B "json")); (fld_1, v_na); (fld_2, v_na); (fld_3, v_na); (fld_31, (B ";")); (fld_39, v_true)]);
+    ([tok_2; tok_30; tok_56], Some [(fld_0, (B "json")); (fld_1, v_na); (fld_2, v_na); (fld_3, v_na); (fld_31, (B ";")); (fld_39, v_true)]);
+    ([tok_2; tok_117], Some [(fld_0, (B "json")); (fld_1, v_na); (fld_2, v_na); (fld_3, v_na); (fld_30, (B "json")); (fld_31, (B ";")); (fld_32, v_na); (fld_33, v_na); (fld_39, v_true); (fld_65, v_false)]);
+    ([tok_2; tok_30; tok_57], Some [(fld_0, (B "json")); (fld_1, v_na); (fld_2, v_na); (fld_3, v_na); (fld_30, (B "json")); (fld_31, (B ";")); (fld_32, v_na); (fld_33, v_na); (fld_39, v_true); (fld_65, v_false)]);
+    ([tok_2; tok_46], Some [(fld_0, (B "json")); (fld_1, v_na); (fld_2, v_na); (fld_3, v_na); (fld_30, (B "jsonl")); (fld_31, (B ";")); (fld_32, (B "")); (fld_33, (B "")); (fld_39, v_true); (fld_65, v_false)]);
+    ([tok_2; tok_30; tok_58], Some [(fld_0, (B "json")); (fld_1, v_na); (fld_2, v_na); (fld_3, v_na); (fld_30, (B "jsonl")); (fld_31, (B ";")); (fld_32, (B "")); (fld_33, (B "")); (fld_39, v_true); (fld_65, v_false)]);
+    ([tok_2; tok_118], Some [(fld_0, (B "json")); (fld_1, v_na); (fld_2, v_na); (fld_3, v_na); (fld_30, (B "markdown")); (fld_31, (B ";")); (fld_32, (B " ")); (fld_33, v_na); (fld_39, v_true)]);
+    ([tok_2; tok_30; tok_59], Some [(fld_0, (B "json")); (fld_1, v_na); (fld_2, v_na); (fld_3, v_na); (fld_30, (B "markdown")); (fld_31, (B ";")); (fld_32, (B " ")); (fld_33, v_na); (fld_39, v_true)]);
+    ([tok_2; tok_119], Some [(fld_0, (B "json")); (fld_1, v_na); (fld_2, v_na); (fld_3, v_na); (fld_30, (B "nidx")); (fld_31, (B ";")); (fld_32, (B " ")); (fld_33, v_na); (fld_39, v_true)]);
+    ([tok_2; tok_30; tok_61], Some [(fld_0, (B "json")); (fld_1, v_na); (fld_2, v_na); (fld_3, v_na); (fld_30, (B "nidx")); (fld_31, (B ";")); (fld_32, (B " ")); (fld_33, v_na); (fld_37, v_true); (fld_39, v_true)]);
+    ([tok_2; tok_120], Some [(fld_0, (B "json")); (fld_1, v_na); (fld_2, v_na); (fld_3, v_na); (fld_30, (B "pprint")); (fld_31, (B ";")); (fld_32, (B " ")); (fld_33, v_na); (fld_39, v_true)]);
+    ([tok_2; tok_30; tok_62], Some [(fld_0, (B "json")); (fld_1, v_na); (fld_2, v_na); (fld_3, v_na); (fld_30, (B "pprint")); (fld_31, (B ";")); (fld_32, (B " ")); (fld_33, v_na); (fld_39, v_true)]);
+    ([tok_2; tok_121], Some [(fld_0, (B "json")); (fld_1, v_na); (fld_2, v_na); (fld_3, v_na); (fld_30, (B "tsv")); (fld_31, (B ";")); (fld_32, (bs [9]%N)); (fld_33, v_na); (fld_39, v_true)]);
+    ([tok_2; tok_30; tok_64], Some [(fld_0, (B "json")); (fld_1, v_na); (fld_2, v_na); (fld_3, v_na); (fld_30, (B "tsv")); (fld_31, (B ";")); (fld_32, (bs [9]%N)); (fld_33, v_na); (fld_37, v_true); (fld_39, v_true)]);
+    ([tok_2; tok_122], Some [(fld_0, (B "json")); (fld_1, v_na); (fld_2, v_na); (fld_3, v_na); (fld_30, (B "xtab")); (fld_31, (B ";")); (fld_32, (bs [10]%N)); (fld_33, (B " ")); (fld_39, v_true)]);
+    ([tok_2; tok_30; tok_68], Some [(fld_0, (B "json")); (fld_1, v_na); (fld_2, v_na); (fld_3, v_na); (fld_30, (B "xtab")); (fld_31, (B ";")); (fld_32, (bs [10]%N)); (fld_33, (B " ")); (fld_39, v_true)]);
+    ([tok_2; tok_123], Some [(fld_0, (B "json")); (fld_1, v_na); (fld_2, v_na); (fld_3, v_na); (fld_30, (B "yaml")); (fld_31, (B ";")); (fld_32, v_na); (fld_33, v_na); (fld_39, v_true); (fld_65, v_false)]);
+    ([tok_2; tok_30; tok_69], Some [(fld_0, (B "json")); (fld_1, v_na); (fld_2, v_na); (fld_3, v_na); (fld_30, (B "yaml")); (fld_31, (B ";")); (fld_32, v_na); (fld_33, v_na); (fld_39, v_true); (fld_65, v_false)]);
+    ([tok_2; tok_124], Some [(fld_0, (B "markdown")); (fld_1, (B " ")); (fld_2, v_na); (fld_30, (B "csv")); (fld_31, (B ";")); (fld_33, v_na); (fld_39, v_true)]);
+    ([tok_2; tok_31; tok_53], Some [(fld_0, (B "markdown")); (fld_1, (B " ")); (fld_2, v_na); (fld_30, (B "csv")); (fld_31, (B ";")); (fld_33, v_na); (fld_39, v_true)]);
+    ([tok_2; tok_125], Some [(fld_0, (B "markdown")); (fld_1, (B " ")); (fld_2, v_na); (fld_31, (B ";")); (fld_39, v_true)]);
+    ([tok_2; tok_31; tok_56], Some [(fld_0, (B "markdown")); (fld_1, (B " ")); (fld_2, v_na); (fld_31, (B ";")); (fld_39, v_true)]);
+    ([tok_2; tok_126], Some [(fld_0, (B "markdown")); (fld_1, (B " ")); (fld_2, v_na); (fld_30, (B "json")); (fld_31, (B ";")); (fld_32, v_na); (fld_33, v_na); (fld_39, v_true); (fld_65, v_false); (fld_66, v_true)]);
+    ([tok_2; tok_31; tok_57], Some [(fld_0, (B "markdown")); (fld_1, (B " ")); (fld_2, v_na); (fld_30, (B "json")); (fld_31, (B ";")); (fld_32, v_na); (fld_33, v_na); (fld_39, v_true); (fld_65, v_false); (fld_66, v_true)]);
+    ([tok_2; tok_127], Some [(fld_0, (B "markdown")); (fld_1, (B " ")); (fld_2, v_na); (fld_30, (B "jsonl")); (fld_31, (B ";")); (fld_32, (B "")); (fld_33, (B "")); (fld_39, v_true); (fld_65, v_false); (fld_66, v_true)]);
+    ([tok_2; tok_31; tok_58], Some [(fld_0, (B "markdown")); (fld_1, (B " ")); (fld_2, v_na); (fld_30, (B "jsonl")); (fld_31, (B ";")); (fld_32, (B "")); (fld_33, (B "")); (fld_39, v_true); (fld_65, v_false); (fld_66, v_true)]);
+    ([tok_2; tok_128], Some [(fld_0, (B "markdown")); (fld_1, (B " ")); (fld_2, v_na); (fld_30, (B "nidx")); (fld_31, (B ";")); (fld_32, (B " ")); (fld_33, v_na); (fld_39, v_true)]);
+    ([tok_2; tok_31; tok_61], Some [(fld_0, (B "markdown")); (fld_1, (B " ")); (fld_2, v_na); (fld_30, (B "nidx")); (fld_31, (B ";")); (fld_32, (B " ")); (fld_33, v_na); (fld_37, v_true); (fld_39, v_true)]);
+    ([tok_2; tok_129], Some [(fld_0, (B "markdown")); (fld_1, (B " ")); (fld_2, v_na); (fld_30, (B "pprint")); (fld_31, (B ";")); (fld_32, (B " ")); (fld_33, v_na); (fld_39, v_true)]);
+    ([tok_2; tok_31; tok_62], Some [(fld_0, (B "markdown")); (fld_1, (B " ")); (fld_2, v_na); (fld_30, (B "pprint")); (fld_31, (B ";")); (fld_32, (B " ")); (fld_33, v_na); (fld_39, v_true)]);
+    ([tok_2; tok_130], Some [(fld_0, (B "markdown")); (fld_1, (B " ")); (fld_2, v_na); (fld_30, (B "tsv")); (fld_31, (B ";")); (fld_32, (bs [9]%N)); (fld_33, v_na); (fld_39, v_true)]);
+    ([tok_2; tok_31; tok_64], Some [(fld_0, (B "markdown")); (fld_1, (B " ")); (fld_2, v_na); (fld_30, (B "tsv")); (fld_31, (B ";")); (fld_32, (bs [9]%N)); (fld_33, v_na); (fld_37, v_true); (fld_39, v_true)]);
+    ([tok_2; tok_131], Some [(fld_0, (B "markdown")); (fld_1, (B " ")); (fld_2, v_na); (fld_30, (B "xtab")); (fld_31, (B ";")); (fld_32, (bs [10]%N)); (fld_33, (B " ")); (fld_39, v_true)]);
+    ([tok_2; tok_31; tok_68], Some [(fld_0, (B "markdown")); (fld_1, (B " ")); (fld_2, v_na); (fld_30, (B "xtab")); (fld_31, (B ";")); (fld_32, (bs [10]%N)); (fld_33, (B " ")); (fld_39, v_true)]);
+    ([tok_2; tok_132], Some [(fld_0, (B "markdown")); (fld_1, (B " ")); (fld_2, v_na); (fld_30, (B "yaml")); (fld_31, (B ";")); (fld_32, v_na); (fld_33, v_na); (fld_39, v_true); (fld_65, v_false); (fld_66, v_true)]);
+    ([tok_2; tok_31; tok_69], Some [(fld_0, (B "markdown")); (fld_1, (B " ")); (fld_2, v_na); (fld_30, (B "yaml")); (fld_31, (B ";")); (fld_32, v_na); (fld_33, v_na); (fld_39, v_true); (fld_65, v_false); (fld_66, v_true)]);
+    ([tok_2; tok_198], Some [(fld_0, (B "markdown")); (fld_1, (B " ")); (fld_2, v_na); (fld_30, (B "markdown")); (fld_31, (B ";")); (fld_32, (B " ")); (fld_33, v_na); (fld_39, v_true); (fld_45, v_true)]);
+    ([tok_2; tok_47; tok_199], Some [(fld_0, (B "markdown")); (fld_1, (B " ")); (fld_2, v_na); (fld_30, (B "markdown")); (fld_31, (B ";")); (fld_32, (B " ")); (fld_33, v_na); (fld_39, v_true); (fld_45, v_true)]);
+    ([tok_2; tok_197], Some [(fld_0, (B "markdown")); (fld_1, (B " ")); (fld_2, v_na); (fld_30, (B "markdown")); (fld_31, (B ";")); (fld_32, (B " ")); (fld_33, v_na); (fld_39, v_true); (fld_45, v_true)]);
+    ([tok_2; tok_133], Some [(fld_0, (B "nidx")); (fld_1, (B " ")); (fld_2, v_na); (fld_5, (B "([ \t])+")); (fld_30, (B "pprint")); (fld_31, (B ";")); (fld_32, (B " ")); (fld_33, v_na); (fld_39, v_true); (fld_41, v_true)]);
+    ([tok_2; tok_33; tok_62; tok_233], Some [(fld_0, (B "nidx")); (fld_1, (B " ")); (fld_2, v_na); (fld_5, (B "([ \t])+")); (fld_30, (B "pprint")); (fld_31, (B ";")); (fld_32, (B " ")); (fld_33, v_na); (fld_39, v_true); (fld_41, v_true)]);
+    ([tok_2; tok_134], Some [(fld_0, (B "nidx")); (fld_1, (B " ")); (fld_2, v_na); (fld_5, (B "([ \t])+")); (fld_30, (B "csv")); (fld_31, (B ";")); (fld_33, v_na); (fld_39, v_true)]);
+    ([tok_2; tok_33; tok_53], Some [(fld_0, (B "nidx")); (fld_1, (B " ")); (fld_2, v_na); (fld_5, (B "([ \t])+")); (fld_30, (B "csv")); (fld_31, (B ";")); (fld_33, v_na); (fld_39, v_true)]);
+    ([tok_2; tok_135], Some [(fld_0, (B "nidx")); (fld_1, (B " ")); (fld_2, v_na); (fld_5, (B "([ \t])+")); (fld_31, (B ";")); (fld_39, v_true)]);
+    ([tok_2; tok_33; tok_56], Some [(fld_0, (B "nidx")); (fld_1, (B " ")); (fld_2, v_na); (fld_5, (B "([ \t])+")); (fld_31, (B ";")); (fld_39, v_true)]);
+    ([tok_2; tok_136], Some [(fld_0, (B "nidx")); (fld_1, (B " ")); (fld_2, v_na); (fld_5, (B "([ \t])+")); (fld_30, (B "json")); (fld_31, (B ";")); (fld_32, v_na); (fld_33, v_na); (fld_39, v_true); (fld_65, v_false); (fld_66, v_true)]);
+    ([tok_2; tok_33; tok_57], Some [(fld_0, (B "nidx")); (fld_1, (B " ")); (fld_2, v_na); (fld_5, (B "([ \t])+")); (fld_30, (B "json")); (fld_31, (B ";")); (fld_32, v_na); (fld_33, v_na); (fld_39, v_true); (fld_65, v_false); (fld_66, v_true)]);
+    ([tok_2; tok_137], Some [(fld_0, (B "nidx")); (fld_1, (B " ")); (fld_2, v_na); (fld_5, (B "([ \t])+")); (fld_30, (B "jsonl")); (fld_31, (B ";")); (fld_32, (B "")); (fld_33, (B "")); (fld_39, v_true); (fld_65, v_false); (fld_66, v_true)]);
+    ([tok_2; tok_33; tok_58], Some [(fld_0, (B "nidx")); (fld_1, (B " ")); (fld_2, v_na); (fld_5, (B "([ \t])+")); (fld_30, (B "jsonl")); (fld_31, (B ";")); (fld_32, (B "")); (fld_33, (B "")); (fld_39, v_true); (fld_65, v_false); (fld_66, v_true)]);
+    ([tok_2; tok_138], Some [(fld_0, (B "nidx")); (fld_1, (B " ")); (fld_2, v_na); (fld_5, (B "([ \t])+")); (fld_30, (B "markdown")); (fld_31, (B ";")); (fld_32, (B " ")); (fld_33, v_na); (fld_39, v_true)]);
+    ([tok_2; tok_33; tok_59], Some [(fld_0, (B "nidx")); (fld_1, (B " ")); (fld_2, v_na); (fld_5, (B "([ \t])+")); (fld_30, (B "markdown")); (fld_31, (B ";")); (fld_32, (B " ")); (fld_33, v_na); (fld_39, v_true)]);
+    ([tok_2; tok_50], Some [(fld_0, (B "nidx")); (fld_1, (B " ")); (fld_2, v_na); (fld_5, (B "([ \t])+")); (fld_30, (B "nidx")); (fld_31, (B ";")); (fld_32, (B " ")); (fld_33, v_na); (fld_39, v_true)]);
+    ([tok_2; tok_33; tok_61], Some [(fld_0, (B "nidx")); (fld_1, (B " ")); (fld_2, v_na); (fld_5, (B "([ \t])+")); (fld_30, (B "nidx")); (fld_31, (B ";")); (fld_32, (B " ")); (fld_33, v_na); (fld_37, v_true); (fld_39, v_true)]);
+    ([tok_2; tok_139], Some [(fld_0, (B "nidx")); (fld_1, (B " ")); (fld_2, v_na); (fld_5, (B "([ \t])+")); (fld_30, (B "pprint")); (fld_31, (B ";")); (fld_32, (B " ")); (fld_33, v_na); (fld_39, v_true)]);
+    ([tok_2; tok_33; tok_62], Some [(fld_0, (B "nidx")); (fld_1, (B " ")); (fld_2, v_na); (fld_5, (B "([ \t])+")); (fld_30, (B "pprint")); (fld_31, (B ";")); (fld_32, (B " ")); (fld_33, v_na); (fld_39, v_true)]);
+    ([tok_2; tok_140], Some [(fld_0, (B "nidx")); (fld_1, (B " ")); (fld_2, v_na); (fld_5, (B "([ \t])+")); (fld_30, (B "tsv")); (fld_31, (B ";")); (fld_32, (bs [9]%N)); (fld_33, v_na); (fld_39, v_true)]);
+    ([tok_2; tok_33; tok_64], Some [(fld_0, (B "nidx")); (fld_1, (B " ")); (fld_2, v_na); (fld_5, (B "([ \t])+")); (fld_30, (B "tsv")); (fld_31, (B ";")); (fld_32, (bs [9]%N)); (fld_33, v_na); (fld_37, v_true); (fld_39, v_true)]);
+    ([tok_2; tok_141], Some [(fld_0, (B "nidx")); (fld_1, (B " ")); (fld_2, v_na); (fld_5, (B "([ \t])+")); (fld_30, (B "xtab")); (fld_31, (B ";")); (fld_32, (bs [10]%N)); (fld_33, (B " ")); (fld_39, v_true)]);
+    ([tok_2; tok_33; tok_68], Some [(fld_0, (B "nidx")); (fld_1, (B " ")); (fld_2, v_na); (fld_5, (B "([ \t])+")); (fld_30, (B "xtab")); (fld_31, (B ";")); (fld_32, (bs [10]%N)); (fld_33, (B " ")); (fld_39, v_true)]);
+    ([tok_2; tok_142], Some [(fld_0, (B "nidx")); (fld_1, (B " ")); (fld_2, v_na); (fld_5, (B "([ \t])+")); (fld_30, (B "yaml")); (fld_31, (B ";")); (fld_32, v_na); (fld_33, v_na); (fld_39, v_true); (fld_65, v_false); (fld_66, v_true)]);
+    ([tok_2; tok_33; tok_69], Some [(fld_0, (B "nidx")); (fld_1, (B " ")); (fld_2, v_na); (fld_5, (B "([ \t])+")); (fld_30, (B "yaml")); (fld_31, (B ";")); (fld_32, v_na); (fld_33, v_na); (fld_39, v_true); (fld_65, v_false); (fld_66, v_true)]);
+    ([tok_2; tok_143], Some [(fld_0, (B "pprint")); (fld_1, (B " ")); (fld_2, v_na); (fld_4, v_true); (fld_8, v_true); (fld_30, (B "csv")); (fld_31, (B ";")); (fld_33, v_na); (fld_39, v_true)]);
+    ([tok_2; tok_34; tok_53], Some [(fld_0, (B "pprint")); (fld_1, (B " ")); (fld_2, v_na); (fld_4, v_true); (fld_8, v_true); (fld_30, (B "csv")); (fld_31, (B ";")); (fld_33, v_na); (fld_39, v_true)]);
+    ([tok_2; tok_144], Some [(fld_0, (B "pprint")); (fld_1, (B " ")); (fld_2, v_na); (fld_4, v_true); (fld_8, v_true); (fld_31, (B ";")); (fld_39, v_true)]);
+    ([tok_2; tok_34; tok_56], Some [(fld_0, (B "pprint")); (fld_1, (B " ")); (fld_2, v_na); (fld_4, v_true); (fld_8, v_true); (fld_31, (B ";")); (fld_39, v_true)]);
+    ([tok_2; tok_145], Some [(fld_0, (B "pprint")); (fld_1, (B " ")); (fld_2, v_na); (fld_4, v_true); (fld_8, v_true); (fld_30, (B "json")); (fld_31, (B ";")); (fld_32, v_na); (fld_33, v_na); (fld_39, v_true); (fld_65, v_false); (fld_66, v_true)]);
+    ([tok_2; tok_34; tok_57], Some [(fld_0, (B "pprint")); (fld_1, (B " ")); (fld_2, v_na); (fld_4, v_true); (fld_8, v_true); (fld_30, (B "json")); (fld_31, (B ";")); (fld_32, v_na); (fld_33, v_na); (fld_39, v_true); (fld_65, v_false); (fld_66, v_true)]);
+    ([tok_2; tok_146], Some [(fld_0, (B "pprint")); (fld_1, (B " ")); (fld_2, v_na); (fld_4, v_true); (fld_8, v_true); (fld_30, (B "jsonl")); (fld_31, (B ";")); (fld_32, (B "")); (fld_33, (B "")); (fld_39, v_true); (fld_65, v_false); (fld_66, v_true)]);
+    ([tok_2; tok_34; tok_58], Some [(fld_0, (B "pprint")); (fld_1, (B " ")); (fld_2, v_na); (fld_4, v_true); (fld_8, v_true); (fld_30, (B "jsonl")); (fld_31, (B ";")); (fld_32, (B "")); (fld_33, (B "")); (fld_39, v_true); (fld_65, v_false); (fld_66, v_true)]);
+    ([tok_2; tok_147], Some [(fld_0, (B "pprint")); (fld_1, (B " ")); (fld_2, v_na); (fld_4, v_true); (fld_8, v_true); (fld_30, (B "markdown")); (fld_31, (B ";")); (fld_32, (B " ")); (fld_33, v_na); (fld_39, v_true)]);
+    ([tok_2; tok_34; tok_59], Some [(fld_0, (B "pprint")); (fld_1, (B " ")); (fld_2, v_na); (fld_4, v_true); (fld_8, v_true); (fld_30, (B "markdown")); (fld_31, (B ";")); (fld_32, (B " ")); (fld_33, v_na); (fld_39, v_true)]);
+    ([tok_2; tok_148], Some [(fld_0, (B "pprint")); (fld_1, (B " ")); (fld_2, v_na); (fld_4, v_true); (fld_8, v_true); (fld_30, (B "nidx")); (fld_31, (B ";")); (fld_32, (B " ")); (fld_33, v_na); (fld_39, v_true)]);
+    ([tok_2; tok_34; tok_61], Some [(fld_0, (B "pprint")); (fld_1, (B " ")); (fld_2, v_na); (fld_4, v_true); (fld_8, v_true); (fld_30, (B "nidx")); (fld_31, (B ";")); (fld_32, (B " ")); (fld_33, v_na); (fld_37, v_true); (fld_39, v_true)]);
+    ([tok_2; tok_71], Some [(fld_0, (B "pprint")); (fld_1, (B " ")); (fld_2, v_na); (fld_4, v_true); (fld_8, v_true); (fld_30, (B "pprint")); (fld_31, (B ";")); (fld_32, (B " ")); (fld_33, v_na); (fld_39, v_true)]);
+    ([tok_2; tok_34; tok_62], Some [(fld_0, (B "pprint")); (fld_1, (B " ")); (fld_2, v_na); (fld_4, v_true); (fld_8, v_true); (fld_30, (B "pprint")); (fld_31, (B ";")); (fld_32, (B " ")); (fld_33, v_na); (fld_39, v_true)]);
+    ([tok_2; tok_149], Some [(fld_0, (B "pprint")); (fld_1, (B " ")); (fld_2, v_na); (fld_4, v_true); (fld_8, v_true); (fld_30, (B "tsv")); (fld_31, (B ";")); (fld_32, (bs [9]%N)); (fld_33, v_na); (fld_39, v_true)]);
+    ([tok_2; tok_34; tok_64], Some [(fld_0, (B "pprint")); (fld_1, (B " ")); (fld_2, v_na); (fld_4, v_true); (fld_8, v_true); (fld_30, (B "tsv")); (fld_31, (B ";")); (fld_32, (bs [9]%N)); (fld_33, v_na); (fld_37, v_true); (fld_39, v_true)]);
+    ([tok_2; tok_150], Some [(fld_0, (B "pprint")); (fld_1, (B " ")); (fld_2, v_na); (fld_4, v_true); (fld_8, v_true); (fld_30, (B "xtab")); (fld_31, (B ";")); (fld_32, (bs [10]%N)); (fld_33, (B " ")); (fld_39, v_true)]);
+    ([tok_2; tok_34; tok_68], Some [(fld_0, (B "pprint")); (fld_1, (B " ")); (fld_2, v_na); (fld_4, v_true); (fld_8, v_true); (fld_30, (B "xtab")); (fld_31, (B ";")); (fld_32, (bs [10]%N)); (fld_33, (B " ")); (fld_39, v_true)]);
+    ([tok_2; tok_151], Some [(fld_0, (B "pprint")); (fld_1, (B " ")); (fld_2, v_na); (fld_4, v_true); (fld_8, v_true); (fld_30, (B "yaml")); (fld_31, (B ";")); (fld_32, v_na); (fld_33, v_na); (fld_39, v_true); (fld_65, v_false); (fld_66, v_true)]);
+    ([tok_2; tok_34; tok_69], Some [(fld_0, (B "pprint")); (fld_1, (B " ")); (fld_2, v_na); (fld_4, v_true); (fld_8, v_true); (fld_30, (B "yaml")); (fld_31, (B ";")); (fld_32, v_na); (fld_33, v_na); (fld_39, v_true); (fld_65, v_false); (fld_66, v_true)]);
+    ([tok_2; tok_152], Some [(fld_0, (B "tsv")); (fld_1, (bs [9]%N)); (fld_2, v_na); (fld_30, (B "pprint")); (fld_31, (B ";")); (fld_32, (B " ")); (fld_33, v_na); (fld_39, v_true); (fld_41, v_true)]);
+    ([tok_2; tok_36; tok_62; tok_233], Some [(fld_0, (B "tsv")); (fld_1, (bs [9]%N)); (fld_2, v_na); (fld_30, (B "pprint")); (fld_31, (B ";")); (fld_32, (B " ")); (fld_33, v_na); (fld_39, v_true); (fld_41, v_true)]);
+    ([tok_2; tok_153], Some [(fld_0, (B "tsv")); (fld_1, (bs [9]%N)); (fld_2, v_na); (fld_30, (B "csv")); (fld_31, (B ";")); (fld_33, v_na); (fld_39, v_true)]);
+    ([tok_2; tok_36; tok_53], Some [(fld_0, (B "tsv")); (fld_1, (bs [9]%N)); (fld_2, v_na); (fld_30, (B "csv")); (fld_31, (B ";")); (fld_33, v_na); (fld_39, v_true)]);
+    ([tok_2; tok_154], Some [(fld_0, (B "tsv")); (fld_1, (bs [9]%N)); (fld_2, v_na); (fld_31, (B ";")); (fld_39, v_true)]);
+    ([tok_2; tok_36; tok_56], Some [(fld_0, (B "tsv")); (fld_1, (bs [9]%N)); (fld_2, v_na); (fld_31, (B ";")); (fld_39, v_true)]);
+    ([tok_2; tok_155], Some [(fld_0, (B "tsv")); (fld_1, (bs [9]%N)); (fld_2, v_na); (fld_30, (B "json")); (fld_31, (B ";")); (fld_32, v_na); (fld_33, v_na); (fld_39, v_true); (fld_65, v_false); (fld_66, v_true)]);
+    ([tok_2; tok_36; tok_57], Some [(fld_0, (B "tsv")); (fld_1, (bs [9]%N)); (fld_2, v_na); (fld_30, (B "json")); (fld_31, (B ";")); (fld_32, v_na); (fld_33, v_na); (fld_39, v_true); (fld_65, v_false); (fld_66, v_true)]);
+    ([tok_2; tok_156], Some [(fld_0, (B "tsv")); (fld_1, (bs [9]%N)); (fld_2, v_na); (fld_30, (B "jsonl")); (fld_31, (B ";")); (fld_32, (B "")); (fld_33, (B "")); (fld_39, v_true); (fld_65, v_false); (fld_66, v_true)]);
+    ([tok_2; tok_36; tok_58], Some [(fld_0, (B "tsv")); (fld_1, (bs [9]%N)); (fld_2, v_na); (fld_30, (B "jsonl")); (fld_31, (B ";")); (fld_32, (B "")); (fld_33, (B "")); (fld_39, v_true); (fld_65, v_false); (fld_66, v_true)]);
+    ([tok_2; tok_157], Some [(fld_0, (B "tsv")); (fld_1, (bs [9]%N)); (fld_2, v_na); (fld_30, (B "markdown")); (fld_31, (B ";")); (fld_32, (B " ")); (fld_33, v_na); (fld_39, v_true)]);
+    ([tok_2; tok_36; tok_59], Some [(fld_0, (B "tsv")); (fld_1, (bs [9]%N)); (fld_2, v_na); (fld_30, (B "markdown")); (fld_31, (B ";")); (fld_32, (B " ")); (fld_33, v_na); (fld_39, v_true)]);
+    ([tok_2; tok_158], Some [(fld_0, (B "tsv")); (fld_1, (bs [9]%N)); (fld_2, v_na); (fld_30, (B "nidx")); (fld_31, (B ";")); (fld_32, (B " ")); (fld_33, v_na); (fld_37, v_true); (fld_39, v_true)]);
+    ([tok_2; tok_36; tok_61], Some [(fld_0, (B "tsv")); (fld_1, (bs [9]%N)); (fld_2, v_na); (fld_30, (B "nidx")); (fld_31, (B ";")); (fld_32, (B " ")); (fld_33, v_na); (fld_37, v_true); (fld_39, v_true)]);
+    ([tok_2; tok_159], Some [(fld_0, (B "tsv")); (fld_1, (bs [9]%N)); (fld_2, v_na); (fld_30, (B "pprint")); (fld_31, (B ";")); (fld_32, (B " ")); (fld_33, v_na); (fld_39, v_true)]);
+    ([tok_2; tok_36; tok_62], Some [(fld_0, (B "tsv")); (fld_1, (bs [9]%N)); (fld_2, v_na); (fld_30, (B "pprint")); (fld_31, (B ";")); (fld_32, (B " ")); (fld_33, v_na); (fld_39, v_true)]);
+    ([tok_2; tok_75], Some [(fld_0, (B "tsv")); (fld_1, (bs [9]%N)); (fld_2, v_na); (fld_30, (B "tsv")); (fld_31, (B ";")); (fld_32, (bs [9]%N)); (fld_33, v_na); (fld_39, v_true)]);
+    ([tok_2; tok_36; tok_64], Some [(fld_0, (B "tsv")); (fld_1, (bs [9]%N)); (fld_2, v_na); (fld_30, (B "tsv")); (fld_31, (B ";")); (fld_32, (bs [9]%N)); (fld_33, v_na); (fld_37, v_true); (fld_39, v_true)]);
+    ([tok_2; tok_160], Some [(fld_0, (B "tsv")); (fld_1, (bs [9]%N)); (fld_2, v_na); (fld_30, (B "xtab")); (fld_31, (B ";")); (fld_32, (bs [10]%N)); (fld_33, (B " ")); (fld_39, v_true)]);
+    ([tok_2; tok_36; tok_68], Some [(fld_0, (B "tsv")); (fld_1, (bs [9]%N)); (fld_2, v_na); (fld_30, (B "xtab")); (fld_31, (B ";")); (fld_32, (bs [10]%N)); (fld_33, (B " ")); (fld_39, v_true)]);
+    ([tok_2; tok_161], Some [(fld_0, (B "tsv")); (fld_1, (bs [9]%N)); (fld_2, v_na); (fld_30, (B "yaml")); (fld_31, (B ";")); (fld_32, v_na); (fld_33, v_na); (fld_39, v_true); (fld_65, v_false); (fld_66, v_true)]);
+    ([tok_2; tok_36; tok_69], Some [(fld_0, (B "tsv")); (fld_1, (bs [9]%N)); (fld_2, v_na); (fld_30, (B "yaml")); (fld_31, (B ";")); (fld_32, v_na); (fld_33, v_na); (fld_39, v_true); (fld_65, v_false); (fld_66, v_true)]);
+    ([tok_2; tok_162], Some [(fld_0, (B "xtab")); (fld_1, (bs [10]%N)); (fld_2, (B " ")); (fld_3, (bs [10;10]%N)); (fld_30, (B "pprint")); (fld_31, (B ";")); (fld_32, (B " ")); (fld_33, v_na); (fld_39, v_true); (fld_41, v_true)]);
+    ([tok_2; tok_40; tok_62; tok_233], Some [(fld_0, (B "xtab")); (fld_1, (bs [10]%N)); (fld_2, (B " ")); (fld_3, (bs [10;10]%N)); (fld_30, (B "pprint")); (fld_31, (B ";")); (fld_32, (B " ")); (fld_33, v_na); (fld_39, v_true); (fld_41, v_true)]);
+    ([tok_2; tok_163], Some [(fld_0, (B "xtab")); (fld_1, (bs [10]%N)); (fld_2, (B " ")); (fld_3, (bs [10;10]%N)); (fld_30, (B "csv")); (fld_31, (B ";")); (fld_33, v_na); (fld_39, v_true)]);
+    ([tok_2; tok_40; tok_53], Some [(fld_0, (B "xtab")); (fld_1, (bs [10]%N)); (fld_2, (B " ")); (fld_3, (bs [10;10]%N)); (fld_30, (B "csv")); (fld_31, (B ";")); (fld_33, v_na); (fld_39, v_true)]);
+    ([tok_2; tok_164], Some [(fld_0, (B "xtab")); (fld_1, (bs [10]%N)); (fld_2, (B " ")); (fld_3, (bs [10;10]%N)); (fld_31, (B ";")); (fld_39, v_true)]);
+    ([tok_2; tok_40; tok_56], Some [(fld_0, (B "xtab")); (fld_1, (bs [10]%N)); (fld_2, (B " ")); (fld_3, (bs [10;10]%N)); (fld_31, (B ";")); (fld_39, v_true)]);
+    ([tok_2; tok_165], Some [(fld_0, (B "xtab")); (fld_1, (bs [10]%N)); (fld_2, (B " ")); (fld_3, (bs [10;10]%N)); (fld_30, (B "json")); (fld_31, (B ";")); (fld_32, v_na); (fld_33, v_na); (fld_39, v_true); (fld_65, v_false); (fld_66, v_true)]);
+    ([tok_2; tok_40; tok_57], Some [(fld_0, (B "xtab")); (fld_1, (bs [10]%N)); (fld_2, (B " ")); (fld_3, (bs [10;10]%N)); (fld_30, (B "json")); (fld_31, (B ";")); (fld_32, v_na); (fld_33, v_na); (fld_39, v_true); (fld_65, v_false); (fld_66, v_true)]);
+    ([tok_2; tok_166], Some [(fld_0, (B "xtab")); (fld_1, (bs [10]%N)); (fld_2, (B " ")); (fld_3, (bs [10;10]%N)); (fld_30, (B "jsonl")); (fld_31, (B ";")); (fld_32, (B "")); (fld_33, (B "")); (fld_39, v_true); (fld_65, v_false); (fld_66, v_true)]);
+    ([tok_2; tok_40; tok_58], Some [(fld_0, (B "xtab")); (fld_1, (bs [10]%N)); (fld_2, (B " ")); (fld_3, (bs [10;10]%N)); (fld_30, (B "jsonl")); (fld_31, (B ";")); (fld_32, (B "")); (fld_33, (B "")); (fld_39, v_true); (fld_65, v_false); (fld_66, v_true)]);
+    ([tok_2; tok_167], Some [(fld_0, (B "xtab")); (fld_1, (bs [10]%N)); (fld_2, (B " ")); (fld_3, (bs [10;10]%N)); (fld_30, (B "markdown")); (fld_31, (B ";")); (fld_32, (B " ")); (fld_33, v_na); (fld_39, v_true)]);
+    ([tok_2; tok_40; tok_59], Some [(fld_0, (B "xtab")); (fld_1, (bs [10]%N)); (fld_2, (B " ")); (fld_3, (bs [10;10]%N)); (fld_30, (B "markdown")); (fld_31, (B ";")); (fld_32, (B " ")); (fld_33, v_na); (fld_39, v_true)]);
+    ([tok_2; tok_168], Some [(fld_0, (B "xtab")); (fld_1, (bs [10]%N)); (fld_2, (B " ")); (fld_3, (bs [10;10]%N)); (fld_30, (B "nidx")); (fld_31, (B ";")); (fld_32, (B " ")); (fld_33, v_na); (fld_39, v_true)]);
+    ([tok_2; tok_40; tok_61], Some [(fld_0, (B "xtab")); (fld_1, (bs [10]%N)); (fld_2, (B " ")); (fld_3, (bs [10;10]%N)); (fld_30, (B "nidx")); (fld_31, (B ";")); (fld_32, (B " ")); (fld_33, v_na); (fld_37, v_true); (fld_39, v_true)]);
+    ([tok_2; tok_169], Some [(fld_0, (B "xtab")); (fld_1, (bs [10]%N)); (fld_2, (B " ")); (fld_3, (bs [10;10]%N)); (fld_30, (B "pprint")); (fld_31, (B ";")); (fld_32, (B " ")); (fld_33, v_na); (fld_39, v_true)]);
+    ([tok_2; tok_40; tok_62], Some [(fld_0, (B "xtab")); (fld_1, (bs [10]%N)); (fld_2, (B " ")); (fld_3, (bs [10;10]%N)); (fld_30, (B "pprint")); (fld_31, (B ";")); (fld_32, (B " ")); (fld_33, v_na); (fld_39, v_true)]);
+    ([tok_2; tok_170], Some [(fld_0, (B "xtab")); (fld_1, (bs [10]%N)); (fld_2, (B " ")); (fld_3, (bs [10;10]%N)); (fld_30, (B "tsv")); (fld_31, (B ";")); (fld_32, (bs [9]%N)); (fld_33, v_na); (fld_39, v_true)]);
+    ([tok_2; tok_40; tok_64], Some [(fld_0, (B "xtab")); (fld_1, (bs [10]%N)); (fld_2, (B " ")); (fld_3, (bs [10;10]%N)); (fld_30, (B "tsv")); (fld_31, (B ";")); (fld_32, (bs [9]%N)); (fld_33, v_na); (fld_37, v_true); (fld_39, v_true)]);
+    ([tok_2; tok_80], Some [(fld_0, (B "xtab")); (fld_1, (bs [10]%N)); (fld_2, (B " ")); (fld_3, (bs [10;10]%N)); (fld_30, (B "xtab")); (fld_31, (B ";")); (fld_32, (bs [10]%N)); (fld_33, (B " ")); (fld_39, v_true)]);
+    ([tok_2; tok_40; tok_68], Some [(fld_0, (B "xtab")); (fld_1, (bs [10]%N)); (fld_2, (B " ")); (fld_3, (bs [10;10]%N)); (fld_30, (B "xtab")); (fld_31, (B ";")); (fld_32, (bs [10]%N)); (fld_33, (B " ")); (fld_39, v_true)]);
+    ([tok_2; tok_171], Some [(fld_0, (B "xtab")); (fld_1, (bs [10]%N)); (fld_2, (B " ")); (fld_3, (bs [10;10]%N)); (fld_30, (B "yaml")); (fld_31, (B ";")); (fld_32, v_na); (fld_33, v_na); (fld_39, v_true); (fld_65, v_false); (fld_66, v_true)]);
+    ([tok_2; tok_40; tok_69], Some [(fld_0, (B "xtab")); (fld_1, (bs [10]%N)); (fld_2, (B " ")); (fld_3, (bs [10;10]%N)); (fld_30, (B "yaml")); (fld_31, (B ";")); (fld_32, v_na); (fld_33, v_na); (fld_39, v_true); (fld_65, v_false); (fld_66, v_true)]);
+    ([tok_2; tok_172], Some [(fld_0, (B "yaml")); (fld_1, v_na); (fld_2, v_na); (fld_3, v_na); (fld_30, (B "csv")); (fld_31, (B ";")); (fld_33, v_na); (fld_39, v_true)]);
+    ([tok_2; tok_41; tok_53], Some [(fld_0, (B "yaml")); (fld_1, v_na); (fld_2, v_na); (fld_3, v_na); (fld_30, (B "csv")); (fld_31, (B ";")); (fld_33, v_na); (fld_39, v_true)]);
+    ([tok_2; tok_173], Some [(fld_0, (B "yaml")); (fld_1, v_na); (fld_2, v_na); (fld_3, v_na); (fld_31, (B ";")); (fld_39, v_true)]);
+    ([tok_2; tok_41; tok_56], Some [(fld_0, (B "yaml")); (fld_1, v_na); (fld_2, v_na); (fld_3, v_na); (fld_31, (B ";")); (fld_39, v_true)]);
+    ([tok_2; tok_174], Some [(fld_0, (B "yaml")); (fld_1, v_na); (fld_2, v_na); (fld_3, v_na); (fld_30, (B "json")); (fld_31, (B ";")); (fld_32, v_na); (fld_33, v_na); (fld_39, v_true); (fld_65, v_false)]);
+    ([tok_2; tok_41; tok_57], Some [(fld_0, (B "yaml")); (fld_1, v_na); (fld_2, v_na); (fld_3, v_na); (fld_30, (B "json")); (fld_31, (B ";")); (fld_32, v_na); (fld_33, v_na); (fld_39, v_true); (fld_65, v_false)]);
+    ([tok_2; tok_175], Some [(fld_0, (B "yaml")); (fld_1, v_na); (fld_2, v_na); (fld_3, v_na); (fld_30, (B "jsonl")); (fld_31, (B ";")); (fld_32, (B "")); (fld_33, (B "")); (fld_39, v_true); (fld_65, v_false)]);
+    ([tok_2; tok_41; tok_58], Some [(fld_0, (B "yaml")); (fld_1, v_na); (fld_2, v_na); (fld_3, v_na); (fld_30, (B "jsonl")); (fld_31, (B ";")); (fld_32, (B "")); (fld_33, (B "")); (fld_39, v_true); (fld_65, v_false)]);
+    ([tok_2; tok_176], Some [(fld_0, (B "yaml")); (fld_1, v_na); (fld_2, v_na); (fld_3, v_na); (fld_30, (B "markdown")); (fld_31, (B ";")); (fld_32, (B " ")); (fld_33, v_na); (fld_39, v_true)]);
+    ([tok_2; tok_41; tok_59], Some [(fld_0, (B "yaml")); (fld_1, v_na); (fld_2, v_na); (fld_3, v_na); (fld_30, (B "markdown")); (fld_31, (B ";")); (fld_32, (B " ")); (fld_33, v_na); (fld_39, v_true)]);
+    ([tok_2; tok_177], Some [(fld_0, (B "yaml")); (fld_1, v_na); (fld_2, v_na); (fld_3, v_na); (fld_30, (B "nidx")); (fld_31, (B ";")); (fld_32, (B " ")); (fld_33, v_na); (fld_39, v_true)]);
+    ([tok_2; tok_41; tok_61], Some [(fld_0, (B "yaml")); (fld_1, v_na); (fld_2, v_na); (fld_3, v_na); (fld_30, (B "nidx")); (fld_31, (B ";")); (fld_32, (B " ")); (fld_33, v_na); (fld_37, v_true); (fld_39, v_true)]);
+    ([tok_2; tok_178], Some [(fld_0, (B "yaml")); (fld_1, v_na); (fld_2, v_na); (fld_3, v_na); (fld_30, (B "pprint")); (fld_31, (B ";")); (fld_32, (B " ")); (fld_33, v_na); (fld_39, v_true)]);
+    ([tok_2; tok_41; tok_62], Some [(fld_0, (B "yaml")); (fld_1, v_na); (fld_2, v_na); (fld_3, v_na); (fld_30, (B "pprint")); (fld_31, (B ";")); (fld_32, (B " ")); (fld_33, v_na); (fld_39, v_true)]);
+    ([tok_2; tok_179], Some [(fld_0, (B "yaml")); (fld_1, v_na); (fld_2, v_na); (fld_3, v_na); (fld_30, (B "tsv")); (fld_31, (B ";")); (fld_32, (bs [9]%N)); (fld_33, v_na); (fld_39, v_true)]);
+    ([tok_2; tok_41; tok_64], Some [(fld_0, (B "yaml")); (fld_1, v_na); (fld_2, v_na); (fld_3, v_na); (fld_30, (B "tsv")); (fld_31, (B ";")); (fld_32, (bs [9]%N)); (fld_33, v_na); (fld_37, v_true); (fld_39, v_true)]);
+    ([tok_2; tok_180], Some [(fld_0, (B "yaml")); (fld_1, v_na); (fld_2, v_na); (fld_3, v_na); (fld_30, (B "xtab")); (fld_31, (B ";")); (fld_32, (bs [10]%N)); (fld_33, (B " ")); (fld_39, v_true)]);
+    ([tok_2; tok_41; tok_68], Some [(fld_0, (B "yaml")); (fld_1, v_na); (fld_2, v_na); (fld_3, v_na); (fld_30, (B "xtab")); (fld_31, (B ";")); (fld_32, (bs [10]%N)); (fld_33, (B " ")); (fld_39, v_true)]);
+    ([tok_2; tok_83], Some [(fld_0, (B "yaml")); (fld_1, v_na); (fld_2, v_na); (fld_3, v_na); (fld_30, (B "yaml")); (fld_31, (B ";")); (fld_32, v_na); (fld_33, v_na); (fld_39, v_true); (fld_65, v_false)]);
+    ([tok_2; tok_41; tok_69], Some [(fld_0, (B "yaml")); (fld_1, v_na); (fld_2, v_na); (fld_3, v_na); (fld_30, (B "yaml")); (fld_31, (B ";")); (fld_32, v_na); (fld_33, v_na); (fld_39, v_true); (fld_65, v_false)]);
+    ([tok_2; tok_235], Some [(fld_12, v_true); (fld_31, (B ";")); (fld_39, v_true); (fld_40, v_true)]);
+    ([tok_2; tok_207; tok_204], Some [(fld_12, v_true); (fld_31, (B ";")); (fld_39, v_true); (fld_40, v_true)]);
+    ([tok_2; tok_182], Some [(fld_0, (B "nidx")); (fld_1, (bs [9]%N)); (fld_2, v_na); (fld_8, v_true); (fld_30, (B "nidx")); (fld_31, (B ";")); (fld_32, (bs [9]%N)); (fld_33, v_na); (fld_37, v_true); (fld_39, v_true)]);
+    ([tok_2; tok_49; tok_236; tok_237], Some [(fld_0, (B "nidx")); (fld_1, (bs [9]%N)); (fld_2, v_na); (fld_8, v_true); (fld_30, (B "nidx")); (fld_31, (B ";")); (fld_32, (bs [9]%N)); (fld_33, v_na); (fld_37, v_true); (fld_39, v_true)]);
+    ([tok_2; tok_181], Some [(fld_0, (B "nidx")); (fld_1, (B " ")); (fld_2, v_na); (fld_4, v_true); (fld_8, v_true); (fld_11, v_true); (fld_30, (B "nidx")); (fld_31, (B ";")); (fld_32, (B " ")); (fld_33, v_na); (fld_37, v_true); (fld_39, v_true)]);
+    ([tok_2; tok_49; tok_236; tok_238; tok_239], Some [(fld_0, (B "nidx")); (fld_1, (B " ")); (fld_2, v_na); (fld_4, v_true); (fld_8, v_true); (fld_11, v_true); (fld_30, (B "nidx")); (fld_31, (B ";")); (fld_32, (B " ")); (fld_33, v_na); (fld_37, v_true); (fld_39, v_true)]);
+    ([tok_263], Some [(fld_31, (bs [27]%N)); (fld_39, v_true)]);
+    ([tok_264], Some [(fld_31, (bs [27]%N)); (fld_39, v_true)]);
+    ([tok_265], Some [(fld_31, (bs [3]%N)); (fld_39, v_true)]);
+    ([tok_266], Some [(fld_31, (bs [3]%N)); (fld_39, v_true)]);
+    ([tok_267], Some [(fld_31, (bs [28]%N)); (fld_39, v_true)]);
+    ([tok_268], Some [(fld_31, (bs [28]%N)); (fld_39, v_true)]);
+    ([tok_269], Some [(fld_31, (bs [29]%N)); (fld_39, v_true)]);
+    ([tok_270], Some [(fld_31, (bs [29]%N)); (fld_39, v_true)]);
+    ([tok_271], Some [(fld_31, (bs [0]%N)); (fld_39, v_true)]);
+    ([tok_272], Some [(fld_31, (bs [0]%N)); (fld_39, v_true)]);
+    ([tok_273], Some [(fld_31, (bs [30]%N)); (fld_39, v_true)]);
+    ([tok_274], Some [(fld_31, (bs [30]%N)); (fld_39, v_true)]);
+    ([tok_275], Some [(fld_31, (bs [1]%N)); (fld_39, v_true)]);
+    ([tok_276], Some [(fld_31, (bs [1]%N)); (fld_39, v_true)]);
+    ([tok_277], Some [(fld_31, (bs [2]%N)); (fld_39, v_true)]);
+    ([tok_278], Some [(fld_31, (bs [2]%N)); (fld_39, v_true)]);
+    ([tok_279], Some [(fld_31, (bs [31]%N)); (fld_39, v_true)]);
+    ([tok_280], Some [(fld_31, (bs [31]%N)); (fld_39, v_true)]);
+    ([tok_281], Some [(fld_31, (bs [31]%N)); (fld_39, v_true)]);
+    ([tok_282], Some [(fld_31, (bs [30]%N)); (fld_39, v_true)]);
+    ([tok_283], Some [(fld_31, (B ":")); (fld_39, v_true)]);
+    ([tok_4], Some [(fld_31, (B ":")); (fld_39, v_true)]);
+    ([tok_284], Some [(fld_31, (B ",")); (fld_39, v_true)]);
+    ([tok_285], Some [(fld_31, (B ",")); (fld_39, v_true)]);
+    ([tok_286], Some [(fld_31, (bs [13]%N)); (fld_39, v_true)]);
+    ([tok_287], Some [(fld_31, (bs [13]%N)); (fld_39, v_true)]);
+    ([tok_288], Some [(fld_31, (bs [13;13]%N)); (fld_39, v_true)]);
+    ([tok_289], Some [(fld_31, (bs [13;13]%N)); (fld_39, v_true)]);
+    ([tok_290], Some [(fld_31, (bs [13;10]%N)); (fld_39, v_true)]);
+    ([tok_291], Some [(fld_31, (bs [13;10]%N)); (fld_39, v_true)]);
+    ([tok_292], Some [(fld_31, (bs [13;10;13;10]%N)); (fld_39, v_true)]);
+    ([tok_293], Some [(fld_31, (bs [13;10;13;10]%N)); (fld_39, v_true)]);
+    ([tok_294], Some [(fld_31, (B "=")); (fld_39, v_true)]);
+    ([tok_295], Some [(fld_31, (B "=")); (fld_39, v_true)]);
+    ([tok_296], Some [(fld_39, v_true)]);
+    ([tok_297], Some [(fld_39, v_true)]);
+    ([tok_298], Some [(fld_31, (bs [10;10]%N)); (fld_39, v_true)]);
+    ([tok_299], Some [(fld_31, (bs [10;10]%N)); (fld_39, v_true)]);
+    ([tok_300], Some [(fld_39, v_true)]);
+    ([tok_301], Some [(fld_31, (B "|")); (fld_39, v_true)]);
+    ([tok_302], Some [(fld_31, (B "|")); (fld_39, v_true)]);
+    ([tok_214], Some [(fld_31, (B ";")); (fld_39, v_true)]);
+    ([tok_2], Some [(fld_31, (B ";")); (fld_39, v_true)]);
+    ([tok_303], Some [(fld_31, (B "/")); (fld_39, v_true)]);
+    ([tok_304], Some [(fld_31, (B "/")); (fld_39, v_true)]);
+    ([tok_238], Some [(fld_31, (B " ")); (fld_39, v_true)]);
+    ([tok_305], Some [(fld_31, (B " ")); (fld_39, v_true)]);
+    ([tok_237], Some [(fld_31, (bs [9]%N)); (fld_39, v_true)]);
+    ([tok_306], Some [(fld_31, (bs [9]%N)); (fld_39, v_true)]);
+    ([tok_307], Some [(fld_31, (bs [226;144;159]%N)); (fld_39, v_true)]);
+    ([tok_308], Some [(fld_31, (bs [226;144;159]%N)); (fld_39, v_true)]);
+    ([tok_309], Some [(fld_31, (bs [226;144;158]%N)); (fld_39, v_true)]);
+    ([tok_310], Some [(fld_31, (bs [226;144;158]%N)); (fld_39, v_true)])]);
   (tok_235, [
     ([], Some [(fld_12, v_true); (fld_40, v_true)]);
     ([tok_1; tok_2; tok_3; tok_4], Some [(fld_1, (B ";")); (fld_2, (B ":")); (fld_8, v_true); (fld_9, v_true); (fld_12, v_true); (fld_40, v_true)]);
@@ -2531,114 +4181,6 @@ Definition gen_evals_by_head : list (bytes * list (list bytes * option (list (by
     ([tok_1; tok_2; tok_3; tok_4], None);
     ([tok_5; tok_2; tok_6; tok_4], None);
     ([tok_7; tok_2; tok_8; tok_2], None)]);
-  (tok_1, [
-    ([tok_263], Some [(fld_1, (bs [27]%N)); (fld_8, v_true)]);
-    ([tok_264], Some [(fld_1, (bs [27]%N)); (fld_8, v_true)]);
-    ([tok_265], Some [(fld_1, (bs [3]%N)); (fld_8, v_true)]);
-    ([tok_266], Some [(fld_1, (bs [3]%N)); (fld_8, v_true)]);
-    ([tok_267], Some [(fld_1, (bs [28]%N)); (fld_8, v_true)]);
-    ([tok_268], Some [(fld_1, (bs [28]%N)); (fld_8, v_true)]);
-    ([tok_269], Some [(fld_1, (bs [29]%N)); (fld_8, v_true)]);
-    ([tok_270], Some [(fld_1, (bs [29]%N)); (fld_8, v_true)]);
-    ([tok_271], Some [(fld_1, (bs [0]%N)); (fld_8, v_true)]);
-    ([tok_272], Some [(fld_1, (bs [0]%N)); (fld_8, v_true)]);
-    ([tok_273], Some [(fld_1, (bs [30]%N)); (fld_8, v_true)]);
-    ([tok_274], Some [(fld_1, (bs [30]%N)); (fld_8, v_true)]);
-    ([tok_275], Some [(fld_1, (bs [1]%N)); (fld_8, v_true)]);
-    ([tok_276], Some [(fld_1, (bs [1]%N)); (fld_8, v_true)]);
-    ([tok_277], Some [(fld_1, (bs [2]%N)); (fld_8, v_true)]);
-    ([tok_278], Some [(fld_1, (bs [2]%N)); (fld_8, v_true)]);
-    ([tok_279], Some [(fld_1, (bs [31]%N)); (fld_8, v_true)]);
-    ([tok_280], Some [(fld_1, (bs [31]%N)); (fld_8, v_true)]);
-    ([tok_281], Some [(fld_1, (bs [31]%N)); (fld_8, v_true)]);
-    ([tok_282], Some [(fld_1, (bs [30]%N)); (fld_8, v_true)]);
-    ([tok_283], Some [(fld_1, (B ":")); (fld_8, v_true)]);
-    ([tok_4], Some [(fld_1, (B ":")); (fld_8, v_true)]);
-    ([tok_284], Some [(fld_8, v_true)]);
-    ([tok_285], Some [(fld_8, v_true)]);
-    ([tok_286], Some [(fld_1, (bs [13]%N)); (fld_8, v_true)]);
-    ([tok_287], Some [(fld_1, (bs [13]%N)); (fld_8, v_true)]);
-    ([tok_288], Some [(fld_1, (bs [13;13]%N)); (fld_8, v_true)]);
-    ([tok_289], Some [(fld_1, (bs [13;13]%N)); (fld_8, v_true)]);
-    ([tok_290], Some [(fld_1, (bs [13;10]%N)); (fld_8, v_true)]);
-    ([tok_291], Some [(fld_1, (bs [13;10]%N)); (fld_8, v_true)]);
-    ([tok_292], Some [(fld_1, (bs [13;10;13;10]%N)); (fld_8, v_true)]);
-    ([tok_293], Some [(fld_1, (bs [13;10;13;10]%N)); (fld_8, v_true)]);
-    ([tok_294], Some [(fld_1, (B "=")); (fld_8, v_true)]);
-    ([tok_295], Some [(fld_1, (B "=")); (fld_8, v_true)]);
-    ([tok_296], Some [(fld_1, (bs [10]%N)); (fld_8, v_true)]);
-    ([tok_297], Some [(fld_1, (bs [10]%N)); (fld_8, v_true)]);
-    ([tok_298], Some [(fld_1, (bs [10;10]%N)); (fld_8, v_true)]);
-    ([tok_299], Some [(fld_1, (bs [10;10]%N)); (fld_8, v_true)]);
-    ([tok_300], Some [(fld_1, (bs [10]%N)); (fld_8, v_true)]);
-    ([tok_301], Some [(fld_1, (B "|")); (fld_8, v_true)]);
-    ([tok_302], Some [(fld_1, (B "|")); (fld_8, v_true)]);
-    ([tok_214], Some [(fld_1, (B ";")); (fld_8, v_true)]);
-    ([tok_2], Some [(fld_1, (B ";")); (fld_8, v_true)]);
-    ([tok_303], Some [(fld_1, (B "/")); (fld_8, v_true)]);
-    ([tok_304], Some [(fld_1, (B "/")); (fld_8, v_true)]);
-    ([tok_238], Some [(fld_1, (B " ")); (fld_8, v_true)]);
-    ([tok_305], Some [(fld_1, (B " ")); (fld_8, v_true)]);
-    ([tok_237], Some [(fld_1, (bs [9]%N)); (fld_8, v_true)]);
-    ([tok_306], Some [(fld_1, (bs [9]%N)); (fld_8, v_true)]);
-    ([tok_307], Some [(fld_1, (bs [226;144;159]%N)); (fld_8, v_true)]);
-    ([tok_308], Some [(fld_1, (bs [226;144;159]%N)); (fld_8, v_true)]);
-    ([tok_309], Some [(fld_1, (bs [226;144;158]%N)); (fld_8, v_true)]);
-    ([tok_310], Some [(fld_1, (bs [226;144;158]%N)); (fld_8, v_true)])]);
-  (tok_5, [
-    ([tok_263], Some [(fld_32, (bs [27]%N)); (fld_37, v_true)]);
-    ([tok_264], Some [(fld_32, (bs [27]%N)); (fld_37, v_true)]);
-    ([tok_265], Some [(fld_32, (bs [3]%N)); (fld_37, v_true)]);
-    ([tok_266], Some [(fld_32, (bs [3]%N)); (fld_37, v_true)]);
-    ([tok_267], Some [(fld_32, (bs [28]%N)); (fld_37, v_true)]);
-    ([tok_268], Some [(fld_32, (bs [28]%N)); (fld_37, v_true)]);
-    ([tok_269], Some [(fld_32, (bs [29]%N)); (fld_37, v_true)]);
-    ([tok_270], Some [(fld_32, (bs [29]%N)); (fld_37, v_true)]);
-    ([tok_271], Some [(fld_32, (bs [0]%N)); (fld_37, v_true)]);
-    ([tok_272], Some [(fld_32, (bs [0]%N)); (fld_37, v_true)]);
-    ([tok_273], Some [(fld_32, (bs [30]%N)); (fld_37, v_true)]);
-    ([tok_274], Some [(fld_32, (bs [30]%N)); (fld_37, v_true)]);
-    ([tok_275], Some [(fld_32, (bs [1]%N)); (fld_37, v_true)]);
-    ([tok_276], Some [(fld_32, (bs [1]%N)); (fld_37, v_true)]);
-    ([tok_277], Some [(fld_32, (bs [2]%N)); (fld_37, v_true)]);
-    ([tok_278], Some [(fld_32, (bs [2]%N)); (fld_37, v_true)]);
-    ([tok_279], Some [(fld_32, (bs [31]%N)); (fld_37, v_true)]);
-    ([tok_280], Some [(fld_32, (bs [31]%N)); (fld_37, v_true)]);
-    ([tok_281], Some [(fld_32, (bs [31]%N)); (fld_37, v_true)]);
-    ([tok_282], Some [(fld_32, (bs [30]%N)); (fld_37, v_true)]);
-    ([tok_283], Some [(fld_32, (B ":")); (fld_37, v_true)]);
-    ([tok_4], Some [(fld_32, (B ":")); (fld_37, v_true)]);
-    ([tok_284], Some [(fld_37, v_true)]);
-    ([tok_285], Some [(fld_37, v_true)]);
-    ([tok_286], Some [(fld_32, (bs [13]%N)); (fld_37, v_true)]);
-    ([tok_287], Some [(fld_32, (bs [13]%N)); (fld_37, v_true)]);
-    ([tok_288], Some [(fld_32, (bs [13;13]%N)); (fld_37, v_true)]);
-    ([tok_289], Some [(fld_32, (bs [13;13]%N)); (fld_37, v_true)]);
-    ([tok_290], Some [(fld_32, (bs [13;10]%N)); (fld_37, v_true)]);
-    ([tok_291], Some [(fld_32, (bs [13;10]%N)); (fld_37, v_true)]);
-    ([tok_292], Some [(fld_32, (bs [13;10;13;10]%N)); (fld_37, v_true)]);
-    ([tok_293], Some [(fld_32, (bs [13;10;13;10]%N)); (fld_37, v_true)]);
-    ([tok_294], Some [(fld_32, (B "=")); (fld_37, v_true)]);
-    ([tok_295], Some [(fld_32, (B "=")); (fld_37, v_true)]);
-    ([tok_296], Some [(fld_32, (bs [10]%N)); (fld_37, v_true)]);
-    ([tok_297], Some [(fld_32, (bs [10]%N)); (fld_37, v_true)]);
-    ([tok_298], Some [(fld_32, (bs [10;10]%N)); (fld_37, v_true)]);
-    ([tok_299], Some [(fld_32, (bs [10;10]%N)); (fld_37, v_true)]);
-    ([tok_300], Some [(fld_32, (bs [10]%N)); (fld_37, v_true)]);
-    ([tok_301], Some [(fld_32, (B "|")); (fld_37, v_true)]);
-    ([tok_302], Some [(fld_32, (B "|")); (fld_37, v_true)]);
-    ([tok_214], Some [(fld_32, (B ";")); (fld_37, v_true)]);
-    ([tok_2], Some [(fld_32, (B ";")); (fld_37, v_true)]);
-    ([tok_303], Some [(fld_32, (B "/")); (fld_37, v_true)]);
-    ([tok_304], Some [(fld_32, (B "/")); (fld_37, v_true)]);
-    ([tok_238], Some [(fld_32, (B " ")); (fld_37, v_true)]);
-    ([tok_305], Some [(fld_32, (B " ")); (fld_37, v_true)]);
-    ([tok_237], Some [(fld_32, (bs [9]%N)); (fld_37, v_true)]);
-    ([tok_306], Some [(fld_32, (bs [9]%N)); (fld_37, v_true)]);
-    ([tok_307], Some [(fld_32, (bs [226;144;159]%N)); (fld_37, v_true)]);
-    ([tok_308], Some [(fld_32, (bs [226;144;159]%N)); (fld_37, v_true)]);
-    ([tok_309], Some [(fld_32, (bs [226;144;158]%N)); (fld_37, v_true)]);
-    ([tok_310], Some [(fld_32, (bs [226;144;158]%N)); (fld_37, v_true)])]);
   (tok_236, [
     ([tok_263], Some [(fld_1, (bs [27]%N)); (fld_8, v_true); (fld_32, (bs [27]%N)); (fld_37, v_true)]);
     ([tok_264], Some [(fld_1, (bs [27]%N)); (fld_8, v_true); (fld_32, (bs [27]%N)); (fld_37, v_true)]);
@@ -2693,114 +4235,6 @@ Definition gen_evals_by_head : list (bytes * list (list bytes * option (list (by
     ([tok_308], Some [(fld_1, (bs [226;144;159]%N)); (fld_8, v_true); (fld_32, (bs [226;144;159]%N)); (fld_37, v_true)]);
     ([tok_309], Some [(fld_1, (bs [226;144;158]%N)); (fld_8, v_true); (fld_32, (bs [226;144;158]%N)); (fld_37, v_true)]);
     ([tok_310], Some [(fld_1, (bs [226;144;158]%N)); (fld_8, v_true); (fld_32, (bs [226;144;158]%N)); (fld_37, v_true)])]);
-  (tok_3, [
-    ([tok_263], Some [(fld_2, (bs [27]%N)); (fld_9, v_true)]);
-    ([tok_264], Some [(fld_2, (bs [27]%N)); (fld_9, v_true)]);
-    ([tok_265], Some [(fld_2, (bs [3]%N)); (fld_9, v_true)]);
-    ([tok_266], Some [(fld_2, (bs [3]%N)); (fld_9, v_true)]);
-    ([tok_267], Some [(fld_2, (bs [28]%N)); (fld_9, v_true)]);
-    ([tok_268], Some [(fld_2, (bs [28]%N)); (fld_9, v_true)]);
-    ([tok_269], Some [(fld_2, (bs [29]%N)); (fld_9, v_true)]);
-    ([tok_270], Some [(fld_2, (bs [29]%N)); (fld_9, v_true)]);
-    ([tok_271], Some [(fld_2, (bs [0]%N)); (fld_9, v_true)]);
-    ([tok_272], Some [(fld_2, (bs [0]%N)); (fld_9, v_true)]);
-    ([tok_273], Some [(fld_2, (bs [30]%N)); (fld_9, v_true)]);
-    ([tok_274], Some [(fld_2, (bs [30]%N)); (fld_9, v_true)]);
-    ([tok_275], Some [(fld_2, (bs [1]%N)); (fld_9, v_true)]);
-    ([tok_276], Some [(fld_2, (bs [1]%N)); (fld_9, v_true)]);
-    ([tok_277], Some [(fld_2, (bs [2]%N)); (fld_9, v_true)]);
-    ([tok_278], Some [(fld_2, (bs [2]%N)); (fld_9, v_true)]);
-    ([tok_279], Some [(fld_2, (bs [31]%N)); (fld_9, v_true)]);
-    ([tok_280], Some [(fld_2, (bs [31]%N)); (fld_9, v_true)]);
-    ([tok_281], Some [(fld_2, (bs [31]%N)); (fld_9, v_true)]);
-    ([tok_282], Some [(fld_2, (bs [30]%N)); (fld_9, v_true)]);
-    ([tok_283], Some [(fld_2, (B ":")); (fld_9, v_true)]);
-    ([tok_4], Some [(fld_2, (B ":")); (fld_9, v_true)]);
-    ([tok_284], Some [(fld_2, (B ",")); (fld_9, v_true)]);
-    ([tok_285], Some [(fld_2, (B ",")); (fld_9, v_true)]);
-    ([tok_286], Some [(fld_2, (bs [13]%N)); (fld_9, v_true)]);
-    ([tok_287], Some [(fld_2, (bs [13]%N)); (fld_9, v_true)]);
-    ([tok_288], Some [(fld_2, (bs [13;13]%N)); (fld_9, v_true)]);
-    ([tok_289], Some [(fld_2, (bs [13;13]%N)); (fld_9, v_true)]);
-    ([tok_290], Some [(fld_2, (bs [13;10]%N)); (fld_9, v_true)]);
-    ([tok_291], Some [(fld_2, (bs [13;10]%N)); (fld_9, v_true)]);
-    ([tok_292], Some [(fld_2, (bs [13;10;13;10]%N)); (fld_9, v_true)]);
-    ([tok_293], Some [(fld_2, (bs [13;10;13;10]%N)); (fld_9, v_true)]);
-    ([tok_294], Some [(fld_9, v_true)]);
-    ([tok_295], Some [(fld_9, v_true)]);
-    ([tok_296], Some [(fld_2, (bs [10]%N)); (fld_9, v_true)]);
-    ([tok_297], Some [(fld_2, (bs [10]%N)); (fld_9, v_true)]);
-    ([tok_298], Some [(fld_2, (bs [10;10]%N)); (fld_9, v_true)]);
-    ([tok_299], Some [(fld_2, (bs [10;10]%N)); (fld_9, v_true)]);
-    ([tok_300], Some [(fld_2, (bs [10]%N)); (fld_9, v_true)]);
-    ([tok_301], Some [(fld_2, (B "|")); (fld_9, v_true)]);
-    ([tok_302], Some [(fld_2, (B "|")); (fld_9, v_true)]);
-    ([tok_214], Some [(fld_2, (B ";")); (fld_9, v_true)]);
-    ([tok_2], Some [(fld_2, (B ";")); (fld_9, v_true)]);
-    ([tok_303], Some [(fld_2, (B "/")); (fld_9, v_true)]);
-    ([tok_304], Some [(fld_2, (B "/")); (fld_9, v_true)]);
-    ([tok_238], Some [(fld_2, (B " ")); (fld_9, v_true)]);
-    ([tok_305], Some [(fld_2, (B " ")); (fld_9, v_true)]);
-    ([tok_237], Some [(fld_2, (bs [9]%N)); (fld_9, v_true)]);
-    ([tok_306], Some [(fld_2, (bs [9]%N)); (fld_9, v_true)]);
-    ([tok_307], Some [(fld_2, (bs [226;144;159]%N)); (fld_9, v_true)]);
-    ([tok_308], Some [(fld_2, (bs [226;144;159]%N)); (fld_9, v_true)]);
-    ([tok_309], Some [(fld_2, (bs [226;144;158]%N)); (fld_9, v_true)]);
-    ([tok_310], Some [(fld_2, (bs [226;144;158]%N)); (fld_9, v_true)])]);
-  (tok_6, [
-    ([tok_263], Some [(fld_33, (bs [27]%N)); (fld_38, v_true)]);
-    ([tok_264], Some [(fld_33, (bs [27]%N)); (fld_38, v_true)]);
-    ([tok_265], Some [(fld_33, (bs [3]%N)); (fld_38, v_true)]);
-    ([tok_266], Some [(fld_33, (bs [3]%N)); (fld_38, v_true)]);
-    ([tok_267], Some [(fld_33, (bs [28]%N)); (fld_38, v_true)]);
-    ([tok_268], Some [(fld_33, (bs [28]%N)); (fld_38, v_true)]);
-    ([tok_269], Some [(fld_33, (bs [29]%N)); (fld_38, v_true)]);
-    ([tok_270], Some [(fld_33, (bs [29]%N)); (fld_38, v_true)]);
-    ([tok_271], Some [(fld_33, (bs [0]%N)); (fld_38, v_true)]);
-    ([tok_272], Some [(fld_33, (bs [0]%N)); (fld_38, v_true)]);
-    ([tok_273], Some [(fld_33, (bs [30]%N)); (fld_38, v_true)]);
-    ([tok_274], Some [(fld_33, (bs [30]%N)); (fld_38, v_true)]);
-    ([tok_275], Some [(fld_33, (bs [1]%N)); (fld_38, v_true)]);
-    ([tok_276], Some [(fld_33, (bs [1]%N)); (fld_38, v_true)]);
-    ([tok_277], Some [(fld_33, (bs [2]%N)); (fld_38, v_true)]);
-    ([tok_278], Some [(fld_33, (bs [2]%N)); (fld_38, v_true)]);
-    ([tok_279], Some [(fld_33, (bs [31]%N)); (fld_38, v_true)]);
-    ([tok_280], Some [(fld_33, (bs [31]%N)); (fld_38, v_true)]);
-    ([tok_281], Some [(fld_33, (bs [31]%N)); (fld_38, v_true)]);
-    ([tok_282], Some [(fld_33, (bs [30]%N)); (fld_38, v_true)]);
-    ([tok_283], Some [(fld_33, (B ":")); (fld_38, v_true)]);
-    ([tok_4], Some [(fld_33, (B ":")); (fld_38, v_true)]);
-    ([tok_284], Some [(fld_33, (B ",")); (fld_38, v_true)]);
-    ([tok_285], Some [(fld_33, (B ",")); (fld_38, v_true)]);
-    ([tok_286], Some [(fld_33, (bs [13]%N)); (fld_38, v_true)]);
-    ([tok_287], Some [(fld_33, (bs [13]%N)); (fld_38, v_true)]);
-    ([tok_288], Some [(fld_33, (bs [13;13]%N)); (fld_38, v_true)]);
-    ([tok_289], Some [(fld_33, (bs [13;13]%N)); (fld_38, v_true)]);
-    ([tok_290], Some [(fld_33, (bs [13;10]%N)); (fld_38, v_true)]);
-    ([tok_291], Some [(fld_33, (bs [13;10]%N)); (fld_38, v_true)]);
-    ([tok_292], Some [(fld_33, (bs [13;10;13;10]%N)); (fld_38, v_true)]);
-    ([tok_293], Some [(fld_33, (bs [13;10;13;10]%N)); (fld_38, v_true)]);
-    ([tok_294], Some [(fld_38, v_true)]);
-    ([tok_295], Some [(fld_38, v_true)]);
-    ([tok_296], Some [(fld_33, (bs [10]%N)); (fld_38, v_true)]);
-    ([tok_297], Some [(fld_33, (bs [10]%N)); (fld_38, v_true)]);
-    ([tok_298], Some [(fld_33, (bs [10;10]%N)); (fld_38, v_true)]);
-    ([tok_299], Some [(fld_33, (bs [10;10]%N)); (fld_38, v_true)]);
-    ([tok_300], Some [(fld_33, (bs [10]%N)); (fld_38, v_true)]);
-    ([tok_301], Some [(fld_33, (B "|")); (fld_38, v_true)]);
-    ([tok_302], Some [(fld_33, (B "|")); (fld_38, v_true)]);
-    ([tok_214], Some [(fld_33, (B ";")); (fld_38, v_true)]);
-    ([tok_2], Some [(fld_33, (B ";")); (fld_38, v_true)]);
-    ([tok_303], Some [(fld_33, (B "/")); (fld_38, v_true)]);
-    ([tok_304], Some [(fld_33, (B "/")); (fld_38, v_true)]);
-    ([tok_238], Some [(fld_33, (B " ")); (fld_38, v_true)]);
-    ([tok_305], Some [(fld_33, (B " ")); (fld_38, v_true)]);
-    ([tok_237], Some [(fld_33, (bs [9]%N)); (fld_38, v_true)]);
-    ([tok_306], Some [(fld_33, (bs [9]%N)); (fld_38, v_true)]);
-    ([tok_307], Some [(fld_33, (bs [226;144;159]%N)); (fld_38, v_true)]);
-    ([tok_308], Some [(fld_33, (bs [226;144;159]%N)); (fld_38, v_true)]);
-    ([tok_309], Some [(fld_33, (bs [226;144;158]%N)); (fld_38, v_true)]);
-    ([tok_310], Some [(fld_33, (bs [226;144;158]%N)); (fld_38, v_true)])]);
   (tok_311, [
     ([tok_263], Some [(fld_2, (bs [27]%N)); (fld_9, v_true); (fld_33, (bs [27]%N)); (fld_38, v_true)]);
     ([tok_264], Some [(fld_2, (bs [27]%N)); (fld_9, v_true); (fld_33, (bs [27]%N)); (fld_38, v_true)]);
@@ -2855,114 +4289,6 @@ Definition gen_evals_by_head : list (bytes * list (list bytes * option (list (by
     ([tok_308], Some [(fld_2, (bs [226;144;159]%N)); (fld_9, v_true); (fld_33, (bs [226;144;159]%N)); (fld_38, v_true)]);
     ([tok_309], Some [(fld_2, (bs [226;144;158]%N)); (fld_9, v_true); (fld_33, (bs [226;144;158]%N)); (fld_38, v_true)]);
     ([tok_310], Some [(fld_2, (bs [226;144;158]%N)); (fld_9, v_true); (fld_33, (bs [226;144;158]%N)); (fld_38, v_true)])]);
-  (tok_7, [
-    ([tok_263], Some [(fld_3, (bs [27]%N)); (fld_10, v_true)]);
-    ([tok_264], Some [(fld_3, (bs [27]%N)); (fld_10, v_true)]);
-    ([tok_265], Some [(fld_3, (bs [3]%N)); (fld_10, v_true)]);
-    ([tok_266], Some [(fld_3, (bs [3]%N)); (fld_10, v_true)]);
-    ([tok_267], Some [(fld_3, (bs [28]%N)); (fld_10, v_true)]);
-    ([tok_268], Some [(fld_3, (bs [28]%N)); (fld_10, v_true)]);
-    ([tok_269], Some [(fld_3, (bs [29]%N)); (fld_10, v_true)]);
-    ([tok_270], Some [(fld_3, (bs [29]%N)); (fld_10, v_true)]);
-    ([tok_271], Some [(fld_3, (bs [0]%N)); (fld_10, v_true)]);
-    ([tok_272], Some [(fld_3, (bs [0]%N)); (fld_10, v_true)]);
-    ([tok_273], Some [(fld_3, (bs [30]%N)); (fld_10, v_true)]);
-    ([tok_274], Some [(fld_3, (bs [30]%N)); (fld_10, v_true)]);
-    ([tok_275], Some [(fld_3, (bs [1]%N)); (fld_10, v_true)]);
-    ([tok_276], Some [(fld_3, (bs [1]%N)); (fld_10, v_true)]);
-    ([tok_277], Some [(fld_3, (bs [2]%N)); (fld_10, v_true)]);
-    ([tok_278], Some [(fld_3, (bs [2]%N)); (fld_10, v_true)]);
-    ([tok_279], Some [(fld_3, (bs [31]%N)); (fld_10, v_true)]);
-    ([tok_280], Some [(fld_3, (bs [31]%N)); (fld_10, v_true)]);
-    ([tok_281], Some [(fld_3, (bs [31]%N)); (fld_10, v_true)]);
-    ([tok_282], Some [(fld_3, (bs [30]%N)); (fld_10, v_true)]);
-    ([tok_283], Some [(fld_3, (B ":")); (fld_10, v_true)]);
-    ([tok_4], Some [(fld_3, (B ":")); (fld_10, v_true)]);
-    ([tok_284], Some [(fld_3, (B ",")); (fld_10, v_true)]);
-    ([tok_285], Some [(fld_3, (B ",")); (fld_10, v_true)]);
-    ([tok_286], Some [(fld_3, (bs [13]%N)); (fld_10, v_true)]);
-    ([tok_287], Some [(fld_3, (bs [13]%N)); (fld_10, v_true)]);
-    ([tok_288], Some [(fld_3, (bs [13;13]%N)); (fld_10, v_true)]);
-    ([tok_289], Some [(fld_3, (bs [13;13]%N)); (fld_10, v_true)]);
-    ([tok_290], Some [(fld_3, (bs [13;10]%N)); (fld_10, v_true)]);
-    ([tok_291], Some [(fld_3, (bs [13;10]%N)); (fld_10, v_true)]);
-    ([tok_292], Some [(fld_3, (bs [13;10;13;10]%N)); (fld_10, v_true)]);
-    ([tok_293], Some [(fld_3, (bs [13;10;13;10]%N)); (fld_10, v_true)]);
-    ([tok_294], Some [(fld_3, (B "=")); (fld_10, v_true)]);
-    ([tok_295], Some [(fld_3, (B "=")); (fld_10, v_true)]);
-    ([tok_296], Some [(fld_10, v_true)]);
-    ([tok_297], Some [(fld_10, v_true)]);
-    ([tok_298], Some [(fld_3, (bs [10;10]%N)); (fld_10, v_true)]);
-    ([tok_299], Some [(fld_3, (bs [10;10]%N)); (fld_10, v_true)]);
-    ([tok_300], Some [(fld_10, v_true)]);
-    ([tok_301], Some [(fld_3, (B "|")); (fld_10, v_true)]);
-    ([tok_302], Some [(fld_3, (B "|")); (fld_10, v_true)]);
-    ([tok_214], Some [(fld_3, (B ";")); (fld_10, v_true)]);
-    ([tok_2], Some [(fld_3, (B ";")); (fld_10, v_true)]);
-    ([tok_303], Some [(fld_3, (B "/")); (fld_10, v_true)]);
-    ([tok_304], Some [(fld_3, (B "/")); (fld_10, v_true)]);
-    ([tok_238], Some [(fld_3, (B " ")); (fld_10, v_true)]);
-    ([tok_305], Some [(fld_3, (B " ")); (fld_10, v_true)]);
-    ([tok_237], Some [(fld_3, (bs [9]%N)); (fld_10, v_true)]);
-    ([tok_306], Some [(fld_3, (bs [9]%N)); (fld_10, v_true)]);
-    ([tok_307], Some [(fld_3, (bs [226;144;159]%N)); (fld_10, v_true)]);
-    ([tok_308], Some [(fld_3, (bs [226;144;159]%N)); (fld_10, v_true)]);
-    ([tok_309], Some [(fld_3, (bs [226;144;158]%N)); (fld_10, v_true)]);
-    ([tok_310], Some [(fld_3, (bs [226;144;158]%N)); (fld_10, v_true)])]);
-  (tok_8, [
-    ([tok_263], Some [(fld_31, (bs [27]%N)); (fld_39, v_true)]);
-    ([tok_264], Some [(fld_31, (bs [27]%N)); (fld_39, v_true)]);
-    ([tok_265], Some [(fld_31, (bs [3]%N)); (fld_39, v_true)]);
-    ([tok_266], Some [(fld_31, (bs [3]%N)); (fld_39, v_true)]);
-    ([tok_267], Some [(fld_31, (bs [28]%N)); (fld_39, v_true)]);
-    ([tok_268], Some [(fld_31, (bs [28]%N)); (fld_39, v_true)]);
-    ([tok_269], Some [(fld_31, (bs [29]%N)); (fld_39, v_true)]);
-    ([tok_270], Some [(fld_31, (bs [29]%N)); (fld_39, v_true)]);
-    ([tok_271], Some [(fld_31, (bs [0]%N)); (fld_39, v_true)]);
-    ([tok_272], Some [(fld_31, (bs [0]%N)); (fld_39, v_true)]);
-    ([tok_273], Some [(fld_31, (bs [30]%N)); (fld_39, v_true)]);
-    ([tok_274], Some [(fld_31, (bs [30]%N)); (fld_39, v_true)]);
-    ([tok_275], Some [(fld_31, (bs [1]%N)); (fld_39, v_true)]);
-    ([tok_276], Some [(fld_31, (bs [1]%N)); (fld_39, v_true)]);
-    ([tok_277], Some [(fld_31, (bs [2]%N)); (fld_39, v_true)]);
-    ([tok_278], Some [(fld_31, (bs [2]%N)); (fld_39, v_true)]);
-    ([tok_279], Some [(fld_31, (bs [31]%N)); (fld_39, v_true)]);
-    ([tok_280], Some [(fld_31, (bs [31]%N)); (fld_39, v_true)]);
-    ([tok_281], Some [(fld_31, (bs [31]%N)); (fld_39, v_true)]);
-    ([tok_282], Some [(fld_31, (bs [30]%N)); (fld_39, v_true)]);
-    ([tok_283], Some [(fld_31, (B ":")); (fld_39, v_true)]);
-    ([tok_4], Some [(fld_31, (B ":")); (fld_39, v_true)]);
-    ([tok_284], Some [(fld_31, (B ",")); (fld_39, v_true)]);
-    ([tok_285], Some [(fld_31, (B ",")); (fld_39, v_true)]);
-    ([tok_286], Some [(fld_31, (bs [13]%N)); (fld_39, v_true)]);
-    ([tok_287], Some [(fld_31, (bs [13]%N)); (fld_39, v_true)]);
-    ([tok_288], Some [(fld_31, (bs [13;13]%N)); (fld_39, v_true)]);
-    ([tok_289], Some [(fld_31, (bs [13;13]%N)); (fld_39, v_true)]);
-    ([tok_290], Some [(fld_31, (bs [13;10]%N)); (fld_39, v_true)]);
-    ([tok_291], Some [(fld_31, (bs [13;10]%N)); (fld_39, v_true)]);
-    ([tok_292], Some [(fld_31, (bs [13;10;13;10]%N)); (fld_39, v_true)]);
-    ([tok_293], Some [(fld_31, (bs [13;10;13;10]%N)); (fld_39, v_true)]);
-    ([tok_294], Some [(fld_31, (B "=")); (fld_39, v_true)]);
-    ([tok_295], Some [(fld_31, (B "=")); (fld_39, v_true)]);
-    ([tok_296], Some [(fld_39, v_true)]);
-    ([tok_297], Some [(fld_39, v_true)]);
-    ([tok_298], Some [(fld_31, (bs [10;10]%N)); (fld_39, v_true)]);
-    ([tok_299], Some [(fld_31, (bs [10;10]%N)); (fld_39, v_true)]);
-    ([tok_300], Some [(fld_39, v_true)]);
-    ([tok_301], Some [(fld_31, (B "|")); (fld_39, v_true)]);
-    ([tok_302], Some [(fld_31, (B "|")); (fld_39, v_true)]);
-    ([tok_214], Some [(fld_31, (B ";")); (fld_39, v_true)]);
-    ([tok_2], Some [(fld_31, (B ";")); (fld_39, v_true)]);
-    ([tok_303], Some [(fld_31, (B "/")); (fld_39, v_true)]);
-    ([tok_304], Some [(fld_31, (B "/")); (fld_39, v_true)]);
-    ([tok_238], Some [(fld_31, (B " ")); (fld_39, v_true)]);
-    ([tok_305], Some [(fld_31, (B " ")); (fld_39, v_true)]);
-    ([tok_237], Some [(fld_31, (bs [9]%N)); (fld_39, v_true)]);
-    ([tok_306], Some [(fld_31, (bs [9]%N)); (fld_39, v_true)]);
-    ([tok_307], Some [(fld_31, (bs [226;144;159]%N)); (fld_39, v_true)]);
-    ([tok_308], Some [(fld_31, (bs [226;144;159]%N)); (fld_39, v_true)]);
-    ([tok_309], Some [(fld_31, (bs [226;144;158]%N)); (fld_39, v_true)]);
-    ([tok_310], Some [(fld_31, (bs [226;144;158]%N)); (fld_39, v_true)])]);
   (tok_312, [
     ([tok_263], Some [(fld_3, (bs [27]%N)); (fld_10, v_true); (fld_31, (bs [27]%N)); (fld_39, v_true)]);
     ([tok_264], Some [(fld_3, (bs [27]%N)); (fld_10, v_true); (fld_31, (bs [27]%N)); (fld_39, v_true)]);
